@@ -16,2001 +16,1685 @@ Definition terms (ts : list tok) (t : pt) : string :=
   digest (show_toks (Some ts)) ++ " " ++ digest (show_pt (Some t)) ++ " " ++ digest (show_pt (parse ts)).
 Definition terms_full (ts : list tok) (t : pt) : string :=
   show_toks (Some ts) ++ nl ++ show_pt (Some t) ++ nl ++ show_pt (parse ts).
-Eval vm_compute in ("<<<M13>>>" ++ check (runes_of_ascii "
-packet msg_type
-    // packet A { u8 x, }
-    {//	t
-string	packetx @lengthOf( charz )	, @calculatedFrom( """"  )
-repeat char[ 0123456789
-    ]
-    // c
-    int `it's` ,
-    @rightPad (// packet A { u8 x, }
-)
-@tag( 42 )
-    @calculatedFrom( ""`tick`""
-) repeat
-uint16
-falsey  `" ++ [233]%N ++ runes_of_ascii "`
-, i32 Foo , @tag(7 ) u64
-chars@lengthOf(  BodyLength ), i16
-    Z9_@lengthOf(/// triple
-a1 ) ,@lengthOf(leftPad ) lengthOf body ``	, @tag(
-    007 )
-char[
-    10 //x
-]
-_x
-// a // b
-// " ++ [27880; 37322]%N ++ runes_of_ascii "
-@lengthOf(
-    roots )	`
-` , // a // b
-@calculatedFrom(""a\\"" )
-    float64 //	t
-rootA`doc` , string T @calculatedFrom( """" ) , }")).
-Eval vm_compute in ("<<<T13>>>" ++ terms [mkTok 35 "packet" 2 0 false; mkTok 42 "msg_type" 2 7 false; mkTok 44 "// packet A { u8 x, }" 3 4 true; mkTok 2 "{" 4 4 false; mkTok 44 (string_of_bytes [47; 47; 9; 116]%N) 4 5 true; mkTok 15 "string" 5 0 false; mkTok 42 "packetx" 5 7 false; mkTok 7 "@lengthOf(" 5 15 false; mkTok 42 "charz" 5 26 false; mkTok 6 ")" 5 32 false; mkTok 40 "," 5 34 false; mkTok 5 "@calculatedFrom(" 5 36 false; mkTok 31 """""" 5 53 false; mkTok 6 ")" 5 57 false; mkTok 36 "repeat" 6 0 false; mkTok 12 "char[" 6 7 false; mkTok 30 "0123456789" 6 13 false; mkTok 13 "]" 7 4 false; mkTok 44 "// c" 8 4 true; mkTok 42 "int" 9 4 false; mkTok 43 "`it's`" 9 8 false; mkTok 40 "," 9 15 false; mkTok 32 "@rightPad" 10 4 false; mkTok 8 "(" 10 14 false; mkTok 44 "// packet A { u8 x, }" 10 15 true; mkTok 6 ")" 11 0 false; mkTok 9 "@tag(" 12 0 false; mkTok 30 "42" 12 6 false; mkTok 6 ")" 12 9 false; mkTok 5 "@calculatedFrom(" 13 4 false; mkTok 31 """`tick`""" 13 21 false; mkTok 6 ")" 14 0 false; mkTok 36 "repeat" 14 2 false; mkTok 21 "uint16" 15 0 false; mkTok 42 "falsey" 16 0 false; mkTok 43 (string_of_bytes [96; 195; 169; 96]%N) 16 8 false; mkTok 40 "," 17 0 false; mkTok 26 "i32" 17 2 false; mkTok 42 "Foo" 17 6 false; mkTok 40 "," 17 10 false; mkTok 9 "@tag(" 17 12 false; mkTok 30 "7" 17 17 false; mkTok 6 ")" 17 19 false; mkTok 23 "u64" 17 21 false; mkTok 42 "chars" 18 0 false; mkTok 7 "@lengthOf(" 18 5 false; mkTok 42 "BodyLength" 18 17 false; mkTok 6 ")" 18 28 false; mkTok 40 "," 18 29 false; mkTok 25 "i16" 18 31 false; mkTok 42 "Z9_" 19 4 false; mkTok 7 "@lengthOf(" 19 7 false; mkTok 44 "/// triple" 19 17 true; mkTok 42 "a1" 20 0 false; mkTok 6 ")" 20 3 false; mkTok 40 "," 20 5 false; mkTok 7 "@lengthOf(" 20 6 false; mkTok 42 "leftPad" 20 16 false; mkTok 6 ")" 20 24 false; mkTok 42 "lengthOf" 20 26 false; mkTok 42 "body" 20 35 false; mkTok 43 "``" 20 40 false; mkTok 40 "," 20 43 false; mkTok 9 "@tag(" 20 45 false; mkTok 30 "007" 21 4 false; mkTok 6 ")" 21 8 false; mkTok 12 "char[" 22 0 false; mkTok 30 "10" 23 4 false; mkTok 44 "//x" 23 7 true; mkTok 13 "]" 24 0 false; mkTok 42 "_x" 25 0 false; mkTok 44 "// a // b" 26 0 true; mkTok 44 (string_of_bytes [47; 47; 32; 230; 179; 168; 233; 135; 138]%N) 27 0 true; mkTok 7 "@lengthOf(" 28 0 false; mkTok 42 "roots" 29 4 false; mkTok 6 ")" 29 10 false; mkTok 43 (string_of_bytes [96; 10; 96]%N) 29 12 false; mkTok 40 "," 30 2 false; mkTok 44 "// a // b" 30 4 true; mkTok 5 "@calculatedFrom(" 31 0 false; mkTok 31 """a\\""" 31 16 false; mkTok 6 ")" 31 22 false; mkTok 29 "float64" 32 4 false; mkTok 44 (string_of_bytes [47; 47; 9; 116]%N) 32 12 true; mkTok 42 "rootA" 33 0 false; mkTok 43 "`doc`" 33 5 false; mkTok 40 "," 33 11 false; mkTok 15 "string" 33 13 false; mkTok 42 "T" 33 20 false; mkTok 5 "@calculatedFrom(" 33 22 false; mkTok 31 """""" 33 39 false; mkTok 6 ")" 33 42 false; mkTok 40 "," 33 44 false; mkTok 3 "}" 33 46 false; mkTok 0 "<EOF>" 33 47 false] (mkPacket (mkPtok 35 "packet" 2 0 0) (Some (mkPtok 3 "}" 33 46 93)) [(DPacket (mkPacketDef (mkSpan (mkPtok 35 "packet" 2 0 0) (mkPtok 3 "}" 33 46 93)) None (mkPtok 35 "packet" 2 0 0) (mkPtok 42 "msg_type" 2 7 1) (mkPtok 2 "{" 4 4 3) [(mkFieldWithAttr (mkSpan (mkPtok 15 "string" 5 0 5) (mkPtok 40 "," 5 34 10)) [] (LengthField (mkSpan (mkPtok 15 "string" 5 0 5) (mkPtok 40 "," 5 34 10)) (mkLengthFieldDecl (mkSpan (mkPtok 15 "string" 5 0 5) (mkPtok 40 "," 5 34 10)) (Some (TyDynamic (mkSpan (mkPtok 15 "string" 5 0 5) (mkPtok 15 "string" 5 0 5)) (mkDynamicString (mkSpan (mkPtok 15 "string" 5 0 5) (mkPtok 15 "string" 5 0 5)) (mkPtok 15 "string" 5 0 5)))) (mkPtok 42 "packetx" 5 7 6) (mkLengthOf (mkSpan (mkPtok 7 "@lengthOf(" 5 15 7) (mkPtok 6 ")" 5 32 9)) (mkPtok 7 "@lengthOf(" 5 15 7) (mkPtok 42 "charz" 5 26 8) (mkPtok 6 ")" 5 32 9)) None (mkPtok 40 "," 5 34 10)))); (mkFieldWithAttr (mkSpan (mkPtok 5 "@calculatedFrom(" 5 36 11) (mkPtok 40 "," 9 15 21)) [(FACalculatedFrom (mkSpan (mkPtok 5 "@calculatedFrom(" 5 36 11) (mkPtok 6 ")" 5 57 13)) (mkCalculatedFrom (mkSpan (mkPtok 5 "@calculatedFrom(" 5 36 11) (mkPtok 6 ")" 5 57 13)) (mkPtok 5 "@calculatedFrom(" 5 36 11) (mkPtok 31 """""" 5 53 12) (mkPtok 6 ")" 5 57 13)))] (MetaField (mkSpan (mkPtok 36 "repeat" 6 0 14) (mkPtok 40 "," 9 15 21)) (Some (mkPtok 36 "repeat" 6 0 14)) (mkMetaDecl (mkSpan (mkPtok 12 "char[" 6 7 15) (mkPtok 40 "," 9 15 21)) (TyFixed (mkSpan (mkPtok 12 "char[" 6 7 15) (mkPtok 13 "]" 7 4 17)) (mkFixedString (mkSpan (mkPtok 12 "char[" 6 7 15) (mkPtok 13 "]" 7 4 17)) (mkPtok 12 "char[" 6 7 15) (mkPtok 30 "0123456789" 6 13 16) (mkPtok 13 "]" 7 4 17))) (mkPtok 42 "int" 9 4 19) (Some (mkPtok 43 "`it's`" 9 8 20)) (mkPtok 40 "," 9 15 21)))); (mkFieldWithAttr (mkSpan (mkPtok 32 "@rightPad" 10 4 22) (mkPtok 40 "," 17 0 36)) [(FAPadding (mkSpan (mkPtok 32 "@rightPad" 10 4 22) (mkPtok 6 ")" 11 0 25)) (mkPaddingAttr (mkSpan (mkPtok 32 "@rightPad" 10 4 22) (mkPtok 6 ")" 11 0 25)) (mkPtok 32 "@rightPad" 10 4 22) (mkPtok 8 "(" 10 14 23) None (mkPtok 6 ")" 11 0 25))); (FATag (mkSpan (mkPtok 9 "@tag(" 12 0 26) (mkPtok 6 ")" 12 9 28)) (mkTagAttr (mkSpan (mkPtok 9 "@tag(" 12 0 26) (mkPtok 6 ")" 12 9 28)) (mkPtok 9 "@tag(" 12 0 26) (mkPtok 30 "42" 12 6 27) (mkPtok 6 ")" 12 9 28))); (FACalculatedFrom (mkSpan (mkPtok 5 "@calculatedFrom(" 13 4 29) (mkPtok 6 ")" 14 0 31)) (mkCalculatedFrom (mkSpan (mkPtok 5 "@calculatedFrom(" 13 4 29) (mkPtok 6 ")" 14 0 31)) (mkPtok 5 "@calculatedFrom(" 13 4 29) (mkPtok 31 """`tick`""" 13 21 30) (mkPtok 6 ")" 14 0 31)))] (MetaField (mkSpan (mkPtok 36 "repeat" 14 2 32) (mkPtok 40 "," 17 0 36)) (Some (mkPtok 36 "repeat" 14 2 32)) (mkMetaDecl (mkSpan (mkPtok 21 "uint16" 15 0 33) (mkPtok 40 "," 17 0 36)) (TyBasic (mkSpan (mkPtok 21 "uint16" 15 0 33) (mkPtok 21 "uint16" 15 0 33)) (mkBasicType (mkSpan (mkPtok 21 "uint16" 15 0 33) (mkPtok 21 "uint16" 15 0 33)) (mkPtok 21 "uint16" 15 0 33))) (mkPtok 42 "falsey" 16 0 34) (Some (mkPtok 43 (string_of_bytes [96; 195; 169; 96]%N) 16 8 35)) (mkPtok 40 "," 17 0 36)))); (mkFieldWithAttr (mkSpan (mkPtok 26 "i32" 17 2 37) (mkPtok 40 "," 17 10 39)) [] (MetaField (mkSpan (mkPtok 26 "i32" 17 2 37) (mkPtok 40 "," 17 10 39)) None (mkMetaDecl (mkSpan (mkPtok 26 "i32" 17 2 37) (mkPtok 40 "," 17 10 39)) (TyBasic (mkSpan (mkPtok 26 "i32" 17 2 37) (mkPtok 26 "i32" 17 2 37)) (mkBasicType (mkSpan (mkPtok 26 "i32" 17 2 37) (mkPtok 26 "i32" 17 2 37)) (mkPtok 26 "i32" 17 2 37))) (mkPtok 42 "Foo" 17 6 38) None (mkPtok 40 "," 17 10 39)))); (mkFieldWithAttr (mkSpan (mkPtok 9 "@tag(" 17 12 40) (mkPtok 40 "," 18 29 48)) [(FATag (mkSpan (mkPtok 9 "@tag(" 17 12 40) (mkPtok 6 ")" 17 19 42)) (mkTagAttr (mkSpan (mkPtok 9 "@tag(" 17 12 40) (mkPtok 6 ")" 17 19 42)) (mkPtok 9 "@tag(" 17 12 40) (mkPtok 30 "7" 17 17 41) (mkPtok 6 ")" 17 19 42)))] (LengthField (mkSpan (mkPtok 23 "u64" 17 21 43) (mkPtok 40 "," 18 29 48)) (mkLengthFieldDecl (mkSpan (mkPtok 23 "u64" 17 21 43) (mkPtok 40 "," 18 29 48)) (Some (TyBasic (mkSpan (mkPtok 23 "u64" 17 21 43) (mkPtok 23 "u64" 17 21 43)) (mkBasicType (mkSpan (mkPtok 23 "u64" 17 21 43) (mkPtok 23 "u64" 17 21 43)) (mkPtok 23 "u64" 17 21 43)))) (mkPtok 42 "chars" 18 0 44) (mkLengthOf (mkSpan (mkPtok 7 "@lengthOf(" 18 5 45) (mkPtok 6 ")" 18 28 47)) (mkPtok 7 "@lengthOf(" 18 5 45) (mkPtok 42 "BodyLength" 18 17 46) (mkPtok 6 ")" 18 28 47)) None (mkPtok 40 "," 18 29 48)))); (mkFieldWithAttr (mkSpan (mkPtok 25 "i16" 18 31 49) (mkPtok 40 "," 20 5 55)) [] (LengthField (mkSpan (mkPtok 25 "i16" 18 31 49) (mkPtok 40 "," 20 5 55)) (mkLengthFieldDecl (mkSpan (mkPtok 25 "i16" 18 31 49) (mkPtok 40 "," 20 5 55)) (Some (TyBasic (mkSpan (mkPtok 25 "i16" 18 31 49) (mkPtok 25 "i16" 18 31 49)) (mkBasicType (mkSpan (mkPtok 25 "i16" 18 31 49) (mkPtok 25 "i16" 18 31 49)) (mkPtok 25 "i16" 18 31 49)))) (mkPtok 42 "Z9_" 19 4 50) (mkLengthOf (mkSpan (mkPtok 7 "@lengthOf(" 19 7 51) (mkPtok 6 ")" 20 3 54)) (mkPtok 7 "@lengthOf(" 19 7 51) (mkPtok 42 "a1" 20 0 53) (mkPtok 6 ")" 20 3 54)) None (mkPtok 40 "," 20 5 55)))); (mkFieldWithAttr (mkSpan (mkPtok 7 "@lengthOf(" 20 6 56) (mkPtok 40 "," 20 43 62)) [(FALengthOf (mkSpan (mkPtok 7 "@lengthOf(" 20 6 56) (mkPtok 6 ")" 20 24 58)) (mkLengthOf (mkSpan (mkPtok 7 "@lengthOf(" 20 6 56) (mkPtok 6 ")" 20 24 58)) (mkPtok 7 "@lengthOf(" 20 6 56) (mkPtok 42 "leftPad" 20 16 57) (mkPtok 6 ")" 20 24 58)))] (ObjectField (mkSpan (mkPtok 42 "lengthOf" 20 26 59) (mkPtok 40 "," 20 43 62)) None (mkPtok 42 "lengthOf" 20 26 59) (Some (mkPtok 42 "body" 20 35 60)) (Some (mkPtok 43 "``" 20 40 61)) (mkPtok 40 "," 20 43 62))); (mkFieldWithAttr (mkSpan (mkPtok 9 "@tag(" 20 45 63) (mkPtok 40 "," 30 2 77)) [(FATag (mkSpan (mkPtok 9 "@tag(" 20 45 63) (mkPtok 6 ")" 21 8 65)) (mkTagAttr (mkSpan (mkPtok 9 "@tag(" 20 45 63) (mkPtok 6 ")" 21 8 65)) (mkPtok 9 "@tag(" 20 45 63) (mkPtok 30 "007" 21 4 64) (mkPtok 6 ")" 21 8 65)))] (LengthField (mkSpan (mkPtok 12 "char[" 22 0 66) (mkPtok 40 "," 30 2 77)) (mkLengthFieldDecl (mkSpan (mkPtok 12 "char[" 22 0 66) (mkPtok 40 "," 30 2 77)) (Some (TyFixed (mkSpan (mkPtok 12 "char[" 22 0 66) (mkPtok 13 "]" 24 0 69)) (mkFixedString (mkSpan (mkPtok 12 "char[" 22 0 66) (mkPtok 13 "]" 24 0 69)) (mkPtok 12 "char[" 22 0 66) (mkPtok 30 "10" 23 4 67) (mkPtok 13 "]" 24 0 69)))) (mkPtok 42 "_x" 25 0 70) (mkLengthOf (mkSpan (mkPtok 7 "@lengthOf(" 28 0 73) (mkPtok 6 ")" 29 10 75)) (mkPtok 7 "@lengthOf(" 28 0 73) (mkPtok 42 "roots" 29 4 74) (mkPtok 6 ")" 29 10 75)) (Some (mkPtok 43 (string_of_bytes [96; 10; 96]%N) 29 12 76)) (mkPtok 40 "," 30 2 77)))); (mkFieldWithAttr (mkSpan (mkPtok 5 "@calculatedFrom(" 31 0 79) (mkPtok 40 "," 33 11 86)) [(FACalculatedFrom (mkSpan (mkPtok 5 "@calculatedFrom(" 31 0 79) (mkPtok 6 ")" 31 22 81)) (mkCalculatedFrom (mkSpan (mkPtok 5 "@calculatedFrom(" 31 0 79) (mkPtok 6 ")" 31 22 81)) (mkPtok 5 "@calculatedFrom(" 31 0 79) (mkPtok 31 """a\\""" 31 16 80) (mkPtok 6 ")" 31 22 81)))] (MetaField (mkSpan (mkPtok 29 "float64" 32 4 82) (mkPtok 40 "," 33 11 86)) None (mkMetaDecl (mkSpan (mkPtok 29 "float64" 32 4 82) (mkPtok 40 "," 33 11 86)) (TyBasic (mkSpan (mkPtok 29 "float64" 32 4 82) (mkPtok 29 "float64" 32 4 82)) (mkBasicType (mkSpan (mkPtok 29 "float64" 32 4 82) (mkPtok 29 "float64" 32 4 82)) (mkPtok 29 "float64" 32 4 82))) (mkPtok 42 "rootA" 33 0 84) (Some (mkPtok 43 "`doc`" 33 5 85)) (mkPtok 40 "," 33 11 86)))); (mkFieldWithAttr (mkSpan (mkPtok 15 "string" 33 13 87) (mkPtok 40 "," 33 44 92)) [] (CheckSumField (mkSpan (mkPtok 15 "string" 33 13 87) (mkPtok 40 "," 33 44 92)) (mkChecksumFieldDecl (mkSpan (mkPtok 15 "string" 33 13 87) (mkPtok 40 "," 33 44 92)) (Some (TyDynamic (mkSpan (mkPtok 15 "string" 33 13 87) (mkPtok 15 "string" 33 13 87)) (mkDynamicString (mkSpan (mkPtok 15 "string" 33 13 87) (mkPtok 15 "string" 33 13 87)) (mkPtok 15 "string" 33 13 87)))) (mkPtok 42 "T" 33 20 88) (mkCalculatedFrom (mkSpan (mkPtok 5 "@calculatedFrom(" 33 22 89) (mkPtok 6 ")" 33 42 91)) (mkPtok 5 "@calculatedFrom(" 33 22 89) (mkPtok 31 """""" 33 39 90) (mkPtok 6 ")" 33 42 91)) None (mkPtok 40 "," 33 44 92))))] (mkPtok 3 "}" 33 46 93)))])).
-Eval vm_compute in ("<<<M45>>>" ++ check (runes_of_ascii "packet rootA { @rightPad( ' ') repeat
-    Z9_ roots
-``,	zchar
-tag `two words` , @rightPad ( ' '
-    )
-len {
-// trailing space 
-//x
-u128
-`doc` ,u8x
-    ,  char[ 0123456789 // a // b
-]calculatedFrom  `" ++ [28040; 24687; 31867; 22411]%N ++ runes_of_ascii "`,msg_type
-@lengthOf(
-falsey)`u8 x,` , } ,
-@calculatedFrom( """"	)	f64 charz
-@lengthOf(msg_type) `it's`// trailing space 
-,
-    }
+Eval vm_compute in ("<<<M13>>>" ++ check (runes_of_ascii "options
+{ matchKey= ""x y"";len =
+'\x00' }
 ")).
-Eval vm_compute in ("<<<M77>>>" ++ check (runes_of_ascii "MetaData calculatedFrom { // @lengthOf(
-tag a1
-, uint8 _x`crlf
-line`,
-// " ++ [27880; 37322]%N ++ runes_of_ascii "
-// packet A { u8 x, }
-string
-    Z9_ ,uint8x A`line1
-line2` ,char falsey , packetx Foo
-,  }
-MetaData body {
-string x_y_z``
-    , falsey zchar `line1
-line2` , } options{ }
-")).
-Eval vm_compute in ("<<<M109>>>" ++ check (runes_of_ascii "packet
-uint8x {match Pad as// " ++ [128512]%N ++ runes_of_ascii " emoji
-repeatCount{ [0 ] :
-lengthOf ,[""// no comment"" ] :
-metadata ,} , metadata
-// trailing space 
-//
-, zchar[/// triple
-1
-] trueish//	t
-, @calculatedFrom(""a\""b"" ) match//x
-roots as f32a { 4294967296
-: i64_ , ""it's""
-: a1 , [
-    // trailing space 
-    00	,
-    0123456789 ] : As ,
-255 : Packet , ""{,}"" :
-T/// triple
-0
-    :
-falsey } ,
-    body @calculatedFrom( ""\n""
-    // trailing space 
-    ) , @calculatedFrom( """ ++ [128512]%N ++ runes_of_ascii """ )	@tag(
-10 ) char[ 10 ]
-    trueish `doc` ,	@tag( 255 ) repeat
-    Z9_ { asx chars`// not a comment` , } , @lengthOf(Packet ) u16
-    crc , }
-    // `tick` ""quote"" 'q'
-    options
-{ BodyLength =
-    i32 ; x// " ++ [128512]%N ++ runes_of_ascii " emoji
-=
-255
-    ; u= 3 } options
-{ }
-packet
-    calculatedFrom {	}
-    //x
-    root
-packet Header {
-    Pad {
-repeatCount ,  uint16 zchar , match msg_type
-as
-pack
-    /// triple
-    {	""abc"" : repeatCount , ""{,}"" : repeatCount""a	b""	: calculatedFrom},
-repeat string
-Logon `a\` , }
-,@lengthOf( x_y_z
-    ) match
-tag as repeatCount { 007 :  BodyLength , [
-    //	t
-    """ ++ [28040; 24687]%N ++ runes_of_ascii """ ] :
-BodyLength 42: string_ ""// no comment""
-// trailing space 
-/// triple
-: //
-Z9_ , 4294967296:
-    // " ++ [128512]%N ++ runes_of_ascii " emoji
-    _x
-    } , f64 u `it's` , zchar[ 00] f32a `doc` ,match
-    i64_
-    as Logon
-    { 4294967296// a // b
-:
-metadata ,
-}
-, char[1 ]Pad
-, zchar[  0123456789 ] float // @lengthOf(
-`` , }
-
-")).
-Eval vm_compute in ("<<<M141>>>" ++ check (runes_of_ascii "MetaData pack { f64 A `{ , }` ,}
-
-")).
-Eval vm_compute in ("<<<M173>>>" ++ check (runes_of_ascii "packet A {
-@lengthOf(
-    lengthOf)int16 packetx // trailing space 
-@calculatedFrom(""1"" )
-    , repeat u64 Packet`
-` , match trueish as /// triple
-roots { 3
-: A ,""x y""
-// " ++ [27880; 37322]%N ++ runes_of_ascii "
-//
-:
-BodyLength
-    //
-    ,
-    42:Foo  , },
-} packet As	{
-    msg_type @lengthOf(
-    /// triple
-    u )
-    , }root packet
-    zchar
-    {i8i8 i8i8
-`
-` ,zchar
-    {int8	Foo
-`a\`  , },
-    f32 pack @lengthOf(
-crc
-// packet A { u8 x, }
-// c
-) , @calculatedFrom( ""{,}""	) // " ++ [27880; 37322]%N ++ runes_of_ascii "
-match crc as
-roots { 65535 : int ""packet""
-:  float ,00 : zchar
-// packet A { u8 x, }
-// `tick` ""quote"" 'q'
-, [ ""x y""] :
-options1, ""it's""
-:x, } , @lengthOf(
-Packet)
-    match x
-    //	t
-    as As{ //	t
-0: lengthOf
-,
-    //	t
-    3 : pack , ""it's""  : x_y_z ,
-""a\""b"" : metadata
-} , uint16
-    i8i8, } // a // b")).
-Eval vm_compute in ("<<<M205>>>" ++ check (runes_of_ascii "MetaData
-    //x
-    body
-    // a // b
-    { BodyLength stringy ,
-    //	t
-    zchar[ 42 ] o
-    ,
-i64_ lengthOf `{ , }` ,u8 MetaDataX  , }")).
-Eval vm_compute in ("<<<M237>>>" ++ check (runes_of_ascii "
-packet
-Z9_  { } packet T
-{
-repeat
-    charz {match float as // " ++ [128512]%N ++ runes_of_ascii " emoji
-stringy {00 : f32a [ 00
-    //x
-    , 00 ,""a\\""
-// packet A { u8 x, }
-// a // b
-, 0 ,	7, 0 ] : As , } ,//	t
-uint32 asx ,
-//
-/// triple
-repeat u8x {
-    repeat
-//x
-//
-u8 string_ ,
-} , } , }
-")).
-Eval vm_compute in ("<<<T237>>>" ++ terms [mkTok 35 "packet" 2 0 false; mkTok 42 "Z9_" 3 0 false; mkTok 2 "{" 3 5 false; mkTok 3 "}" 3 7 false; mkTok 35 "packet" 3 9 false; mkTok 42 "T" 3 16 false; mkTok 2 "{" 4 0 false; mkTok 36 "repeat" 5 0 false; mkTok 42 "charz" 6 4 false; mkTok 2 "{" 6 10 false; mkTok 38 "match" 6 11 false; mkTok 42 "float" 6 17 false; mkTok 17 "as" 6 23 false; mkTok 44 (string_of_bytes [47; 47; 32; 240; 159; 152; 128; 32; 101; 109; 111; 106; 105]%N) 6 26 true; mkTok 42 "stringy" 7 0 false; mkTok 2 "{" 7 8 false; mkTok 30 "00" 7 9 false; mkTok 39 ":" 7 12 false; mkTok 42 "f32a" 7 14 false; mkTok 18 "[" 7 19 false; mkTok 30 "00" 7 21 false; mkTok 44 "//x" 8 4 true; mkTok 40 "," 9 4 false; mkTok 30 "00" 9 6 false; mkTok 40 "," 9 9 false; mkTok 31 """a\\""" 9 10 false; mkTok 44 "// packet A { u8 x, }" 10 0 true; mkTok 44 "// a // b" 11 0 true; mkTok 40 "," 12 0 false; mkTok 30 "0" 12 2 false; mkTok 40 "," 12 4 false; mkTok 30 "7" 12 6 false; mkTok 40 "," 12 7 false; mkTok 30 "0" 12 9 false; mkTok 13 "]" 12 11 false; mkTok 39 ":" 12 13 false; mkTok 42 "As" 12 15 false; mkTok 40 "," 12 18 false; mkTok 3 "}" 12 20 false; mkTok 40 "," 12 22 false; mkTok 44 (string_of_bytes [47; 47; 9; 116]%N) 12 23 true; mkTok 22 "uint32" 13 0 false; mkTok 42 "asx" 13 7 false; mkTok 40 "," 13 11 false; mkTok 44 "//" 14 0 true; mkTok 44 "/// triple" 15 0 true; mkTok 36 "repeat" 16 0 false; mkTok 42 "u8x" 16 7 false; mkTok 2 "{" 16 11 false; mkTok 36 "repeat" 17 4 false; mkTok 44 "//x" 18 0 true; mkTok 44 "//" 19 0 true; mkTok 20 "u8" 20 0 false; mkTok 42 "string_" 20 3 false; mkTok 40 "," 20 11 false; mkTok 3 "}" 21 0 false; mkTok 40 "," 21 2 false; mkTok 3 "}" 21 4 false; mkTok 40 "," 21 6 false; mkTok 3 "}" 21 8 false; mkTok 0 "<EOF>" 22 0 false] (mkPacket (mkPtok 35 "packet" 2 0 0) (Some (mkPtok 3 "}" 21 8 59)) [(DPacket (mkPacketDef (mkSpan (mkPtok 35 "packet" 2 0 0) (mkPtok 3 "}" 3 7 3)) None (mkPtok 35 "packet" 2 0 0) (mkPtok 42 "Z9_" 3 0 1) (mkPtok 2 "{" 3 5 2) [] (mkPtok 3 "}" 3 7 3))); (DPacket (mkPacketDef (mkSpan (mkPtok 35 "packet" 3 9 4) (mkPtok 3 "}" 21 8 59)) None (mkPtok 35 "packet" 3 9 4) (mkPtok 42 "T" 3 16 5) (mkPtok 2 "{" 4 0 6) [(mkFieldWithAttr (mkSpan (mkPtok 36 "repeat" 5 0 7) (mkPtok 40 "," 21 6 58)) [] (InerObjectField (mkSpan (mkPtok 36 "repeat" 5 0 7) (mkPtok 40 "," 21 6 58)) (Some (mkPtok 36 "repeat" 5 0 7)) (InerObjectDecl (mkSpan (mkPtok 42 "charz" 6 4 8) (mkPtok 3 "}" 21 4 57)) (mkPtok 42 "charz" 6 4 8) (mkPtok 2 "{" 6 10 9) [(MatchField (mkSpan (mkPtok 38 "match" 6 11 10) (mkPtok 40 "," 12 22 39)) (mkMatchFieldDecl (mkSpan (mkPtok 38 "match" 6 11 10) (mkPtok 3 "}" 12 20 38)) (mkPtok 38 "match" 6 11 10) (mkPtok 42 "float" 6 17 11) (mkPtok 17 "as" 6 23 12) (mkPtok 42 "stringy" 7 0 14) (mkPtok 2 "{" 7 8 15) [(mkMatchPair (mkSpan (mkPtok 30 "00" 7 9 16) (mkPtok 42 "f32a" 7 14 18)) (MKDigits (mkPtok 30 "00" 7 9 16)) (mkPtok 39 ":" 7 12 17) (mkPtok 42 "f32a" 7 14 18) None); (mkMatchPair (mkSpan (mkPtok 18 "[" 7 19 19) (mkPtok 40 "," 12 18 37)) (MKList (mkKeyList (mkSpan (mkPtok 18 "[" 7 19 19) (mkPtok 13 "]" 12 11 34)) (mkPtok 18 "[" 7 19 19) (mkPtok 30 "00" 7 21 20) [((mkPtok 40 "," 9 4 22), (mkPtok 30 "00" 9 6 23)); ((mkPtok 40 "," 9 9 24), (mkPtok 31 """a\\""" 9 10 25)); ((mkPtok 40 "," 12 0 28), (mkPtok 30 "0" 12 2 29)); ((mkPtok 40 "," 12 4 30), (mkPtok 30 "7" 12 6 31)); ((mkPtok 40 "," 12 7 32), (mkPtok 30 "0" 12 9 33))] (mkPtok 13 "]" 12 11 34))) (mkPtok 39 ":" 12 13 35) (mkPtok 42 "As" 12 15 36) (Some (mkPtok 40 "," 12 18 37)))] (mkPtok 3 "}" 12 20 38)) (mkPtok 40 "," 12 22 39)); (MetaField (mkSpan (mkPtok 22 "uint32" 13 0 41) (mkPtok 40 "," 13 11 43)) None (mkMetaDecl (mkSpan (mkPtok 22 "uint32" 13 0 41) (mkPtok 40 "," 13 11 43)) (TyBasic (mkSpan (mkPtok 22 "uint32" 13 0 41) (mkPtok 22 "uint32" 13 0 41)) (mkBasicType (mkSpan (mkPtok 22 "uint32" 13 0 41) (mkPtok 22 "uint32" 13 0 41)) (mkPtok 22 "uint32" 13 0 41))) (mkPtok 42 "asx" 13 7 42) None (mkPtok 40 "," 13 11 43))); (InerObjectField (mkSpan (mkPtok 36 "repeat" 16 0 46) (mkPtok 40 "," 21 2 56)) (Some (mkPtok 36 "repeat" 16 0 46)) (InerObjectDecl (mkSpan (mkPtok 42 "u8x" 16 7 47) (mkPtok 3 "}" 21 0 55)) (mkPtok 42 "u8x" 16 7 47) (mkPtok 2 "{" 16 11 48) [(MetaField (mkSpan (mkPtok 36 "repeat" 17 4 49) (mkPtok 40 "," 20 11 54)) (Some (mkPtok 36 "repeat" 17 4 49)) (mkMetaDecl (mkSpan (mkPtok 20 "u8" 20 0 52) (mkPtok 40 "," 20 11 54)) (TyBasic (mkSpan (mkPtok 20 "u8" 20 0 52) (mkPtok 20 "u8" 20 0 52)) (mkBasicType (mkSpan (mkPtok 20 "u8" 20 0 52) (mkPtok 20 "u8" 20 0 52)) (mkPtok 20 "u8" 20 0 52))) (mkPtok 42 "string_" 20 3 53) None (mkPtok 40 "," 20 11 54)))] (mkPtok 3 "}" 21 0 55)) (mkPtok 40 "," 21 2 56))] (mkPtok 3 "}" 21 4 57)) (mkPtok 40 "," 21 6 58)))] (mkPtok 3 "}" 21 8 59)))])).
-Eval vm_compute in ("<<<M269>>>" ++ check (runes_of_ascii "
-
-")).
-Eval vm_compute in ("<<<M301>>>" ++ check (runes_of_ascii "
-root packet	Foo {
-Packet
-{
-u32 chars `{ , }`
-// a // b
-// " ++ [128512]%N ++ runes_of_ascii " emoji
-, zchar[ // " ++ [27880; 37322]%N ++ runes_of_ascii "
-255 ] Foo
-    , } , f32a @lengthOf( MetaDataX ) `doc` , As`say ""hi""`
-,  char[] crc @calculatedFrom( """ ++ [28040; 24687]%N ++ runes_of_ascii """
-)`say ""hi""` ,	int32 T//x
-`// not a comment` , @lengthOf( x )
-    //
-    pack
-{  match
-i8i8 as trueish
-    { ""x y"" : BodyLength, [
-// `tick` ""quote"" 'q'
-// packet A { u8 x, }
-""\n""
-    ,007,
-    ""// no comment"" ,
-//x
-// " ++ [128512]%N ++ runes_of_ascii " emoji
-42
-,
-""1"" , 65535// " ++ [128512]%N ++ runes_of_ascii " emoji
-,10 ] :
-    a1 ,[ ""{,}""
-]
-: metadata
-, ""a	b"" : As , }	,
-} ,
-match f32a	as
-    A
-    {""abc"": rootA
-    4294967296 : /// triple
+Eval vm_compute in ("<<<T13>>>" ++ terms [mkTok 1 "options" 1 0 false; mkTok 2 "{" 2 0 false; mkTok 42 "matchKey" 2 2 false; mkTok 4 "=" 2 10 false; mkTok 31 """x y""" 2 12 false; mkTok 41 ";" 2 17 false; mkTok 42 "len" 2 18 false; mkTok 4 "=" 2 22 false; mkTok 33 "'\x00'" 3 0 false; mkTok 3 "}" 3 7 false; mkTok 0 "<EOF>" 4 0 false] (mkPacket (mkPtok 1 "options" 1 0 0) (Some (mkPtok 3 "}" 3 7 9)) [(DOption (mkOptionDef (mkSpan (mkPtok 1 "options" 1 0 0) (mkPtok 3 "}" 3 7 9)) (mkPtok 1 "options" 1 0 0) (mkPtok 2 "{" 2 0 1) [(mkOptionDecl (mkSpan (mkPtok 42 "matchKey" 2 2 2) (mkPtok 41 ";" 2 17 5)) (mkPtok 42 "matchKey" 2 2 2) (mkPtok 4 "=" 2 10 3) (VString (mkSpan (mkPtok 31 """x y""" 2 12 4) (mkPtok 31 """x y""" 2 12 4)) (mkPtok 31 """x y""" 2 12 4)) (Some (mkPtok 41 ";" 2 17 5))); (mkOptionDecl (mkSpan (mkPtok 42 "len" 2 18 6) (mkPtok 33 "'\x00'" 3 0 8)) (mkPtok 42 "len" 2 18 6) (mkPtok 4 "=" 2 22 7) (VPaddingChar (mkSpan (mkPtok 33 "'\x00'" 3 0 8) (mkPtok 33 "'\x00'" 3 0 8)) (mkPtok 33 "'\x00'" 3 0 8)) None)] (mkPtok 3 "}" 3 7 9)))])).
+Eval vm_compute in ("<<<M45>>>" ++ check (runes_of_ascii "root packet // " ++ [27880; 37322]%N ++ runes_of_ascii "
+tag { // trailing space 
+leftPad , }")).
+Eval vm_compute in ("<<<M77>>>" ++ check (runes_of_ascii "options { Pad
+    = char[ 7
+] ;	asx
+= ""CRC32"" ; a1 =	string ;}")).
+Eval vm_compute in ("<<<M109>>>" ++ check (runes_of_ascii "MetaData Foo{ uint64
+uint8x
+`` ,int16
 Z9_
-    // c
-    , [
-007 , ""a\""b""	, 00
-    , 42 ,
-1	,0123456789 ,""x y""
-] : Foo , }, char[ 7 ] i64_
-    `it's` , @lengthOf( pack ) repeat As , } MetaData
-charz	{ u64 asx, } packet x { }MetaData MetaDataX{A a1
-    // " ++ [128512]%N ++ runes_of_ascii " emoji
-    , char[]	x`a\` ,uint16 leftPad , }options
-{
-a1 =
-    42
-; BodyLength	= true
-;
-x_y_z =int16 } 	 ")).
-Eval vm_compute in ("<<<M333>>>" ++ check (runes_of_ascii "
-MetaData roots {
-As  asx , char[1 ] roots
-,
-    // c
-    char[
-    007]
-    matchKey ,/// triple
-zchar[ 1	] len ,x_y_z
-// trailing space 
-/// triple
-u128 , }")).
-Eval vm_compute in ("<<<M365>>>" ++ check (runes_of_ascii "packet  f32a { }packet
-metadata
-{
-@calculatedFrom(
-""\" ++ [233]%N ++ runes_of_ascii """
-) repeat _x { string
-    // a // b
-    falsey , } ,
-@calculatedFrom( ""it's"" ) As leftPad `a\`
-,	@calculatedFrom( ""abc""
-) char[ //	t
-0 ]roots	,  @tag(
-    00 )match Pad as	roots
-{ 10 :x_y_z , 00 :  len [ ""// no comment""	]// a // b
-:  T }
-    , a1 Header `" ++ [233]%N ++ runes_of_ascii "`
-, // " ++ [27880; 37322]%N ++ runes_of_ascii "
-}")).
-Eval vm_compute in ("<<<M397>>>" ++ check (runes_of_ascii "options { x =3
-    matchKey= ""a\""b"" // @lengthOf(
-leftPad	= ""packet"" ; T = zchar[ 65535 ]; } MetaData
-    MetaDataX {} MetaData // " ++ [128512]%N ++ runes_of_ascii " emoji
-repeatCount {u8x Pad	, }
-    packet
-T{ @tag( 42  ) repeat MetaDataX `{ , }`
-    // a // b
-    , // @lengthOf(
-float32 x@lengthOf( u8x  )
-`
-`
-    ,int16 matchKey @calculatedFrom( ""\n""	) `two words` , }packet packetx
-{_x
-@calculatedFrom( ""a\""b""
-)`a\`	,
-} // a // b")).
-Eval vm_compute in ("<<<M429>>>" ++ check (runes_of_ascii "MetaData
-    Header { A float , } MetaData Pad { // trailing space 
-string float `a\` ,
-char[] tag
     ,
-    // packet A { u8 x, }
-    matchKey BodyLength ,char[ 65535 ] Header
-, }")).
-Eval vm_compute in ("<<<M461>>>" ++ check (runes_of_ascii "  packet u { repeat Packet
-    `
-` , string	x @calculatedFrom( ""x y"" )
-`say ""hi""` , @tag( 42) repeat
-stringy
-, match len	as
-    /// triple
-    u {
-[7 ,""it's""// " ++ [27880; 37322]%N ++ runes_of_ascii "
-, 10 ,""a\\"" , 0, ""1""
-] :float ,
-    ""a	b""
-: Foo , }
-// `tick` ""quote"" 'q'
-// c
-, float ,repeat calculatedFrom
-{ uint64
-    body
-,
-    char[] uint8x
-, int32 len ,f32a
-@calculatedFrom( """ ++ [28040; 24687]%N ++ runes_of_ascii """
-)
-, }	, @leftPad ( /// triple
-'\x00'
-    )
-    string
-    body , match// " ++ [128512]%N ++ runes_of_ascii " emoji
-msg_type as
-    As	{	[ """ ++ [128512]%N ++ runes_of_ascii """ ,
-    // packet A { u8 x, }
-    ""abc""
-// @lengthOf(
-/// triple
-]
-    : msg_type // @lengthOf(
-, [0123456789
-    // trailing space 
-    ,  10 ]:
-A, ""1"": Foo , 7:
-    string_ ,	""`tick`"" :	string_ 007	: int, }
-,
+    uint8x i8i8,
 }
-    packet BodyLength
-    {// trailing space 
-match crc as Pad// `tick` ""quote"" 'q'
-{
-    [0123456789 , ""\n"" , ""x y"" ,
-""\n"" , 7
-    , ""1"" ] : // @lengthOf(
-u8x
-, [ 00
-, ""abc"", """ ++ [128512]%N ++ runes_of_ascii """, ""a\\"" ,65535 ]:// " ++ [128512]%N ++ runes_of_ascii " emoji
-pack ,	},
-    @tag( 0 ) leftPad { char[]
-    options1 @lengthOf(	asx
-// a // b
-// " ++ [128512]%N ++ runes_of_ascii " emoji
-) ,char[ 0
-] /// triple
-As `crlf
-line` ,	i64  crc ,
-}
-,
-float64 asx , @leftPad ( // `tick` ""quote"" 'q'
-' ' ) T@calculatedFrom( ""abc""),  }packet As {
-    // " ++ [27880; 37322]%N ++ runes_of_ascii "
-    string i64_ @calculatedFrom( ""\n"")
-    ,@lengthOf( i8i8 )  @lengthOf( asx ) @rightPad('0'/// triple
-)repeat uint64	MetaDataX,tag zchar /// triple
-, @calculatedFrom( ""// no comment"") char[]u @calculatedFrom(// packet A { u8 x, }
-""a\\""
-// " ++ [27880; 37322]%N ++ runes_of_ascii "
-//x
-) `u8 x,`	, // trailing space 
-@calculatedFrom(""" ++ [233]%N ++ runes_of_ascii "t" ++ [233]%N ++ runes_of_ascii """ ) // @lengthOf(
-char[//
-10 ]
-repeatCount `
-` , } packet f32a {
-    Header  o ,
-    } packet chars { @rightPad( '0' ) match
-u128  as u8x {3 : i8i8
-// `tick` ""quote"" 'q'
-//	t
-,
-    255: charz [ 4294967296 , ""x y"",""" ++ [233]%N ++ runes_of_ascii "t" ++ [233]%N ++ runes_of_ascii """ ,
-    ""{,}"" ]	:
-x	,
-    65535 : len }
-, @lengthOf( u8x // " ++ [128512]%N ++ runes_of_ascii " emoji
-)i16 Foo@lengthOf(  u8x // packet A { u8 x, }
-),
-@lengthOf( _x)@leftPad ( ' ' )
+packet Header { @lengthOf(o  ) @rightPad
+    ( '0'  )
+zchar[ 0123456789 ] Z9_,
+} packet	Foo { repeat	uint8 T , }packet packetx
+    // @lengthOf(
+    { }")).
+Eval vm_compute in ("<<<M141>>>" ++ check (runes_of_ascii "// @lengthOf(
+packet repeatCount {	} MetaData o {asx crc , }
+")).
+Eval vm_compute in ("<<<M173>>>" ++ check (@nil rune)).
+Eval vm_compute in ("<<<M205>>>" ++ check (runes_of_ascii "packet stringy { repeat	f32a o`" ++ [28040; 24687; 31867; 22411]%N ++ runes_of_ascii "`
+    , @lengthOf( f32a) /// triple
 char[
-    // `tick` ""quote"" 'q'
-    255  ]
-tag
-    @calculatedFrom( ""it's"" )
-// trailing space 
-//
-, @calculatedFrom("""" ) float32 i64_ `line1
-line2` , repeat string
-    roots,string // trailing space 
-float, @lengthOf( Header ) @tag( 007
-    ) @calculatedFrom( ""abc"" ) match
-zchar  as
-u8x { ""a	b"" : charz , 0 :	len ,
-} ,zchar[ 00]MetaDataX
-    @calculatedFrom(
-    // c
-    ""a\""b""
-) `two words` ,} // `tick` ""quote"" 'q'")).
-Eval vm_compute in ("<<<T461>>>" ++ terms [mkTok 35 "packet" 1 2 false; mkTok 42 "u" 1 9 false; mkTok 2 "{" 1 11 false; mkTok 36 "repeat" 1 13 false; mkTok 42 "Packet" 1 20 false; mkTok 43 (string_of_bytes [96; 10; 96]%N) 2 4 false; mkTok 40 "," 3 2 false; mkTok 15 "string" 3 4 false; mkTok 42 "x" 3 11 false; mkTok 5 "@calculatedFrom(" 3 13 false; mkTok 31 """x y""" 3 30 false; mkTok 6 ")" 3 36 false; mkTok 43 "`say ""hi""`" 4 0 false; mkTok 40 "," 4 11 false; mkTok 9 "@tag(" 4 13 false; mkTok 30 "42" 4 19 false; mkTok 6 ")" 4 21 false; mkTok 36 "repeat" 4 23 false; mkTok 42 "stringy" 5 0 false; mkTok 40 "," 6 0 false; mkTok 38 "match" 6 2 false; mkTok 42 "len" 6 8 false; mkTok 17 "as" 6 12 false; mkTok 44 "/// triple" 7 4 true; mkTok 42 "u" 8 4 false; mkTok 2 "{" 8 6 false; mkTok 18 "[" 9 0 false; mkTok 30 "7" 9 1 false; mkTok 40 "," 9 3 false; mkTok 31 """it's""" 9 4 false; mkTok 44 (string_of_bytes [47; 47; 32; 230; 179; 168; 233; 135; 138]%N) 9 10 true; mkTok 40 "," 10 0 false; mkTok 30 "10" 10 2 false; mkTok 40 "," 10 5 false; mkTok 31 """a\\""" 10 6 false; mkTok 40 "," 10 12 false; mkTok 30 "0" 10 14 false; mkTok 40 "," 10 15 false; mkTok 31 """1""" 10 17 false; mkTok 13 "]" 11 0 false; mkTok 39 ":" 11 2 false; mkTok 42 "float" 11 3 false; mkTok 40 "," 11 9 false; mkTok 31 (string_of_bytes [34; 97; 9; 98; 34]%N) 12 4 false; mkTok 39 ":" 13 0 false; mkTok 42 "Foo" 13 2 false; mkTok 40 "," 13 6 false; mkTok 3 "}" 13 8 false; mkTok 44 "// `tick` ""quote"" 'q'" 14 0 true; mkTok 44 "// c" 15 0 true; mkTok 40 "," 16 0 false; mkTok 42 "float" 16 2 false; mkTok 40 "," 16 8 false; mkTok 36 "repeat" 16 9 false; mkTok 42 "calculatedFrom" 16 16 false; mkTok 2 "{" 17 0 false; mkTok 23 "uint64" 17 2 false; mkTok 42 "body" 18 4 false; mkTok 40 "," 19 0 false; mkTok 16 "char[]" 20 4 false; mkTok 42 "uint8x" 20 11 false; mkTok 40 "," 21 0 false; mkTok 26 "int32" 21 2 false; mkTok 42 "len" 21 8 false; mkTok 40 "," 21 12 false; mkTok 42 "f32a" 21 13 false; mkTok 5 "@calculatedFrom(" 22 0 false; mkTok 31 (string_of_bytes [34; 230; 182; 136; 230; 129; 175; 34]%N) 22 17 false; mkTok 6 ")" 23 0 false; mkTok 40 "," 24 0 false; mkTok 3 "}" 24 2 false; mkTok 40 "," 24 4 false; mkTok 32 "@leftPad" 24 6 false; mkTok 8 "(" 24 15 false; mkTok 44 "/// triple" 24 17 true; mkTok 33 "'\x00'" 25 0 false; mkTok 6 ")" 26 4 false; mkTok 15 "string" 27 4 false; mkTok 42 "body" 28 4 false; mkTok 40 "," 28 9 false; mkTok 38 "match" 28 11 false; mkTok 44 (string_of_bytes [47; 47; 32; 240; 159; 152; 128; 32; 101; 109; 111; 106; 105]%N) 28 16 true; mkTok 42 "msg_type" 29 0 false; mkTok 17 "as" 29 9 false; mkTok 42 "As" 30 4 false; mkTok 2 "{" 30 7 false; mkTok 18 "[" 30 9 false; mkTok 31 (string_of_bytes [34; 240; 159; 152; 128; 34]%N) 30 11 false; mkTok 40 "," 30 15 false; mkTok 44 "// packet A { u8 x, }" 31 4 true; mkTok 31 """abc""" 32 4 false; mkTok 44 "// @lengthOf(" 33 0 true; mkTok 44 "/// triple" 34 0 true; mkTok 13 "]" 35 0 false; mkTok 39 ":" 36 4 false; mkTok 42 "msg_type" 36 6 false; mkTok 44 "// @lengthOf(" 36 15 true; mkTok 40 "," 37 0 false; mkTok 18 "[" 37 2 false; mkTok 30 "0123456789" 37 3 false; mkTok 44 "// trailing space " 38 4 true; mkTok 40 "," 39 4 false; mkTok 30 "10" 39 7 false; mkTok 13 "]" 39 10 false; mkTok 39 ":" 39 11 false; mkTok 42 "A" 40 0 false; mkTok 40 "," 40 1 false; mkTok 31 """1""" 40 3 false; mkTok 39 ":" 40 6 false; mkTok 42 "Foo" 40 8 false; mkTok 40 "," 40 12 false; mkTok 30 "7" 40 14 false; mkTok 39 ":" 40 15 false; mkTok 42 "string_" 41 4 false; mkTok 40 "," 41 12 false; mkTok 31 """`tick`""" 41 14 false; mkTok 39 ":" 41 23 false; mkTok 42 "string_" 41 25 false; mkTok 30 "007" 41 33 false; mkTok 39 ":" 41 37 false; mkTok 42 "int" 41 39 false; mkTok 40 "," 41 42 false; mkTok 3 "}" 41 44 false; mkTok 40 "," 42 0 false; mkTok 3 "}" 43 0 false; mkTok 35 "packet" 44 4 false; mkTok 42 "BodyLength" 44 11 false; mkTok 2 "{" 45 4 false; mkTok 44 "// trailing space " 45 5 true; mkTok 38 "match" 46 0 false; mkTok 42 "crc" 46 6 false; mkTok 17 "as" 46 10 false; mkTok 42 "Pad" 46 13 false; mkTok 44 "// `tick` ""quote"" 'q'" 46 16 true; mkTok 2 "{" 47 0 false; mkTok 18 "[" 48 4 false; mkTok 30 "0123456789" 48 5 false; mkTok 40 "," 48 16 false; mkTok 31 """\n""" 48 18 false; mkTok 40 "," 48 23 false; mkTok 31 """x y""" 48 25 false; mkTok 40 "," 48 31 false; mkTok 31 """\n""" 49 0 false; mkTok 40 "," 49 5 false; mkTok 30 "7" 49 7 false; mkTok 40 "," 50 4 false; mkTok 31 """1""" 50 6 false; mkTok 13 "]" 50 10 false; mkTok 39 ":" 50 12 false; mkTok 44 "// @lengthOf(" 50 14 true; mkTok 42 "u8x" 51 0 false; mkTok 40 "," 52 0 false; mkTok 18 "[" 52 2 false; mkTok 30 "00" 52 4 false; mkTok 40 "," 53 0 false; mkTok 31 """abc""" 53 2 false; mkTok 40 "," 53 7 false; mkTok 31 (string_of_bytes [34; 240; 159; 152; 128; 34]%N) 53 9 false; mkTok 40 "," 53 12 false; mkTok 31 """a\\""" 53 14 false; mkTok 40 "," 53 20 false; mkTok 30 "65535" 53 21 false; mkTok 13 "]" 53 27 false; mkTok 39 ":" 53 28 false; mkTok 44 (string_of_bytes [47; 47; 32; 240; 159; 152; 128; 32; 101; 109; 111; 106; 105]%N) 53 29 true; mkTok 42 "pack" 54 0 false; mkTok 40 "," 54 5 false; mkTok 3 "}" 54 7 false; mkTok 40 "," 54 8 false; mkTok 9 "@tag(" 55 4 false; mkTok 30 "0" 55 10 false; mkTok 6 ")" 55 12 false; mkTok 42 "leftPad" 55 14 false; mkTok 2 "{" 55 22 false; mkTok 16 "char[]" 55 24 false; mkTok 42 "options1" 56 4 false; mkTok 7 "@lengthOf(" 56 13 false; mkTok 42 "asx" 56 24 false; mkTok 44 "// a // b" 57 0 true; mkTok 44 (string_of_bytes [47; 47; 32; 240; 159; 152; 128; 32; 101; 109; 111; 106; 105]%N) 58 0 true; mkTok 6 ")" 59 0 false; mkTok 40 "," 59 2 false; mkTok 12 "char[" 59 3 false; mkTok 30 "0" 59 9 false; mkTok 13 "]" 60 0 false; mkTok 44 "/// triple" 60 2 true; mkTok 42 "As" 61 0 false; mkTok 43 (string_of_bytes [96; 99; 114; 108; 102; 13; 10; 108; 105; 110; 101; 96]%N) 61 3 false; mkTok 40 "," 62 6 false; mkTok 27 "i64" 62 8 false; mkTok 42 "crc" 62 13 false; mkTok 40 "," 62 17 false; mkTok 3 "}" 63 0 false; mkTok 40 "," 64 0 false; mkTok 29 "float64" 65 0 false; mkTok 42 "asx" 65 8 false; mkTok 40 "," 65 12 false; mkTok 32 "@leftPad" 65 14 false; mkTok 8 "(" 65 23 false; mkTok 44 "// `tick` ""quote"" 'q'" 65 25 true; mkTok 33 "' '" 66 0 false; mkTok 6 ")" 66 4 false; mkTok 42 "T" 66 6 false; mkTok 5 "@calculatedFrom(" 66 7 false; mkTok 31 """abc""" 66 24 false; mkTok 6 ")" 66 29 false; mkTok 40 "," 66 30 false; mkTok 3 "}" 66 33 false; mkTok 35 "packet" 66 34 false; mkTok 42 "As" 66 41 false; mkTok 2 "{" 66 44 false; mkTok 44 (string_of_bytes [47; 47; 32; 230; 179; 168; 233; 135; 138]%N) 67 4 true; mkTok 15 "string" 68 4 false; mkTok 42 "i64_" 68 11 false; mkTok 5 "@calculatedFrom(" 68 16 false; mkTok 31 """\n""" 68 33 false; mkTok 6 ")" 68 37 false; mkTok 40 "," 69 4 false; mkTok 7 "@lengthOf(" 69 5 false; mkTok 42 "i8i8" 69 16 false; mkTok 6 ")" 69 21 false; mkTok 7 "@lengthOf(" 69 24 false; mkTok 42 "asx" 69 35 false; mkTok 6 ")" 69 39 false; mkTok 32 "@rightPad" 69 41 false; mkTok 8 "(" 69 50 false; mkTok 33 "'0'" 69 51 false; mkTok 44 "/// triple" 69 54 true; mkTok 6 ")" 70 0 false; mkTok 36 "repeat" 70 1 false; mkTok 23 "uint64" 70 8 false; mkTok 42 "MetaDataX" 70 15 false; mkTok 40 "," 70 24 false; mkTok 42 "tag" 70 25 false; mkTok 42 "zchar" 70 29 false; mkTok 44 "/// triple" 70 35 true; mkTok 40 "," 71 0 false; mkTok 5 "@calculatedFrom(" 71 2 false; mkTok 31 """// no comment""" 71 19 false; mkTok 6 ")" 71 34 false; mkTok 16 "char[]" 71 36 false; mkTok 42 "u" 71 42 false; mkTok 5 "@calculatedFrom(" 71 44 false; mkTok 44 "// packet A { u8 x, }" 71 60 true; mkTok 31 """a\\""" 72 0 false; mkTok 44 (string_of_bytes [47; 47; 32; 230; 179; 168; 233; 135; 138]%N) 73 0 true; mkTok 44 "//x" 74 0 true; mkTok 6 ")" 75 0 false; mkTok 43 "`u8 x,`" 75 2 false; mkTok 40 "," 75 10 false; mkTok 44 "// trailing space " 75 12 true; mkTok 5 "@calculatedFrom(" 76 0 false; mkTok 31 (string_of_bytes [34; 195; 169; 116; 195; 169; 34]%N) 76 16 false; mkTok 6 ")" 76 22 false; mkTok 44 "// @lengthOf(" 76 24 true; mkTok 12 "char[" 77 0 false; mkTok 44 "//" 77 5 true; mkTok 30 "10" 78 0 false; mkTok 13 "]" 78 3 false; mkTok 42 "repeatCount" 79 0 false; mkTok 43 (string_of_bytes [96; 10; 96]%N) 79 12 false; mkTok 40 "," 80 2 false; mkTok 3 "}" 80 4 false; mkTok 35 "packet" 80 6 false; mkTok 42 "f32a" 80 13 false; mkTok 2 "{" 80 18 false; mkTok 42 "Header" 81 4 false; mkTok 42 "o" 81 12 false; mkTok 40 "," 81 14 false; mkTok 3 "}" 82 4 false; mkTok 35 "packet" 82 6 false; mkTok 42 "chars" 82 13 false; mkTok 2 "{" 82 19 false; mkTok 32 "@rightPad" 82 21 false; mkTok 8 "(" 82 30 false; mkTok 33 "'0'" 82 32 false; mkTok 6 ")" 82 36 false; mkTok 38 "match" 82 38 false; mkTok 42 "u128" 83 0 false; mkTok 17 "as" 83 6 false; mkTok 42 "u8x" 83 9 false; mkTok 2 "{" 83 13 false; mkTok 30 "3" 83 14 false; mkTok 39 ":" 83 16 false; mkTok 42 "i8i8" 83 18 false; mkTok 44 "// `tick` ""quote"" 'q'" 84 0 true; mkTok 44 (string_of_bytes [47; 47; 9; 116]%N) 85 0 true; mkTok 40 "," 86 0 false; mkTok 30 "255" 87 4 false; mkTok 39 ":" 87 7 false; mkTok 42 "charz" 87 9 false; mkTok 18 "[" 87 15 false; mkTok 30 "4294967296" 87 17 false; mkTok 40 "," 87 28 false; mkTok 31 """x y""" 87 30 false; mkTok 40 "," 87 35 false; mkTok 31 (string_of_bytes [34; 195; 169; 116; 195; 169; 34]%N) 87 36 false; mkTok 40 "," 87 42 false; mkTok 31 """{,}""" 88 4 false; mkTok 13 "]" 88 10 false; mkTok 39 ":" 88 12 false; mkTok 42 "x" 89 0 false; mkTok 40 "," 89 2 false; mkTok 30 "65535" 90 4 false; mkTok 39 ":" 90 10 false; mkTok 42 "len" 90 12 false; mkTok 3 "}" 90 16 false; mkTok 40 "," 91 0 false; mkTok 7 "@lengthOf(" 91 2 false; mkTok 42 "u8x" 91 13 false; mkTok 44 (string_of_bytes [47; 47; 32; 240; 159; 152; 128; 32; 101; 109; 111; 106; 105]%N) 91 17 true; mkTok 6 ")" 92 0 false; mkTok 25 "i16" 92 1 false; mkTok 42 "Foo" 92 5 false; mkTok 7 "@lengthOf(" 92 8 false; mkTok 42 "u8x" 92 20 false; mkTok 44 "// packet A { u8 x, }" 92 24 true; mkTok 6 ")" 93 0 false; mkTok 40 "," 93 1 false; mkTok 7 "@lengthOf(" 94 0 false; mkTok 42 "_x" 94 11 false; mkTok 6 ")" 94 13 false; mkTok 32 "@leftPad" 94 14 false; mkTok 8 "(" 94 23 false; mkTok 33 "' '" 94 25 false; mkTok 6 ")" 94 29 false; mkTok 12 "char[" 95 0 false; mkTok 44 "// `tick` ""quote"" 'q'" 96 4 true; mkTok 30 "255" 97 4 false; mkTok 13 "]" 97 9 false; mkTok 42 "tag" 98 0 false; mkTok 5 "@calculatedFrom(" 99 4 false; mkTok 31 """it's""" 99 21 false; mkTok 6 ")" 99 28 false; mkTok 44 "// trailing space " 100 0 true; mkTok 44 "//" 101 0 true; mkTok 40 "," 102 0 false; mkTok 5 "@calculatedFrom(" 102 2 false; mkTok 31 """""" 102 18 false; mkTok 6 ")" 102 21 false; mkTok 28 "float32" 102 23 false; mkTok 42 "i64_" 102 31 false; mkTok 43 (string_of_bytes [96; 108; 105; 110; 101; 49; 10; 108; 105; 110; 101; 50; 96]%N) 102 36 false; mkTok 40 "," 103 7 false; mkTok 36 "repeat" 103 9 false; mkTok 15 "string" 103 16 false; mkTok 42 "roots" 104 4 false; mkTok 40 "," 104 9 false; mkTok 15 "string" 104 10 false; mkTok 44 "// trailing space " 104 17 true; mkTok 42 "float" 105 0 false; mkTok 40 "," 105 5 false; mkTok 7 "@lengthOf(" 105 7 false; mkTok 42 "Header" 105 18 false; mkTok 6 ")" 105 25 false; mkTok 9 "@tag(" 105 27 false; mkTok 30 "007" 105 33 false; mkTok 6 ")" 106 4 false; mkTok 5 "@calculatedFrom(" 106 6 false; mkTok 31 """abc""" 106 23 false; mkTok 6 ")" 106 29 false; mkTok 38 "match" 106 31 false; mkTok 42 "zchar" 107 0 false; mkTok 17 "as" 107 7 false; mkTok 42 "u8x" 108 0 false; mkTok 2 "{" 108 4 false; mkTok 31 (string_of_bytes [34; 97; 9; 98; 34]%N) 108 6 false; mkTok 39 ":" 108 12 false; mkTok 42 "charz" 108 14 false; mkTok 40 "," 108 20 false; mkTok 30 "0" 108 22 false; mkTok 39 ":" 108 24 false; mkTok 42 "len" 108 26 false; mkTok 40 "," 108 30 false; mkTok 3 "}" 109 0 false; mkTok 40 "," 109 2 false; mkTok 14 "zchar[" 109 3 false; mkTok 30 "00" 109 10 false; mkTok 13 "]" 109 12 false; mkTok 42 "MetaDataX" 109 13 false; mkTok 5 "@calculatedFrom(" 110 4 false; mkTok 44 "// c" 111 4 true; mkTok 31 """a\""b""" 112 4 false; mkTok 6 ")" 113 0 false; mkTok 43 "`two words`" 113 2 false; mkTok 40 "," 113 14 false; mkTok 3 "}" 113 15 false; mkTok 44 "// `tick` ""quote"" 'q'" 113 17 true; mkTok 0 "<EOF>" 113 38 false] (mkPacket (mkPtok 35 "packet" 1 2 0) (Some (mkPtok 3 "}" 113 15 386)) [(DPacket (mkPacketDef (mkSpan (mkPtok 35 "packet" 1 2 0) (mkPtok 3 "}" 43 0 124)) None (mkPtok 35 "packet" 1 2 0) (mkPtok 42 "u" 1 9 1) (mkPtok 2 "{" 1 11 2) [(mkFieldWithAttr (mkSpan (mkPtok 36 "repeat" 1 13 3) (mkPtok 40 "," 3 2 6)) [] (ObjectField (mkSpan (mkPtok 36 "repeat" 1 13 3) (mkPtok 40 "," 3 2 6)) (Some (mkPtok 36 "repeat" 1 13 3)) (mkPtok 42 "Packet" 1 20 4) None (Some (mkPtok 43 (string_of_bytes [96; 10; 96]%N) 2 4 5)) (mkPtok 40 "," 3 2 6))); (mkFieldWithAttr (mkSpan (mkPtok 15 "string" 3 4 7) (mkPtok 40 "," 4 11 13)) [] (CheckSumField (mkSpan (mkPtok 15 "string" 3 4 7) (mkPtok 40 "," 4 11 13)) (mkChecksumFieldDecl (mkSpan (mkPtok 15 "string" 3 4 7) (mkPtok 40 "," 4 11 13)) (Some (TyDynamic (mkSpan (mkPtok 15 "string" 3 4 7) (mkPtok 15 "string" 3 4 7)) (mkDynamicString (mkSpan (mkPtok 15 "string" 3 4 7) (mkPtok 15 "string" 3 4 7)) (mkPtok 15 "string" 3 4 7)))) (mkPtok 42 "x" 3 11 8) (mkCalculatedFrom (mkSpan (mkPtok 5 "@calculatedFrom(" 3 13 9) (mkPtok 6 ")" 3 36 11)) (mkPtok 5 "@calculatedFrom(" 3 13 9) (mkPtok 31 """x y""" 3 30 10) (mkPtok 6 ")" 3 36 11)) (Some (mkPtok 43 "`say ""hi""`" 4 0 12)) (mkPtok 40 "," 4 11 13)))); (mkFieldWithAttr (mkSpan (mkPtok 9 "@tag(" 4 13 14) (mkPtok 40 "," 6 0 19)) [(FATag (mkSpan (mkPtok 9 "@tag(" 4 13 14) (mkPtok 6 ")" 4 21 16)) (mkTagAttr (mkSpan (mkPtok 9 "@tag(" 4 13 14) (mkPtok 6 ")" 4 21 16)) (mkPtok 9 "@tag(" 4 13 14) (mkPtok 30 "42" 4 19 15) (mkPtok 6 ")" 4 21 16)))] (ObjectField (mkSpan (mkPtok 36 "repeat" 4 23 17) (mkPtok 40 "," 6 0 19)) (Some (mkPtok 36 "repeat" 4 23 17)) (mkPtok 42 "stringy" 5 0 18) None None (mkPtok 40 "," 6 0 19))); (mkFieldWithAttr (mkSpan (mkPtok 38 "match" 6 2 20) (mkPtok 40 "," 16 0 50)) [] (MatchField (mkSpan (mkPtok 38 "match" 6 2 20) (mkPtok 40 "," 16 0 50)) (mkMatchFieldDecl (mkSpan (mkPtok 38 "match" 6 2 20) (mkPtok 3 "}" 13 8 47)) (mkPtok 38 "match" 6 2 20) (mkPtok 42 "len" 6 8 21) (mkPtok 17 "as" 6 12 22) (mkPtok 42 "u" 8 4 24) (mkPtok 2 "{" 8 6 25) [(mkMatchPair (mkSpan (mkPtok 18 "[" 9 0 26) (mkPtok 40 "," 11 9 42)) (MKList (mkKeyList (mkSpan (mkPtok 18 "[" 9 0 26) (mkPtok 13 "]" 11 0 39)) (mkPtok 18 "[" 9 0 26) (mkPtok 30 "7" 9 1 27) [((mkPtok 40 "," 9 3 28), (mkPtok 31 """it's""" 9 4 29)); ((mkPtok 40 "," 10 0 31), (mkPtok 30 "10" 10 2 32)); ((mkPtok 40 "," 10 5 33), (mkPtok 31 """a\\""" 10 6 34)); ((mkPtok 40 "," 10 12 35), (mkPtok 30 "0" 10 14 36)); ((mkPtok 40 "," 10 15 37), (mkPtok 31 """1""" 10 17 38))] (mkPtok 13 "]" 11 0 39))) (mkPtok 39 ":" 11 2 40) (mkPtok 42 "float" 11 3 41) (Some (mkPtok 40 "," 11 9 42))); (mkMatchPair (mkSpan (mkPtok 31 (string_of_bytes [34; 97; 9; 98; 34]%N) 12 4 43) (mkPtok 40 "," 13 6 46)) (MKString (mkPtok 31 (string_of_bytes [34; 97; 9; 98; 34]%N) 12 4 43)) (mkPtok 39 ":" 13 0 44) (mkPtok 42 "Foo" 13 2 45) (Some (mkPtok 40 "," 13 6 46)))] (mkPtok 3 "}" 13 8 47)) (mkPtok 40 "," 16 0 50))); (mkFieldWithAttr (mkSpan (mkPtok 42 "float" 16 2 51) (mkPtok 40 "," 16 8 52)) [] (ObjectField (mkSpan (mkPtok 42 "float" 16 2 51) (mkPtok 40 "," 16 8 52)) None (mkPtok 42 "float" 16 2 51) None None (mkPtok 40 "," 16 8 52))); (mkFieldWithAttr (mkSpan (mkPtok 36 "repeat" 16 9 53) (mkPtok 40 "," 24 4 71)) [] (InerObjectField (mkSpan (mkPtok 36 "repeat" 16 9 53) (mkPtok 40 "," 24 4 71)) (Some (mkPtok 36 "repeat" 16 9 53)) (InerObjectDecl (mkSpan (mkPtok 42 "calculatedFrom" 16 16 54) (mkPtok 3 "}" 24 2 70)) (mkPtok 42 "calculatedFrom" 16 16 54) (mkPtok 2 "{" 17 0 55) [(MetaField (mkSpan (mkPtok 23 "uint64" 17 2 56) (mkPtok 40 "," 19 0 58)) None (mkMetaDecl (mkSpan (mkPtok 23 "uint64" 17 2 56) (mkPtok 40 "," 19 0 58)) (TyBasic (mkSpan (mkPtok 23 "uint64" 17 2 56) (mkPtok 23 "uint64" 17 2 56)) (mkBasicType (mkSpan (mkPtok 23 "uint64" 17 2 56) (mkPtok 23 "uint64" 17 2 56)) (mkPtok 23 "uint64" 17 2 56))) (mkPtok 42 "body" 18 4 57) None (mkPtok 40 "," 19 0 58))); (MetaField (mkSpan (mkPtok 16 "char[]" 20 4 59) (mkPtok 40 "," 21 0 61)) None (mkMetaDecl (mkSpan (mkPtok 16 "char[]" 20 4 59) (mkPtok 40 "," 21 0 61)) (TyDynamic (mkSpan (mkPtok 16 "char[]" 20 4 59) (mkPtok 16 "char[]" 20 4 59)) (mkDynamicString (mkSpan (mkPtok 16 "char[]" 20 4 59) (mkPtok 16 "char[]" 20 4 59)) (mkPtok 16 "char[]" 20 4 59))) (mkPtok 42 "uint8x" 20 11 60) None (mkPtok 40 "," 21 0 61))); (MetaField (mkSpan (mkPtok 26 "int32" 21 2 62) (mkPtok 40 "," 21 12 64)) None (mkMetaDecl (mkSpan (mkPtok 26 "int32" 21 2 62) (mkPtok 40 "," 21 12 64)) (TyBasic (mkSpan (mkPtok 26 "int32" 21 2 62) (mkPtok 26 "int32" 21 2 62)) (mkBasicType (mkSpan (mkPtok 26 "int32" 21 2 62) (mkPtok 26 "int32" 21 2 62)) (mkPtok 26 "int32" 21 2 62))) (mkPtok 42 "len" 21 8 63) None (mkPtok 40 "," 21 12 64))); (CheckSumField (mkSpan (mkPtok 42 "f32a" 21 13 65) (mkPtok 40 "," 24 0 69)) (mkChecksumFieldDecl (mkSpan (mkPtok 42 "f32a" 21 13 65) (mkPtok 40 "," 24 0 69)) None (mkPtok 42 "f32a" 21 13 65) (mkCalculatedFrom (mkSpan (mkPtok 5 "@calculatedFrom(" 22 0 66) (mkPtok 6 ")" 23 0 68)) (mkPtok 5 "@calculatedFrom(" 22 0 66) (mkPtok 31 (string_of_bytes [34; 230; 182; 136; 230; 129; 175; 34]%N) 22 17 67) (mkPtok 6 ")" 23 0 68)) None (mkPtok 40 "," 24 0 69)))] (mkPtok 3 "}" 24 2 70)) (mkPtok 40 "," 24 4 71))); (mkFieldWithAttr (mkSpan (mkPtok 32 "@leftPad" 24 6 72) (mkPtok 40 "," 28 9 79)) [(FAPadding (mkSpan (mkPtok 32 "@leftPad" 24 6 72) (mkPtok 6 ")" 26 4 76)) (mkPaddingAttr (mkSpan (mkPtok 32 "@leftPad" 24 6 72) (mkPtok 6 ")" 26 4 76)) (mkPtok 32 "@leftPad" 24 6 72) (mkPtok 8 "(" 24 15 73) (Some (mkPtok 33 "'\x00'" 25 0 75)) (mkPtok 6 ")" 26 4 76)))] (MetaField (mkSpan (mkPtok 15 "string" 27 4 77) (mkPtok 40 "," 28 9 79)) None (mkMetaDecl (mkSpan (mkPtok 15 "string" 27 4 77) (mkPtok 40 "," 28 9 79)) (TyDynamic (mkSpan (mkPtok 15 "string" 27 4 77) (mkPtok 15 "string" 27 4 77)) (mkDynamicString (mkSpan (mkPtok 15 "string" 27 4 77) (mkPtok 15 "string" 27 4 77)) (mkPtok 15 "string" 27 4 77))) (mkPtok 42 "body" 28 4 78) None (mkPtok 40 "," 28 9 79)))); (mkFieldWithAttr (mkSpan (mkPtok 38 "match" 28 11 80) (mkPtok 40 "," 42 0 123)) [] (MatchField (mkSpan (mkPtok 38 "match" 28 11 80) (mkPtok 40 "," 42 0 123)) (mkMatchFieldDecl (mkSpan (mkPtok 38 "match" 28 11 80) (mkPtok 3 "}" 41 44 122)) (mkPtok 38 "match" 28 11 80) (mkPtok 42 "msg_type" 29 0 82) (mkPtok 17 "as" 29 9 83) (mkPtok 42 "As" 30 4 84) (mkPtok 2 "{" 30 7 85) [(mkMatchPair (mkSpan (mkPtok 18 "[" 30 9 86) (mkPtok 40 "," 37 0 97)) (MKList (mkKeyList (mkSpan (mkPtok 18 "[" 30 9 86) (mkPtok 13 "]" 35 0 93)) (mkPtok 18 "[" 30 9 86) (mkPtok 31 (string_of_bytes [34; 240; 159; 152; 128; 34]%N) 30 11 87) [((mkPtok 40 "," 30 15 88), (mkPtok 31 """abc""" 32 4 90))] (mkPtok 13 "]" 35 0 93))) (mkPtok 39 ":" 36 4 94) (mkPtok 42 "msg_type" 36 6 95) (Some (mkPtok 40 "," 37 0 97))); (mkMatchPair (mkSpan (mkPtok 18 "[" 37 2 98) (mkPtok 40 "," 40 1 106)) (MKList (mkKeyList (mkSpan (mkPtok 18 "[" 37 2 98) (mkPtok 13 "]" 39 10 103)) (mkPtok 18 "[" 37 2 98) (mkPtok 30 "0123456789" 37 3 99) [((mkPtok 40 "," 39 4 101), (mkPtok 30 "10" 39 7 102))] (mkPtok 13 "]" 39 10 103))) (mkPtok 39 ":" 39 11 104) (mkPtok 42 "A" 40 0 105) (Some (mkPtok 40 "," 40 1 106))); (mkMatchPair (mkSpan (mkPtok 31 """1""" 40 3 107) (mkPtok 40 "," 40 12 110)) (MKString (mkPtok 31 """1""" 40 3 107)) (mkPtok 39 ":" 40 6 108) (mkPtok 42 "Foo" 40 8 109) (Some (mkPtok 40 "," 40 12 110))); (mkMatchPair (mkSpan (mkPtok 30 "7" 40 14 111) (mkPtok 40 "," 41 12 114)) (MKDigits (mkPtok 30 "7" 40 14 111)) (mkPtok 39 ":" 40 15 112) (mkPtok 42 "string_" 41 4 113) (Some (mkPtok 40 "," 41 12 114))); (mkMatchPair (mkSpan (mkPtok 31 """`tick`""" 41 14 115) (mkPtok 42 "string_" 41 25 117)) (MKString (mkPtok 31 """`tick`""" 41 14 115)) (mkPtok 39 ":" 41 23 116) (mkPtok 42 "string_" 41 25 117) None); (mkMatchPair (mkSpan (mkPtok 30 "007" 41 33 118) (mkPtok 40 "," 41 42 121)) (MKDigits (mkPtok 30 "007" 41 33 118)) (mkPtok 39 ":" 41 37 119) (mkPtok 42 "int" 41 39 120) (Some (mkPtok 40 "," 41 42 121)))] (mkPtok 3 "}" 41 44 122)) (mkPtok 40 "," 42 0 123)))] (mkPtok 3 "}" 43 0 124))); (DPacket (mkPacketDef (mkSpan (mkPtok 35 "packet" 44 4 125) (mkPtok 3 "}" 66 33 207)) None (mkPtok 35 "packet" 44 4 125) (mkPtok 42 "BodyLength" 44 11 126) (mkPtok 2 "{" 45 4 127) [(mkFieldWithAttr (mkSpan (mkPtok 38 "match" 46 0 129) (mkPtok 40 "," 54 8 168)) [] (MatchField (mkSpan (mkPtok 38 "match" 46 0 129) (mkPtok 40 "," 54 8 168)) (mkMatchFieldDecl (mkSpan (mkPtok 38 "match" 46 0 129) (mkPtok 3 "}" 54 7 167)) (mkPtok 38 "match" 46 0 129) (mkPtok 42 "crc" 46 6 130) (mkPtok 17 "as" 46 10 131) (mkPtok 42 "Pad" 46 13 132) (mkPtok 2 "{" 47 0 134) [(mkMatchPair (mkSpan (mkPtok 18 "[" 48 4 135) (mkPtok 40 "," 52 0 151)) (MKList (mkKeyList (mkSpan (mkPtok 18 "[" 48 4 135) (mkPtok 13 "]" 50 10 147)) (mkPtok 18 "[" 48 4 135) (mkPtok 30 "0123456789" 48 5 136) [((mkPtok 40 "," 48 16 137), (mkPtok 31 """\n""" 48 18 138)); ((mkPtok 40 "," 48 23 139), (mkPtok 31 """x y""" 48 25 140)); ((mkPtok 40 "," 48 31 141), (mkPtok 31 """\n""" 49 0 142)); ((mkPtok 40 "," 49 5 143), (mkPtok 30 "7" 49 7 144)); ((mkPtok 40 "," 50 4 145), (mkPtok 31 """1""" 50 6 146))] (mkPtok 13 "]" 50 10 147))) (mkPtok 39 ":" 50 12 148) (mkPtok 42 "u8x" 51 0 150) (Some (mkPtok 40 "," 52 0 151))); (mkMatchPair (mkSpan (mkPtok 18 "[" 52 2 152) (mkPtok 40 "," 54 5 166)) (MKList (mkKeyList (mkSpan (mkPtok 18 "[" 52 2 152) (mkPtok 13 "]" 53 27 162)) (mkPtok 18 "[" 52 2 152) (mkPtok 30 "00" 52 4 153) [((mkPtok 40 "," 53 0 154), (mkPtok 31 """abc""" 53 2 155)); ((mkPtok 40 "," 53 7 156), (mkPtok 31 (string_of_bytes [34; 240; 159; 152; 128; 34]%N) 53 9 157)); ((mkPtok 40 "," 53 12 158), (mkPtok 31 """a\\""" 53 14 159)); ((mkPtok 40 "," 53 20 160), (mkPtok 30 "65535" 53 21 161))] (mkPtok 13 "]" 53 27 162))) (mkPtok 39 ":" 53 28 163) (mkPtok 42 "pack" 54 0 165) (Some (mkPtok 40 "," 54 5 166)))] (mkPtok 3 "}" 54 7 167)) (mkPtok 40 "," 54 8 168))); (mkFieldWithAttr (mkSpan (mkPtok 9 "@tag(" 55 4 169) (mkPtok 40 "," 64 0 193)) [(FATag (mkSpan (mkPtok 9 "@tag(" 55 4 169) (mkPtok 6 ")" 55 12 171)) (mkTagAttr (mkSpan (mkPtok 9 "@tag(" 55 4 169) (mkPtok 6 ")" 55 12 171)) (mkPtok 9 "@tag(" 55 4 169) (mkPtok 30 "0" 55 10 170) (mkPtok 6 ")" 55 12 171)))] (InerObjectField (mkSpan (mkPtok 42 "leftPad" 55 14 172) (mkPtok 40 "," 64 0 193)) None (InerObjectDecl (mkSpan (mkPtok 42 "leftPad" 55 14 172) (mkPtok 3 "}" 63 0 192)) (mkPtok 42 "leftPad" 55 14 172) (mkPtok 2 "{" 55 22 173) [(LengthField (mkSpan (mkPtok 16 "char[]" 55 24 174) (mkPtok 40 "," 59 2 181)) (mkLengthFieldDecl (mkSpan (mkPtok 16 "char[]" 55 24 174) (mkPtok 40 "," 59 2 181)) (Some (TyDynamic (mkSpan (mkPtok 16 "char[]" 55 24 174) (mkPtok 16 "char[]" 55 24 174)) (mkDynamicString (mkSpan (mkPtok 16 "char[]" 55 24 174) (mkPtok 16 "char[]" 55 24 174)) (mkPtok 16 "char[]" 55 24 174)))) (mkPtok 42 "options1" 56 4 175) (mkLengthOf (mkSpan (mkPtok 7 "@lengthOf(" 56 13 176) (mkPtok 6 ")" 59 0 180)) (mkPtok 7 "@lengthOf(" 56 13 176) (mkPtok 42 "asx" 56 24 177) (mkPtok 6 ")" 59 0 180)) None (mkPtok 40 "," 59 2 181))); (MetaField (mkSpan (mkPtok 12 "char[" 59 3 182) (mkPtok 40 "," 62 6 188)) None (mkMetaDecl (mkSpan (mkPtok 12 "char[" 59 3 182) (mkPtok 40 "," 62 6 188)) (TyFixed (mkSpan (mkPtok 12 "char[" 59 3 182) (mkPtok 13 "]" 60 0 184)) (mkFixedString (mkSpan (mkPtok 12 "char[" 59 3 182) (mkPtok 13 "]" 60 0 184)) (mkPtok 12 "char[" 59 3 182) (mkPtok 30 "0" 59 9 183) (mkPtok 13 "]" 60 0 184))) (mkPtok 42 "As" 61 0 186) (Some (mkPtok 43 (string_of_bytes [96; 99; 114; 108; 102; 13; 10; 108; 105; 110; 101; 96]%N) 61 3 187)) (mkPtok 40 "," 62 6 188))); (MetaField (mkSpan (mkPtok 27 "i64" 62 8 189) (mkPtok 40 "," 62 17 191)) None (mkMetaDecl (mkSpan (mkPtok 27 "i64" 62 8 189) (mkPtok 40 "," 62 17 191)) (TyBasic (mkSpan (mkPtok 27 "i64" 62 8 189) (mkPtok 27 "i64" 62 8 189)) (mkBasicType (mkSpan (mkPtok 27 "i64" 62 8 189) (mkPtok 27 "i64" 62 8 189)) (mkPtok 27 "i64" 62 8 189))) (mkPtok 42 "crc" 62 13 190) None (mkPtok 40 "," 62 17 191)))] (mkPtok 3 "}" 63 0 192)) (mkPtok 40 "," 64 0 193))); (mkFieldWithAttr (mkSpan (mkPtok 29 "float64" 65 0 194) (mkPtok 40 "," 65 12 196)) [] (MetaField (mkSpan (mkPtok 29 "float64" 65 0 194) (mkPtok 40 "," 65 12 196)) None (mkMetaDecl (mkSpan (mkPtok 29 "float64" 65 0 194) (mkPtok 40 "," 65 12 196)) (TyBasic (mkSpan (mkPtok 29 "float64" 65 0 194) (mkPtok 29 "float64" 65 0 194)) (mkBasicType (mkSpan (mkPtok 29 "float64" 65 0 194) (mkPtok 29 "float64" 65 0 194)) (mkPtok 29 "float64" 65 0 194))) (mkPtok 42 "asx" 65 8 195) None (mkPtok 40 "," 65 12 196)))); (mkFieldWithAttr (mkSpan (mkPtok 32 "@leftPad" 65 14 197) (mkPtok 40 "," 66 30 206)) [(FAPadding (mkSpan (mkPtok 32 "@leftPad" 65 14 197) (mkPtok 6 ")" 66 4 201)) (mkPaddingAttr (mkSpan (mkPtok 32 "@leftPad" 65 14 197) (mkPtok 6 ")" 66 4 201)) (mkPtok 32 "@leftPad" 65 14 197) (mkPtok 8 "(" 65 23 198) (Some (mkPtok 33 "' '" 66 0 200)) (mkPtok 6 ")" 66 4 201)))] (CheckSumField (mkSpan (mkPtok 42 "T" 66 6 202) (mkPtok 40 "," 66 30 206)) (mkChecksumFieldDecl (mkSpan (mkPtok 42 "T" 66 6 202) (mkPtok 40 "," 66 30 206)) None (mkPtok 42 "T" 66 6 202) (mkCalculatedFrom (mkSpan (mkPtok 5 "@calculatedFrom(" 66 7 203) (mkPtok 6 ")" 66 29 205)) (mkPtok 5 "@calculatedFrom(" 66 7 203) (mkPtok 31 """abc""" 66 24 204) (mkPtok 6 ")" 66 29 205)) None (mkPtok 40 "," 66 30 206))))] (mkPtok 3 "}" 66 33 207))); (DPacket (mkPacketDef (mkSpan (mkPtok 35 "packet" 66 34 208) (mkPtok 3 "}" 80 4 262)) None (mkPtok 35 "packet" 66 34 208) (mkPtok 42 "As" 66 41 209) (mkPtok 2 "{" 66 44 210) [(mkFieldWithAttr (mkSpan (mkPtok 15 "string" 68 4 212) (mkPtok 40 "," 69 4 217)) [] (CheckSumField (mkSpan (mkPtok 15 "string" 68 4 212) (mkPtok 40 "," 69 4 217)) (mkChecksumFieldDecl (mkSpan (mkPtok 15 "string" 68 4 212) (mkPtok 40 "," 69 4 217)) (Some (TyDynamic (mkSpan (mkPtok 15 "string" 68 4 212) (mkPtok 15 "string" 68 4 212)) (mkDynamicString (mkSpan (mkPtok 15 "string" 68 4 212) (mkPtok 15 "string" 68 4 212)) (mkPtok 15 "string" 68 4 212)))) (mkPtok 42 "i64_" 68 11 213) (mkCalculatedFrom (mkSpan (mkPtok 5 "@calculatedFrom(" 68 16 214) (mkPtok 6 ")" 68 37 216)) (mkPtok 5 "@calculatedFrom(" 68 16 214) (mkPtok 31 """\n""" 68 33 215) (mkPtok 6 ")" 68 37 216)) None (mkPtok 40 "," 69 4 217)))); (mkFieldWithAttr (mkSpan (mkPtok 7 "@lengthOf(" 69 5 218) (mkPtok 40 "," 70 24 232)) [(FALengthOf (mkSpan (mkPtok 7 "@lengthOf(" 69 5 218) (mkPtok 6 ")" 69 21 220)) (mkLengthOf (mkSpan (mkPtok 7 "@lengthOf(" 69 5 218) (mkPtok 6 ")" 69 21 220)) (mkPtok 7 "@lengthOf(" 69 5 218) (mkPtok 42 "i8i8" 69 16 219) (mkPtok 6 ")" 69 21 220))); (FALengthOf (mkSpan (mkPtok 7 "@lengthOf(" 69 24 221) (mkPtok 6 ")" 69 39 223)) (mkLengthOf (mkSpan (mkPtok 7 "@lengthOf(" 69 24 221) (mkPtok 6 ")" 69 39 223)) (mkPtok 7 "@lengthOf(" 69 24 221) (mkPtok 42 "asx" 69 35 222) (mkPtok 6 ")" 69 39 223))); (FAPadding (mkSpan (mkPtok 32 "@rightPad" 69 41 224) (mkPtok 6 ")" 70 0 228)) (mkPaddingAttr (mkSpan (mkPtok 32 "@rightPad" 69 41 224) (mkPtok 6 ")" 70 0 228)) (mkPtok 32 "@rightPad" 69 41 224) (mkPtok 8 "(" 69 50 225) (Some (mkPtok 33 "'0'" 69 51 226)) (mkPtok 6 ")" 70 0 228)))] (MetaField (mkSpan (mkPtok 36 "repeat" 70 1 229) (mkPtok 40 "," 70 24 232)) (Some (mkPtok 36 "repeat" 70 1 229)) (mkMetaDecl (mkSpan (mkPtok 23 "uint64" 70 8 230) (mkPtok 40 "," 70 24 232)) (TyBasic (mkSpan (mkPtok 23 "uint64" 70 8 230) (mkPtok 23 "uint64" 70 8 230)) (mkBasicType (mkSpan (mkPtok 23 "uint64" 70 8 230) (mkPtok 23 "uint64" 70 8 230)) (mkPtok 23 "uint64" 70 8 230))) (mkPtok 42 "MetaDataX" 70 15 231) None (mkPtok 40 "," 70 24 232)))); (mkFieldWithAttr (mkSpan (mkPtok 42 "tag" 70 25 233) (mkPtok 40 "," 71 0 236)) [] (ObjectField (mkSpan (mkPtok 42 "tag" 70 25 233) (mkPtok 40 "," 71 0 236)) None (mkPtok 42 "tag" 70 25 233) (Some (mkPtok 42 "zchar" 70 29 234)) None (mkPtok 40 "," 71 0 236))); (mkFieldWithAttr (mkSpan (mkPtok 5 "@calculatedFrom(" 71 2 237) (mkPtok 40 "," 75 10 249)) [(FACalculatedFrom (mkSpan (mkPtok 5 "@calculatedFrom(" 71 2 237) (mkPtok 6 ")" 71 34 239)) (mkCalculatedFrom (mkSpan (mkPtok 5 "@calculatedFrom(" 71 2 237) (mkPtok 6 ")" 71 34 239)) (mkPtok 5 "@calculatedFrom(" 71 2 237) (mkPtok 31 """// no comment""" 71 19 238) (mkPtok 6 ")" 71 34 239)))] (CheckSumField (mkSpan (mkPtok 16 "char[]" 71 36 240) (mkPtok 40 "," 75 10 249)) (mkChecksumFieldDecl (mkSpan (mkPtok 16 "char[]" 71 36 240) (mkPtok 40 "," 75 10 249)) (Some (TyDynamic (mkSpan (mkPtok 16 "char[]" 71 36 240) (mkPtok 16 "char[]" 71 36 240)) (mkDynamicString (mkSpan (mkPtok 16 "char[]" 71 36 240) (mkPtok 16 "char[]" 71 36 240)) (mkPtok 16 "char[]" 71 36 240)))) (mkPtok 42 "u" 71 42 241) (mkCalculatedFrom (mkSpan (mkPtok 5 "@calculatedFrom(" 71 44 242) (mkPtok 6 ")" 75 0 247)) (mkPtok 5 "@calculatedFrom(" 71 44 242) (mkPtok 31 """a\\""" 72 0 244) (mkPtok 6 ")" 75 0 247)) (Some (mkPtok 43 "`u8 x,`" 75 2 248)) (mkPtok 40 "," 75 10 249)))); (mkFieldWithAttr (mkSpan (mkPtok 5 "@calculatedFrom(" 76 0 251) (mkPtok 40 "," 80 2 261)) [(FACalculatedFrom (mkSpan (mkPtok 5 "@calculatedFrom(" 76 0 251) (mkPtok 6 ")" 76 22 253)) (mkCalculatedFrom (mkSpan (mkPtok 5 "@calculatedFrom(" 76 0 251) (mkPtok 6 ")" 76 22 253)) (mkPtok 5 "@calculatedFrom(" 76 0 251) (mkPtok 31 (string_of_bytes [34; 195; 169; 116; 195; 169; 34]%N) 76 16 252) (mkPtok 6 ")" 76 22 253)))] (MetaField (mkSpan (mkPtok 12 "char[" 77 0 255) (mkPtok 40 "," 80 2 261)) None (mkMetaDecl (mkSpan (mkPtok 12 "char[" 77 0 255) (mkPtok 40 "," 80 2 261)) (TyFixed (mkSpan (mkPtok 12 "char[" 77 0 255) (mkPtok 13 "]" 78 3 258)) (mkFixedString (mkSpan (mkPtok 12 "char[" 77 0 255) (mkPtok 13 "]" 78 3 258)) (mkPtok 12 "char[" 77 0 255) (mkPtok 30 "10" 78 0 257) (mkPtok 13 "]" 78 3 258))) (mkPtok 42 "repeatCount" 79 0 259) (Some (mkPtok 43 (string_of_bytes [96; 10; 96]%N) 79 12 260)) (mkPtok 40 "," 80 2 261))))] (mkPtok 3 "}" 80 4 262))); (DPacket (mkPacketDef (mkSpan (mkPtok 35 "packet" 80 6 263) (mkPtok 3 "}" 82 4 269)) None (mkPtok 35 "packet" 80 6 263) (mkPtok 42 "f32a" 80 13 264) (mkPtok 2 "{" 80 18 265) [(mkFieldWithAttr (mkSpan (mkPtok 42 "Header" 81 4 266) (mkPtok 40 "," 81 14 268)) [] (ObjectField (mkSpan (mkPtok 42 "Header" 81 4 266) (mkPtok 40 "," 81 14 268)) None (mkPtok 42 "Header" 81 4 266) (Some (mkPtok 42 "o" 81 12 267)) None (mkPtok 40 "," 81 14 268)))] (mkPtok 3 "}" 82 4 269))); (DPacket (mkPacketDef (mkSpan (mkPtok 35 "packet" 82 6 270) (mkPtok 3 "}" 113 15 386)) None (mkPtok 35 "packet" 82 6 270) (mkPtok 42 "chars" 82 13 271) (mkPtok 2 "{" 82 19 272) [(mkFieldWithAttr (mkSpan (mkPtok 32 "@rightPad" 82 21 273) (mkPtok 40 "," 91 0 307)) [(FAPadding (mkSpan (mkPtok 32 "@rightPad" 82 21 273) (mkPtok 6 ")" 82 36 276)) (mkPaddingAttr (mkSpan (mkPtok 32 "@rightPad" 82 21 273) (mkPtok 6 ")" 82 36 276)) (mkPtok 32 "@rightPad" 82 21 273) (mkPtok 8 "(" 82 30 274) (Some (mkPtok 33 "'0'" 82 32 275)) (mkPtok 6 ")" 82 36 276)))] (MatchField (mkSpan (mkPtok 38 "match" 82 38 277) (mkPtok 40 "," 91 0 307)) (mkMatchFieldDecl (mkSpan (mkPtok 38 "match" 82 38 277) (mkPtok 3 "}" 90 16 306)) (mkPtok 38 "match" 82 38 277) (mkPtok 42 "u128" 83 0 278) (mkPtok 17 "as" 83 6 279) (mkPtok 42 "u8x" 83 9 280) (mkPtok 2 "{" 83 13 281) [(mkMatchPair (mkSpan (mkPtok 30 "3" 83 14 282) (mkPtok 40 "," 86 0 287)) (MKDigits (mkPtok 30 "3" 83 14 282)) (mkPtok 39 ":" 83 16 283) (mkPtok 42 "i8i8" 83 18 284) (Some (mkPtok 40 "," 86 0 287))); (mkMatchPair (mkSpan (mkPtok 30 "255" 87 4 288) (mkPtok 42 "charz" 87 9 290)) (MKDigits (mkPtok 30 "255" 87 4 288)) (mkPtok 39 ":" 87 7 289) (mkPtok 42 "charz" 87 9 290) None); (mkMatchPair (mkSpan (mkPtok 18 "[" 87 15 291) (mkPtok 40 "," 89 2 302)) (MKList (mkKeyList (mkSpan (mkPtok 18 "[" 87 15 291) (mkPtok 13 "]" 88 10 299)) (mkPtok 18 "[" 87 15 291) (mkPtok 30 "4294967296" 87 17 292) [((mkPtok 40 "," 87 28 293), (mkPtok 31 """x y""" 87 30 294)); ((mkPtok 40 "," 87 35 295), (mkPtok 31 (string_of_bytes [34; 195; 169; 116; 195; 169; 34]%N) 87 36 296)); ((mkPtok 40 "," 87 42 297), (mkPtok 31 """{,}""" 88 4 298))] (mkPtok 13 "]" 88 10 299))) (mkPtok 39 ":" 88 12 300) (mkPtok 42 "x" 89 0 301) (Some (mkPtok 40 "," 89 2 302))); (mkMatchPair (mkSpan (mkPtok 30 "65535" 90 4 303) (mkPtok 42 "len" 90 12 305)) (MKDigits (mkPtok 30 "65535" 90 4 303)) (mkPtok 39 ":" 90 10 304) (mkPtok 42 "len" 90 12 305) None)] (mkPtok 3 "}" 90 16 306)) (mkPtok 40 "," 91 0 307))); (mkFieldWithAttr (mkSpan (mkPtok 7 "@lengthOf(" 91 2 308) (mkPtok 40 "," 93 1 318)) [(FALengthOf (mkSpan (mkPtok 7 "@lengthOf(" 91 2 308) (mkPtok 6 ")" 92 0 311)) (mkLengthOf (mkSpan (mkPtok 7 "@lengthOf(" 91 2 308) (mkPtok 6 ")" 92 0 311)) (mkPtok 7 "@lengthOf(" 91 2 308) (mkPtok 42 "u8x" 91 13 309) (mkPtok 6 ")" 92 0 311)))] (LengthField (mkSpan (mkPtok 25 "i16" 92 1 312) (mkPtok 40 "," 93 1 318)) (mkLengthFieldDecl (mkSpan (mkPtok 25 "i16" 92 1 312) (mkPtok 40 "," 93 1 318)) (Some (TyBasic (mkSpan (mkPtok 25 "i16" 92 1 312) (mkPtok 25 "i16" 92 1 312)) (mkBasicType (mkSpan (mkPtok 25 "i16" 92 1 312) (mkPtok 25 "i16" 92 1 312)) (mkPtok 25 "i16" 92 1 312)))) (mkPtok 42 "Foo" 92 5 313) (mkLengthOf (mkSpan (mkPtok 7 "@lengthOf(" 92 8 314) (mkPtok 6 ")" 93 0 317)) (mkPtok 7 "@lengthOf(" 92 8 314) (mkPtok 42 "u8x" 92 20 315) (mkPtok 6 ")" 93 0 317)) None (mkPtok 40 "," 93 1 318)))); (mkFieldWithAttr (mkSpan (mkPtok 7 "@lengthOf(" 94 0 319) (mkPtok 40 "," 102 0 336)) [(FALengthOf (mkSpan (mkPtok 7 "@lengthOf(" 94 0 319) (mkPtok 6 ")" 94 13 321)) (mkLengthOf (mkSpan (mkPtok 7 "@lengthOf(" 94 0 319) (mkPtok 6 ")" 94 13 321)) (mkPtok 7 "@lengthOf(" 94 0 319) (mkPtok 42 "_x" 94 11 320) (mkPtok 6 ")" 94 13 321))); (FAPadding (mkSpan (mkPtok 32 "@leftPad" 94 14 322) (mkPtok 6 ")" 94 29 325)) (mkPaddingAttr (mkSpan (mkPtok 32 "@leftPad" 94 14 322) (mkPtok 6 ")" 94 29 325)) (mkPtok 32 "@leftPad" 94 14 322) (mkPtok 8 "(" 94 23 323) (Some (mkPtok 33 "' '" 94 25 324)) (mkPtok 6 ")" 94 29 325)))] (CheckSumField (mkSpan (mkPtok 12 "char[" 95 0 326) (mkPtok 40 "," 102 0 336)) (mkChecksumFieldDecl (mkSpan (mkPtok 12 "char[" 95 0 326) (mkPtok 40 "," 102 0 336)) (Some (TyFixed (mkSpan (mkPtok 12 "char[" 95 0 326) (mkPtok 13 "]" 97 9 329)) (mkFixedString (mkSpan (mkPtok 12 "char[" 95 0 326) (mkPtok 13 "]" 97 9 329)) (mkPtok 12 "char[" 95 0 326) (mkPtok 30 "255" 97 4 328) (mkPtok 13 "]" 97 9 329)))) (mkPtok 42 "tag" 98 0 330) (mkCalculatedFrom (mkSpan (mkPtok 5 "@calculatedFrom(" 99 4 331) (mkPtok 6 ")" 99 28 333)) (mkPtok 5 "@calculatedFrom(" 99 4 331) (mkPtok 31 """it's""" 99 21 332) (mkPtok 6 ")" 99 28 333)) None (mkPtok 40 "," 102 0 336)))); (mkFieldWithAttr (mkSpan (mkPtok 5 "@calculatedFrom(" 102 2 337) (mkPtok 40 "," 103 7 343)) [(FACalculatedFrom (mkSpan (mkPtok 5 "@calculatedFrom(" 102 2 337) (mkPtok 6 ")" 102 21 339)) (mkCalculatedFrom (mkSpan (mkPtok 5 "@calculatedFrom(" 102 2 337) (mkPtok 6 ")" 102 21 339)) (mkPtok 5 "@calculatedFrom(" 102 2 337) (mkPtok 31 """""" 102 18 338) (mkPtok 6 ")" 102 21 339)))] (MetaField (mkSpan (mkPtok 28 "float32" 102 23 340) (mkPtok 40 "," 103 7 343)) None (mkMetaDecl (mkSpan (mkPtok 28 "float32" 102 23 340) (mkPtok 40 "," 103 7 343)) (TyBasic (mkSpan (mkPtok 28 "float32" 102 23 340) (mkPtok 28 "float32" 102 23 340)) (mkBasicType (mkSpan (mkPtok 28 "float32" 102 23 340) (mkPtok 28 "float32" 102 23 340)) (mkPtok 28 "float32" 102 23 340))) (mkPtok 42 "i64_" 102 31 341) (Some (mkPtok 43 (string_of_bytes [96; 108; 105; 110; 101; 49; 10; 108; 105; 110; 101; 50; 96]%N) 102 36 342)) (mkPtok 40 "," 103 7 343)))); (mkFieldWithAttr (mkSpan (mkPtok 36 "repeat" 103 9 344) (mkPtok 40 "," 104 9 347)) [] (MetaField (mkSpan (mkPtok 36 "repeat" 103 9 344) (mkPtok 40 "," 104 9 347)) (Some (mkPtok 36 "repeat" 103 9 344)) (mkMetaDecl (mkSpan (mkPtok 15 "string" 103 16 345) (mkPtok 40 "," 104 9 347)) (TyDynamic (mkSpan (mkPtok 15 "string" 103 16 345) (mkPtok 15 "string" 103 16 345)) (mkDynamicString (mkSpan (mkPtok 15 "string" 103 16 345) (mkPtok 15 "string" 103 16 345)) (mkPtok 15 "string" 103 16 345))) (mkPtok 42 "roots" 104 4 346) None (mkPtok 40 "," 104 9 347)))); (mkFieldWithAttr (mkSpan (mkPtok 15 "string" 104 10 348) (mkPtok 40 "," 105 5 351)) [] (MetaField (mkSpan (mkPtok 15 "string" 104 10 348) (mkPtok 40 "," 105 5 351)) None (mkMetaDecl (mkSpan (mkPtok 15 "string" 104 10 348) (mkPtok 40 "," 105 5 351)) (TyDynamic (mkSpan (mkPtok 15 "string" 104 10 348) (mkPtok 15 "string" 104 10 348)) (mkDynamicString (mkSpan (mkPtok 15 "string" 104 10 348) (mkPtok 15 "string" 104 10 348)) (mkPtok 15 "string" 104 10 348))) (mkPtok 42 "float" 105 0 350) None (mkPtok 40 "," 105 5 351)))); (mkFieldWithAttr (mkSpan (mkPtok 7 "@lengthOf(" 105 7 352) (mkPtok 40 "," 109 2 375)) [(FALengthOf (mkSpan (mkPtok 7 "@lengthOf(" 105 7 352) (mkPtok 6 ")" 105 25 354)) (mkLengthOf (mkSpan (mkPtok 7 "@lengthOf(" 105 7 352) (mkPtok 6 ")" 105 25 354)) (mkPtok 7 "@lengthOf(" 105 7 352) (mkPtok 42 "Header" 105 18 353) (mkPtok 6 ")" 105 25 354))); (FATag (mkSpan (mkPtok 9 "@tag(" 105 27 355) (mkPtok 6 ")" 106 4 357)) (mkTagAttr (mkSpan (mkPtok 9 "@tag(" 105 27 355) (mkPtok 6 ")" 106 4 357)) (mkPtok 9 "@tag(" 105 27 355) (mkPtok 30 "007" 105 33 356) (mkPtok 6 ")" 106 4 357))); (FACalculatedFrom (mkSpan (mkPtok 5 "@calculatedFrom(" 106 6 358) (mkPtok 6 ")" 106 29 360)) (mkCalculatedFrom (mkSpan (mkPtok 5 "@calculatedFrom(" 106 6 358) (mkPtok 6 ")" 106 29 360)) (mkPtok 5 "@calculatedFrom(" 106 6 358) (mkPtok 31 """abc""" 106 23 359) (mkPtok 6 ")" 106 29 360)))] (MatchField (mkSpan (mkPtok 38 "match" 106 31 361) (mkPtok 40 "," 109 2 375)) (mkMatchFieldDecl (mkSpan (mkPtok 38 "match" 106 31 361) (mkPtok 3 "}" 109 0 374)) (mkPtok 38 "match" 106 31 361) (mkPtok 42 "zchar" 107 0 362) (mkPtok 17 "as" 107 7 363) (mkPtok 42 "u8x" 108 0 364) (mkPtok 2 "{" 108 4 365) [(mkMatchPair (mkSpan (mkPtok 31 (string_of_bytes [34; 97; 9; 98; 34]%N) 108 6 366) (mkPtok 40 "," 108 20 369)) (MKString (mkPtok 31 (string_of_bytes [34; 97; 9; 98; 34]%N) 108 6 366)) (mkPtok 39 ":" 108 12 367) (mkPtok 42 "charz" 108 14 368) (Some (mkPtok 40 "," 108 20 369))); (mkMatchPair (mkSpan (mkPtok 30 "0" 108 22 370) (mkPtok 40 "," 108 30 373)) (MKDigits (mkPtok 30 "0" 108 22 370)) (mkPtok 39 ":" 108 24 371) (mkPtok 42 "len" 108 26 372) (Some (mkPtok 40 "," 108 30 373)))] (mkPtok 3 "}" 109 0 374)) (mkPtok 40 "," 109 2 375))); (mkFieldWithAttr (mkSpan (mkPtok 14 "zchar[" 109 3 376) (mkPtok 40 "," 113 14 385)) [] (CheckSumField (mkSpan (mkPtok 14 "zchar[" 109 3 376) (mkPtok 40 "," 113 14 385)) (mkChecksumFieldDecl (mkSpan (mkPtok 14 "zchar[" 109 3 376) (mkPtok 40 "," 113 14 385)) (Some (TyFixed (mkSpan (mkPtok 14 "zchar[" 109 3 376) (mkPtok 13 "]" 109 12 378)) (mkFixedString (mkSpan (mkPtok 14 "zchar[" 109 3 376) (mkPtok 13 "]" 109 12 378)) (mkPtok 14 "zchar[" 109 3 376) (mkPtok 30 "00" 109 10 377) (mkPtok 13 "]" 109 12 378)))) (mkPtok 42 "MetaDataX" 109 13 379) (mkCalculatedFrom (mkSpan (mkPtok 5 "@calculatedFrom(" 110 4 380) (mkPtok 6 ")" 113 0 383)) (mkPtok 5 "@calculatedFrom(" 110 4 380) (mkPtok 31 """a\""b""" 112 4 382) (mkPtok 6 ")" 113 0 383)) (Some (mkPtok 43 "`two words`" 113 2 384)) (mkPtok 40 "," 113 14 385))))] (mkPtok 3 "}" 113 15 386)))])).
-Eval vm_compute in ("<<<M493>>>" ++ check (runes_of_ascii "options {zchar
-    =
-""packet"";o = ""CRC32"" ; len
-= """" ;
-}packet roots {// @lengthOf(
-char
-// `tick` ""quote"" 'q'
-//x
-f32a , } root packet
-    x { char[ 7 ]
-pack // " ++ [27880; 37322]%N ++ runes_of_ascii "
-,	}  packet x { zchar[
-// `tick` ""quote"" 'q'
-// @lengthOf(
-1
-    ] A
-@calculatedFrom( ""a\""b""
-/// triple
-// trailing space 
-) , repeat metadata
-Foo , u8x
-lengthOf ,A Header, @calculatedFrom( ""CRC32"" )
-@calculatedFrom(/// triple
-""""  )
-@leftPad ( '\x00' ) pack x_y_z,
-}
-")).
-Eval vm_compute in ("<<<M525>>>" ++ check (runes_of_ascii "options { }// a // b
-packet BodyLength {zchar[
-0123456789
-] packetx
-`doc`
-, repeat
-msg_type `// not a comment`
-// @lengthOf(
-// c
-,	zchar[00 ] len, chars
-@lengthOf(  chars ) `a\`	, }
-MetaData
-_x {	asx MetaDataX `{ , }`, }
-")).
-Eval vm_compute in ("<<<M557>>>" ++ check (runes_of_ascii " //x")).
-Eval vm_compute in ("<<<M589>>>" ++ check (runes_of_ascii "  options{ i8i8 = true// " ++ [128512]%N ++ runes_of_ascii " emoji
-chars = 42
-    /// triple
-    ; }
-")).
-Eval vm_compute in ("<<<M621>>>" ++ check (runes_of_ascii "options{float
-    =
-    float32 ; }	options {//x
-As =
-    char[]; roots = ""it's""
-}packet
-    leftPad {@tag( 42 // trailing space 
+    42 ] uint8x ,
+@tag( 42// trailing space 
 )
-    repeat _x `two words` ,@calculatedFrom(""x y"" ) repeat char[] Pad
-, }
-")).
-Eval vm_compute in ("<<<M653>>>" ++ check (runes_of_ascii "root packet A { }
-")).
-Eval vm_compute in ("<<<M685>>>" ++ check (runes_of_ascii " // @lengthOf(")).
-Eval vm_compute in ("<<<T685>>>" ++ terms [mkTok 44 "// @lengthOf(" 1 1 true; mkTok 0 "<EOF>" 1 14 false] (mkPacket (mkPtok 0 "<EOF>" 1 14 1) None [])).
-Eval vm_compute in ("<<<M717>>>" ++ check (runes_of_ascii "
-options {
-f32a= i32
-}options// trailing space 
-{
-    //x
-    roots
-=
-    """" float ='0' ;int =
-true x_y_z=' ' ;MetaDataX=// " ++ [128512]%N ++ runes_of_ascii " emoji
-false
-// packet A { u8 x, }
-// " ++ [128512]%N ++ runes_of_ascii " emoji
-;}
-")).
-Eval vm_compute in ("<<<M749>>>" ++ check (runes_of_ascii "// a // b
-root	packet
-//x
-// `tick` ""quote"" 'q'
-f32a { } root packet  packetx { match x_y_z as	Logon{ // `tick` ""quote"" 'q'
-""" ++ [28040; 24687]%N ++ runes_of_ascii """
-    : Packet
-[ 7
-] // @lengthOf(
-:falsey
-,	""`tick`""
-: roots
-    ,	""packet"" : u128 , } ,match falsey as metadata
-{65535 :As
-,  ""a\""b""
-: crc,
-""\" ++ [233]%N ++ runes_of_ascii """
-: Logon
-    , } , u8x `two words` , @tag( 0 )Z9_,}
-// " ++ [128512]%N ++ runes_of_ascii " emoji
-// " ++ [128512]%N ++ runes_of_ascii " emoji
-options	{	options1 = false }")).
-Eval vm_compute in ("<<<M781>>>" ++ check (runes_of_ascii "options
-    { _x =
-    float32
-    ;} packet Packet
-{char[ 255
-]	tag @lengthOf(
-    a1)
-    ,match Packet as lengthOf { [ ""x y"" ,	1
-    ] :metadata,
-[""x y""
-,// @lengthOf(
-0//x
-]  : // `tick` ""quote"" 'q'
-metadata  },@lengthOf(rootA
-) Header matchKey
-, @lengthOf(leftPad)  char[] A `" ++ [233]%N ++ runes_of_ascii "`
-,
-} packet Logon{zchar[1 ]// c
-f32a `{ , }` , i64_ @calculatedFrom( """ ++ [28040; 24687]%N ++ runes_of_ascii """)
-    , @calculatedFrom( """ ++ [128512]%N ++ runes_of_ascii """) @lengthOf( T ) uint16 T
-    @calculatedFrom( ""CRC32""//
-)
-    // packet A { u8 x, }
-    , @tag( 65535 )// trailing space 
-@lengthOf( body ) i8 o @lengthOf(// packet A { u8 x, }
-MetaDataX ) // `tick` ""quote"" 'q'
-`it's` ,match
-    int as falsey {  [ ""// no comment""	,
-255
-/// triple
-//	t
-] :
-MetaDataX , }
-    , }
-root packet msg_type  {	@calculatedFrom(""packet"") MetaDataX f32a `" ++ [233]%N ++ runes_of_ascii "`
-,@calculatedFrom( ""// no comment""
-    ) //
-repeat
-asx u128
-,match
-msg_type as u8x
-    { 255	: T , [ 7 ]
-:metadata , } ,
-@lengthOf( body ) leftPad @calculatedFrom( ""it's"")  ,@leftPad	()metadata msg_type  `crlf
-line` , @tag(
-255 )repeat
-    char[ 00 ] rootA // @lengthOf(
-, match // " ++ [27880; 37322]%N ++ runes_of_ascii "
-f32a as charz{  ""a	b"" : Header } , @lengthOf( options1// `tick` ""quote"" 'q'
-)char[]
-repeatCount  `u8 x,` // @lengthOf(
-,	@lengthOf( o
-// " ++ [128512]%N ++ runes_of_ascii " emoji
-// c
-) float64 crc
-// " ++ [128512]%N ++ runes_of_ascii " emoji
-// packet A { u8 x, }
-@lengthOf( falsey // `tick` ""quote"" 'q'
-)
-,
-} packet	_x {	repeat i64_
-    // c
-    { repeat A{ x_y_z { char[ 1
-// c
-// @lengthOf(
-]Logon
-, } , /// triple
-} , } , } //	t")).
-Eval vm_compute in ("<<<M813>>>" ++ check (runes_of_ascii "packet rootA{
-char[4294967296 ] rootA@calculatedFrom(	""a	b""	) `crlf
-line`, @calculatedFrom( """" )
-// a // b
-// trailing space 
-pack@lengthOf(// packet A { u8 x, }
-rootA)  `
-`,
-@rightPad (
-' ' ) repeat stringy repeatCount`two words`, }")).
-Eval vm_compute in ("<<<M845>>>" ++ check (runes_of_ascii "
-")).
-Eval vm_compute in ("<<<M877>>>" ++ check (runes_of_ascii "options
-    {f32a
-    =
-'0' ; x_y_z
-    =""\" ++ [233]%N ++ runes_of_ascii """ ;int	= ""1""	;  Z9_ = int16
-; calculatedFrom =
-true ;
-}
-MetaData
-trueish{ x_y_z trueish `// not a comment`
-, } packet zchar {@lengthOf(
-As )
-repeat
-options1 { char[]
-    //	t
-    o @calculatedFrom( ""abc"" )
-    , repeat pack /// triple
-, }	, @calculatedFrom( ""a\""b"" ) Foo rootA
-    ,match charz
-as falsey { ""x y""
-:x_y_z, 00 :	BodyLength ,  ""x y"" : x_y_z
-, // @lengthOf(
-}, Foo { repeat As{ repeat u A
-    /// triple
-    ,	repeat
-Logon { uint8x @calculatedFrom(
-""\n"" ) `{ , }` , i16 float ,},
-f64 crc
-`tab	here`
-, repeat char[] As  ``
-, } , calculatedFrom
-{ match body as
-    // a // b
-    a1{
-[""{,}"" , // trailing space 
-""\n"" , """" // c
-, ""1"" , """ ++ [128512]%N ++ runes_of_ascii """
-    ] : BodyLength , ""a\\"" :	chars ,65535
-: o// " ++ [27880; 37322]%N ++ runes_of_ascii "
-[ ""\n"" ] : options1
-    ""CRC32""	: BodyLength,},
-repeat o {
+    float @lengthOf( MetaDataX ),
     string
-    rootA// c
-, } ,
-repeat  zchar[
-65535 ] matchKey `" ++ [28040; 24687; 31867; 22411]%N ++ runes_of_ascii "`,
-    }, char[]
-    rootA `// not a comment` ,repeat
-    T	Logon
-`" ++ [28040; 24687; 31867; 22411]%N ++ runes_of_ascii "` , },
-    @leftPad ( )@tag( 00
-// " ++ [27880; 37322]%N ++ runes_of_ascii "
-// " ++ [27880; 37322]%N ++ runes_of_ascii "
-)@lengthOf(
-Pad
-    // packet A { u8 x, }
-    )  match A as
-a1{
-    //
-    65535 :stringy	[ ""a\""b"" // " ++ [128512]%N ++ runes_of_ascii " emoji
-,
-// a // b
-// packet A { u8 x, }
-""a\\"" ] :
-/// triple
-// trailing space 
-As ,
-// " ++ [27880; 37322]%N ++ runes_of_ascii "
-//
-""// no comment""
-: repeatCount
-    , """": body[""" ++ [28040; 24687]%N ++ runes_of_ascii """
-    , """ ++ [233]%N ++ runes_of_ascii "t" ++ [233]%N ++ runes_of_ascii """]
-    // @lengthOf(
-    :
-options1  , }, } // trailing space ")).
-Eval vm_compute in ("<<<M909>>>" ++ check (runes_of_ascii "packet// `tick` ""quote"" 'q'
-zchar { // c
-} MetaData Header {Z9_ // a // b
-pack , } MetaData asx { //	t
-u Header
-    ,
-    zchar[ 3
-    ]o
-,
-    As repeatCount
-`" ++ [28040; 24687; 31867; 22411]%N ++ runes_of_ascii "`	,
-//	t
-//	t
-rootA
-tag //x
-`u8 x,`
-    , float64 options1 , char[] uint8x , }
-")).
-Eval vm_compute in ("<<<T909>>>" ++ terms [mkTok 35 "packet" 1 0 false; mkTok 44 "// `tick` ""quote"" 'q'" 1 6 true; mkTok 42 "zchar" 2 0 false; mkTok 2 "{" 2 6 false; mkTok 44 "// c" 2 8 true; mkTok 3 "}" 3 0 false; mkTok 37 "MetaData" 3 2 false; mkTok 42 "Header" 3 11 false; mkTok 2 "{" 3 18 false; mkTok 42 "Z9_" 3 19 false; mkTok 44 "// a // b" 3 23 true; mkTok 42 "pack" 4 0 false; mkTok 40 "," 4 5 false; mkTok 3 "}" 4 7 false; mkTok 37 "MetaData" 4 9 false; mkTok 42 "asx" 4 18 false; mkTok 2 "{" 4 22 false; mkTok 44 (string_of_bytes [47; 47; 9; 116]%N) 4 24 true; mkTok 42 "u" 5 0 false; mkTok 42 "Header" 5 2 false; mkTok 40 "," 6 4 false; mkTok 14 "zchar[" 7 4 false; mkTok 30 "3" 7 11 false; mkTok 13 "]" 8 4 false; mkTok 42 "o" 8 5 false; mkTok 40 "," 9 0 false; mkTok 42 "As" 10 4 false; mkTok 42 "repeatCount" 10 7 false; mkTok 43 (string_of_bytes [96; 230; 182; 136; 230; 129; 175; 231; 177; 187; 229; 158; 139; 96]%N) 11 0 false; mkTok 40 "," 11 7 false; mkTok 44 (string_of_bytes [47; 47; 9; 116]%N) 12 0 true; mkTok 44 (string_of_bytes [47; 47; 9; 116]%N) 13 0 true; mkTok 42 "rootA" 14 0 false; mkTok 42 "tag" 15 0 false; mkTok 44 "//x" 15 4 true; mkTok 43 "`u8 x,`" 16 0 false; mkTok 40 "," 17 4 false; mkTok 29 "float64" 17 6 false; mkTok 42 "options1" 17 14 false; mkTok 40 "," 17 23 false; mkTok 16 "char[]" 17 25 false; mkTok 42 "uint8x" 17 32 false; mkTok 40 "," 17 39 false; mkTok 3 "}" 17 41 false; mkTok 0 "<EOF>" 18 0 false] (mkPacket (mkPtok 35 "packet" 1 0 0) (Some (mkPtok 3 "}" 17 41 43)) [(DPacket (mkPacketDef (mkSpan (mkPtok 35 "packet" 1 0 0) (mkPtok 3 "}" 3 0 5)) None (mkPtok 35 "packet" 1 0 0) (mkPtok 42 "zchar" 2 0 2) (mkPtok 2 "{" 2 6 3) [] (mkPtok 3 "}" 3 0 5))); (DMeta (mkMetaDef (mkSpan (mkPtok 37 "MetaData" 3 2 6) (mkPtok 3 "}" 4 7 13)) (mkPtok 37 "MetaData" 3 2 6) (mkPtok 42 "Header" 3 11 7) (mkPtok 2 "{" 3 18 8) [(MIRef (mkRefMetaDecl (mkSpan (mkPtok 42 "Z9_" 3 19 9) (mkPtok 40 "," 4 5 12)) (mkPtok 42 "Z9_" 3 19 9) (mkPtok 42 "pack" 4 0 11) None (mkPtok 40 "," 4 5 12)))] (mkPtok 3 "}" 4 7 13))); (DMeta (mkMetaDef (mkSpan (mkPtok 37 "MetaData" 4 9 14) (mkPtok 3 "}" 17 41 43)) (mkPtok 37 "MetaData" 4 9 14) (mkPtok 42 "asx" 4 18 15) (mkPtok 2 "{" 4 22 16) [(MIRef (mkRefMetaDecl (mkSpan (mkPtok 42 "u" 5 0 18) (mkPtok 40 "," 6 4 20)) (mkPtok 42 "u" 5 0 18) (mkPtok 42 "Header" 5 2 19) None (mkPtok 40 "," 6 4 20))); (MIDecl (mkMetaDecl (mkSpan (mkPtok 14 "zchar[" 7 4 21) (mkPtok 40 "," 9 0 25)) (TyFixed (mkSpan (mkPtok 14 "zchar[" 7 4 21) (mkPtok 13 "]" 8 4 23)) (mkFixedString (mkSpan (mkPtok 14 "zchar[" 7 4 21) (mkPtok 13 "]" 8 4 23)) (mkPtok 14 "zchar[" 7 4 21) (mkPtok 30 "3" 7 11 22) (mkPtok 13 "]" 8 4 23))) (mkPtok 42 "o" 8 5 24) None (mkPtok 40 "," 9 0 25))); (MIRef (mkRefMetaDecl (mkSpan (mkPtok 42 "As" 10 4 26) (mkPtok 40 "," 11 7 29)) (mkPtok 42 "As" 10 4 26) (mkPtok 42 "repeatCount" 10 7 27) (Some (mkPtok 43 (string_of_bytes [96; 230; 182; 136; 230; 129; 175; 231; 177; 187; 229; 158; 139; 96]%N) 11 0 28)) (mkPtok 40 "," 11 7 29))); (MIRef (mkRefMetaDecl (mkSpan (mkPtok 42 "rootA" 14 0 32) (mkPtok 40 "," 17 4 36)) (mkPtok 42 "rootA" 14 0 32) (mkPtok 42 "tag" 15 0 33) (Some (mkPtok 43 "`u8 x,`" 16 0 35)) (mkPtok 40 "," 17 4 36))); (MIDecl (mkMetaDecl (mkSpan (mkPtok 29 "float64" 17 6 37) (mkPtok 40 "," 17 23 39)) (TyBasic (mkSpan (mkPtok 29 "float64" 17 6 37) (mkPtok 29 "float64" 17 6 37)) (mkBasicType (mkSpan (mkPtok 29 "float64" 17 6 37) (mkPtok 29 "float64" 17 6 37)) (mkPtok 29 "float64" 17 6 37))) (mkPtok 42 "options1" 17 14 38) None (mkPtok 40 "," 17 23 39))); (MIDecl (mkMetaDecl (mkSpan (mkPtok 16 "char[]" 17 25 40) (mkPtok 40 "," 17 39 42)) (TyDynamic (mkSpan (mkPtok 16 "char[]" 17 25 40) (mkPtok 16 "char[]" 17 25 40)) (mkDynamicString (mkSpan (mkPtok 16 "char[]" 17 25 40) (mkPtok 16 "char[]" 17 25 40)) (mkPtok 16 "char[]" 17 25 40))) (mkPtok 42 "uint8x" 17 32 41) None (mkPtok 40 "," 17 39 42)))] (mkPtok 3 "}" 17 41 43)))])).
-Eval vm_compute in ("<<<M941>>>" ++ check (runes_of_ascii "root packet a1
-{ uint64 body , @lengthOf(
-rootA )
-char[ 1
-    ] zchar //
-, BodyLength // @lengthOf(
-,
-string_
-, char[] float
-@lengthOf(lengthOf  ) , //
-uint32 asx`" ++ [28040; 24687; 31867; 22411]%N ++ runes_of_ascii "` , char[]	uint8x @calculatedFrom( ""abc""
-    )
-, @tag( 255 )@calculatedFrom( ""a\\"" )zchar[
-// a // b
-// @lengthOf(
-3 ]
-    options1 ,
-    } packet charz { @rightPad	( ' ' ) matchKey @lengthOf(u) `u8 x,` // @lengthOf(
-,@lengthOf(len) @lengthOf(falsey)
-    u @calculatedFrom( ""a\\"" ), match i8i8 as
-    Packet {
-    [""a	b"" ]
-: roots // `tick` ""quote"" 'q'
-,
-    ""abc"":
-    // trailing space 
-    trueish	, [""a\\"",
-    65535 ] // packet A { u8 x, }
-:
-    asx
-0123456789:// " ++ [27880; 37322]%N ++ runes_of_ascii "
-a1	, 1
-// packet A { u8 x, }
-//
-:
-    i64_ } ,  match len as Header {	[
-    0
-    , 0123456789 , 7 ,0 , ""\n""
-    ,""a\\""
-// a // b
-//
-]:
-o
-    , ""x y""
-    // `tick` ""quote"" 'q'
-    :
-    crc [ 3 ,""\" ++ [233]%N ++ runes_of_ascii """  ]
-    : lengthOf//
-,  [10,""x y"" ] :
-    u8x
-1
-:Packet /// triple
-, 007 :
-    Z9_ ,
-} , @calculatedFrom(
-""packet""
-    ) @tag(65535) repeat Pad rootA , @tag(
-4294967296  )@lengthOf(stringy ) crc //
-@lengthOf( uint8x ) `" ++ [28040; 24687; 31867; 22411]%N ++ runes_of_ascii "` , }
-    // @lengthOf(
-    MetaData u8x { len
-calculatedFrom	, // packet A { u8 x, }
-u16 asx , } MetaData Logon
-{ u16 chars  `` ,
-A matchKey `a\`,char[007 ]Header , len uint8x,
-    A Packet `line1
-line2`
-//	t
-//x
-,
-string trueish
-    `u8 x,` ,	}
-")).
-Eval vm_compute in ("<<<M973>>>" ++ check (runes_of_ascii "//x
-")).
-Eval vm_compute in ("<<<M1005>>>" ++ check (runes_of_ascii "options	{ // " ++ [27880; 37322]%N ++ runes_of_ascii "
-zchar=	zchar[ 7
-]	;
-    asx = 10 ;
-zchar
-    = ""a\\"" ; float = 10
-Logon
-= '0';
-    }MetaData	crc {
-    }
-")).
-Eval vm_compute in ("<<<M1037>>>" ++ check (runes_of_ascii "root
-packet roots
-{
-    // " ++ [128512]%N ++ runes_of_ascii " emoji
-    calculatedFrom // c
-x_y_z ,
-    } // a // b")).
-Eval vm_compute in ("<<<M1069>>>" ++ check (runes_of_ascii "packet BodyLength {
-    uint16 tag // packet A { u8 x, }
-, uint8 Header @lengthOf(
-    chars )
-, }
-")).
-Eval vm_compute in ("<<<M1101>>>" ++ check (runes_of_ascii "
-
-
-")).
-Eval vm_compute in ("<<<M1133>>>" ++ check (runes_of_ascii "root
-    packet u {
-    @leftPad (	' '
-    // packet A { u8 x, }
-    ) char[	7 ] msg_type @lengthOf( Header) , }
-")).
-Eval vm_compute in ("<<<T1133>>>" ++ terms [mkTok 34 "root" 1 0 false; mkTok 35 "packet" 2 4 false; mkTok 42 "u" 2 11 false; mkTok 2 "{" 2 13 false; mkTok 32 "@leftPad" 3 4 false; mkTok 8 "(" 3 13 false; mkTok 33 "' '" 3 15 false; mkTok 44 "// packet A { u8 x, }" 4 4 true; mkTok 6 ")" 5 4 false; mkTok 12 "char[" 5 6 false; mkTok 30 "7" 5 12 false; mkTok 13 "]" 5 14 false; mkTok 42 "msg_type" 5 16 false; mkTok 7 "@lengthOf(" 5 25 false; mkTok 42 "Header" 5 36 false; mkTok 6 ")" 5 42 false; mkTok 40 "," 5 44 false; mkTok 3 "}" 5 46 false; mkTok 0 "<EOF>" 6 0 false] (mkPacket (mkPtok 34 "root" 1 0 0) (Some (mkPtok 3 "}" 5 46 17)) [(DPacket (mkPacketDef (mkSpan (mkPtok 34 "root" 1 0 0) (mkPtok 3 "}" 5 46 17)) (Some (mkPtok 34 "root" 1 0 0)) (mkPtok 35 "packet" 2 4 1) (mkPtok 42 "u" 2 11 2) (mkPtok 2 "{" 2 13 3) [(mkFieldWithAttr (mkSpan (mkPtok 32 "@leftPad" 3 4 4) (mkPtok 40 "," 5 44 16)) [(FAPadding (mkSpan (mkPtok 32 "@leftPad" 3 4 4) (mkPtok 6 ")" 5 4 8)) (mkPaddingAttr (mkSpan (mkPtok 32 "@leftPad" 3 4 4) (mkPtok 6 ")" 5 4 8)) (mkPtok 32 "@leftPad" 3 4 4) (mkPtok 8 "(" 3 13 5) (Some (mkPtok 33 "' '" 3 15 6)) (mkPtok 6 ")" 5 4 8)))] (LengthField (mkSpan (mkPtok 12 "char[" 5 6 9) (mkPtok 40 "," 5 44 16)) (mkLengthFieldDecl (mkSpan (mkPtok 12 "char[" 5 6 9) (mkPtok 40 "," 5 44 16)) (Some (TyFixed (mkSpan (mkPtok 12 "char[" 5 6 9) (mkPtok 13 "]" 5 14 11)) (mkFixedString (mkSpan (mkPtok 12 "char[" 5 6 9) (mkPtok 13 "]" 5 14 11)) (mkPtok 12 "char[" 5 6 9) (mkPtok 30 "7" 5 12 10) (mkPtok 13 "]" 5 14 11)))) (mkPtok 42 "msg_type" 5 16 12) (mkLengthOf (mkSpan (mkPtok 7 "@lengthOf(" 5 25 13) (mkPtok 6 ")" 5 42 15)) (mkPtok 7 "@lengthOf(" 5 25 13) (mkPtok 42 "Header" 5 36 14) (mkPtok 6 ")" 5 42 15)) None (mkPtok 40 "," 5 44 16))))] (mkPtok 3 "}" 5 46 17)))])).
-Eval vm_compute in ("<<<M1165>>>" ++ check (runes_of_ascii "packet
-    Packet
-// " ++ [128512]%N ++ runes_of_ascii " emoji
-//	t
-{ @leftPad
-('\x00' )
-    // `tick` ""quote"" 'q'
-    match trueish as Pad { 65535 :Header ,
-00 :// `tick` ""quote"" 'q'
-roots
-    [ """ ++ [233]%N ++ runes_of_ascii "t" ++ [233]%N ++ runes_of_ascii """ ,
-""1"" , ""packet"" , 42 , 0, ""x y""
-    ,
-""" ++ [128512]%N ++ runes_of_ascii """ ,
-""a	b"" ]
-    :
-BodyLength
-, """ ++ [28040; 24687]%N ++ runes_of_ascii """ : Packet ,
-[ """ ++ [128512]%N ++ runes_of_ascii """ ]: body } , } //x
-options
-    // a // b
-    { /// triple
-As = u16 }")).
-Eval vm_compute in ("<<<M1197>>>" ++ check (runes_of_ascii "  MetaData	i64_ { // trailing space 
-falsey asx	`u8 x,`  , } MetaData T
-    { }
-root packet msg_type
-{ zchar[ 7	] options1@calculatedFrom(
-    ""a	b"" )
-`// not a comment`
-    , @calculatedFrom( """ ++ [28040; 24687]%N ++ runes_of_ascii """) matchKey @lengthOf(//x
-x_y_z
-), uint64 len
-,
-    @tag(255) u32	A
-// " ++ [128512]%N ++ runes_of_ascii " emoji
-// packet A { u8 x, }
-`` ,
-    // c
-    } // a // b")).
-Eval vm_compute in ("<<<M1229>>>" ++ check (runes_of_ascii "packet T { @lengthOf(
-Foo ) @tag( 10 )@lengthOf(rootA )chars `it's`,repeat
-    char roots //	t
-,
-@tag(	0 ) match  charz as leftPad { 0 :tag
-,} , Z9_ // trailing space 
-u128 ,
-    int32 int@calculatedFrom(  ""\n""  ) , @lengthOf( int )	Z9_
-    // " ++ [27880; 37322]%N ++ runes_of_ascii "
-    {
-    repeat	char[] calculatedFrom`crlf
-line`
-,	zchar[0
-    ] o @calculatedFrom( ""\" ++ [233]%N ++ runes_of_ascii """ ) ,
-    u8x{_x
-, // @lengthOf(
-zchar[ 3 ] stringy @lengthOf( T) //	t
-,
-    // trailing space 
-    uint8
-body
-    , char[]falsey
-// `tick` ""quote"" 'q'
-// @lengthOf(
-@calculatedFrom( ""// no comment"" ) `" ++ [233]%N ++ runes_of_ascii "` , /// triple
-}
-, }
-    , @tag(
-1 )@calculatedFrom(""a\\""
-    )
-    // c
-    @rightPad(
-    '0')
-    i32 tag @calculatedFrom(
-    ""a\""b""
-) `crlf
-line` , match
-    BodyLength as	f32a
-    {[ 3
-    ,""`tick`"" , ""`tick`"" , 007 , ""1"" , 65535// " ++ [128512]%N ++ runes_of_ascii " emoji
-, //	t
-1	,  0
-] :
-Z9_ ,
-[ ""CRC32"" ,
-    ""a\\""
-] :
-chars
-,
-""a\""b""
-: roots , 1
-: f32a
-    , // " ++ [27880; 37322]%N ++ runes_of_ascii "
-}
-    , trueish{
-//
-/// triple
-zchar{ match Pad
-as tag {  [
-0123456789 , 00
-,
-    7,""a	b"" , // @lengthOf(
-""CRC32"" ] :
-    options1 ,
-    // @lengthOf(
-    } , pack  { zchar[ 10
-]
-    chars ,}	,u `crlf
-line`  , repeat // " ++ [27880; 37322]%N ++ runes_of_ascii "
-int32 _x `two words` ,  } , }, // trailing space 
-falsey
-    As , } options {falsey // " ++ [128512]%N ++ runes_of_ascii " emoji
-=
-    ""abc"" ; Foo=	false ; } root
-packet
-A { @lengthOf(uint8x ) match u8x as
-msg_type
-{ [
-007 , 00 ]: u128 , [	255 ,// a // b
-""{,}""
-    ,
-    10
-// " ++ [128512]%N ++ runes_of_ascii " emoji
-// " ++ [27880; 37322]%N ++ runes_of_ascii "
-, ""// no comment""	,""""  ,
-    """ ++ [128512]%N ++ runes_of_ascii """ ] :
-T ,255:string_ , ""`tick`"" :
-As
-},
-}MetaData chars
-{
-char[	65535 ]
-roots, i64 u128 , char[ 42]	pack // " ++ [128512]%N ++ runes_of_ascii " emoji
-,} //x")).
-Eval vm_compute in ("<<<M1261>>>" ++ check (runes_of_ascii "  options { } packet Logon{} packet Foo
-{
-    uint8x _x // a // b
-`" ++ [28040; 24687; 31867; 22411]%N ++ runes_of_ascii "` ,
-    } packet
-u8x	{
-rootA , }
-    options
-    // packet A { u8 x, }
-    {
-msg_type = false stringy=
-    ' '
-    } 	 ")).
-Eval vm_compute in ("<<<M1293>>>" ++ check (runes_of_ascii "packet  lengthOf{
-@tag( 65535 )	match crc as
-    i8i8 {[65535 , 42 , ""it's"", ""x y"",
-    7,
-    // trailing space 
-    ""a	b""
-] : float , 00
-: MetaDataX , 00 : options1 // " ++ [128512]%N ++ runes_of_ascii " emoji
-,	1 :a1, 0 : packetx
-    ,}
-    , }")).
-Eval vm_compute in ("<<<M1325>>>" ++ check (runes_of_ascii "root packet u128 {
-@lengthOf(
-// `tick` ""quote"" 'q'
-//x
-T) repeat Header
-    , @tag(
-    255) @tag(
-    //x
-    255 ) //x
-u64
-    crc
-    , @tag( 65535
-) @lengthOf( u128
-)uint32 chars ,	} packet
-i64_	{ i8 string_ @calculatedFrom(	""it's"" ) , @leftPad
-( ' '
-//	t
-// " ++ [27880; 37322]%N ++ runes_of_ascii "
-) repeat //x
-Pad
-{ repeat MetaDataX {
-o packetx , roots Header ,
-match falsey as
-    roots {007  :msg_type ,[ 10	] :	T"""" // c
-:Packet,	42
-:msg_type ,
-    }
-, string
-    string_`tab	here`
-    , } ,
-repeat  float64  repeatCount`doc` // packet A { u8 x, }
-, // @lengthOf(
-}
-,match falsey as u8x
-    { ""\" ++ [233]%N ++ runes_of_ascii """ : metadata 0 :repeatCount
-    ,
-    0123456789
-:repeatCount , ""packet"": Foo
-// @lengthOf(
-// @lengthOf(
-, 0123456789
-: tag ,
-    },
-@lengthOf(
-As )
-match A	as // " ++ [128512]%N ++ runes_of_ascii " emoji
-repeatCount{
-    42  : a1
-    ,65535
-    :
-Packet , 7 :	len """" : rootA """ ++ [233]%N ++ runes_of_ascii "t" ++ [233]%N ++ runes_of_ascii """ : rootA},
-    @calculatedFrom( ""CRC32"" )
-    repeatCount @calculatedFrom( ""`tick`"" )	,
-f32 crc `doc` ,
-crc  ,
-// c
-// packet A { u8 x, }
-char[] Header
-,
-} 	 ")).
-Eval vm_compute in ("<<<M1357>>>" ++ check (runes_of_ascii "options{ o = u8
-    ; pack = true ; x = string
-// @lengthOf(
-// `tick` ""quote"" 'q'
-} packet i64_// packet A { u8 x, }
-{ @tag( 42
-    /// triple
-    )	@tag( 10
-)	@lengthOf(len )
-    match i8i8 as int // a // b
-{ [
-""""
-,007 , ""abc""
-    ,
-00 , 255
-, 00	,
-    """ ++ [28040; 24687]%N ++ runes_of_ascii """]
-    : MetaDataX ,
-    10: _x , 4294967296 :BodyLength
-    ,
-    ""packet"" : len // packet A { u8 x, }
-,""a	b""	: float , 10
-    : f32a
-}
-, zchar  `// not a comment`/// triple
-, u64 BodyLength	, @leftPad
-    /// triple
-    (
-)@calculatedFrom( ""abc""
-    ) match
-Foo as //
-T {
-    [
-    10
-,""a	b"" ,	0123456789,
-""it's""	, 3 ] :	pack ,  [ 3 ,
-""CRC32"",
-""it's""
-, // @lengthOf(
-""CRC32"" ,
-""CRC32""
-    ] :
-crc , // c
-""packet"" : //
-msg_type ,
-}
-    ,
-string_ o
-    , @leftPad( ) char[] Header//	t
-`{ , }`
-    ,
-@tag(  007)
-    @lengthOf(  u128)
-pack
-    f32a , // packet A { u8 x, }
-repeat tag{ repeat
-As
-    {
-trueish,	}
-,
-repeat
-    trueish { zchar[ 65535 ]stringy	,
-    // " ++ [27880; 37322]%N ++ runes_of_ascii "
-    }, zchar[ 65535]repeatCount// packet A { u8 x, }
-, repeat u8 stringy , }  ,
-} MetaData _x {string	o `" ++ [28040; 24687; 31867; 22411]%N ++ runes_of_ascii "`,matchKey trueish ,}
-options
-    { Packet=
-' ' ; }
-")).
-Eval vm_compute in ("<<<T1357>>>" ++ terms [mkTok 1 "options" 1 0 false; mkTok 2 "{" 1 7 false; mkTok 42 "o" 1 9 false; mkTok 4 "=" 1 11 false; mkTok 20 "u8" 1 13 false; mkTok 41 ";" 2 4 false; mkTok 42 "pack" 2 6 false; mkTok 4 "=" 2 11 false; mkTok 10 "true" 2 13 false; mkTok 41 ";" 2 18 false; mkTok 42 "x" 2 20 false; mkTok 4 "=" 2 22 false; mkTok 15 "string" 2 24 false; mkTok 44 "// @lengthOf(" 3 0 true; mkTok 44 "// `tick` ""quote"" 'q'" 4 0 true; mkTok 3 "}" 5 0 false; mkTok 35 "packet" 5 2 false; mkTok 42 "i64_" 5 9 false; mkTok 44 "// packet A { u8 x, }" 5 13 true; mkTok 2 "{" 6 0 false; mkTok 9 "@tag(" 6 2 false; mkTok 30 "42" 6 8 false; mkTok 44 "/// triple" 7 4 true; mkTok 6 ")" 8 4 false; mkTok 9 "@tag(" 8 6 false; mkTok 30 "10" 8 12 false; mkTok 6 ")" 9 0 false; mkTok 7 "@lengthOf(" 9 2 false; mkTok 42 "len" 9 12 false; mkTok 6 ")" 9 16 false; mkTok 38 "match" 10 4 false; mkTok 42 "i8i8" 10 10 false; mkTok 17 "as" 10 15 false; mkTok 42 "int" 10 18 false; mkTok 44 "// a // b" 10 22 true; mkTok 2 "{" 11 0 false; mkTok 18 "[" 11 2 false; mkTok 31 """""" 12 0 false; mkTok 40 "," 13 0 false; mkTok 30 "007" 13 1 false; mkTok 40 "," 13 5 false; mkTok 31 """abc""" 13 7 false; mkTok 40 "," 14 4 false; mkTok 30 "00" 15 0 false; mkTok 40 "," 15 3 false; mkTok 30 "255" 15 5 false; mkTok 40 "," 16 0 false; mkTok 30 "00" 16 2 false; mkTok 40 "," 16 5 false; mkTok 31 (string_of_bytes [34; 230; 182; 136; 230; 129; 175; 34]%N) 17 4 false; mkTok 13 "]" 17 8 false; mkTok 39 ":" 18 4 false; mkTok 42 "MetaDataX" 18 6 false; mkTok 40 "," 18 16 false; mkTok 30 "10" 19 4 false; mkTok 39 ":" 19 6 false; mkTok 42 "_x" 19 8 false; mkTok 40 "," 19 11 false; mkTok 30 "4294967296" 19 13 false; mkTok 39 ":" 19 24 false; mkTok 42 "BodyLength" 19 25 false; mkTok 40 "," 20 4 false; mkTok 31 """packet""" 21 4 false; mkTok 39 ":" 21 13 false; mkTok 42 "len" 21 15 false; mkTok 44 "// packet A { u8 x, }" 21 19 true; mkTok 40 "," 22 0 false; mkTok 31 (string_of_bytes [34; 97; 9; 98; 34]%N) 22 1 false; mkTok 39 ":" 22 7 false; mkTok 42 "float" 22 9 false; mkTok 40 "," 22 15 false; mkTok 30 "10" 22 17 false; mkTok 39 ":" 23 4 false; mkTok 42 "f32a" 23 6 false; mkTok 3 "}" 24 0 false; mkTok 40 "," 25 0 false; mkTok 42 "zchar" 25 2 false; mkTok 43 "`// not a comment`" 25 9 false; mkTok 44 "/// triple" 25 27 true; mkTok 40 "," 26 0 false; mkTok 23 "u64" 26 2 false; mkTok 42 "BodyLength" 26 6 false; mkTok 40 "," 26 17 false; mkTok 32 "@leftPad" 26 19 false; mkTok 44 "/// triple" 27 4 true; mkTok 8 "(" 28 4 false; mkTok 6 ")" 29 0 false; mkTok 5 "@calculatedFrom(" 29 1 false; mkTok 31 """abc""" 29 18 false; mkTok 6 ")" 30 4 false; mkTok 38 "match" 30 6 false; mkTok 42 "Foo" 31 0 false; mkTok 17 "as" 31 4 false; mkTok 44 "//" 31 7 true; mkTok 42 "T" 32 0 false; mkTok 2 "{" 32 2 false; mkTok 18 "[" 33 4 false; mkTok 30 "10" 34 4 false; mkTok 40 "," 35 0 false; mkTok 31 (string_of_bytes [34; 97; 9; 98; 34]%N) 35 1 false; mkTok 40 "," 35 7 false; mkTok 30 "0123456789" 35 9 false; mkTok 40 "," 35 19 false; mkTok 31 """it's""" 36 0 false; mkTok 40 "," 36 7 false; mkTok 30 "3" 36 9 false; mkTok 13 "]" 36 11 false; mkTok 39 ":" 36 13 false; mkTok 42 "pack" 36 15 false; mkTok 40 "," 36 20 false; mkTok 18 "[" 36 23 false; mkTok 30 "3" 36 25 false; mkTok 40 "," 36 27 false; mkTok 31 """CRC32""" 37 0 false; mkTok 40 "," 37 7 false; mkTok 31 """it's""" 38 0 false; mkTok 40 "," 39 0 false; mkTok 44 "// @lengthOf(" 39 2 true; mkTok 31 """CRC32""" 40 0 false; mkTok 40 "," 40 8 false; mkTok 31 """CRC32""" 41 0 false; mkTok 13 "]" 42 4 false; mkTok 39 ":" 42 6 false; mkTok 42 "crc" 43 0 false; mkTok 40 "," 43 4 false; mkTok 44 "// c" 43 6 true; mkTok 31 """packet""" 44 0 false; mkTok 39 ":" 44 9 false; mkTok 44 "//" 44 11 true; mkTok 42 "msg_type" 45 0 false; mkTok 40 "," 45 9 false; mkTok 3 "}" 46 0 false; mkTok 40 "," 47 4 false; mkTok 42 "string_" 48 0 false; mkTok 42 "o" 48 8 false; mkTok 40 "," 49 4 false; mkTok 32 "@leftPad" 49 6 false; mkTok 8 "(" 49 14 false; mkTok 6 ")" 49 16 false; mkTok 16 "char[]" 49 18 false; mkTok 42 "Header" 49 25 false; mkTok 44 (string_of_bytes [47; 47; 9; 116]%N) 49 31 true; mkTok 43 "`{ , }`" 50 0 false; mkTok 40 "," 51 4 false; mkTok 9 "@tag(" 52 0 false; mkTok 30 "007" 52 7 false; mkTok 6 ")" 52 10 false; mkTok 7 "@lengthOf(" 53 4 false; mkTok 42 "u128" 53 16 false; mkTok 6 ")" 53 20 false; mkTok 42 "pack" 54 0 false; mkTok 42 "f32a" 55 4 false; mkTok 40 "," 55 9 false; mkTok 44 "// packet A { u8 x, }" 55 11 true; mkTok 36 "repeat" 56 0 false; mkTok 42 "tag" 56 7 false; mkTok 2 "{" 56 10 false; mkTok 36 "repeat" 56 12 false; mkTok 42 "As" 57 0 false; mkTok 2 "{" 58 4 false; mkTok 42 "trueish" 59 0 false; mkTok 40 "," 59 7 false; mkTok 3 "}" 59 9 false; mkTok 40 "," 60 0 false; mkTok 36 "repeat" 61 0 false; mkTok 42 "trueish" 62 4 false; mkTok 2 "{" 62 12 false; mkTok 14 "zchar[" 62 14 false; mkTok 30 "65535" 62 21 false; mkTok 13 "]" 62 27 false; mkTok 42 "stringy" 62 28 false; mkTok 40 "," 62 36 false; mkTok 44 (string_of_bytes [47; 47; 32; 230; 179; 168; 233; 135; 138]%N) 63 4 true; mkTok 3 "}" 64 4 false; mkTok 40 "," 64 5 false; mkTok 14 "zchar[" 64 7 false; mkTok 30 "65535" 64 14 false; mkTok 13 "]" 64 19 false; mkTok 42 "repeatCount" 64 20 false; mkTok 44 "// packet A { u8 x, }" 64 31 true; mkTok 40 "," 65 0 false; mkTok 36 "repeat" 65 2 false; mkTok 20 "u8" 65 9 false; mkTok 42 "stringy" 65 12 false; mkTok 40 "," 65 20 false; mkTok 3 "}" 65 22 false; mkTok 40 "," 65 25 false; mkTok 3 "}" 66 0 false; mkTok 37 "MetaData" 66 2 false; mkTok 42 "_x" 66 11 false; mkTok 2 "{" 66 14 false; mkTok 15 "string" 66 15 false; mkTok 42 "o" 66 22 false; mkTok 43 (string_of_bytes [96; 230; 182; 136; 230; 129; 175; 231; 177; 187; 229; 158; 139; 96]%N) 66 24 false; mkTok 40 "," 66 30 false; mkTok 42 "matchKey" 66 31 false; mkTok 42 "trueish" 66 40 false; mkTok 40 "," 66 48 false; mkTok 3 "}" 66 49 false; mkTok 1 "options" 67 0 false; mkTok 2 "{" 68 4 false; mkTok 42 "Packet" 68 6 false; mkTok 4 "=" 68 12 false; mkTok 33 "' '" 69 0 false; mkTok 41 ";" 69 4 false; mkTok 3 "}" 69 6 false; mkTok 0 "<EOF>" 70 0 false] (mkPacket (mkPtok 1 "options" 1 0 0) (Some (mkPtok 3 "}" 69 6 205)) [(DOption (mkOptionDef (mkSpan (mkPtok 1 "options" 1 0 0) (mkPtok 3 "}" 5 0 15)) (mkPtok 1 "options" 1 0 0) (mkPtok 2 "{" 1 7 1) [(mkOptionDecl (mkSpan (mkPtok 42 "o" 1 9 2) (mkPtok 41 ";" 2 4 5)) (mkPtok 42 "o" 1 9 2) (mkPtok 4 "=" 1 11 3) (VType (mkSpan (mkPtok 20 "u8" 1 13 4) (mkPtok 20 "u8" 1 13 4)) (TyBasic (mkSpan (mkPtok 20 "u8" 1 13 4) (mkPtok 20 "u8" 1 13 4)) (mkBasicType (mkSpan (mkPtok 20 "u8" 1 13 4) (mkPtok 20 "u8" 1 13 4)) (mkPtok 20 "u8" 1 13 4)))) (Some (mkPtok 41 ";" 2 4 5))); (mkOptionDecl (mkSpan (mkPtok 42 "pack" 2 6 6) (mkPtok 41 ";" 2 18 9)) (mkPtok 42 "pack" 2 6 6) (mkPtok 4 "=" 2 11 7) (VTrue (mkSpan (mkPtok 10 "true" 2 13 8) (mkPtok 10 "true" 2 13 8)) (mkPtok 10 "true" 2 13 8)) (Some (mkPtok 41 ";" 2 18 9))); (mkOptionDecl (mkSpan (mkPtok 42 "x" 2 20 10) (mkPtok 15 "string" 2 24 12)) (mkPtok 42 "x" 2 20 10) (mkPtok 4 "=" 2 22 11) (VType (mkSpan (mkPtok 15 "string" 2 24 12) (mkPtok 15 "string" 2 24 12)) (TyDynamic (mkSpan (mkPtok 15 "string" 2 24 12) (mkPtok 15 "string" 2 24 12)) (mkDynamicString (mkSpan (mkPtok 15 "string" 2 24 12) (mkPtok 15 "string" 2 24 12)) (mkPtok 15 "string" 2 24 12)))) None)] (mkPtok 3 "}" 5 0 15))); (DPacket (mkPacketDef (mkSpan (mkPtok 35 "packet" 5 2 16) (mkPtok 3 "}" 66 0 187)) None (mkPtok 35 "packet" 5 2 16) (mkPtok 42 "i64_" 5 9 17) (mkPtok 2 "{" 6 0 19) [(mkFieldWithAttr (mkSpan (mkPtok 9 "@tag(" 6 2 20) (mkPtok 40 "," 25 0 75)) [(FATag (mkSpan (mkPtok 9 "@tag(" 6 2 20) (mkPtok 6 ")" 8 4 23)) (mkTagAttr (mkSpan (mkPtok 9 "@tag(" 6 2 20) (mkPtok 6 ")" 8 4 23)) (mkPtok 9 "@tag(" 6 2 20) (mkPtok 30 "42" 6 8 21) (mkPtok 6 ")" 8 4 23))); (FATag (mkSpan (mkPtok 9 "@tag(" 8 6 24) (mkPtok 6 ")" 9 0 26)) (mkTagAttr (mkSpan (mkPtok 9 "@tag(" 8 6 24) (mkPtok 6 ")" 9 0 26)) (mkPtok 9 "@tag(" 8 6 24) (mkPtok 30 "10" 8 12 25) (mkPtok 6 ")" 9 0 26))); (FALengthOf (mkSpan (mkPtok 7 "@lengthOf(" 9 2 27) (mkPtok 6 ")" 9 16 29)) (mkLengthOf (mkSpan (mkPtok 7 "@lengthOf(" 9 2 27) (mkPtok 6 ")" 9 16 29)) (mkPtok 7 "@lengthOf(" 9 2 27) (mkPtok 42 "len" 9 12 28) (mkPtok 6 ")" 9 16 29)))] (MatchField (mkSpan (mkPtok 38 "match" 10 4 30) (mkPtok 40 "," 25 0 75)) (mkMatchFieldDecl (mkSpan (mkPtok 38 "match" 10 4 30) (mkPtok 3 "}" 24 0 74)) (mkPtok 38 "match" 10 4 30) (mkPtok 42 "i8i8" 10 10 31) (mkPtok 17 "as" 10 15 32) (mkPtok 42 "int" 10 18 33) (mkPtok 2 "{" 11 0 35) [(mkMatchPair (mkSpan (mkPtok 18 "[" 11 2 36) (mkPtok 40 "," 18 16 53)) (MKList (mkKeyList (mkSpan (mkPtok 18 "[" 11 2 36) (mkPtok 13 "]" 17 8 50)) (mkPtok 18 "[" 11 2 36) (mkPtok 31 """""" 12 0 37) [((mkPtok 40 "," 13 0 38), (mkPtok 30 "007" 13 1 39)); ((mkPtok 40 "," 13 5 40), (mkPtok 31 """abc""" 13 7 41)); ((mkPtok 40 "," 14 4 42), (mkPtok 30 "00" 15 0 43)); ((mkPtok 40 "," 15 3 44), (mkPtok 30 "255" 15 5 45)); ((mkPtok 40 "," 16 0 46), (mkPtok 30 "00" 16 2 47)); ((mkPtok 40 "," 16 5 48), (mkPtok 31 (string_of_bytes [34; 230; 182; 136; 230; 129; 175; 34]%N) 17 4 49))] (mkPtok 13 "]" 17 8 50))) (mkPtok 39 ":" 18 4 51) (mkPtok 42 "MetaDataX" 18 6 52) (Some (mkPtok 40 "," 18 16 53))); (mkMatchPair (mkSpan (mkPtok 30 "10" 19 4 54) (mkPtok 40 "," 19 11 57)) (MKDigits (mkPtok 30 "10" 19 4 54)) (mkPtok 39 ":" 19 6 55) (mkPtok 42 "_x" 19 8 56) (Some (mkPtok 40 "," 19 11 57))); (mkMatchPair (mkSpan (mkPtok 30 "4294967296" 19 13 58) (mkPtok 40 "," 20 4 61)) (MKDigits (mkPtok 30 "4294967296" 19 13 58)) (mkPtok 39 ":" 19 24 59) (mkPtok 42 "BodyLength" 19 25 60) (Some (mkPtok 40 "," 20 4 61))); (mkMatchPair (mkSpan (mkPtok 31 """packet""" 21 4 62) (mkPtok 40 "," 22 0 66)) (MKString (mkPtok 31 """packet""" 21 4 62)) (mkPtok 39 ":" 21 13 63) (mkPtok 42 "len" 21 15 64) (Some (mkPtok 40 "," 22 0 66))); (mkMatchPair (mkSpan (mkPtok 31 (string_of_bytes [34; 97; 9; 98; 34]%N) 22 1 67) (mkPtok 40 "," 22 15 70)) (MKString (mkPtok 31 (string_of_bytes [34; 97; 9; 98; 34]%N) 22 1 67)) (mkPtok 39 ":" 22 7 68) (mkPtok 42 "float" 22 9 69) (Some (mkPtok 40 "," 22 15 70))); (mkMatchPair (mkSpan (mkPtok 30 "10" 22 17 71) (mkPtok 42 "f32a" 23 6 73)) (MKDigits (mkPtok 30 "10" 22 17 71)) (mkPtok 39 ":" 23 4 72) (mkPtok 42 "f32a" 23 6 73) None)] (mkPtok 3 "}" 24 0 74)) (mkPtok 40 "," 25 0 75))); (mkFieldWithAttr (mkSpan (mkPtok 42 "zchar" 25 2 76) (mkPtok 40 "," 26 0 79)) [] (ObjectField (mkSpan (mkPtok 42 "zchar" 25 2 76) (mkPtok 40 "," 26 0 79)) None (mkPtok 42 "zchar" 25 2 76) None (Some (mkPtok 43 "`// not a comment`" 25 9 77)) (mkPtok 40 "," 26 0 79))); (mkFieldWithAttr (mkSpan (mkPtok 23 "u64" 26 2 80) (mkPtok 40 "," 26 17 82)) [] (MetaField (mkSpan (mkPtok 23 "u64" 26 2 80) (mkPtok 40 "," 26 17 82)) None (mkMetaDecl (mkSpan (mkPtok 23 "u64" 26 2 80) (mkPtok 40 "," 26 17 82)) (TyBasic (mkSpan (mkPtok 23 "u64" 26 2 80) (mkPtok 23 "u64" 26 2 80)) (mkBasicType (mkSpan (mkPtok 23 "u64" 26 2 80) (mkPtok 23 "u64" 26 2 80)) (mkPtok 23 "u64" 26 2 80))) (mkPtok 42 "BodyLength" 26 6 81) None (mkPtok 40 "," 26 17 82)))); (mkFieldWithAttr (mkSpan (mkPtok 32 "@leftPad" 26 19 83) (mkPtok 40 "," 47 4 132)) [(FAPadding (mkSpan (mkPtok 32 "@leftPad" 26 19 83) (mkPtok 6 ")" 29 0 86)) (mkPaddingAttr (mkSpan (mkPtok 32 "@leftPad" 26 19 83) (mkPtok 6 ")" 29 0 86)) (mkPtok 32 "@leftPad" 26 19 83) (mkPtok 8 "(" 28 4 85) None (mkPtok 6 ")" 29 0 86))); (FACalculatedFrom (mkSpan (mkPtok 5 "@calculatedFrom(" 29 1 87) (mkPtok 6 ")" 30 4 89)) (mkCalculatedFrom (mkSpan (mkPtok 5 "@calculatedFrom(" 29 1 87) (mkPtok 6 ")" 30 4 89)) (mkPtok 5 "@calculatedFrom(" 29 1 87) (mkPtok 31 """abc""" 29 18 88) (mkPtok 6 ")" 30 4 89)))] (MatchField (mkSpan (mkPtok 38 "match" 30 6 90) (mkPtok 40 "," 47 4 132)) (mkMatchFieldDecl (mkSpan (mkPtok 38 "match" 30 6 90) (mkPtok 3 "}" 46 0 131)) (mkPtok 38 "match" 30 6 90) (mkPtok 42 "Foo" 31 0 91) (mkPtok 17 "as" 31 4 92) (mkPtok 42 "T" 32 0 94) (mkPtok 2 "{" 32 2 95) [(mkMatchPair (mkSpan (mkPtok 18 "[" 33 4 96) (mkPtok 40 "," 36 20 109)) (MKList (mkKeyList (mkSpan (mkPtok 18 "[" 33 4 96) (mkPtok 13 "]" 36 11 106)) (mkPtok 18 "[" 33 4 96) (mkPtok 30 "10" 34 4 97) [((mkPtok 40 "," 35 0 98), (mkPtok 31 (string_of_bytes [34; 97; 9; 98; 34]%N) 35 1 99)); ((mkPtok 40 "," 35 7 100), (mkPtok 30 "0123456789" 35 9 101)); ((mkPtok 40 "," 35 19 102), (mkPtok 31 """it's""" 36 0 103)); ((mkPtok 40 "," 36 7 104), (mkPtok 30 "3" 36 9 105))] (mkPtok 13 "]" 36 11 106))) (mkPtok 39 ":" 36 13 107) (mkPtok 42 "pack" 36 15 108) (Some (mkPtok 40 "," 36 20 109))); (mkMatchPair (mkSpan (mkPtok 18 "[" 36 23 110) (mkPtok 40 "," 43 4 124)) (MKList (mkKeyList (mkSpan (mkPtok 18 "[" 36 23 110) (mkPtok 13 "]" 42 4 121)) (mkPtok 18 "[" 36 23 110) (mkPtok 30 "3" 36 25 111) [((mkPtok 40 "," 36 27 112), (mkPtok 31 """CRC32""" 37 0 113)); ((mkPtok 40 "," 37 7 114), (mkPtok 31 """it's""" 38 0 115)); ((mkPtok 40 "," 39 0 116), (mkPtok 31 """CRC32""" 40 0 118)); ((mkPtok 40 "," 40 8 119), (mkPtok 31 """CRC32""" 41 0 120))] (mkPtok 13 "]" 42 4 121))) (mkPtok 39 ":" 42 6 122) (mkPtok 42 "crc" 43 0 123) (Some (mkPtok 40 "," 43 4 124))); (mkMatchPair (mkSpan (mkPtok 31 """packet""" 44 0 126) (mkPtok 40 "," 45 9 130)) (MKString (mkPtok 31 """packet""" 44 0 126)) (mkPtok 39 ":" 44 9 127) (mkPtok 42 "msg_type" 45 0 129) (Some (mkPtok 40 "," 45 9 130)))] (mkPtok 3 "}" 46 0 131)) (mkPtok 40 "," 47 4 132))); (mkFieldWithAttr (mkSpan (mkPtok 42 "string_" 48 0 133) (mkPtok 40 "," 49 4 135)) [] (ObjectField (mkSpan (mkPtok 42 "string_" 48 0 133) (mkPtok 40 "," 49 4 135)) None (mkPtok 42 "string_" 48 0 133) (Some (mkPtok 42 "o" 48 8 134)) None (mkPtok 40 "," 49 4 135))); (mkFieldWithAttr (mkSpan (mkPtok 32 "@leftPad" 49 6 136) (mkPtok 40 "," 51 4 143)) [(FAPadding (mkSpan (mkPtok 32 "@leftPad" 49 6 136) (mkPtok 6 ")" 49 16 138)) (mkPaddingAttr (mkSpan (mkPtok 32 "@leftPad" 49 6 136) (mkPtok 6 ")" 49 16 138)) (mkPtok 32 "@leftPad" 49 6 136) (mkPtok 8 "(" 49 14 137) None (mkPtok 6 ")" 49 16 138)))] (MetaField (mkSpan (mkPtok 16 "char[]" 49 18 139) (mkPtok 40 "," 51 4 143)) None (mkMetaDecl (mkSpan (mkPtok 16 "char[]" 49 18 139) (mkPtok 40 "," 51 4 143)) (TyDynamic (mkSpan (mkPtok 16 "char[]" 49 18 139) (mkPtok 16 "char[]" 49 18 139)) (mkDynamicString (mkSpan (mkPtok 16 "char[]" 49 18 139) (mkPtok 16 "char[]" 49 18 139)) (mkPtok 16 "char[]" 49 18 139))) (mkPtok 42 "Header" 49 25 140) (Some (mkPtok 43 "`{ , }`" 50 0 142)) (mkPtok 40 "," 51 4 143)))); (mkFieldWithAttr (mkSpan (mkPtok 9 "@tag(" 52 0 144) (mkPtok 40 "," 55 9 152)) [(FATag (mkSpan (mkPtok 9 "@tag(" 52 0 144) (mkPtok 6 ")" 52 10 146)) (mkTagAttr (mkSpan (mkPtok 9 "@tag(" 52 0 144) (mkPtok 6 ")" 52 10 146)) (mkPtok 9 "@tag(" 52 0 144) (mkPtok 30 "007" 52 7 145) (mkPtok 6 ")" 52 10 146))); (FALengthOf (mkSpan (mkPtok 7 "@lengthOf(" 53 4 147) (mkPtok 6 ")" 53 20 149)) (mkLengthOf (mkSpan (mkPtok 7 "@lengthOf(" 53 4 147) (mkPtok 6 ")" 53 20 149)) (mkPtok 7 "@lengthOf(" 53 4 147) (mkPtok 42 "u128" 53 16 148) (mkPtok 6 ")" 53 20 149)))] (ObjectField (mkSpan (mkPtok 42 "pack" 54 0 150) (mkPtok 40 "," 55 9 152)) None (mkPtok 42 "pack" 54 0 150) (Some (mkPtok 42 "f32a" 55 4 151)) None (mkPtok 40 "," 55 9 152))); (mkFieldWithAttr (mkSpan (mkPtok 36 "repeat" 56 0 154) (mkPtok 40 "," 65 25 186)) [] (InerObjectField (mkSpan (mkPtok 36 "repeat" 56 0 154) (mkPtok 40 "," 65 25 186)) (Some (mkPtok 36 "repeat" 56 0 154)) (InerObjectDecl (mkSpan (mkPtok 42 "tag" 56 7 155) (mkPtok 3 "}" 65 22 185)) (mkPtok 42 "tag" 56 7 155) (mkPtok 2 "{" 56 10 156) [(InerObjectField (mkSpan (mkPtok 36 "repeat" 56 12 157) (mkPtok 40 "," 60 0 163)) (Some (mkPtok 36 "repeat" 56 12 157)) (InerObjectDecl (mkSpan (mkPtok 42 "As" 57 0 158) (mkPtok 3 "}" 59 9 162)) (mkPtok 42 "As" 57 0 158) (mkPtok 2 "{" 58 4 159) [(ObjectField (mkSpan (mkPtok 42 "trueish" 59 0 160) (mkPtok 40 "," 59 7 161)) None (mkPtok 42 "trueish" 59 0 160) None None (mkPtok 40 "," 59 7 161))] (mkPtok 3 "}" 59 9 162)) (mkPtok 40 "," 60 0 163)); (InerObjectField (mkSpan (mkPtok 36 "repeat" 61 0 164) (mkPtok 40 "," 64 5 174)) (Some (mkPtok 36 "repeat" 61 0 164)) (InerObjectDecl (mkSpan (mkPtok 42 "trueish" 62 4 165) (mkPtok 3 "}" 64 4 173)) (mkPtok 42 "trueish" 62 4 165) (mkPtok 2 "{" 62 12 166) [(MetaField (mkSpan (mkPtok 14 "zchar[" 62 14 167) (mkPtok 40 "," 62 36 171)) None (mkMetaDecl (mkSpan (mkPtok 14 "zchar[" 62 14 167) (mkPtok 40 "," 62 36 171)) (TyFixed (mkSpan (mkPtok 14 "zchar[" 62 14 167) (mkPtok 13 "]" 62 27 169)) (mkFixedString (mkSpan (mkPtok 14 "zchar[" 62 14 167) (mkPtok 13 "]" 62 27 169)) (mkPtok 14 "zchar[" 62 14 167) (mkPtok 30 "65535" 62 21 168) (mkPtok 13 "]" 62 27 169))) (mkPtok 42 "stringy" 62 28 170) None (mkPtok 40 "," 62 36 171)))] (mkPtok 3 "}" 64 4 173)) (mkPtok 40 "," 64 5 174)); (MetaField (mkSpan (mkPtok 14 "zchar[" 64 7 175) (mkPtok 40 "," 65 0 180)) None (mkMetaDecl (mkSpan (mkPtok 14 "zchar[" 64 7 175) (mkPtok 40 "," 65 0 180)) (TyFixed (mkSpan (mkPtok 14 "zchar[" 64 7 175) (mkPtok 13 "]" 64 19 177)) (mkFixedString (mkSpan (mkPtok 14 "zchar[" 64 7 175) (mkPtok 13 "]" 64 19 177)) (mkPtok 14 "zchar[" 64 7 175) (mkPtok 30 "65535" 64 14 176) (mkPtok 13 "]" 64 19 177))) (mkPtok 42 "repeatCount" 64 20 178) None (mkPtok 40 "," 65 0 180))); (MetaField (mkSpan (mkPtok 36 "repeat" 65 2 181) (mkPtok 40 "," 65 20 184)) (Some (mkPtok 36 "repeat" 65 2 181)) (mkMetaDecl (mkSpan (mkPtok 20 "u8" 65 9 182) (mkPtok 40 "," 65 20 184)) (TyBasic (mkSpan (mkPtok 20 "u8" 65 9 182) (mkPtok 20 "u8" 65 9 182)) (mkBasicType (mkSpan (mkPtok 20 "u8" 65 9 182) (mkPtok 20 "u8" 65 9 182)) (mkPtok 20 "u8" 65 9 182))) (mkPtok 42 "stringy" 65 12 183) None (mkPtok 40 "," 65 20 184)))] (mkPtok 3 "}" 65 22 185)) (mkPtok 40 "," 65 25 186)))] (mkPtok 3 "}" 66 0 187))); (DMeta (mkMetaDef (mkSpan (mkPtok 37 "MetaData" 66 2 188) (mkPtok 3 "}" 66 49 198)) (mkPtok 37 "MetaData" 66 2 188) (mkPtok 42 "_x" 66 11 189) (mkPtok 2 "{" 66 14 190) [(MIDecl (mkMetaDecl (mkSpan (mkPtok 15 "string" 66 15 191) (mkPtok 40 "," 66 30 194)) (TyDynamic (mkSpan (mkPtok 15 "string" 66 15 191) (mkPtok 15 "string" 66 15 191)) (mkDynamicString (mkSpan (mkPtok 15 "string" 66 15 191) (mkPtok 15 "string" 66 15 191)) (mkPtok 15 "string" 66 15 191))) (mkPtok 42 "o" 66 22 192) (Some (mkPtok 43 (string_of_bytes [96; 230; 182; 136; 230; 129; 175; 231; 177; 187; 229; 158; 139; 96]%N) 66 24 193)) (mkPtok 40 "," 66 30 194))); (MIRef (mkRefMetaDecl (mkSpan (mkPtok 42 "matchKey" 66 31 195) (mkPtok 40 "," 66 48 197)) (mkPtok 42 "matchKey" 66 31 195) (mkPtok 42 "trueish" 66 40 196) None (mkPtok 40 "," 66 48 197)))] (mkPtok 3 "}" 66 49 198))); (DOption (mkOptionDef (mkSpan (mkPtok 1 "options" 67 0 199) (mkPtok 3 "}" 69 6 205)) (mkPtok 1 "options" 67 0 199) (mkPtok 2 "{" 68 4 200) [(mkOptionDecl (mkSpan (mkPtok 42 "Packet" 68 6 201) (mkPtok 41 ";" 69 4 204)) (mkPtok 42 "Packet" 68 6 201) (mkPtok 4 "=" 68 12 202) (VPaddingChar (mkSpan (mkPtok 33 "' '" 69 0 203) (mkPtok 33 "' '" 69 0 203)) (mkPtok 33 "' '" 69 0 203)) (Some (mkPtok 41 ";" 69 4 204)))] (mkPtok 3 "}" 69 6 205)))])).
-Eval vm_compute in ("<<<M1389>>>" ++ check (runes_of_ascii "MetaData a1	{ //x
-u8 u8x,}
-options
-    // " ++ [128512]%N ++ runes_of_ascii " emoji
-    { float
-='0'/// triple
-;
-    // @lengthOf(
-    pack =
-// packet A { u8 x, }
-// @lengthOf(
-string
-    ; }
-MetaData
-packetx {
-tag
-Foo`
-`,  uint8x asx , uint16
-body	,
-T x ,// packet A { u8 x, }
-float a1 `
-`
-    , matchKey  crc
-, }
-// a // b
-")).
-Eval vm_compute in ("<<<M1421>>>" ++ check (runes_of_ascii "options{ charz =
-    0 ; rootA = false
-;
-// @lengthOf(
-// packet A { u8 x, }
-As
-//	t
-//x
-=
-    true ; Pad = '\x00' }
-")).
-Eval vm_compute in ("<<<M1453>>>" ++ check (runes_of_ascii "packet x { @tag(7 // " ++ [27880; 37322]%N ++ runes_of_ascii "
-) @calculatedFrom(""{,}"")
-    int16
-    Packet @calculatedFrom(
-""it's""
-    ) `a\`
-    ,charz f32a// @lengthOf(
-, match metadata
-    as BodyLength{ [ 65535 , 3, 1 ,00,// `tick` ""quote"" 'q'
-""a	b""	]: // " ++ [27880; 37322]%N ++ runes_of_ascii "
-stringy , /// triple
-[ ""`tick`""
-] :
-//
-// packet A { u8 x, }
-float },
-@tag(  007 ) @tag(7)leftPad @lengthOf(pack) , }
-")).
-Eval vm_compute in ("<<<M1485>>>" ++ check (runes_of_ascii "root
-// a // b
-// c
-packet	i8i8 { }packet roots { // trailing space 
-f64 uint8x ,@lengthOf(
-    lengthOf // c
-) roots @calculatedFrom( // a // b
-""" ++ [128512]%N ++ runes_of_ascii """ )  `{ , }` //x
-, i32 falsey,
-    //
-    }
-")).
-Eval vm_compute in ("<<<M1517>>>" ++ check (runes_of_ascii "
-
-")).
-Eval vm_compute in ("<<<M1549>>>" ++ check (runes_of_ascii "options { }
-")).
-Eval vm_compute in ("<<<M1581>>>" ++ check (runes_of_ascii "packet
-trueish {  @tag(0123456789 )  repeat  zchar[ 7 ]repeatCount , }")).
-Eval vm_compute in ("<<<T1581>>>" ++ terms [mkTok 35 "packet" 1 0 false; mkTok 42 "trueish" 2 0 false; mkTok 2 "{" 2 8 false; mkTok 9 "@tag(" 2 11 false; mkTok 30 "0123456789" 2 16 false; mkTok 6 ")" 2 27 false; mkTok 36 "repeat" 2 30 false; mkTok 14 "zchar[" 2 38 false; mkTok 30 "7" 2 45 false; mkTok 13 "]" 2 47 false; mkTok 42 "repeatCount" 2 48 false; mkTok 40 "," 2 60 false; mkTok 3 "}" 2 62 false; mkTok 0 "<EOF>" 2 63 false] (mkPacket (mkPtok 35 "packet" 1 0 0) (Some (mkPtok 3 "}" 2 62 12)) [(DPacket (mkPacketDef (mkSpan (mkPtok 35 "packet" 1 0 0) (mkPtok 3 "}" 2 62 12)) None (mkPtok 35 "packet" 1 0 0) (mkPtok 42 "trueish" 2 0 1) (mkPtok 2 "{" 2 8 2) [(mkFieldWithAttr (mkSpan (mkPtok 9 "@tag(" 2 11 3) (mkPtok 40 "," 2 60 11)) [(FATag (mkSpan (mkPtok 9 "@tag(" 2 11 3) (mkPtok 6 ")" 2 27 5)) (mkTagAttr (mkSpan (mkPtok 9 "@tag(" 2 11 3) (mkPtok 6 ")" 2 27 5)) (mkPtok 9 "@tag(" 2 11 3) (mkPtok 30 "0123456789" 2 16 4) (mkPtok 6 ")" 2 27 5)))] (MetaField (mkSpan (mkPtok 36 "repeat" 2 30 6) (mkPtok 40 "," 2 60 11)) (Some (mkPtok 36 "repeat" 2 30 6)) (mkMetaDecl (mkSpan (mkPtok 14 "zchar[" 2 38 7) (mkPtok 40 "," 2 60 11)) (TyFixed (mkSpan (mkPtok 14 "zchar[" 2 38 7) (mkPtok 13 "]" 2 47 9)) (mkFixedString (mkSpan (mkPtok 14 "zchar[" 2 38 7) (mkPtok 13 "]" 2 47 9)) (mkPtok 14 "zchar[" 2 38 7) (mkPtok 30 "7" 2 45 8) (mkPtok 13 "]" 2 47 9))) (mkPtok 42 "repeatCount" 2 48 10) None (mkPtok 40 "," 2 60 11))))] (mkPtok 3 "}" 2 62 12)))])).
-Eval vm_compute in ("<<<M1613>>>" ++ check (runes_of_ascii "MetaData body // " ++ [128512]%N ++ runes_of_ascii " emoji
-{
-    // trailing space 
-    uint64
-Pad `" ++ [28040; 24687; 31867; 22411]%N ++ runes_of_ascii "`
-, stringy Packet
-    `tab	here` ,
-    uint64  repeatCount `a\` ,uint64 x `a\` , }
-")).
-Eval vm_compute in ("<<<M1645>>>" ++ check (runes_of_ascii "MetaData A  {zchar[ 0123456789 ] x_y_z `it's` , Packet rootA , } MetaData
-leftPad
-{ }
-    // a // b
-    packet matchKey {	crc MetaDataX // c
-,
-match a1 as matchKey // trailing space 
-{ 10: Pad
-,
-}
-//x
-//x
-,
-    // c
+    T	,
     match
-A
-    as
-// trailing space 
-// " ++ [27880; 37322]%N ++ runes_of_ascii "
-uint8x { 42 : /// triple
-u
-, [""x y""]: u , 1 : crc ,
-    [ """ ++ [233]%N ++ runes_of_ascii "t" ++ [233]%N ++ runes_of_ascii """,
-42] /// triple
-: msg_type ,
-[ // packet A { u8 x, }
-00 ]: Z9_	} , @tag(0) o, match a1
-as Pad { ""`tick`"" :
-uint8x // packet A { u8 x, }
-[
-""a\""b"" , 00 , ""\n""
-    ,""// no comment"" , ""x y"" ] : u128[""it's"" , 4294967296 , ""a\""b"" ,
-007 , 42 ]
-    : options1 ,
-    3
-: leftPad
-,
-} ,i16 uint8x @calculatedFrom(
-    ""\n""	)
-    `it's` ,	repeat options1 {
-    float32  int @calculatedFrom(
-    // `tick` ""quote"" 'q'
-    ""{,}"" ) `" ++ [233]%N ++ runes_of_ascii "` , repeat
-float32 Packet	, } ,
-f32 asx
-    , }
-
-")).
-Eval vm_compute in ("<<<M1677>>>" ++ check (runes_of_ascii "packet
-    lengthOf
-{ packetx `{ , }` ,
-match zchar
-as As{
-    """ ++ [128512]%N ++ runes_of_ascii """  :As	, [ 007 , ""a	b"" ,
-""it's""
-    , 007
-    , /// triple
-4294967296 ] :zchar [
-    255 ]
-: u128
-// @lengthOf(
-// trailing space 
-, 0 :
-x
-1 :
-A
-    , 0 : charz } , match
-    /// triple
-    falsey as // @lengthOf(
-x { 00	:
-i8i8 , ""a\""b"": matchKey  , } ,charz `a\`
-,	}// trailing space 
-MetaData
-falsey { x
-// a // b
-// a // b
-calculatedFrom
-`{ , }`
-,	} //x")).
-Eval vm_compute in ("<<<M1709>>>" ++ check (runes_of_ascii "root packet roots{ charz Logon , Header chars ,	@leftPad (
-// `tick` ""quote"" 'q'
-// trailing space 
-) A {
-    u16 lengthOf @calculatedFrom( ""it's"" ) `it's`
-, }	,repeat	char[]
-asx , char[ 1  ]i64_ ,
+_x as
+leftPad {
+0123456789  : stringy, }
+    ,
+@leftPad ( )
     repeat
-crc { match calculatedFrom
+uint8x { string_{ char[	255]
+a1 @calculatedFrom(
+    // " ++ [27880; 37322]%N ++ runes_of_ascii "
+    ""abc"" ) , metadata
+@lengthOf( asx
+    ) // packet A { u8 x, }
+,}
+//	t
 // " ++ [27880; 37322]%N ++ runes_of_ascii "
+,
+    repeat
+    falsey , Logon {As,
+    repeat char[] u , }, }  , @leftPad (' ' // a // b
+)	char[10
+] charz @lengthOf(float
+    )
+    // 50% %s
+    ,@calculatedFrom( """ ++ [233]%N ++ runes_of_ascii "t" ++ [233]%N ++ runes_of_ascii """)
+i64 trueish `" ++ [28040; 24687; 31867; 22411]%N ++ runes_of_ascii "` // `tick` ""quote"" 'q'
+,
+}options
+// c
+// a // b
+{ options1 =  7 ; u =
+""""
+    ;
+} root packet
+Packet {
+char As `` ,
+    repeat leftPad //x
+{match
+    x_y_z
+    as x_y_z	{	""abc"" : f32a
+    [
+    1
+    //x
+    ,42 ]
+:	rootA
+, 7 : pack	,
+    ""abc""
+    : _x
+""1""  :	asx, ""packet"" :int// trailing space 
+}
+, }// a // b
+, @calculatedFrom( ""\n"" )repeat
+    f64 u8x
+, @lengthOf(
+    zchar )
+    o,
+    pack @lengthOf(
+falsey ) `two words` , zchar[ 1]asx @lengthOf( uint8x)
+    , @calculatedFrom( ""\n""
+// c
+// 50% %s
+)
+    char[ 42 ] // a // b
+u @calculatedFrom(""packet"" )
+    , match // " ++ [27880; 37322]%N ++ runes_of_ascii "
+rootA as i8i8{ 00
+// `tick` ""quote"" 'q'
 // packet A { u8 x, }
-as _x {
-[
-255 ]	: len , 42: matchKey, [4294967296
-    ] : a1 , 10 : matchKey //	t
-, //x
-} , }, @calculatedFrom(""`tick`""//
-) // @lengthOf(
-int	T
-    , i8
-BodyLength ,float
-    { f64 A `line1
-line2`, i8i8 @calculatedFrom( ""packet""  )
-`tab	here`
-    ,repeat	char[] u ,
-    // c
-    }, @calculatedFrom(
+: A ,	0 : o 0123456789
+    :
+len	,
+    65535 : zchar
+    } ,
+}
+//
+")).
+Eval vm_compute in ("<<<M237>>>" ++ check (runes_of_ascii "packet As{  zchar[3 ]
+    o @lengthOf(
+    // trailing space 
+    Header)`doc` , repeat char[] string_ , @tag(1 )
+match BodyLength
+    //	t
+    as msg_type
+{ """ ++ [28040; 24687]%N ++ runes_of_ascii """  :u8x, }
+,  @tag(255 )repeat char[] crc
+    // `tick` ""quote"" 'q'
+    , }
+")).
+Eval vm_compute in ("<<<T237>>>" ++ terms [mkTok 35 "packet" 1 0 false; mkTok 42 "As" 1 7 false; mkTok 2 "{" 1 9 false; mkTok 14 "zchar[" 1 12 false; mkTok 30 "3" 1 18 false; mkTok 13 "]" 1 20 false; mkTok 42 "o" 2 4 false; mkTok 7 "@lengthOf(" 2 6 false; mkTok 44 "// trailing space " 3 4 true; mkTok 42 "Header" 4 4 false; mkTok 6 ")" 4 10 false; mkTok 43 "`doc`" 4 11 false; mkTok 40 "," 4 17 false; mkTok 36 "repeat" 4 19 false; mkTok 16 "char[]" 4 26 false; mkTok 42 "string_" 4 33 false; mkTok 40 "," 4 41 false; mkTok 9 "@tag(" 4 43 false; mkTok 30 "1" 4 48 false; mkTok 6 ")" 4 50 false; mkTok 38 "match" 5 0 false; mkTok 42 "BodyLength" 5 6 false; mkTok 44 (string_of_bytes [47; 47; 9; 116]%N) 6 4 true; mkTok 17 "as" 7 4 false; mkTok 42 "msg_type" 7 7 false; mkTok 2 "{" 8 0 false; mkTok 31 (string_of_bytes [34; 230; 182; 136; 230; 129; 175; 34]%N) 8 2 false; mkTok 39 ":" 8 8 false; mkTok 42 "u8x" 8 9 false; mkTok 40 "," 8 12 false; mkTok 3 "}" 8 14 false; mkTok 40 "," 9 0 false; mkTok 9 "@tag(" 9 3 false; mkTok 30 "255" 9 8 false; mkTok 6 ")" 9 12 false; mkTok 36 "repeat" 9 13 false; mkTok 16 "char[]" 9 20 false; mkTok 42 "crc" 9 27 false; mkTok 44 "// `tick` ""quote"" 'q'" 10 4 true; mkTok 40 "," 11 4 false; mkTok 3 "}" 11 6 false; mkTok 0 "<EOF>" 12 0 false] (mkPacket (mkPtok 35 "packet" 1 0 0) (Some (mkPtok 3 "}" 11 6 40)) [(DPacket (mkPacketDef (mkSpan (mkPtok 35 "packet" 1 0 0) (mkPtok 3 "}" 11 6 40)) None (mkPtok 35 "packet" 1 0 0) (mkPtok 42 "As" 1 7 1) (mkPtok 2 "{" 1 9 2) [(mkFieldWithAttr (mkSpan (mkPtok 14 "zchar[" 1 12 3) (mkPtok 40 "," 4 17 12)) [] (LengthField (mkSpan (mkPtok 14 "zchar[" 1 12 3) (mkPtok 40 "," 4 17 12)) (mkLengthFieldDecl (mkSpan (mkPtok 14 "zchar[" 1 12 3) (mkPtok 40 "," 4 17 12)) (Some (TyFixed (mkSpan (mkPtok 14 "zchar[" 1 12 3) (mkPtok 13 "]" 1 20 5)) (mkFixedString (mkSpan (mkPtok 14 "zchar[" 1 12 3) (mkPtok 13 "]" 1 20 5)) (mkPtok 14 "zchar[" 1 12 3) (mkPtok 30 "3" 1 18 4) (mkPtok 13 "]" 1 20 5)))) (mkPtok 42 "o" 2 4 6) (mkLengthOf (mkSpan (mkPtok 7 "@lengthOf(" 2 6 7) (mkPtok 6 ")" 4 10 10)) (mkPtok 7 "@lengthOf(" 2 6 7) (mkPtok 42 "Header" 4 4 9) (mkPtok 6 ")" 4 10 10)) (Some (mkPtok 43 "`doc`" 4 11 11)) (mkPtok 40 "," 4 17 12)))); (mkFieldWithAttr (mkSpan (mkPtok 36 "repeat" 4 19 13) (mkPtok 40 "," 4 41 16)) [] (MetaField (mkSpan (mkPtok 36 "repeat" 4 19 13) (mkPtok 40 "," 4 41 16)) (Some (mkPtok 36 "repeat" 4 19 13)) (mkMetaDecl (mkSpan (mkPtok 16 "char[]" 4 26 14) (mkPtok 40 "," 4 41 16)) (TyDynamic (mkSpan (mkPtok 16 "char[]" 4 26 14) (mkPtok 16 "char[]" 4 26 14)) (mkDynamicString (mkSpan (mkPtok 16 "char[]" 4 26 14) (mkPtok 16 "char[]" 4 26 14)) (mkPtok 16 "char[]" 4 26 14))) (mkPtok 42 "string_" 4 33 15) None (mkPtok 40 "," 4 41 16)))); (mkFieldWithAttr (mkSpan (mkPtok 9 "@tag(" 4 43 17) (mkPtok 40 "," 9 0 31)) [(FATag (mkSpan (mkPtok 9 "@tag(" 4 43 17) (mkPtok 6 ")" 4 50 19)) (mkTagAttr (mkSpan (mkPtok 9 "@tag(" 4 43 17) (mkPtok 6 ")" 4 50 19)) (mkPtok 9 "@tag(" 4 43 17) (mkPtok 30 "1" 4 48 18) (mkPtok 6 ")" 4 50 19)))] (MatchField (mkSpan (mkPtok 38 "match" 5 0 20) (mkPtok 40 "," 9 0 31)) (mkMatchFieldDecl (mkSpan (mkPtok 38 "match" 5 0 20) (mkPtok 3 "}" 8 14 30)) (mkPtok 38 "match" 5 0 20) (mkPtok 42 "BodyLength" 5 6 21) (mkPtok 17 "as" 7 4 23) (mkPtok 42 "msg_type" 7 7 24) (mkPtok 2 "{" 8 0 25) [(mkMatchPair (mkSpan (mkPtok 31 (string_of_bytes [34; 230; 182; 136; 230; 129; 175; 34]%N) 8 2 26) (mkPtok 40 "," 8 12 29)) (MKString (mkPtok 31 (string_of_bytes [34; 230; 182; 136; 230; 129; 175; 34]%N) 8 2 26)) (mkPtok 39 ":" 8 8 27) (mkPtok 42 "u8x" 8 9 28) (Some (mkPtok 40 "," 8 12 29)))] (mkPtok 3 "}" 8 14 30)) (mkPtok 40 "," 9 0 31))); (mkFieldWithAttr (mkSpan (mkPtok 9 "@tag(" 9 3 32) (mkPtok 40 "," 11 4 39)) [(FATag (mkSpan (mkPtok 9 "@tag(" 9 3 32) (mkPtok 6 ")" 9 12 34)) (mkTagAttr (mkSpan (mkPtok 9 "@tag(" 9 3 32) (mkPtok 6 ")" 9 12 34)) (mkPtok 9 "@tag(" 9 3 32) (mkPtok 30 "255" 9 8 33) (mkPtok 6 ")" 9 12 34)))] (MetaField (mkSpan (mkPtok 36 "repeat" 9 13 35) (mkPtok 40 "," 11 4 39)) (Some (mkPtok 36 "repeat" 9 13 35)) (mkMetaDecl (mkSpan (mkPtok 16 "char[]" 9 20 36) (mkPtok 40 "," 11 4 39)) (TyDynamic (mkSpan (mkPtok 16 "char[]" 9 20 36) (mkPtok 16 "char[]" 9 20 36)) (mkDynamicString (mkSpan (mkPtok 16 "char[]" 9 20 36) (mkPtok 16 "char[]" 9 20 36)) (mkPtok 16 "char[]" 9 20 36))) (mkPtok 42 "crc" 9 27 37) None (mkPtok 40 "," 11 4 39))))] (mkPtok 3 "}" 11 6 40)))])).
+Eval vm_compute in ("<<<M269>>>" ++ check (runes_of_ascii "options
+    {Header// trailing space 
+= """ ++ [233]%N ++ runes_of_ascii "t" ++ [233]%N ++ runes_of_ascii """ ; Z9_= true //x
+; options1= int8
+    ; //	t
+}")).
+Eval vm_compute in ("<<<M301>>>" ++ check (runes_of_ascii "MetaData asx
+{  char[ 00
+]u8x , trueish tag `it's`,
+} root packet i64_ {  repeat	repeatCount// trailing space 
+msg_type , char[
+7 ] asx
+//x
+/// triple
+, } options { BodyLength = true
+; } packet x {
+    @tag( 1
+    ) @rightPad( '\x00'
+)// trailing space 
+@lengthOf(f32a )int16
+pack `
+` ,repeat char[] options1
+,// c
+string options1	@lengthOf(	calculatedFrom) `" ++ [233]%N ++ runes_of_ascii "`
+,// @lengthOf(
+@tag(	1 )Packet // packet A { u8 x, }
+string_
+, As {
+matchKey
+chars , } , repeat string
+crc `// not a comment`	, repeat T  ,}
+//x
+")).
+Eval vm_compute in ("<<<M333>>>" ++ check (runes_of_ascii "packet
+charz
+{
+    repeat As
+{
+    rootA @calculatedFrom(""" ++ [28040; 24687]%N ++ runes_of_ascii """)
+`crlf
+line`,
+    zchar[ 0  ] // trailing space 
+u8x
+    , int@lengthOf(u8x // " ++ [128512]%N ++ runes_of_ascii " emoji
+) ,
+}
+, @rightPad (	) uint32 a1@calculatedFrom(
+    ""x y""	)
+,
 // " ++ [128512]%N ++ runes_of_ascii " emoji
-// packet A { u8 x, }
-""x y"" ) u { match
-Z9_ as // " ++ [27880; 37322]%N ++ runes_of_ascii "
-o  {""abc""  : i8i8
+// " ++ [128512]%N ++ runes_of_ascii " emoji
+} packet Packet { @rightPad(
+    '0' )repeat matchKey `it's` , }
+    root
+packet Packet
+{	u32	f32a
+@calculatedFrom(  ""a\\"" )
+`u8 x,` , }
+")).
+Eval vm_compute in ("<<<M365>>>" ++ check (runes_of_ascii "options{  float=
+00 stringy
+    =char[] // c
+lengthOf = 0123456789
+    ; rootA
+// " ++ [128512]%N ++ runes_of_ascii " emoji
+// 50% %s
+= ""\" ++ [233]%N ++ runes_of_ascii """ ; //
+MetaDataX =
+    int8 }
+root	packet tag
+{@rightPad (
+)
+    @tag( 10)
+@calculatedFrom(	""it's"" )zchar[ 00
+] tag
+    , }
+// `tick` ""quote"" 'q'
+// trailing space 
+MetaData roots
+{} options{
+falsey =zchar[ 42]
+;
+}
+// " ++ [27880; 37322]%N ++ runes_of_ascii "
+")).
+Eval vm_compute in ("<<<M397>>>" ++ check (runes_of_ascii "options{}//
+packet  body {
+Logon packetx `
+` , u32  body @calculatedFrom(""`tick`""
+//x
+//x
+), match
+chars as
+    x_y_z
+{[ ""`tick`"" , 255 ,
+007
+    ,""" ++ [128512]%N ++ runes_of_ascii """ , """ ++ [28040; 24687]%N ++ runes_of_ascii """, 1 ,
+42 ] //	t
+:	trueish ""it's""	: // packet A { u8 x, }
+u , } , @rightPad ( '\x00' ) @rightPad ( )
+@lengthOf(
+    float ) repeat // c
+x_y_z len
+,	repeat
+asx `{ , }`
+    ,
+    zchar[4294967296 ]leftPad
+@calculatedFrom(""x y"" )`100% of %d`
+    ,
+@calculatedFrom( ""a\""b"" ) zchar[ 00 ]matchKey
+@calculatedFrom( ""`tick`""
+    ) , zchar[ 10]
+    x @lengthOf( A ) ,} packet body{ }")).
+Eval vm_compute in ("<<<M429>>>" ++ check (runes_of_ascii "root
+packet	a1
+{ //
+}")).
+Eval vm_compute in ("<<<M461>>>" ++ check (runes_of_ascii "// `tick` ""quote"" 'q'
+MetaData	packetx { u64 string_ ,
+} packet rootA
+{leftPad
+    {match
+packetx as zchar
+{ 10 :
+rootA 007 : Foo ,10 :trueish ,3 :
+repeatCount , }
 ,
-7:	chars
-,
-    [ ""abc"" , 0 ] :
-    Foo
-    , [""it's"",
-    ""a	b""
-    , 255 ,  0123456789 , ""packet"" ] :Z9_	} ,  repeat uint16 uint8x ,repeat
-x , string_
-    // a // b
-    ,}
-, // " ++ [27880; 37322]%N ++ runes_of_ascii "
+    // packet A { u8 x, }
+    char[]Packet @calculatedFrom( ""CRC32""
+    // c
+    ) ,},
+@rightPad  ( ' '	)
+chars @lengthOf(zchar )
+`doc` , //	t
+packetx { match matchKey as calculatedFrom{
+    10 : asx , 65535 :
+    pack[
+""{,}"" ,
+    ""\n"" , ""1"" ,	007
+, 65535
+, ""a\""b"", 4294967296 ] :asx , }
+    ,	string_ asx
+    `100% of %d`
+, }
+,}
+    options
+// 50% %s
+// a // b
+{ tag
+= true;	} packet
+Packet { @lengthOf(
+    i64_
+)	u32 crc,
+u16 MetaDataX `doc` ,
+@calculatedFrom( ""// no comment""	)
+    repeat int64  packetx`line1
+line2` ,  @leftPad (  ' ' //	t
+)
+repeat BodyLength { char[]As, char[] i64_	@calculatedFrom( ""it's"" )
+    , i64
+As , Header
+`it's`
+    , //	t
+} , @leftPad ()
+zchar[10
+] falsey ,
+// " ++ [27880; 37322]%N ++ runes_of_ascii "
+// " ++ [27880; 37322]%N ++ runes_of_ascii "
+@calculatedFrom( """ ++ [128512]%N ++ runes_of_ascii """ )pack
+, A {	repeat//
+u8x tag , int64 T@lengthOf(Packet // @lengthOf(
+) //x
+,// packet A { u8 x, }
+x
+Logon ,
+    options1 @calculatedFrom( ""a	b"" )
+,} , @lengthOf(
+//x
+// `tick` ""quote"" 'q'
+A )
+@leftPad// 50% %s
+( '\x00'	) zchar[ 65535 ]
+    MetaDataX `// not a comment` ,repeat f32
+    Packet `" ++ [233]%N ++ runes_of_ascii "` ,
+    }
+MetaData	chars {
 }
 ")).
-Eval vm_compute in ("<<<M1741>>>" ++ check (runes_of_ascii "packet // c
-leftPad { @lengthOf(
-    //x
-    tag )// `tick` ""quote"" 'q'
-@leftPad( ) @tag( 65535  )
-    match T as u8x
-    {10
-:Header [ 0 , ""CRC32"" ,
-""" ++ [28040; 24687]%N ++ runes_of_ascii """
-    ,	""" ++ [28040; 24687]%N ++ runes_of_ascii """	,
-""" ++ [128512]%N ++ runes_of_ascii """ , ""\n"" /// triple
-, 7 ] : packetx [ ""{,}"" ]
-    // `tick` ""quote"" 'q'
-    : rootA ""{,}"" : // " ++ [128512]%N ++ runes_of_ascii " emoji
-As , ""\n"":
-Logon , }	,
-// a // b
-// " ++ [27880; 37322]%N ++ runes_of_ascii "
-repeat // a // b
-Pad a1 , int trueish
-    // packet A { u8 x, }
-    `{ , }` , match	crc as charz { 0 :
-// " ++ [128512]%N ++ runes_of_ascii " emoji
-// " ++ [128512]%N ++ runes_of_ascii " emoji
-T , /// triple
-00
-    : pack, [""""
-,""" ++ [233]%N ++ runes_of_ascii "t" ++ [233]%N ++ runes_of_ascii """ ] // `tick` ""quote"" 'q'
-:
-    zchar
-    , }	, match  float as charz{ ""a\\"" : u128  , [ ""`tick`"" /// triple
-, 4294967296
-,	"""", /// triple
-00/// triple
-]
-: len""// no comment"":asx
-    , } , @calculatedFrom( ""abc"" )
-    @leftPad (  '\x00' ) i64_ {
-char  As @lengthOf(  Z9_ ) `tab	here` , f32a
-A `" ++ [28040; 24687; 31867; 22411]%N ++ runes_of_ascii "` ,	char[]u , },	u8 leftPad``,// @lengthOf(
-zchar[
-    0123456789 ] falsey
-@calculatedFrom(
-""abc""
-)	, }
-")).
-Eval vm_compute in ("<<<M1773>>>" ++ check (runes_of_ascii "
-packet
-    zchar {
-@rightPad
-( )match o as matchKey
-    // `tick` ""quote"" 'q'
-    { 4294967296 : T , } , match u8x as uint8x { ""// no comment"" //	t
-: T ,
-[
-00
-    , 255 ,
-""CRC32"" , ""{,}"" , ""CRC32""// c
-,
-    00] : tag ,[ """ ++ [28040; 24687]%N ++ runes_of_ascii """ ,
-0123456789] :msg_type , ""it's""
-// a // b
-// @lengthOf(
-: crc  0
-: rootA ,} , @calculatedFrom(
-""`tick`"")
-    int {char[] trueish// packet A { u8 x, }
-@lengthOf(
-int )`line1
-line2` , } ,u16
-stringy `a\` , }
-")).
-Eval vm_compute in ("<<<M1805>>>" ++ check (runes_of_ascii "MetaData
-    // `tick` ""quote"" 'q'
-    Packet { calculatedFrom zchar
-,  crc calculatedFrom `// not a comment` // a // b
-, } MetaData Z9_  { Packet calculatedFrom
-, string
-msg_type ``
-    , } packet string_{ int Packet
-`" ++ [233]%N ++ runes_of_ascii "` , match
-    string_
-    as Foo
-    // c
-    {	007 :	u128 } ,a1 body ,@lengthOf(	repeatCount )
-match roots as Foo // " ++ [128512]%N ++ runes_of_ascii " emoji
-{ [
-    ""x y"" , 007] :
-    tag , 0 :i64_ , }
-    ,@rightPad
-( '0' )chars,
-//x
-// @lengthOf(
-@tag(
-1 )	match
-// `tick` ""quote"" 'q'
-// a // b
-asx as float// " ++ [27880; 37322]%N ++ runes_of_ascii "
-{ ""// no comment""
-:
-int , [ """" ]
-    : f32a ,	},char[ 3 ]
-    trueish`crlf
-line`,
-    @calculatedFrom( ""a\""b"" )
-//	t
-// `tick` ""quote"" 'q'
-repeat
-// c
-// c
-u64	trueish`say ""hi""`,
-@lengthOf( leftPad  )
-u128	As ,	string_ leftPad , }MetaData crc // @lengthOf(
+Eval vm_compute in ("<<<T461>>>" ++ terms [mkTok 44 "// `tick` ""quote"" 'q'" 1 0 true; mkTok 37 "MetaData" 2 0 false; mkTok 42 "packetx" 2 9 false; mkTok 2 "{" 2 17 false; mkTok 23 "u64" 2 19 false; mkTok 42 "string_" 2 23 false; mkTok 40 "," 2 31 false; mkTok 3 "}" 3 0 false; mkTok 35 "packet" 3 2 false; mkTok 42 "rootA" 3 9 false; mkTok 2 "{" 4 0 false; mkTok 42 "leftPad" 4 1 false; mkTok 2 "{" 5 4 false; mkTok 38 "match" 5 5 false; mkTok 42 "packetx" 6 0 false; mkTok 17 "as" 6 8 false; mkTok 42 "zchar" 6 11 false; mkTok 2 "{" 7 0 false; mkTok 30 "10" 7 2 false; mkTok 39 ":" 7 5 false; mkTok 42 "rootA" 8 0 false; mkTok 30 "007" 8 6 false; mkTok 39 ":" 8 10 false; mkTok 42 "Foo" 8 12 false; mkTok 40 "," 8 16 false; mkTok 30 "10" 8 17 false; mkTok 39 ":" 8 20 false; mkTok 42 "trueish" 8 21 false; mkTok 40 "," 8 29 false; mkTok 30 "3" 8 30 false; mkTok 39 ":" 8 32 false; mkTok 42 "repeatCount" 9 0 false; mkTok 40 "," 9 12 false; mkTok 3 "}" 9 14 false; mkTok 40 "," 10 0 false; mkTok 44 "// packet A { u8 x, }" 11 4 true; mkTok 16 "char[]" 12 4 false; mkTok 42 "Packet" 12 10 false; mkTok 5 "@calculatedFrom(" 12 17 false; mkTok 31 """CRC32""" 12 34 false; mkTok 44 "// c" 13 4 true; mkTok 6 ")" 14 4 false; mkTok 40 "," 14 6 false; mkTok 3 "}" 14 7 false; mkTok 40 "," 14 8 false; mkTok 32 "@rightPad" 15 0 false; mkTok 8 "(" 15 11 false; mkTok 33 "' '" 15 13 false; mkTok 6 ")" 15 17 false; mkTok 42 "chars" 16 0 false; mkTok 7 "@lengthOf(" 16 6 false; mkTok 42 "zchar" 16 16 false; mkTok 6 ")" 16 22 false; mkTok 43 "`doc`" 17 0 false; mkTok 40 "," 17 6 false; mkTok 44 (string_of_bytes [47; 47; 9; 116]%N) 17 8 true; mkTok 42 "packetx" 18 0 false; mkTok 2 "{" 18 8 false; mkTok 38 "match" 18 10 false; mkTok 42 "matchKey" 18 16 false; mkTok 17 "as" 18 25 false; mkTok 42 "calculatedFrom" 18 28 false; mkTok 2 "{" 18 42 false; mkTok 30 "10" 19 4 false; mkTok 39 ":" 19 7 false; mkTok 42 "asx" 19 9 false; mkTok 40 "," 19 13 false; mkTok 30 "65535" 19 15 false; mkTok 39 ":" 19 21 false; mkTok 42 "pack" 20 4 false; mkTok 18 "[" 20 8 false; mkTok 31 """{,}""" 21 0 false; mkTok 40 "," 21 6 false; mkTok 31 """\n""" 22 4 false; mkTok 40 "," 22 9 false; mkTok 31 """1""" 22 11 false; mkTok 40 "," 22 15 false; mkTok 30 "007" 22 17 false; mkTok 40 "," 23 0 false; mkTok 30 "65535" 23 2 false; mkTok 40 "," 24 0 false; mkTok 31 """a\""b""" 24 2 false; mkTok 40 "," 24 8 false; mkTok 30 "4294967296" 24 10 false; mkTok 13 "]" 24 21 false; mkTok 39 ":" 24 23 false; mkTok 42 "asx" 24 24 false; mkTok 40 "," 24 28 false; mkTok 3 "}" 24 30 false; mkTok 40 "," 25 4 false; mkTok 42 "string_" 25 6 false; mkTok 42 "asx" 25 14 false; mkTok 43 "`100% of %d`" 26 4 false; mkTok 40 "," 27 0 false; mkTok 3 "}" 27 2 false; mkTok 40 "," 28 0 false; mkTok 3 "}" 28 1 false; mkTok 1 "options" 29 4 false; mkTok 44 "// 50% %s" 30 0 true; mkTok 44 "// a // b" 31 0 true; mkTok 2 "{" 32 0 false; mkTok 42 "tag" 32 2 false; mkTok 4 "=" 33 0 false; mkTok 10 "true" 33 2 false; mkTok 41 ";" 33 6 false; mkTok 3 "}" 33 8 false; mkTok 35 "packet" 33 10 false; mkTok 42 "Packet" 34 0 false; mkTok 2 "{" 34 7 false; mkTok 7 "@lengthOf(" 34 9 false; mkTok 42 "i64_" 35 4 false; mkTok 6 ")" 36 0 false; mkTok 22 "u32" 36 2 false; mkTok 42 "crc" 36 6 false; mkTok 40 "," 36 9 false; mkTok 21 "u16" 37 0 false; mkTok 42 "MetaDataX" 37 4 false; mkTok 43 "`doc`" 37 14 false; mkTok 40 "," 37 20 false; mkTok 5 "@calculatedFrom(" 38 0 false; mkTok 31 """// no comment""" 38 17 false; mkTok 6 ")" 38 33 false; mkTok 36 "repeat" 39 4 false; mkTok 27 "int64" 39 11 false; mkTok 42 "packetx" 39 18 false; mkTok 43 (string_of_bytes [96; 108; 105; 110; 101; 49; 10; 108; 105; 110; 101; 50; 96]%N) 39 25 false; mkTok 40 "," 40 7 false; mkTok 32 "@leftPad" 40 10 false; mkTok 8 "(" 40 19 false; mkTok 33 "' '" 40 22 false; mkTok 44 (string_of_bytes [47; 47; 9; 116]%N) 40 26 true; mkTok 6 ")" 41 0 false; mkTok 36 "repeat" 42 0 false; mkTok 42 "BodyLength" 42 7 false; mkTok 2 "{" 42 18 false; mkTok 16 "char[]" 42 20 false; mkTok 42 "As" 42 26 false; mkTok 40 "," 42 28 false; mkTok 16 "char[]" 42 30 false; mkTok 42 "i64_" 42 37 false; mkTok 5 "@calculatedFrom(" 42 42 false; mkTok 31 """it's""" 42 59 false; mkTok 6 ")" 42 66 false; mkTok 40 "," 43 4 false; mkTok 27 "i64" 43 6 false; mkTok 42 "As" 44 0 false; mkTok 40 "," 44 3 false; mkTok 42 "Header" 44 5 false; mkTok 43 "`it's`" 45 0 false; mkTok 40 "," 46 4 false; mkTok 44 (string_of_bytes [47; 47; 9; 116]%N) 46 6 true; mkTok 3 "}" 47 0 false; mkTok 40 "," 47 2 false; mkTok 32 "@leftPad" 47 4 false; mkTok 8 "(" 47 13 false; mkTok 6 ")" 47 14 false; mkTok 14 "zchar[" 48 0 false; mkTok 30 "10" 48 6 false; mkTok 13 "]" 49 0 false; mkTok 42 "falsey" 49 2 false; mkTok 40 "," 49 9 false; mkTok 44 (string_of_bytes [47; 47; 32; 230; 179; 168; 233; 135; 138]%N) 50 0 true; mkTok 44 (string_of_bytes [47; 47; 32; 230; 179; 168; 233; 135; 138]%N) 51 0 true; mkTok 5 "@calculatedFrom(" 52 0 false; mkTok 31 (string_of_bytes [34; 240; 159; 152; 128; 34]%N) 52 17 false; mkTok 6 ")" 52 21 false; mkTok 42 "pack" 52 22 false; mkTok 40 "," 53 0 false; mkTok 42 "A" 53 2 false; mkTok 2 "{" 53 4 false; mkTok 36 "repeat" 53 6 false; mkTok 44 "//" 53 12 true; mkTok 42 "u8x" 54 0 false; mkTok 42 "tag" 54 4 false; mkTok 40 "," 54 8 false; mkTok 27 "int64" 54 10 false; mkTok 42 "T" 54 16 false; mkTok 7 "@lengthOf(" 54 17 false; mkTok 42 "Packet" 54 27 false; mkTok 44 "// @lengthOf(" 54 34 true; mkTok 6 ")" 55 0 false; mkTok 44 "//x" 55 2 true; mkTok 40 "," 56 0 false; mkTok 44 "// packet A { u8 x, }" 56 1 true; mkTok 42 "x" 57 0 false; mkTok 42 "Logon" 58 0 false; mkTok 40 "," 58 6 false; mkTok 42 "options1" 59 4 false; mkTok 5 "@calculatedFrom(" 59 13 false; mkTok 31 (string_of_bytes [34; 97; 9; 98; 34]%N) 59 30 false; mkTok 6 ")" 59 36 false; mkTok 40 "," 60 0 false; mkTok 3 "}" 60 1 false; mkTok 40 "," 60 3 false; mkTok 7 "@lengthOf(" 60 5 false; mkTok 44 "//x" 61 0 true; mkTok 44 "// `tick` ""quote"" 'q'" 62 0 true; mkTok 42 "A" 63 0 false; mkTok 6 ")" 63 2 false; mkTok 32 "@leftPad" 64 0 false; mkTok 44 "// 50% %s" 64 8 true; mkTok 8 "(" 65 0 false; mkTok 33 "'\x00'" 65 2 false; mkTok 6 ")" 65 9 false; mkTok 14 "zchar[" 65 11 false; mkTok 30 "65535" 65 18 false; mkTok 13 "]" 65 24 false; mkTok 42 "MetaDataX" 66 4 false; mkTok 43 "`// not a comment`" 66 14 false; mkTok 40 "," 66 33 false; mkTok 36 "repeat" 66 34 false; mkTok 28 "f32" 66 41 false; mkTok 42 "Packet" 67 4 false; mkTok 43 (string_of_bytes [96; 195; 169; 96]%N) 67 11 false; mkTok 40 "," 67 15 false; mkTok 3 "}" 68 4 false; mkTok 37 "MetaData" 69 0 false; mkTok 42 "chars" 69 9 false; mkTok 2 "{" 69 15 false; mkTok 3 "}" 70 0 false; mkTok 0 "<EOF>" 71 0 false] (mkPacket (mkPtok 37 "MetaData" 2 0 1) (Some (mkPtok 3 "}" 70 0 219)) [(DMeta (mkMetaDef (mkSpan (mkPtok 37 "MetaData" 2 0 1) (mkPtok 3 "}" 3 0 7)) (mkPtok 37 "MetaData" 2 0 1) (mkPtok 42 "packetx" 2 9 2) (mkPtok 2 "{" 2 17 3) [(MIDecl (mkMetaDecl (mkSpan (mkPtok 23 "u64" 2 19 4) (mkPtok 40 "," 2 31 6)) (TyBasic (mkSpan (mkPtok 23 "u64" 2 19 4) (mkPtok 23 "u64" 2 19 4)) (mkBasicType (mkSpan (mkPtok 23 "u64" 2 19 4) (mkPtok 23 "u64" 2 19 4)) (mkPtok 23 "u64" 2 19 4))) (mkPtok 42 "string_" 2 23 5) None (mkPtok 40 "," 2 31 6)))] (mkPtok 3 "}" 3 0 7))); (DPacket (mkPacketDef (mkSpan (mkPtok 35 "packet" 3 2 8) (mkPtok 3 "}" 28 1 96)) None (mkPtok 35 "packet" 3 2 8) (mkPtok 42 "rootA" 3 9 9) (mkPtok 2 "{" 4 0 10) [(mkFieldWithAttr (mkSpan (mkPtok 42 "leftPad" 4 1 11) (mkPtok 40 "," 14 8 44)) [] (InerObjectField (mkSpan (mkPtok 42 "leftPad" 4 1 11) (mkPtok 40 "," 14 8 44)) None (InerObjectDecl (mkSpan (mkPtok 42 "leftPad" 4 1 11) (mkPtok 3 "}" 14 7 43)) (mkPtok 42 "leftPad" 4 1 11) (mkPtok 2 "{" 5 4 12) [(MatchField (mkSpan (mkPtok 38 "match" 5 5 13) (mkPtok 40 "," 10 0 34)) (mkMatchFieldDecl (mkSpan (mkPtok 38 "match" 5 5 13) (mkPtok 3 "}" 9 14 33)) (mkPtok 38 "match" 5 5 13) (mkPtok 42 "packetx" 6 0 14) (mkPtok 17 "as" 6 8 15) (mkPtok 42 "zchar" 6 11 16) (mkPtok 2 "{" 7 0 17) [(mkMatchPair (mkSpan (mkPtok 30 "10" 7 2 18) (mkPtok 42 "rootA" 8 0 20)) (MKDigits (mkPtok 30 "10" 7 2 18)) (mkPtok 39 ":" 7 5 19) (mkPtok 42 "rootA" 8 0 20) None); (mkMatchPair (mkSpan (mkPtok 30 "007" 8 6 21) (mkPtok 40 "," 8 16 24)) (MKDigits (mkPtok 30 "007" 8 6 21)) (mkPtok 39 ":" 8 10 22) (mkPtok 42 "Foo" 8 12 23) (Some (mkPtok 40 "," 8 16 24))); (mkMatchPair (mkSpan (mkPtok 30 "10" 8 17 25) (mkPtok 40 "," 8 29 28)) (MKDigits (mkPtok 30 "10" 8 17 25)) (mkPtok 39 ":" 8 20 26) (mkPtok 42 "trueish" 8 21 27) (Some (mkPtok 40 "," 8 29 28))); (mkMatchPair (mkSpan (mkPtok 30 "3" 8 30 29) (mkPtok 40 "," 9 12 32)) (MKDigits (mkPtok 30 "3" 8 30 29)) (mkPtok 39 ":" 8 32 30) (mkPtok 42 "repeatCount" 9 0 31) (Some (mkPtok 40 "," 9 12 32)))] (mkPtok 3 "}" 9 14 33)) (mkPtok 40 "," 10 0 34)); (CheckSumField (mkSpan (mkPtok 16 "char[]" 12 4 36) (mkPtok 40 "," 14 6 42)) (mkChecksumFieldDecl (mkSpan (mkPtok 16 "char[]" 12 4 36) (mkPtok 40 "," 14 6 42)) (Some (TyDynamic (mkSpan (mkPtok 16 "char[]" 12 4 36) (mkPtok 16 "char[]" 12 4 36)) (mkDynamicString (mkSpan (mkPtok 16 "char[]" 12 4 36) (mkPtok 16 "char[]" 12 4 36)) (mkPtok 16 "char[]" 12 4 36)))) (mkPtok 42 "Packet" 12 10 37) (mkCalculatedFrom (mkSpan (mkPtok 5 "@calculatedFrom(" 12 17 38) (mkPtok 6 ")" 14 4 41)) (mkPtok 5 "@calculatedFrom(" 12 17 38) (mkPtok 31 """CRC32""" 12 34 39) (mkPtok 6 ")" 14 4 41)) None (mkPtok 40 "," 14 6 42)))] (mkPtok 3 "}" 14 7 43)) (mkPtok 40 "," 14 8 44))); (mkFieldWithAttr (mkSpan (mkPtok 32 "@rightPad" 15 0 45) (mkPtok 40 "," 17 6 54)) [(FAPadding (mkSpan (mkPtok 32 "@rightPad" 15 0 45) (mkPtok 6 ")" 15 17 48)) (mkPaddingAttr (mkSpan (mkPtok 32 "@rightPad" 15 0 45) (mkPtok 6 ")" 15 17 48)) (mkPtok 32 "@rightPad" 15 0 45) (mkPtok 8 "(" 15 11 46) (Some (mkPtok 33 "' '" 15 13 47)) (mkPtok 6 ")" 15 17 48)))] (LengthField (mkSpan (mkPtok 42 "chars" 16 0 49) (mkPtok 40 "," 17 6 54)) (mkLengthFieldDecl (mkSpan (mkPtok 42 "chars" 16 0 49) (mkPtok 40 "," 17 6 54)) None (mkPtok 42 "chars" 16 0 49) (mkLengthOf (mkSpan (mkPtok 7 "@lengthOf(" 16 6 50) (mkPtok 6 ")" 16 22 52)) (mkPtok 7 "@lengthOf(" 16 6 50) (mkPtok 42 "zchar" 16 16 51) (mkPtok 6 ")" 16 22 52)) (Some (mkPtok 43 "`doc`" 17 0 53)) (mkPtok 40 "," 17 6 54)))); (mkFieldWithAttr (mkSpan (mkPtok 42 "packetx" 18 0 56) (mkPtok 40 "," 28 0 95)) [] (InerObjectField (mkSpan (mkPtok 42 "packetx" 18 0 56) (mkPtok 40 "," 28 0 95)) None (InerObjectDecl (mkSpan (mkPtok 42 "packetx" 18 0 56) (mkPtok 3 "}" 27 2 94)) (mkPtok 42 "packetx" 18 0 56) (mkPtok 2 "{" 18 8 57) [(MatchField (mkSpan (mkPtok 38 "match" 18 10 58) (mkPtok 40 "," 25 4 89)) (mkMatchFieldDecl (mkSpan (mkPtok 38 "match" 18 10 58) (mkPtok 3 "}" 24 30 88)) (mkPtok 38 "match" 18 10 58) (mkPtok 42 "matchKey" 18 16 59) (mkPtok 17 "as" 18 25 60) (mkPtok 42 "calculatedFrom" 18 28 61) (mkPtok 2 "{" 18 42 62) [(mkMatchPair (mkSpan (mkPtok 30 "10" 19 4 63) (mkPtok 40 "," 19 13 66)) (MKDigits (mkPtok 30 "10" 19 4 63)) (mkPtok 39 ":" 19 7 64) (mkPtok 42 "asx" 19 9 65) (Some (mkPtok 40 "," 19 13 66))); (mkMatchPair (mkSpan (mkPtok 30 "65535" 19 15 67) (mkPtok 42 "pack" 20 4 69)) (MKDigits (mkPtok 30 "65535" 19 15 67)) (mkPtok 39 ":" 19 21 68) (mkPtok 42 "pack" 20 4 69) None); (mkMatchPair (mkSpan (mkPtok 18 "[" 20 8 70) (mkPtok 40 "," 24 28 87)) (MKList (mkKeyList (mkSpan (mkPtok 18 "[" 20 8 70) (mkPtok 13 "]" 24 21 84)) (mkPtok 18 "[" 20 8 70) (mkPtok 31 """{,}""" 21 0 71) [((mkPtok 40 "," 21 6 72), (mkPtok 31 """\n""" 22 4 73)); ((mkPtok 40 "," 22 9 74), (mkPtok 31 """1""" 22 11 75)); ((mkPtok 40 "," 22 15 76), (mkPtok 30 "007" 22 17 77)); ((mkPtok 40 "," 23 0 78), (mkPtok 30 "65535" 23 2 79)); ((mkPtok 40 "," 24 0 80), (mkPtok 31 """a\""b""" 24 2 81)); ((mkPtok 40 "," 24 8 82), (mkPtok 30 "4294967296" 24 10 83))] (mkPtok 13 "]" 24 21 84))) (mkPtok 39 ":" 24 23 85) (mkPtok 42 "asx" 24 24 86) (Some (mkPtok 40 "," 24 28 87)))] (mkPtok 3 "}" 24 30 88)) (mkPtok 40 "," 25 4 89)); (ObjectField (mkSpan (mkPtok 42 "string_" 25 6 90) (mkPtok 40 "," 27 0 93)) None (mkPtok 42 "string_" 25 6 90) (Some (mkPtok 42 "asx" 25 14 91)) (Some (mkPtok 43 "`100% of %d`" 26 4 92)) (mkPtok 40 "," 27 0 93))] (mkPtok 3 "}" 27 2 94)) (mkPtok 40 "," 28 0 95)))] (mkPtok 3 "}" 28 1 96))); (DOption (mkOptionDef (mkSpan (mkPtok 1 "options" 29 4 97) (mkPtok 3 "}" 33 8 105)) (mkPtok 1 "options" 29 4 97) (mkPtok 2 "{" 32 0 100) [(mkOptionDecl (mkSpan (mkPtok 42 "tag" 32 2 101) (mkPtok 41 ";" 33 6 104)) (mkPtok 42 "tag" 32 2 101) (mkPtok 4 "=" 33 0 102) (VTrue (mkSpan (mkPtok 10 "true" 33 2 103) (mkPtok 10 "true" 33 2 103)) (mkPtok 10 "true" 33 2 103)) (Some (mkPtok 41 ";" 33 6 104)))] (mkPtok 3 "}" 33 8 105))); (DPacket (mkPacketDef (mkSpan (mkPtok 35 "packet" 33 10 106) (mkPtok 3 "}" 68 4 215)) None (mkPtok 35 "packet" 33 10 106) (mkPtok 42 "Packet" 34 0 107) (mkPtok 2 "{" 34 7 108) [(mkFieldWithAttr (mkSpan (mkPtok 7 "@lengthOf(" 34 9 109) (mkPtok 40 "," 36 9 114)) [(FALengthOf (mkSpan (mkPtok 7 "@lengthOf(" 34 9 109) (mkPtok 6 ")" 36 0 111)) (mkLengthOf (mkSpan (mkPtok 7 "@lengthOf(" 34 9 109) (mkPtok 6 ")" 36 0 111)) (mkPtok 7 "@lengthOf(" 34 9 109) (mkPtok 42 "i64_" 35 4 110) (mkPtok 6 ")" 36 0 111)))] (MetaField (mkSpan (mkPtok 22 "u32" 36 2 112) (mkPtok 40 "," 36 9 114)) None (mkMetaDecl (mkSpan (mkPtok 22 "u32" 36 2 112) (mkPtok 40 "," 36 9 114)) (TyBasic (mkSpan (mkPtok 22 "u32" 36 2 112) (mkPtok 22 "u32" 36 2 112)) (mkBasicType (mkSpan (mkPtok 22 "u32" 36 2 112) (mkPtok 22 "u32" 36 2 112)) (mkPtok 22 "u32" 36 2 112))) (mkPtok 42 "crc" 36 6 113) None (mkPtok 40 "," 36 9 114)))); (mkFieldWithAttr (mkSpan (mkPtok 21 "u16" 37 0 115) (mkPtok 40 "," 37 20 118)) [] (MetaField (mkSpan (mkPtok 21 "u16" 37 0 115) (mkPtok 40 "," 37 20 118)) None (mkMetaDecl (mkSpan (mkPtok 21 "u16" 37 0 115) (mkPtok 40 "," 37 20 118)) (TyBasic (mkSpan (mkPtok 21 "u16" 37 0 115) (mkPtok 21 "u16" 37 0 115)) (mkBasicType (mkSpan (mkPtok 21 "u16" 37 0 115) (mkPtok 21 "u16" 37 0 115)) (mkPtok 21 "u16" 37 0 115))) (mkPtok 42 "MetaDataX" 37 4 116) (Some (mkPtok 43 "`doc`" 37 14 117)) (mkPtok 40 "," 37 20 118)))); (mkFieldWithAttr (mkSpan (mkPtok 5 "@calculatedFrom(" 38 0 119) (mkPtok 40 "," 40 7 126)) [(FACalculatedFrom (mkSpan (mkPtok 5 "@calculatedFrom(" 38 0 119) (mkPtok 6 ")" 38 33 121)) (mkCalculatedFrom (mkSpan (mkPtok 5 "@calculatedFrom(" 38 0 119) (mkPtok 6 ")" 38 33 121)) (mkPtok 5 "@calculatedFrom(" 38 0 119) (mkPtok 31 """// no comment""" 38 17 120) (mkPtok 6 ")" 38 33 121)))] (MetaField (mkSpan (mkPtok 36 "repeat" 39 4 122) (mkPtok 40 "," 40 7 126)) (Some (mkPtok 36 "repeat" 39 4 122)) (mkMetaDecl (mkSpan (mkPtok 27 "int64" 39 11 123) (mkPtok 40 "," 40 7 126)) (TyBasic (mkSpan (mkPtok 27 "int64" 39 11 123) (mkPtok 27 "int64" 39 11 123)) (mkBasicType (mkSpan (mkPtok 27 "int64" 39 11 123) (mkPtok 27 "int64" 39 11 123)) (mkPtok 27 "int64" 39 11 123))) (mkPtok 42 "packetx" 39 18 124) (Some (mkPtok 43 (string_of_bytes [96; 108; 105; 110; 101; 49; 10; 108; 105; 110; 101; 50; 96]%N) 39 25 125)) (mkPtok 40 "," 40 7 126)))); (mkFieldWithAttr (mkSpan (mkPtok 32 "@leftPad" 40 10 127) (mkPtok 40 "," 47 2 152)) [(FAPadding (mkSpan (mkPtok 32 "@leftPad" 40 10 127) (mkPtok 6 ")" 41 0 131)) (mkPaddingAttr (mkSpan (mkPtok 32 "@leftPad" 40 10 127) (mkPtok 6 ")" 41 0 131)) (mkPtok 32 "@leftPad" 40 10 127) (mkPtok 8 "(" 40 19 128) (Some (mkPtok 33 "' '" 40 22 129)) (mkPtok 6 ")" 41 0 131)))] (InerObjectField (mkSpan (mkPtok 36 "repeat" 42 0 132) (mkPtok 40 "," 47 2 152)) (Some (mkPtok 36 "repeat" 42 0 132)) (InerObjectDecl (mkSpan (mkPtok 42 "BodyLength" 42 7 133) (mkPtok 3 "}" 47 0 151)) (mkPtok 42 "BodyLength" 42 7 133) (mkPtok 2 "{" 42 18 134) [(MetaField (mkSpan (mkPtok 16 "char[]" 42 20 135) (mkPtok 40 "," 42 28 137)) None (mkMetaDecl (mkSpan (mkPtok 16 "char[]" 42 20 135) (mkPtok 40 "," 42 28 137)) (TyDynamic (mkSpan (mkPtok 16 "char[]" 42 20 135) (mkPtok 16 "char[]" 42 20 135)) (mkDynamicString (mkSpan (mkPtok 16 "char[]" 42 20 135) (mkPtok 16 "char[]" 42 20 135)) (mkPtok 16 "char[]" 42 20 135))) (mkPtok 42 "As" 42 26 136) None (mkPtok 40 "," 42 28 137))); (CheckSumField (mkSpan (mkPtok 16 "char[]" 42 30 138) (mkPtok 40 "," 43 4 143)) (mkChecksumFieldDecl (mkSpan (mkPtok 16 "char[]" 42 30 138) (mkPtok 40 "," 43 4 143)) (Some (TyDynamic (mkSpan (mkPtok 16 "char[]" 42 30 138) (mkPtok 16 "char[]" 42 30 138)) (mkDynamicString (mkSpan (mkPtok 16 "char[]" 42 30 138) (mkPtok 16 "char[]" 42 30 138)) (mkPtok 16 "char[]" 42 30 138)))) (mkPtok 42 "i64_" 42 37 139) (mkCalculatedFrom (mkSpan (mkPtok 5 "@calculatedFrom(" 42 42 140) (mkPtok 6 ")" 42 66 142)) (mkPtok 5 "@calculatedFrom(" 42 42 140) (mkPtok 31 """it's""" 42 59 141) (mkPtok 6 ")" 42 66 142)) None (mkPtok 40 "," 43 4 143))); (MetaField (mkSpan (mkPtok 27 "i64" 43 6 144) (mkPtok 40 "," 44 3 146)) None (mkMetaDecl (mkSpan (mkPtok 27 "i64" 43 6 144) (mkPtok 40 "," 44 3 146)) (TyBasic (mkSpan (mkPtok 27 "i64" 43 6 144) (mkPtok 27 "i64" 43 6 144)) (mkBasicType (mkSpan (mkPtok 27 "i64" 43 6 144) (mkPtok 27 "i64" 43 6 144)) (mkPtok 27 "i64" 43 6 144))) (mkPtok 42 "As" 44 0 145) None (mkPtok 40 "," 44 3 146))); (ObjectField (mkSpan (mkPtok 42 "Header" 44 5 147) (mkPtok 40 "," 46 4 149)) None (mkPtok 42 "Header" 44 5 147) None (Some (mkPtok 43 "`it's`" 45 0 148)) (mkPtok 40 "," 46 4 149))] (mkPtok 3 "}" 47 0 151)) (mkPtok 40 "," 47 2 152))); (mkFieldWithAttr (mkSpan (mkPtok 32 "@leftPad" 47 4 153) (mkPtok 40 "," 49 9 160)) [(FAPadding (mkSpan (mkPtok 32 "@leftPad" 47 4 153) (mkPtok 6 ")" 47 14 155)) (mkPaddingAttr (mkSpan (mkPtok 32 "@leftPad" 47 4 153) (mkPtok 6 ")" 47 14 155)) (mkPtok 32 "@leftPad" 47 4 153) (mkPtok 8 "(" 47 13 154) None (mkPtok 6 ")" 47 14 155)))] (MetaField (mkSpan (mkPtok 14 "zchar[" 48 0 156) (mkPtok 40 "," 49 9 160)) None (mkMetaDecl (mkSpan (mkPtok 14 "zchar[" 48 0 156) (mkPtok 40 "," 49 9 160)) (TyFixed (mkSpan (mkPtok 14 "zchar[" 48 0 156) (mkPtok 13 "]" 49 0 158)) (mkFixedString (mkSpan (mkPtok 14 "zchar[" 48 0 156) (mkPtok 13 "]" 49 0 158)) (mkPtok 14 "zchar[" 48 0 156) (mkPtok 30 "10" 48 6 157) (mkPtok 13 "]" 49 0 158))) (mkPtok 42 "falsey" 49 2 159) None (mkPtok 40 "," 49 9 160)))); (mkFieldWithAttr (mkSpan (mkPtok 5 "@calculatedFrom(" 52 0 163) (mkPtok 40 "," 53 0 167)) [(FACalculatedFrom (mkSpan (mkPtok 5 "@calculatedFrom(" 52 0 163) (mkPtok 6 ")" 52 21 165)) (mkCalculatedFrom (mkSpan (mkPtok 5 "@calculatedFrom(" 52 0 163) (mkPtok 6 ")" 52 21 165)) (mkPtok 5 "@calculatedFrom(" 52 0 163) (mkPtok 31 (string_of_bytes [34; 240; 159; 152; 128; 34]%N) 52 17 164) (mkPtok 6 ")" 52 21 165)))] (ObjectField (mkSpan (mkPtok 42 "pack" 52 22 166) (mkPtok 40 "," 53 0 167)) None (mkPtok 42 "pack" 52 22 166) None None (mkPtok 40 "," 53 0 167))); (mkFieldWithAttr (mkSpan (mkPtok 42 "A" 53 2 168) (mkPtok 40 "," 60 3 193)) [] (InerObjectField (mkSpan (mkPtok 42 "A" 53 2 168) (mkPtok 40 "," 60 3 193)) None (InerObjectDecl (mkSpan (mkPtok 42 "A" 53 2 168) (mkPtok 3 "}" 60 1 192)) (mkPtok 42 "A" 53 2 168) (mkPtok 2 "{" 53 4 169) [(ObjectField (mkSpan (mkPtok 36 "repeat" 53 6 170) (mkPtok 40 "," 54 8 174)) (Some (mkPtok 36 "repeat" 53 6 170)) (mkPtok 42 "u8x" 54 0 172) (Some (mkPtok 42 "tag" 54 4 173)) None (mkPtok 40 "," 54 8 174)); (LengthField (mkSpan (mkPtok 27 "int64" 54 10 175) (mkPtok 40 "," 56 0 182)) (mkLengthFieldDecl (mkSpan (mkPtok 27 "int64" 54 10 175) (mkPtok 40 "," 56 0 182)) (Some (TyBasic (mkSpan (mkPtok 27 "int64" 54 10 175) (mkPtok 27 "int64" 54 10 175)) (mkBasicType (mkSpan (mkPtok 27 "int64" 54 10 175) (mkPtok 27 "int64" 54 10 175)) (mkPtok 27 "int64" 54 10 175)))) (mkPtok 42 "T" 54 16 176) (mkLengthOf (mkSpan (mkPtok 7 "@lengthOf(" 54 17 177) (mkPtok 6 ")" 55 0 180)) (mkPtok 7 "@lengthOf(" 54 17 177) (mkPtok 42 "Packet" 54 27 178) (mkPtok 6 ")" 55 0 180)) None (mkPtok 40 "," 56 0 182))); (ObjectField (mkSpan (mkPtok 42 "x" 57 0 184) (mkPtok 40 "," 58 6 186)) None (mkPtok 42 "x" 57 0 184) (Some (mkPtok 42 "Logon" 58 0 185)) None (mkPtok 40 "," 58 6 186)); (CheckSumField (mkSpan (mkPtok 42 "options1" 59 4 187) (mkPtok 40 "," 60 0 191)) (mkChecksumFieldDecl (mkSpan (mkPtok 42 "options1" 59 4 187) (mkPtok 40 "," 60 0 191)) None (mkPtok 42 "options1" 59 4 187) (mkCalculatedFrom (mkSpan (mkPtok 5 "@calculatedFrom(" 59 13 188) (mkPtok 6 ")" 59 36 190)) (mkPtok 5 "@calculatedFrom(" 59 13 188) (mkPtok 31 (string_of_bytes [34; 97; 9; 98; 34]%N) 59 30 189) (mkPtok 6 ")" 59 36 190)) None (mkPtok 40 "," 60 0 191)))] (mkPtok 3 "}" 60 1 192)) (mkPtok 40 "," 60 3 193))); (mkFieldWithAttr (mkSpan (mkPtok 7 "@lengthOf(" 60 5 194) (mkPtok 40 "," 66 33 209)) [(FALengthOf (mkSpan (mkPtok 7 "@lengthOf(" 60 5 194) (mkPtok 6 ")" 63 2 198)) (mkLengthOf (mkSpan (mkPtok 7 "@lengthOf(" 60 5 194) (mkPtok 6 ")" 63 2 198)) (mkPtok 7 "@lengthOf(" 60 5 194) (mkPtok 42 "A" 63 0 197) (mkPtok 6 ")" 63 2 198))); (FAPadding (mkSpan (mkPtok 32 "@leftPad" 64 0 199) (mkPtok 6 ")" 65 9 203)) (mkPaddingAttr (mkSpan (mkPtok 32 "@leftPad" 64 0 199) (mkPtok 6 ")" 65 9 203)) (mkPtok 32 "@leftPad" 64 0 199) (mkPtok 8 "(" 65 0 201) (Some (mkPtok 33 "'\x00'" 65 2 202)) (mkPtok 6 ")" 65 9 203)))] (MetaField (mkSpan (mkPtok 14 "zchar[" 65 11 204) (mkPtok 40 "," 66 33 209)) None (mkMetaDecl (mkSpan (mkPtok 14 "zchar[" 65 11 204) (mkPtok 40 "," 66 33 209)) (TyFixed (mkSpan (mkPtok 14 "zchar[" 65 11 204) (mkPtok 13 "]" 65 24 206)) (mkFixedString (mkSpan (mkPtok 14 "zchar[" 65 11 204) (mkPtok 13 "]" 65 24 206)) (mkPtok 14 "zchar[" 65 11 204) (mkPtok 30 "65535" 65 18 205) (mkPtok 13 "]" 65 24 206))) (mkPtok 42 "MetaDataX" 66 4 207) (Some (mkPtok 43 "`// not a comment`" 66 14 208)) (mkPtok 40 "," 66 33 209)))); (mkFieldWithAttr (mkSpan (mkPtok 36 "repeat" 66 34 210) (mkPtok 40 "," 67 15 214)) [] (MetaField (mkSpan (mkPtok 36 "repeat" 66 34 210) (mkPtok 40 "," 67 15 214)) (Some (mkPtok 36 "repeat" 66 34 210)) (mkMetaDecl (mkSpan (mkPtok 28 "f32" 66 41 211) (mkPtok 40 "," 67 15 214)) (TyBasic (mkSpan (mkPtok 28 "f32" 66 41 211) (mkPtok 28 "f32" 66 41 211)) (mkBasicType (mkSpan (mkPtok 28 "f32" 66 41 211) (mkPtok 28 "f32" 66 41 211)) (mkPtok 28 "f32" 66 41 211))) (mkPtok 42 "Packet" 67 4 212) (Some (mkPtok 43 (string_of_bytes [96; 195; 169; 96]%N) 67 11 213)) (mkPtok 40 "," 67 15 214))))] (mkPtok 3 "}" 68 4 215))); (DMeta (mkMetaDef (mkSpan (mkPtok 37 "MetaData" 69 0 216) (mkPtok 3 "}" 70 0 219)) (mkPtok 37 "MetaData" 69 0 216) (mkPtok 42 "chars" 69 9 217) (mkPtok 2 "{" 69 15 218) [] (mkPtok 3 "}" 70 0 219)))])).
+Eval vm_compute in ("<<<M493>>>" ++ check (runes_of_ascii "
+options
 {
-MetaDataX Header,}
-    //
-    packet
-matchKey {@rightPad// trailing space 
-(
-) @leftPad ( ' ')
-@rightPad
-(
-)
-char[] trueish @calculatedFrom(
-    ""a	b"" )
-    , @calculatedFrom(// " ++ [27880; 37322]%N ++ runes_of_ascii "
-""a	b"" ) packetx  `tab	here` , @calculatedFrom( ""\n""
-    )
-int16 As
-,
-    @calculatedFrom(
-""" ++ [28040; 24687]%N ++ runes_of_ascii """
-)
-match tag as
-x { [
-    007 ] :
-trueish 007
-    :matchKey ,4294967296
-:
-    // " ++ [27880; 37322]%N ++ runes_of_ascii "
-    u8x // " ++ [27880; 37322]%N ++ runes_of_ascii "
-[ ""// no comment""] :	x
-} ,
-    @leftPad ( ' '
-) u16 charz , uint32 u8x,
+    }
+")).
+Eval vm_compute in ("<<<M525>>>" ++ check (runes_of_ascii "packet
+    A
+    { repeat zchar[
+    // @lengthOf(
+    65535] rootA , }
+")).
+Eval vm_compute in ("<<<M557>>>" ++ check (runes_of_ascii "packet Packet  {repeat char[
+00 ] stringy ``	,
+}")).
+Eval vm_compute in ("<<<M589>>>" ++ check (@nil rune)).
+Eval vm_compute in ("<<<M621>>>" ++ check (runes_of_ascii "// packet A { u8 x, }
+options	{ calculatedFrom	= 0123456789 } // packet A { u8 x, }
+packet // a // b
+Pad { }
+    // 50% %s
+    packet zchar	{
+}
+")).
+Eval vm_compute in ("<<<M653>>>" ++ check (runes_of_ascii "// @lengthOf(
+packet Packet {
+repeat body i64_ `it's`
+    ,
+    }")).
+Eval vm_compute in ("<<<M685>>>" ++ check (runes_of_ascii "packet u { @lengthOf( metadata )
+    repeat Foo{
+    match
+    //	t
+    Logon
+    as
+    string_// c
+{
+    [ """ ++ [28040; 24687]%N ++ runes_of_ascii """	,
+""x y""
+    ,""a	b"" ] :Foo
+,""\n""
+    :
+    pack
+, 00:metadata , [ ""a	b"" , 42	,  ""a\\""	, ""a\\""
+    , ""x y"" , ""packet""
+//
 /// triple
+]:
+//	t
+//x
+MetaDataX
+, },i32 u8x
+    , BodyLength ,// packet A { u8 x, }
+MetaDataX,  }
+, repeat body trueish,tag {
+    repeat	u64 u128`{ , }` , zchar[0
+] int@lengthOf( rootA
+    ) , }
+// trailing space 
+// trailing space 
+,// `tick` ""quote"" 'q'
+@rightPad (
+) @tag( 42
+    )@calculatedFrom(""a\""b""
+)repeat Z9_  Z9_ ,	}
+")).
+Eval vm_compute in ("<<<T685>>>" ++ terms [mkTok 35 "packet" 1 0 false; mkTok 42 "u" 1 7 false; mkTok 2 "{" 1 9 false; mkTok 7 "@lengthOf(" 1 11 false; mkTok 42 "metadata" 1 22 false; mkTok 6 ")" 1 31 false; mkTok 36 "repeat" 2 4 false; mkTok 42 "Foo" 2 11 false; mkTok 2 "{" 2 14 false; mkTok 38 "match" 3 4 false; mkTok 44 (string_of_bytes [47; 47; 9; 116]%N) 4 4 true; mkTok 42 "Logon" 5 4 false; mkTok 17 "as" 6 4 false; mkTok 42 "string_" 7 4 false; mkTok 44 "// c" 7 11 true; mkTok 2 "{" 8 0 false; mkTok 18 "[" 9 4 false; mkTok 31 (string_of_bytes [34; 230; 182; 136; 230; 129; 175; 34]%N) 9 6 false; mkTok 40 "," 9 11 false; mkTok 31 """x y""" 10 0 false; mkTok 40 "," 11 4 false; mkTok 31 (string_of_bytes [34; 97; 9; 98; 34]%N) 11 5 false; mkTok 13 "]" 11 11 false; mkTok 39 ":" 11 13 false; mkTok 42 "Foo" 11 14 false; mkTok 40 "," 12 0 false; mkTok 31 """\n""" 12 1 false; mkTok 39 ":" 13 4 false; mkTok 42 "pack" 14 4 false; mkTok 40 "," 15 0 false; mkTok 30 "00" 15 2 false; mkTok 39 ":" 15 4 false; mkTok 42 "metadata" 15 5 false; mkTok 40 "," 15 14 false; mkTok 18 "[" 15 16 false; mkTok 31 (string_of_bytes [34; 97; 9; 98; 34]%N) 15 18 false; mkTok 40 "," 15 24 false; mkTok 30 "42" 15 26 false; mkTok 40 "," 15 29 false; mkTok 31 """a\\""" 15 32 false; mkTok 40 "," 15 38 false; mkTok 31 """a\\""" 15 40 false; mkTok 40 "," 16 4 false; mkTok 31 """x y""" 16 6 false; mkTok 40 "," 16 12 false; mkTok 31 """packet""" 16 14 false; mkTok 44 "//" 17 0 true; mkTok 44 "/// triple" 18 0 true; mkTok 13 "]" 19 0 false; mkTok 39 ":" 19 1 false; mkTok 44 (string_of_bytes [47; 47; 9; 116]%N) 20 0 true; mkTok 44 "//x" 21 0 true; mkTok 42 "MetaDataX" 22 0 false; mkTok 40 "," 23 0 false; mkTok 3 "}" 23 2 false; mkTok 40 "," 23 3 false; mkTok 26 "i32" 23 4 false; mkTok 42 "u8x" 23 8 false; mkTok 40 "," 24 4 false; mkTok 42 "BodyLength" 24 6 false; mkTok 40 "," 24 17 false; mkTok 44 "// packet A { u8 x, }" 24 18 true; mkTok 42 "MetaDataX" 25 0 false; mkTok 40 "," 25 9 false; mkTok 3 "}" 25 12 false; mkTok 40 "," 26 0 false; mkTok 36 "repeat" 26 2 false; mkTok 42 "body" 26 9 false; mkTok 42 "trueish" 26 14 false; mkTok 40 "," 26 21 false; mkTok 42 "tag" 26 22 false; mkTok 2 "{" 26 26 false; mkTok 36 "repeat" 27 4 false; mkTok 23 "u64" 27 11 false; mkTok 42 "u128" 27 15 false; mkTok 43 "`{ , }`" 27 19 false; mkTok 40 "," 27 27 false; mkTok 14 "zchar[" 27 29 false; mkTok 30 "0" 27 35 false; mkTok 13 "]" 28 0 false; mkTok 42 "int" 28 2 false; mkTok 7 "@lengthOf(" 28 5 false; mkTok 42 "rootA" 28 16 false; mkTok 6 ")" 29 4 false; mkTok 40 "," 29 6 false; mkTok 3 "}" 29 8 false; mkTok 44 "// trailing space " 30 0 true; mkTok 44 "// trailing space " 31 0 true; mkTok 40 "," 32 0 false; mkTok 44 "// `tick` ""quote"" 'q'" 32 1 true; mkTok 32 "@rightPad" 33 0 false; mkTok 8 "(" 33 10 false; mkTok 6 ")" 34 0 false; mkTok 9 "@tag(" 34 2 false; mkTok 30 "42" 34 8 false; mkTok 6 ")" 35 4 false; mkTok 5 "@calculatedFrom(" 35 5 false; mkTok 31 """a\""b""" 35 21 false; mkTok 6 ")" 36 0 false; mkTok 36 "repeat" 36 1 false; mkTok 42 "Z9_" 36 8 false; mkTok 42 "Z9_" 36 13 false; mkTok 40 "," 36 17 false; mkTok 3 "}" 36 19 false; mkTok 0 "<EOF>" 37 0 false] (mkPacket (mkPtok 35 "packet" 1 0 0) (Some (mkPtok 3 "}" 36 19 103)) [(DPacket (mkPacketDef (mkSpan (mkPtok 35 "packet" 1 0 0) (mkPtok 3 "}" 36 19 103)) None (mkPtok 35 "packet" 1 0 0) (mkPtok 42 "u" 1 7 1) (mkPtok 2 "{" 1 9 2) [(mkFieldWithAttr (mkSpan (mkPtok 7 "@lengthOf(" 1 11 3) (mkPtok 40 "," 26 0 65)) [(FALengthOf (mkSpan (mkPtok 7 "@lengthOf(" 1 11 3) (mkPtok 6 ")" 1 31 5)) (mkLengthOf (mkSpan (mkPtok 7 "@lengthOf(" 1 11 3) (mkPtok 6 ")" 1 31 5)) (mkPtok 7 "@lengthOf(" 1 11 3) (mkPtok 42 "metadata" 1 22 4) (mkPtok 6 ")" 1 31 5)))] (InerObjectField (mkSpan (mkPtok 36 "repeat" 2 4 6) (mkPtok 40 "," 26 0 65)) (Some (mkPtok 36 "repeat" 2 4 6)) (InerObjectDecl (mkSpan (mkPtok 42 "Foo" 2 11 7) (mkPtok 3 "}" 25 12 64)) (mkPtok 42 "Foo" 2 11 7) (mkPtok 2 "{" 2 14 8) [(MatchField (mkSpan (mkPtok 38 "match" 3 4 9) (mkPtok 40 "," 23 3 55)) (mkMatchFieldDecl (mkSpan (mkPtok 38 "match" 3 4 9) (mkPtok 3 "}" 23 2 54)) (mkPtok 38 "match" 3 4 9) (mkPtok 42 "Logon" 5 4 11) (mkPtok 17 "as" 6 4 12) (mkPtok 42 "string_" 7 4 13) (mkPtok 2 "{" 8 0 15) [(mkMatchPair (mkSpan (mkPtok 18 "[" 9 4 16) (mkPtok 40 "," 12 0 25)) (MKList (mkKeyList (mkSpan (mkPtok 18 "[" 9 4 16) (mkPtok 13 "]" 11 11 22)) (mkPtok 18 "[" 9 4 16) (mkPtok 31 (string_of_bytes [34; 230; 182; 136; 230; 129; 175; 34]%N) 9 6 17) [((mkPtok 40 "," 9 11 18), (mkPtok 31 """x y""" 10 0 19)); ((mkPtok 40 "," 11 4 20), (mkPtok 31 (string_of_bytes [34; 97; 9; 98; 34]%N) 11 5 21))] (mkPtok 13 "]" 11 11 22))) (mkPtok 39 ":" 11 13 23) (mkPtok 42 "Foo" 11 14 24) (Some (mkPtok 40 "," 12 0 25))); (mkMatchPair (mkSpan (mkPtok 31 """\n""" 12 1 26) (mkPtok 40 "," 15 0 29)) (MKString (mkPtok 31 """\n""" 12 1 26)) (mkPtok 39 ":" 13 4 27) (mkPtok 42 "pack" 14 4 28) (Some (mkPtok 40 "," 15 0 29))); (mkMatchPair (mkSpan (mkPtok 30 "00" 15 2 30) (mkPtok 40 "," 15 14 33)) (MKDigits (mkPtok 30 "00" 15 2 30)) (mkPtok 39 ":" 15 4 31) (mkPtok 42 "metadata" 15 5 32) (Some (mkPtok 40 "," 15 14 33))); (mkMatchPair (mkSpan (mkPtok 18 "[" 15 16 34) (mkPtok 40 "," 23 0 53)) (MKList (mkKeyList (mkSpan (mkPtok 18 "[" 15 16 34) (mkPtok 13 "]" 19 0 48)) (mkPtok 18 "[" 15 16 34) (mkPtok 31 (string_of_bytes [34; 97; 9; 98; 34]%N) 15 18 35) [((mkPtok 40 "," 15 24 36), (mkPtok 30 "42" 15 26 37)); ((mkPtok 40 "," 15 29 38), (mkPtok 31 """a\\""" 15 32 39)); ((mkPtok 40 "," 15 38 40), (mkPtok 31 """a\\""" 15 40 41)); ((mkPtok 40 "," 16 4 42), (mkPtok 31 """x y""" 16 6 43)); ((mkPtok 40 "," 16 12 44), (mkPtok 31 """packet""" 16 14 45))] (mkPtok 13 "]" 19 0 48))) (mkPtok 39 ":" 19 1 49) (mkPtok 42 "MetaDataX" 22 0 52) (Some (mkPtok 40 "," 23 0 53)))] (mkPtok 3 "}" 23 2 54)) (mkPtok 40 "," 23 3 55)); (MetaField (mkSpan (mkPtok 26 "i32" 23 4 56) (mkPtok 40 "," 24 4 58)) None (mkMetaDecl (mkSpan (mkPtok 26 "i32" 23 4 56) (mkPtok 40 "," 24 4 58)) (TyBasic (mkSpan (mkPtok 26 "i32" 23 4 56) (mkPtok 26 "i32" 23 4 56)) (mkBasicType (mkSpan (mkPtok 26 "i32" 23 4 56) (mkPtok 26 "i32" 23 4 56)) (mkPtok 26 "i32" 23 4 56))) (mkPtok 42 "u8x" 23 8 57) None (mkPtok 40 "," 24 4 58))); (ObjectField (mkSpan (mkPtok 42 "BodyLength" 24 6 59) (mkPtok 40 "," 24 17 60)) None (mkPtok 42 "BodyLength" 24 6 59) None None (mkPtok 40 "," 24 17 60)); (ObjectField (mkSpan (mkPtok 42 "MetaDataX" 25 0 62) (mkPtok 40 "," 25 9 63)) None (mkPtok 42 "MetaDataX" 25 0 62) None None (mkPtok 40 "," 25 9 63))] (mkPtok 3 "}" 25 12 64)) (mkPtok 40 "," 26 0 65))); (mkFieldWithAttr (mkSpan (mkPtok 36 "repeat" 26 2 66) (mkPtok 40 "," 26 21 69)) [] (ObjectField (mkSpan (mkPtok 36 "repeat" 26 2 66) (mkPtok 40 "," 26 21 69)) (Some (mkPtok 36 "repeat" 26 2 66)) (mkPtok 42 "body" 26 9 67) (Some (mkPtok 42 "trueish" 26 14 68)) None (mkPtok 40 "," 26 21 69))); (mkFieldWithAttr (mkSpan (mkPtok 42 "tag" 26 22 70) (mkPtok 40 "," 32 0 88)) [] (InerObjectField (mkSpan (mkPtok 42 "tag" 26 22 70) (mkPtok 40 "," 32 0 88)) None (InerObjectDecl (mkSpan (mkPtok 42 "tag" 26 22 70) (mkPtok 3 "}" 29 8 85)) (mkPtok 42 "tag" 26 22 70) (mkPtok 2 "{" 26 26 71) [(MetaField (mkSpan (mkPtok 36 "repeat" 27 4 72) (mkPtok 40 "," 27 27 76)) (Some (mkPtok 36 "repeat" 27 4 72)) (mkMetaDecl (mkSpan (mkPtok 23 "u64" 27 11 73) (mkPtok 40 "," 27 27 76)) (TyBasic (mkSpan (mkPtok 23 "u64" 27 11 73) (mkPtok 23 "u64" 27 11 73)) (mkBasicType (mkSpan (mkPtok 23 "u64" 27 11 73) (mkPtok 23 "u64" 27 11 73)) (mkPtok 23 "u64" 27 11 73))) (mkPtok 42 "u128" 27 15 74) (Some (mkPtok 43 "`{ , }`" 27 19 75)) (mkPtok 40 "," 27 27 76))); (LengthField (mkSpan (mkPtok 14 "zchar[" 27 29 77) (mkPtok 40 "," 29 6 84)) (mkLengthFieldDecl (mkSpan (mkPtok 14 "zchar[" 27 29 77) (mkPtok 40 "," 29 6 84)) (Some (TyFixed (mkSpan (mkPtok 14 "zchar[" 27 29 77) (mkPtok 13 "]" 28 0 79)) (mkFixedString (mkSpan (mkPtok 14 "zchar[" 27 29 77) (mkPtok 13 "]" 28 0 79)) (mkPtok 14 "zchar[" 27 29 77) (mkPtok 30 "0" 27 35 78) (mkPtok 13 "]" 28 0 79)))) (mkPtok 42 "int" 28 2 80) (mkLengthOf (mkSpan (mkPtok 7 "@lengthOf(" 28 5 81) (mkPtok 6 ")" 29 4 83)) (mkPtok 7 "@lengthOf(" 28 5 81) (mkPtok 42 "rootA" 28 16 82) (mkPtok 6 ")" 29 4 83)) None (mkPtok 40 "," 29 6 84)))] (mkPtok 3 "}" 29 8 85)) (mkPtok 40 "," 32 0 88))); (mkFieldWithAttr (mkSpan (mkPtok 32 "@rightPad" 33 0 90) (mkPtok 40 "," 36 17 102)) [(FAPadding (mkSpan (mkPtok 32 "@rightPad" 33 0 90) (mkPtok 6 ")" 34 0 92)) (mkPaddingAttr (mkSpan (mkPtok 32 "@rightPad" 33 0 90) (mkPtok 6 ")" 34 0 92)) (mkPtok 32 "@rightPad" 33 0 90) (mkPtok 8 "(" 33 10 91) None (mkPtok 6 ")" 34 0 92))); (FATag (mkSpan (mkPtok 9 "@tag(" 34 2 93) (mkPtok 6 ")" 35 4 95)) (mkTagAttr (mkSpan (mkPtok 9 "@tag(" 34 2 93) (mkPtok 6 ")" 35 4 95)) (mkPtok 9 "@tag(" 34 2 93) (mkPtok 30 "42" 34 8 94) (mkPtok 6 ")" 35 4 95))); (FACalculatedFrom (mkSpan (mkPtok 5 "@calculatedFrom(" 35 5 96) (mkPtok 6 ")" 36 0 98)) (mkCalculatedFrom (mkSpan (mkPtok 5 "@calculatedFrom(" 35 5 96) (mkPtok 6 ")" 36 0 98)) (mkPtok 5 "@calculatedFrom(" 35 5 96) (mkPtok 31 """a\""b""" 35 21 97) (mkPtok 6 ")" 36 0 98)))] (ObjectField (mkSpan (mkPtok 36 "repeat" 36 1 99) (mkPtok 40 "," 36 17 102)) (Some (mkPtok 36 "repeat" 36 1 99)) (mkPtok 42 "Z9_" 36 8 100) (Some (mkPtok 42 "Z9_" 36 13 101)) None (mkPtok 40 "," 36 17 102)))] (mkPtok 3 "}" 36 19 103)))])).
+Eval vm_compute in ("<<<M717>>>" ++ check (runes_of_ascii "//x
+
 // c
-} //x")).
-Eval vm_compute in ("<<<T1805>>>" ++ terms [mkTok 37 "MetaData" 1 0 false; mkTok 44 "// `tick` ""quote"" 'q'" 2 4 true; mkTok 42 "Packet" 3 4 false; mkTok 2 "{" 3 11 false; mkTok 42 "calculatedFrom" 3 13 false; mkTok 42 "zchar" 3 28 false; mkTok 40 "," 4 0 false; mkTok 42 "crc" 4 3 false; mkTok 42 "calculatedFrom" 4 7 false; mkTok 43 "`// not a comment`" 4 22 false; mkTok 44 "// a // b" 4 41 true; mkTok 40 "," 5 0 false; mkTok 3 "}" 5 2 false; mkTok 37 "MetaData" 5 4 false; mkTok 42 "Z9_" 5 13 false; mkTok 2 "{" 5 18 false; mkTok 42 "Packet" 5 20 false; mkTok 42 "calculatedFrom" 5 27 false; mkTok 40 "," 6 0 false; mkTok 15 "string" 6 2 false; mkTok 42 "msg_type" 7 0 false; mkTok 43 "``" 7 9 false; mkTok 40 "," 8 4 false; mkTok 3 "}" 8 6 false; mkTok 35 "packet" 8 8 false; mkTok 42 "string_" 8 15 false; mkTok 2 "{" 8 22 false; mkTok 42 "int" 8 24 false; mkTok 42 "Packet" 8 28 false; mkTok 43 (string_of_bytes [96; 195; 169; 96]%N) 9 0 false; mkTok 40 "," 9 4 false; mkTok 38 "match" 9 6 false; mkTok 42 "string_" 10 4 false; mkTok 17 "as" 11 4 false; mkTok 42 "Foo" 11 7 false; mkTok 44 "// c" 12 4 true; mkTok 2 "{" 13 4 false; mkTok 30 "007" 13 6 false; mkTok 39 ":" 13 10 false; mkTok 42 "u128" 13 12 false; mkTok 3 "}" 13 17 false; mkTok 40 "," 13 19 false; mkTok 42 "a1" 13 20 false; mkTok 42 "body" 13 23 false; mkTok 40 "," 13 28 false; mkTok 7 "@lengthOf(" 13 29 false; mkTok 42 "repeatCount" 13 40 false; mkTok 6 ")" 13 52 false; mkTok 38 "match" 14 0 false; mkTok 42 "roots" 14 6 false; mkTok 17 "as" 14 12 false; mkTok 42 "Foo" 14 15 false; mkTok 44 (string_of_bytes [47; 47; 32; 240; 159; 152; 128; 32; 101; 109; 111; 106; 105]%N) 14 19 true; mkTok 2 "{" 15 0 false; mkTok 18 "[" 15 2 false; mkTok 31 """x y""" 16 4 false; mkTok 40 "," 16 10 false; mkTok 30 "007" 16 12 false; mkTok 13 "]" 16 15 false; mkTok 39 ":" 16 17 false; mkTok 42 "tag" 17 4 false; mkTok 40 "," 17 8 false; mkTok 30 "0" 17 10 false; mkTok 39 ":" 17 12 false; mkTok 42 "i64_" 17 13 false; mkTok 40 "," 17 18 false; mkTok 3 "}" 17 20 false; mkTok 40 "," 18 4 false; mkTok 32 "@rightPad" 18 5 false; mkTok 8 "(" 19 0 false; mkTok 33 "'0'" 19 2 false; mkTok 6 ")" 19 6 false; mkTok 42 "chars" 19 7 false; mkTok 40 "," 19 12 false; mkTok 44 "//x" 20 0 true; mkTok 44 "// @lengthOf(" 21 0 true; mkTok 9 "@tag(" 22 0 false; mkTok 30 "1" 23 0 false; mkTok 6 ")" 23 2 false; mkTok 38 "match" 23 4 false; mkTok 44 "// `tick` ""quote"" 'q'" 24 0 true; mkTok 44 "// a // b" 25 0 true; mkTok 42 "asx" 26 0 false; mkTok 17 "as" 26 4 false; mkTok 42 "float" 26 7 false; mkTok 44 (string_of_bytes [47; 47; 32; 230; 179; 168; 233; 135; 138]%N) 26 12 true; mkTok 2 "{" 27 0 false; mkTok 31 """// no comment""" 27 2 false; mkTok 39 ":" 28 0 false; mkTok 42 "int" 29 0 false; mkTok 40 "," 29 4 false; mkTok 18 "[" 29 6 false; mkTok 31 """""" 29 8 false; mkTok 13 "]" 29 11 false; mkTok 39 ":" 30 4 false; mkTok 42 "f32a" 30 6 false; mkTok 40 "," 30 11 false; mkTok 3 "}" 30 13 false; mkTok 40 "," 30 14 false; mkTok 12 "char[" 30 15 false; mkTok 30 "3" 30 21 false; mkTok 13 "]" 30 23 false; mkTok 42 "trueish" 31 4 false; mkTok 43 (string_of_bytes [96; 99; 114; 108; 102; 13; 10; 108; 105; 110; 101; 96]%N) 31 11 false; mkTok 40 "," 32 5 false; mkTok 5 "@calculatedFrom(" 33 4 false; mkTok 31 """a\""b""" 33 21 false; mkTok 6 ")" 33 28 false; mkTok 44 (string_of_bytes [47; 47; 9; 116]%N) 34 0 true; mkTok 44 "// `tick` ""quote"" 'q'" 35 0 true; mkTok 36 "repeat" 36 0 false; mkTok 44 "// c" 37 0 true; mkTok 44 "// c" 38 0 true; mkTok 23 "u64" 39 0 false; mkTok 42 "trueish" 39 4 false; mkTok 43 "`say ""hi""`" 39 11 false; mkTok 40 "," 39 21 false; mkTok 7 "@lengthOf(" 40 0 false; mkTok 42 "leftPad" 40 11 false; mkTok 6 ")" 40 20 false; mkTok 42 "u128" 41 0 false; mkTok 42 "As" 41 5 false; mkTok 40 "," 41 8 false; mkTok 42 "string_" 41 10 false; mkTok 42 "leftPad" 41 18 false; mkTok 40 "," 41 26 false; mkTok 3 "}" 41 28 false; mkTok 37 "MetaData" 41 29 false; mkTok 42 "crc" 41 38 false; mkTok 44 "// @lengthOf(" 41 42 true; mkTok 2 "{" 42 0 false; mkTok 42 "MetaDataX" 43 0 false; mkTok 42 "Header" 43 10 false; mkTok 40 "," 43 16 false; mkTok 3 "}" 43 17 false; mkTok 44 "//" 44 4 true; mkTok 35 "packet" 45 4 false; mkTok 42 "matchKey" 46 0 false; mkTok 2 "{" 46 9 false; mkTok 32 "@rightPad" 46 10 false; mkTok 44 "// trailing space " 46 19 true; mkTok 8 "(" 47 0 false; mkTok 6 ")" 48 0 false; mkTok 32 "@leftPad" 48 2 false; mkTok 8 "(" 48 11 false; mkTok 33 "' '" 48 13 false; mkTok 6 ")" 48 16 false; mkTok 32 "@rightPad" 49 0 false; mkTok 8 "(" 50 0 false; mkTok 6 ")" 51 0 false; mkTok 16 "char[]" 52 0 false; mkTok 42 "trueish" 52 7 false; mkTok 5 "@calculatedFrom(" 52 15 false; mkTok 31 (string_of_bytes [34; 97; 9; 98; 34]%N) 53 4 false; mkTok 6 ")" 53 10 false; mkTok 40 "," 54 4 false; mkTok 5 "@calculatedFrom(" 54 6 false; mkTok 44 (string_of_bytes [47; 47; 32; 230; 179; 168; 233; 135; 138]%N) 54 22 true; mkTok 31 (string_of_bytes [34; 97; 9; 98; 34]%N) 55 0 false; mkTok 6 ")" 55 6 false; mkTok 42 "packetx" 55 8 false; mkTok 43 (string_of_bytes [96; 116; 97; 98; 9; 104; 101; 114; 101; 96]%N) 55 17 false; mkTok 40 "," 55 28 false; mkTok 5 "@calculatedFrom(" 55 30 false; mkTok 31 """\n""" 55 47 false; mkTok 6 ")" 56 4 false; mkTok 25 "int16" 57 0 false; mkTok 42 "As" 57 6 false; mkTok 40 "," 58 0 false; mkTok 5 "@calculatedFrom(" 59 4 false; mkTok 31 (string_of_bytes [34; 230; 182; 136; 230; 129; 175; 34]%N) 60 0 false; mkTok 6 ")" 61 0 false; mkTok 38 "match" 62 0 false; mkTok 42 "tag" 62 6 false; mkTok 17 "as" 62 10 false; mkTok 42 "x" 63 0 false; mkTok 2 "{" 63 2 false; mkTok 18 "[" 63 4 false; mkTok 30 "007" 64 4 false; mkTok 13 "]" 64 8 false; mkTok 39 ":" 64 10 false; mkTok 42 "trueish" 65 0 false; mkTok 30 "007" 65 8 false; mkTok 39 ":" 66 4 false; mkTok 42 "matchKey" 66 5 false; mkTok 40 "," 66 14 false; mkTok 30 "4294967296" 66 15 false; mkTok 39 ":" 67 0 false; mkTok 44 (string_of_bytes [47; 47; 32; 230; 179; 168; 233; 135; 138]%N) 68 4 true; mkTok 42 "u8x" 69 4 false; mkTok 44 (string_of_bytes [47; 47; 32; 230; 179; 168; 233; 135; 138]%N) 69 8 true; mkTok 18 "[" 70 0 false; mkTok 31 """// no comment""" 70 2 false; mkTok 13 "]" 70 17 false; mkTok 39 ":" 70 19 false; mkTok 42 "x" 70 21 false; mkTok 3 "}" 71 0 false; mkTok 40 "," 71 2 false; mkTok 32 "@leftPad" 72 4 false; mkTok 8 "(" 72 13 false; mkTok 33 "' '" 72 15 false; mkTok 6 ")" 73 0 false; mkTok 21 "u16" 73 2 false; mkTok 42 "charz" 73 6 false; mkTok 40 "," 73 12 false; mkTok 22 "uint32" 73 14 false; mkTok 42 "u8x" 73 21 false; mkTok 40 "," 73 24 false; mkTok 44 "/// triple" 74 0 true; mkTok 44 "// c" 75 0 true; mkTok 3 "}" 76 0 false; mkTok 44 "//x" 76 2 true; mkTok 0 "<EOF>" 76 5 false] (mkPacket (mkPtok 37 "MetaData" 1 0 0) (Some (mkPtok 3 "}" 76 0 210)) [(DMeta (mkMetaDef (mkSpan (mkPtok 37 "MetaData" 1 0 0) (mkPtok 3 "}" 5 2 12)) (mkPtok 37 "MetaData" 1 0 0) (mkPtok 42 "Packet" 3 4 2) (mkPtok 2 "{" 3 11 3) [(MIRef (mkRefMetaDecl (mkSpan (mkPtok 42 "calculatedFrom" 3 13 4) (mkPtok 40 "," 4 0 6)) (mkPtok 42 "calculatedFrom" 3 13 4) (mkPtok 42 "zchar" 3 28 5) None (mkPtok 40 "," 4 0 6))); (MIRef (mkRefMetaDecl (mkSpan (mkPtok 42 "crc" 4 3 7) (mkPtok 40 "," 5 0 11)) (mkPtok 42 "crc" 4 3 7) (mkPtok 42 "calculatedFrom" 4 7 8) (Some (mkPtok 43 "`// not a comment`" 4 22 9)) (mkPtok 40 "," 5 0 11)))] (mkPtok 3 "}" 5 2 12))); (DMeta (mkMetaDef (mkSpan (mkPtok 37 "MetaData" 5 4 13) (mkPtok 3 "}" 8 6 23)) (mkPtok 37 "MetaData" 5 4 13) (mkPtok 42 "Z9_" 5 13 14) (mkPtok 2 "{" 5 18 15) [(MIRef (mkRefMetaDecl (mkSpan (mkPtok 42 "Packet" 5 20 16) (mkPtok 40 "," 6 0 18)) (mkPtok 42 "Packet" 5 20 16) (mkPtok 42 "calculatedFrom" 5 27 17) None (mkPtok 40 "," 6 0 18))); (MIDecl (mkMetaDecl (mkSpan (mkPtok 15 "string" 6 2 19) (mkPtok 40 "," 8 4 22)) (TyDynamic (mkSpan (mkPtok 15 "string" 6 2 19) (mkPtok 15 "string" 6 2 19)) (mkDynamicString (mkSpan (mkPtok 15 "string" 6 2 19) (mkPtok 15 "string" 6 2 19)) (mkPtok 15 "string" 6 2 19))) (mkPtok 42 "msg_type" 7 0 20) (Some (mkPtok 43 "``" 7 9 21)) (mkPtok 40 "," 8 4 22)))] (mkPtok 3 "}" 8 6 23))); (DPacket (mkPacketDef (mkSpan (mkPtok 35 "packet" 8 8 24) (mkPtok 3 "}" 41 28 126)) None (mkPtok 35 "packet" 8 8 24) (mkPtok 42 "string_" 8 15 25) (mkPtok 2 "{" 8 22 26) [(mkFieldWithAttr (mkSpan (mkPtok 42 "int" 8 24 27) (mkPtok 40 "," 9 4 30)) [] (ObjectField (mkSpan (mkPtok 42 "int" 8 24 27) (mkPtok 40 "," 9 4 30)) None (mkPtok 42 "int" 8 24 27) (Some (mkPtok 42 "Packet" 8 28 28)) (Some (mkPtok 43 (string_of_bytes [96; 195; 169; 96]%N) 9 0 29)) (mkPtok 40 "," 9 4 30))); (mkFieldWithAttr (mkSpan (mkPtok 38 "match" 9 6 31) (mkPtok 40 "," 13 19 41)) [] (MatchField (mkSpan (mkPtok 38 "match" 9 6 31) (mkPtok 40 "," 13 19 41)) (mkMatchFieldDecl (mkSpan (mkPtok 38 "match" 9 6 31) (mkPtok 3 "}" 13 17 40)) (mkPtok 38 "match" 9 6 31) (mkPtok 42 "string_" 10 4 32) (mkPtok 17 "as" 11 4 33) (mkPtok 42 "Foo" 11 7 34) (mkPtok 2 "{" 13 4 36) [(mkMatchPair (mkSpan (mkPtok 30 "007" 13 6 37) (mkPtok 42 "u128" 13 12 39)) (MKDigits (mkPtok 30 "007" 13 6 37)) (mkPtok 39 ":" 13 10 38) (mkPtok 42 "u128" 13 12 39) None)] (mkPtok 3 "}" 13 17 40)) (mkPtok 40 "," 13 19 41))); (mkFieldWithAttr (mkSpan (mkPtok 42 "a1" 13 20 42) (mkPtok 40 "," 13 28 44)) [] (ObjectField (mkSpan (mkPtok 42 "a1" 13 20 42) (mkPtok 40 "," 13 28 44)) None (mkPtok 42 "a1" 13 20 42) (Some (mkPtok 42 "body" 13 23 43)) None (mkPtok 40 "," 13 28 44))); (mkFieldWithAttr (mkSpan (mkPtok 7 "@lengthOf(" 13 29 45) (mkPtok 40 "," 18 4 67)) [(FALengthOf (mkSpan (mkPtok 7 "@lengthOf(" 13 29 45) (mkPtok 6 ")" 13 52 47)) (mkLengthOf (mkSpan (mkPtok 7 "@lengthOf(" 13 29 45) (mkPtok 6 ")" 13 52 47)) (mkPtok 7 "@lengthOf(" 13 29 45) (mkPtok 42 "repeatCount" 13 40 46) (mkPtok 6 ")" 13 52 47)))] (MatchField (mkSpan (mkPtok 38 "match" 14 0 48) (mkPtok 40 "," 18 4 67)) (mkMatchFieldDecl (mkSpan (mkPtok 38 "match" 14 0 48) (mkPtok 3 "}" 17 20 66)) (mkPtok 38 "match" 14 0 48) (mkPtok 42 "roots" 14 6 49) (mkPtok 17 "as" 14 12 50) (mkPtok 42 "Foo" 14 15 51) (mkPtok 2 "{" 15 0 53) [(mkMatchPair (mkSpan (mkPtok 18 "[" 15 2 54) (mkPtok 40 "," 17 8 61)) (MKList (mkKeyList (mkSpan (mkPtok 18 "[" 15 2 54) (mkPtok 13 "]" 16 15 58)) (mkPtok 18 "[" 15 2 54) (mkPtok 31 """x y""" 16 4 55) [((mkPtok 40 "," 16 10 56), (mkPtok 30 "007" 16 12 57))] (mkPtok 13 "]" 16 15 58))) (mkPtok 39 ":" 16 17 59) (mkPtok 42 "tag" 17 4 60) (Some (mkPtok 40 "," 17 8 61))); (mkMatchPair (mkSpan (mkPtok 30 "0" 17 10 62) (mkPtok 40 "," 17 18 65)) (MKDigits (mkPtok 30 "0" 17 10 62)) (mkPtok 39 ":" 17 12 63) (mkPtok 42 "i64_" 17 13 64) (Some (mkPtok 40 "," 17 18 65)))] (mkPtok 3 "}" 17 20 66)) (mkPtok 40 "," 18 4 67))); (mkFieldWithAttr (mkSpan (mkPtok 32 "@rightPad" 18 5 68) (mkPtok 40 "," 19 12 73)) [(FAPadding (mkSpan (mkPtok 32 "@rightPad" 18 5 68) (mkPtok 6 ")" 19 6 71)) (mkPaddingAttr (mkSpan (mkPtok 32 "@rightPad" 18 5 68) (mkPtok 6 ")" 19 6 71)) (mkPtok 32 "@rightPad" 18 5 68) (mkPtok 8 "(" 19 0 69) (Some (mkPtok 33 "'0'" 19 2 70)) (mkPtok 6 ")" 19 6 71)))] (ObjectField (mkSpan (mkPtok 42 "chars" 19 7 72) (mkPtok 40 "," 19 12 73)) None (mkPtok 42 "chars" 19 7 72) None None (mkPtok 40 "," 19 12 73))); (mkFieldWithAttr (mkSpan (mkPtok 9 "@tag(" 22 0 76) (mkPtok 40 "," 30 14 98)) [(FATag (mkSpan (mkPtok 9 "@tag(" 22 0 76) (mkPtok 6 ")" 23 2 78)) (mkTagAttr (mkSpan (mkPtok 9 "@tag(" 22 0 76) (mkPtok 6 ")" 23 2 78)) (mkPtok 9 "@tag(" 22 0 76) (mkPtok 30 "1" 23 0 77) (mkPtok 6 ")" 23 2 78)))] (MatchField (mkSpan (mkPtok 38 "match" 23 4 79) (mkPtok 40 "," 30 14 98)) (mkMatchFieldDecl (mkSpan (mkPtok 38 "match" 23 4 79) (mkPtok 3 "}" 30 13 97)) (mkPtok 38 "match" 23 4 79) (mkPtok 42 "asx" 26 0 82) (mkPtok 17 "as" 26 4 83) (mkPtok 42 "float" 26 7 84) (mkPtok 2 "{" 27 0 86) [(mkMatchPair (mkSpan (mkPtok 31 """// no comment""" 27 2 87) (mkPtok 40 "," 29 4 90)) (MKString (mkPtok 31 """// no comment""" 27 2 87)) (mkPtok 39 ":" 28 0 88) (mkPtok 42 "int" 29 0 89) (Some (mkPtok 40 "," 29 4 90))); (mkMatchPair (mkSpan (mkPtok 18 "[" 29 6 91) (mkPtok 40 "," 30 11 96)) (MKList (mkKeyList (mkSpan (mkPtok 18 "[" 29 6 91) (mkPtok 13 "]" 29 11 93)) (mkPtok 18 "[" 29 6 91) (mkPtok 31 """""" 29 8 92) [] (mkPtok 13 "]" 29 11 93))) (mkPtok 39 ":" 30 4 94) (mkPtok 42 "f32a" 30 6 95) (Some (mkPtok 40 "," 30 11 96)))] (mkPtok 3 "}" 30 13 97)) (mkPtok 40 "," 30 14 98))); (mkFieldWithAttr (mkSpan (mkPtok 12 "char[" 30 15 99) (mkPtok 40 "," 32 5 104)) [] (MetaField (mkSpan (mkPtok 12 "char[" 30 15 99) (mkPtok 40 "," 32 5 104)) None (mkMetaDecl (mkSpan (mkPtok 12 "char[" 30 15 99) (mkPtok 40 "," 32 5 104)) (TyFixed (mkSpan (mkPtok 12 "char[" 30 15 99) (mkPtok 13 "]" 30 23 101)) (mkFixedString (mkSpan (mkPtok 12 "char[" 30 15 99) (mkPtok 13 "]" 30 23 101)) (mkPtok 12 "char[" 30 15 99) (mkPtok 30 "3" 30 21 100) (mkPtok 13 "]" 30 23 101))) (mkPtok 42 "trueish" 31 4 102) (Some (mkPtok 43 (string_of_bytes [96; 99; 114; 108; 102; 13; 10; 108; 105; 110; 101; 96]%N) 31 11 103)) (mkPtok 40 "," 32 5 104)))); (mkFieldWithAttr (mkSpan (mkPtok 5 "@calculatedFrom(" 33 4 105) (mkPtok 40 "," 39 21 116)) [(FACalculatedFrom (mkSpan (mkPtok 5 "@calculatedFrom(" 33 4 105) (mkPtok 6 ")" 33 28 107)) (mkCalculatedFrom (mkSpan (mkPtok 5 "@calculatedFrom(" 33 4 105) (mkPtok 6 ")" 33 28 107)) (mkPtok 5 "@calculatedFrom(" 33 4 105) (mkPtok 31 """a\""b""" 33 21 106) (mkPtok 6 ")" 33 28 107)))] (MetaField (mkSpan (mkPtok 36 "repeat" 36 0 110) (mkPtok 40 "," 39 21 116)) (Some (mkPtok 36 "repeat" 36 0 110)) (mkMetaDecl (mkSpan (mkPtok 23 "u64" 39 0 113) (mkPtok 40 "," 39 21 116)) (TyBasic (mkSpan (mkPtok 23 "u64" 39 0 113) (mkPtok 23 "u64" 39 0 113)) (mkBasicType (mkSpan (mkPtok 23 "u64" 39 0 113) (mkPtok 23 "u64" 39 0 113)) (mkPtok 23 "u64" 39 0 113))) (mkPtok 42 "trueish" 39 4 114) (Some (mkPtok 43 "`say ""hi""`" 39 11 115)) (mkPtok 40 "," 39 21 116)))); (mkFieldWithAttr (mkSpan (mkPtok 7 "@lengthOf(" 40 0 117) (mkPtok 40 "," 41 8 122)) [(FALengthOf (mkSpan (mkPtok 7 "@lengthOf(" 40 0 117) (mkPtok 6 ")" 40 20 119)) (mkLengthOf (mkSpan (mkPtok 7 "@lengthOf(" 40 0 117) (mkPtok 6 ")" 40 20 119)) (mkPtok 7 "@lengthOf(" 40 0 117) (mkPtok 42 "leftPad" 40 11 118) (mkPtok 6 ")" 40 20 119)))] (ObjectField (mkSpan (mkPtok 42 "u128" 41 0 120) (mkPtok 40 "," 41 8 122)) None (mkPtok 42 "u128" 41 0 120) (Some (mkPtok 42 "As" 41 5 121)) None (mkPtok 40 "," 41 8 122))); (mkFieldWithAttr (mkSpan (mkPtok 42 "string_" 41 10 123) (mkPtok 40 "," 41 26 125)) [] (ObjectField (mkSpan (mkPtok 42 "string_" 41 10 123) (mkPtok 40 "," 41 26 125)) None (mkPtok 42 "string_" 41 10 123) (Some (mkPtok 42 "leftPad" 41 18 124)) None (mkPtok 40 "," 41 26 125)))] (mkPtok 3 "}" 41 28 126))); (DMeta (mkMetaDef (mkSpan (mkPtok 37 "MetaData" 41 29 127) (mkPtok 3 "}" 43 17 134)) (mkPtok 37 "MetaData" 41 29 127) (mkPtok 42 "crc" 41 38 128) (mkPtok 2 "{" 42 0 130) [(MIRef (mkRefMetaDecl (mkSpan (mkPtok 42 "MetaDataX" 43 0 131) (mkPtok 40 "," 43 16 133)) (mkPtok 42 "MetaDataX" 43 0 131) (mkPtok 42 "Header" 43 10 132) None (mkPtok 40 "," 43 16 133)))] (mkPtok 3 "}" 43 17 134))); (DPacket (mkPacketDef (mkSpan (mkPtok 35 "packet" 45 4 136) (mkPtok 3 "}" 76 0 210)) None (mkPtok 35 "packet" 45 4 136) (mkPtok 42 "matchKey" 46 0 137) (mkPtok 2 "{" 46 9 138) [(mkFieldWithAttr (mkSpan (mkPtok 32 "@rightPad" 46 10 139) (mkPtok 40 "," 54 4 155)) [(FAPadding (mkSpan (mkPtok 32 "@rightPad" 46 10 139) (mkPtok 6 ")" 48 0 142)) (mkPaddingAttr (mkSpan (mkPtok 32 "@rightPad" 46 10 139) (mkPtok 6 ")" 48 0 142)) (mkPtok 32 "@rightPad" 46 10 139) (mkPtok 8 "(" 47 0 141) None (mkPtok 6 ")" 48 0 142))); (FAPadding (mkSpan (mkPtok 32 "@leftPad" 48 2 143) (mkPtok 6 ")" 48 16 146)) (mkPaddingAttr (mkSpan (mkPtok 32 "@leftPad" 48 2 143) (mkPtok 6 ")" 48 16 146)) (mkPtok 32 "@leftPad" 48 2 143) (mkPtok 8 "(" 48 11 144) (Some (mkPtok 33 "' '" 48 13 145)) (mkPtok 6 ")" 48 16 146))); (FAPadding (mkSpan (mkPtok 32 "@rightPad" 49 0 147) (mkPtok 6 ")" 51 0 149)) (mkPaddingAttr (mkSpan (mkPtok 32 "@rightPad" 49 0 147) (mkPtok 6 ")" 51 0 149)) (mkPtok 32 "@rightPad" 49 0 147) (mkPtok 8 "(" 50 0 148) None (mkPtok 6 ")" 51 0 149)))] (CheckSumField (mkSpan (mkPtok 16 "char[]" 52 0 150) (mkPtok 40 "," 54 4 155)) (mkChecksumFieldDecl (mkSpan (mkPtok 16 "char[]" 52 0 150) (mkPtok 40 "," 54 4 155)) (Some (TyDynamic (mkSpan (mkPtok 16 "char[]" 52 0 150) (mkPtok 16 "char[]" 52 0 150)) (mkDynamicString (mkSpan (mkPtok 16 "char[]" 52 0 150) (mkPtok 16 "char[]" 52 0 150)) (mkPtok 16 "char[]" 52 0 150)))) (mkPtok 42 "trueish" 52 7 151) (mkCalculatedFrom (mkSpan (mkPtok 5 "@calculatedFrom(" 52 15 152) (mkPtok 6 ")" 53 10 154)) (mkPtok 5 "@calculatedFrom(" 52 15 152) (mkPtok 31 (string_of_bytes [34; 97; 9; 98; 34]%N) 53 4 153) (mkPtok 6 ")" 53 10 154)) None (mkPtok 40 "," 54 4 155)))); (mkFieldWithAttr (mkSpan (mkPtok 5 "@calculatedFrom(" 54 6 156) (mkPtok 40 "," 55 28 162)) [(FACalculatedFrom (mkSpan (mkPtok 5 "@calculatedFrom(" 54 6 156) (mkPtok 6 ")" 55 6 159)) (mkCalculatedFrom (mkSpan (mkPtok 5 "@calculatedFrom(" 54 6 156) (mkPtok 6 ")" 55 6 159)) (mkPtok 5 "@calculatedFrom(" 54 6 156) (mkPtok 31 (string_of_bytes [34; 97; 9; 98; 34]%N) 55 0 158) (mkPtok 6 ")" 55 6 159)))] (ObjectField (mkSpan (mkPtok 42 "packetx" 55 8 160) (mkPtok 40 "," 55 28 162)) None (mkPtok 42 "packetx" 55 8 160) None (Some (mkPtok 43 (string_of_bytes [96; 116; 97; 98; 9; 104; 101; 114; 101; 96]%N) 55 17 161)) (mkPtok 40 "," 55 28 162))); (mkFieldWithAttr (mkSpan (mkPtok 5 "@calculatedFrom(" 55 30 163) (mkPtok 40 "," 58 0 168)) [(FACalculatedFrom (mkSpan (mkPtok 5 "@calculatedFrom(" 55 30 163) (mkPtok 6 ")" 56 4 165)) (mkCalculatedFrom (mkSpan (mkPtok 5 "@calculatedFrom(" 55 30 163) (mkPtok 6 ")" 56 4 165)) (mkPtok 5 "@calculatedFrom(" 55 30 163) (mkPtok 31 """\n""" 55 47 164) (mkPtok 6 ")" 56 4 165)))] (MetaField (mkSpan (mkPtok 25 "int16" 57 0 166) (mkPtok 40 "," 58 0 168)) None (mkMetaDecl (mkSpan (mkPtok 25 "int16" 57 0 166) (mkPtok 40 "," 58 0 168)) (TyBasic (mkSpan (mkPtok 25 "int16" 57 0 166) (mkPtok 25 "int16" 57 0 166)) (mkBasicType (mkSpan (mkPtok 25 "int16" 57 0 166) (mkPtok 25 "int16" 57 0 166)) (mkPtok 25 "int16" 57 0 166))) (mkPtok 42 "As" 57 6 167) None (mkPtok 40 "," 58 0 168)))); (mkFieldWithAttr (mkSpan (mkPtok 5 "@calculatedFrom(" 59 4 169) (mkPtok 40 "," 71 2 197)) [(FACalculatedFrom (mkSpan (mkPtok 5 "@calculatedFrom(" 59 4 169) (mkPtok 6 ")" 61 0 171)) (mkCalculatedFrom (mkSpan (mkPtok 5 "@calculatedFrom(" 59 4 169) (mkPtok 6 ")" 61 0 171)) (mkPtok 5 "@calculatedFrom(" 59 4 169) (mkPtok 31 (string_of_bytes [34; 230; 182; 136; 230; 129; 175; 34]%N) 60 0 170) (mkPtok 6 ")" 61 0 171)))] (MatchField (mkSpan (mkPtok 38 "match" 62 0 172) (mkPtok 40 "," 71 2 197)) (mkMatchFieldDecl (mkSpan (mkPtok 38 "match" 62 0 172) (mkPtok 3 "}" 71 0 196)) (mkPtok 38 "match" 62 0 172) (mkPtok 42 "tag" 62 6 173) (mkPtok 17 "as" 62 10 174) (mkPtok 42 "x" 63 0 175) (mkPtok 2 "{" 63 2 176) [(mkMatchPair (mkSpan (mkPtok 18 "[" 63 4 177) (mkPtok 42 "trueish" 65 0 181)) (MKList (mkKeyList (mkSpan (mkPtok 18 "[" 63 4 177) (mkPtok 13 "]" 64 8 179)) (mkPtok 18 "[" 63 4 177) (mkPtok 30 "007" 64 4 178) [] (mkPtok 13 "]" 64 8 179))) (mkPtok 39 ":" 64 10 180) (mkPtok 42 "trueish" 65 0 181) None); (mkMatchPair (mkSpan (mkPtok 30 "007" 65 8 182) (mkPtok 40 "," 66 14 185)) (MKDigits (mkPtok 30 "007" 65 8 182)) (mkPtok 39 ":" 66 4 183) (mkPtok 42 "matchKey" 66 5 184) (Some (mkPtok 40 "," 66 14 185))); (mkMatchPair (mkSpan (mkPtok 30 "4294967296" 66 15 186) (mkPtok 42 "u8x" 69 4 189)) (MKDigits (mkPtok 30 "4294967296" 66 15 186)) (mkPtok 39 ":" 67 0 187) (mkPtok 42 "u8x" 69 4 189) None); (mkMatchPair (mkSpan (mkPtok 18 "[" 70 0 191) (mkPtok 42 "x" 70 21 195)) (MKList (mkKeyList (mkSpan (mkPtok 18 "[" 70 0 191) (mkPtok 13 "]" 70 17 193)) (mkPtok 18 "[" 70 0 191) (mkPtok 31 """// no comment""" 70 2 192) [] (mkPtok 13 "]" 70 17 193))) (mkPtok 39 ":" 70 19 194) (mkPtok 42 "x" 70 21 195) None)] (mkPtok 3 "}" 71 0 196)) (mkPtok 40 "," 71 2 197))); (mkFieldWithAttr (mkSpan (mkPtok 32 "@leftPad" 72 4 198) (mkPtok 40 "," 73 12 204)) [(FAPadding (mkSpan (mkPtok 32 "@leftPad" 72 4 198) (mkPtok 6 ")" 73 0 201)) (mkPaddingAttr (mkSpan (mkPtok 32 "@leftPad" 72 4 198) (mkPtok 6 ")" 73 0 201)) (mkPtok 32 "@leftPad" 72 4 198) (mkPtok 8 "(" 72 13 199) (Some (mkPtok 33 "' '" 72 15 200)) (mkPtok 6 ")" 73 0 201)))] (MetaField (mkSpan (mkPtok 21 "u16" 73 2 202) (mkPtok 40 "," 73 12 204)) None (mkMetaDecl (mkSpan (mkPtok 21 "u16" 73 2 202) (mkPtok 40 "," 73 12 204)) (TyBasic (mkSpan (mkPtok 21 "u16" 73 2 202) (mkPtok 21 "u16" 73 2 202)) (mkBasicType (mkSpan (mkPtok 21 "u16" 73 2 202) (mkPtok 21 "u16" 73 2 202)) (mkPtok 21 "u16" 73 2 202))) (mkPtok 42 "charz" 73 6 203) None (mkPtok 40 "," 73 12 204)))); (mkFieldWithAttr (mkSpan (mkPtok 22 "uint32" 73 14 205) (mkPtok 40 "," 73 24 207)) [] (MetaField (mkSpan (mkPtok 22 "uint32" 73 14 205) (mkPtok 40 "," 73 24 207)) None (mkMetaDecl (mkSpan (mkPtok 22 "uint32" 73 14 205) (mkPtok 40 "," 73 24 207)) (TyBasic (mkSpan (mkPtok 22 "uint32" 73 14 205) (mkPtok 22 "uint32" 73 14 205)) (mkBasicType (mkSpan (mkPtok 22 "uint32" 73 14 205) (mkPtok 22 "uint32" 73 14 205)) (mkPtok 22 "uint32" 73 14 205))) (mkPtok 42 "u8x" 73 21 206) None (mkPtok 40 "," 73 24 207))))] (mkPtok 3 "}" 76 0 210)))])).
-Eval vm_compute in ("<<<M1837>>>" ++ check (runes_of_ascii "MetaData u128 { chars string_
-, char[
-007
-    ]  body  `tab	here`
-    , matchKey roots`tab	here`
-    ,	zchar[ 1	] zchar `line1
-line2`
-, u64 i8i8//
-, }// c
-packet o {@leftPad// packet A { u8 x, }
-()
-char // packet A { u8 x, }
-MetaDataX @calculatedFrom( //	t
-""x y"" ) `u8 x,` ,
+")).
+Eval vm_compute in ("<<<M749>>>" ++ check (runes_of_ascii "  options{ rootA
+=
+    ""abc""/// triple
+; pack =
+    false  ;
+    }")).
+Eval vm_compute in ("<<<M781>>>" ++ check (runes_of_ascii "root packet u
+{ _x	@calculatedFrom(// " ++ [27880; 37322]%N ++ runes_of_ascii "
+""// no comment"" ), @lengthOf( // " ++ [27880; 37322]%N ++ runes_of_ascii "
+i64_  )
+    char f32a @calculatedFrom(// 50% %s
+""`tick`"" )
+, @tag( 007)
+@lengthOf( a1)
+@leftPad (' ' )
+    /// triple
+    f32 _x
+    `it's` , @tag( 65535
+    ) zchar[ 0 ] i64_@lengthOf(  options1 ) ,}
+// " ++ [128512]%N ++ runes_of_ascii " emoji
+")).
+Eval vm_compute in ("<<<M813>>>" ++ check (runes_of_ascii "packet
+string_ {  match packetx as
+    // c
+    u128{10
+    : calculatedFrom , 42:
+    i8i8 , 7 :
+rootA [ ""a\\"" // trailing space 
+, 007//	t
+,10
+    ,""1"", """ ++ [28040; 24687]%N ++ runes_of_ascii """,
+// a // b
+// `tick` ""quote"" 'q'
+""// no comment"" , ""a\""b"" ]
+: T 42 :
+crc ,
+    },	len	@lengthOf(
+o )
+//x
+//x
+``, // a // b
+@rightPad( '\x00' )repeat char[] int , }
+")).
+Eval vm_compute in ("<<<M845>>>" ++ check (runes_of_ascii "options{f32a
+= false ; stringy =' '
+    ;
+    calculatedFrom= ' '
+;
+    // packet A { u8 x, }
+    }	packet Packet
+    { } // `tick` ""quote"" 'q'")).
+Eval vm_compute in ("<<<M877>>>" ++ check (runes_of_ascii "packet
+Logon{ @lengthOf(  x ) @lengthOf( // trailing space 
+Packet  )  char[ 3// @lengthOf(
+] u8x ,  @lengthOf(trueish) repeat string asx, @tag(
+    4294967296) packetx `say ""hi""`/// triple
+,@calculatedFrom( // a // b
+""{,}"" )  repeat
+    i64_ ,	i64 uint8x
+    `doc` ,
+i64 float @lengthOf(
+calculatedFrom  ) ,
+// `tick` ""quote"" 'q'
+// " ++ [27880; 37322]%N ++ runes_of_ascii "
+@tag( //x
+10 )
+    match asx as body { """ ++ [128512]%N ++ runes_of_ascii """ : i8i8
+, 1
+    // c
+    : // `tick` ""quote"" 'q'
+zchar ,
+}, }")).
+Eval vm_compute in ("<<<M909>>>" ++ check (runes_of_ascii "  packet float	{
+@leftPad ( /// triple
+) uint64  u //	t
+,
+    repeat char Z9_ ,
+    @lengthOf( asx) int8 _x @lengthOf(
+    uint8x
+)`" ++ [233]%N ++ runes_of_ascii "` , @rightPad
+    ( // packet A { u8 x, }
+'\x00' //	t
+) options1 As , }  packet x // " ++ [27880; 37322]%N ++ runes_of_ascii "
+{ @lengthOf(// " ++ [27880; 37322]%N ++ runes_of_ascii "
+int	)
+string_{ repeat Logon {	rootA
+,i8i8{ char[
+3 ]i64_
+,rootA falsey
+// trailing space 
+// c
+, } ,
+} ,  } ,i32 crc , int
+{ repeat f64 Packet
+, uint8x
+@calculatedFrom( ""1"") , string
+// `tick` ""quote"" 'q'
+//
+x
+`u8 x,` , } ,  }")).
+Eval vm_compute in ("<<<T909>>>" ++ terms [mkTok 35 "packet" 1 2 false; mkTok 42 "float" 1 9 false; mkTok 2 "{" 1 15 false; mkTok 32 "@leftPad" 2 0 false; mkTok 8 "(" 2 9 false; mkTok 44 "/// triple" 2 11 true; mkTok 6 ")" 3 0 false; mkTok 23 "uint64" 3 2 false; mkTok 42 "u" 3 10 false; mkTok 44 (string_of_bytes [47; 47; 9; 116]%N) 3 12 true; mkTok 40 "," 4 0 false; mkTok 36 "repeat" 5 4 false; mkTok 19 "char" 5 11 false; mkTok 42 "Z9_" 5 16 false; mkTok 40 "," 5 20 false; mkTok 7 "@lengthOf(" 6 4 false; mkTok 42 "asx" 6 15 false; mkTok 6 ")" 6 18 false; mkTok 24 "int8" 6 20 false; mkTok 42 "_x" 6 25 false; mkTok 7 "@lengthOf(" 6 28 false; mkTok 42 "uint8x" 7 4 false; mkTok 6 ")" 8 0 false; mkTok 43 (string_of_bytes [96; 195; 169; 96]%N) 8 1 false; mkTok 40 "," 8 5 false; mkTok 32 "@rightPad" 8 7 false; mkTok 8 "(" 9 4 false; mkTok 44 "// packet A { u8 x, }" 9 6 true; mkTok 33 "'\x00'" 10 0 false; mkTok 44 (string_of_bytes [47; 47; 9; 116]%N) 10 7 true; mkTok 6 ")" 11 0 false; mkTok 42 "options1" 11 2 false; mkTok 42 "As" 11 11 false; mkTok 40 "," 11 14 false; mkTok 3 "}" 11 16 false; mkTok 35 "packet" 11 19 false; mkTok 42 "x" 11 26 false; mkTok 44 (string_of_bytes [47; 47; 32; 230; 179; 168; 233; 135; 138]%N) 11 28 true; mkTok 2 "{" 12 0 false; mkTok 7 "@lengthOf(" 12 2 false; mkTok 44 (string_of_bytes [47; 47; 32; 230; 179; 168; 233; 135; 138]%N) 12 12 true; mkTok 42 "int" 13 0 false; mkTok 6 ")" 13 4 false; mkTok 42 "string_" 14 0 false; mkTok 2 "{" 14 7 false; mkTok 36 "repeat" 14 9 false; mkTok 42 "Logon" 14 16 false; mkTok 2 "{" 14 22 false; mkTok 42 "rootA" 14 24 false; mkTok 40 "," 15 0 false; mkTok 42 "i8i8" 15 1 false; mkTok 2 "{" 15 5 false; mkTok 12 "char[" 15 7 false; mkTok 30 "3" 16 0 false; mkTok 13 "]" 16 2 false; mkTok 42 "i64_" 16 3 false; mkTok 40 "," 17 0 false; mkTok 42 "rootA" 17 1 false; mkTok 42 "falsey" 17 7 false; mkTok 44 "// trailing space " 18 0 true; mkTok 44 "// c" 19 0 true; mkTok 40 "," 20 0 false; mkTok 3 "}" 20 2 false; mkTok 40 "," 20 4 false; mkTok 3 "}" 21 0 false; mkTok 40 "," 21 2 false; mkTok 3 "}" 21 5 false; mkTok 40 "," 21 7 false; mkTok 26 "i32" 21 8 false; mkTok 42 "crc" 21 12 false; mkTok 40 "," 21 16 false; mkTok 42 "int" 21 18 false; mkTok 2 "{" 22 0 false; mkTok 36 "repeat" 22 2 false; mkTok 29 "f64" 22 9 false; mkTok 42 "Packet" 22 13 false; mkTok 40 "," 23 0 false; mkTok 42 "uint8x" 23 2 false; mkTok 5 "@calculatedFrom(" 24 0 false; mkTok 31 """1""" 24 17 false; mkTok 6 ")" 24 20 false; mkTok 40 "," 24 22 false; mkTok 15 "string" 24 24 false; mkTok 44 "// `tick` ""quote"" 'q'" 25 0 true; mkTok 44 "//" 26 0 true; mkTok 42 "x" 27 0 false; mkTok 43 "`u8 x,`" 28 0 false; mkTok 40 "," 28 8 false; mkTok 3 "}" 28 10 false; mkTok 40 "," 28 12 false; mkTok 3 "}" 28 15 false; mkTok 0 "<EOF>" 28 16 false] (mkPacket (mkPtok 35 "packet" 1 2 0) (Some (mkPtok 3 "}" 28 15 90)) [(DPacket (mkPacketDef (mkSpan (mkPtok 35 "packet" 1 2 0) (mkPtok 3 "}" 11 16 34)) None (mkPtok 35 "packet" 1 2 0) (mkPtok 42 "float" 1 9 1) (mkPtok 2 "{" 1 15 2) [(mkFieldWithAttr (mkSpan (mkPtok 32 "@leftPad" 2 0 3) (mkPtok 40 "," 4 0 10)) [(FAPadding (mkSpan (mkPtok 32 "@leftPad" 2 0 3) (mkPtok 6 ")" 3 0 6)) (mkPaddingAttr (mkSpan (mkPtok 32 "@leftPad" 2 0 3) (mkPtok 6 ")" 3 0 6)) (mkPtok 32 "@leftPad" 2 0 3) (mkPtok 8 "(" 2 9 4) None (mkPtok 6 ")" 3 0 6)))] (MetaField (mkSpan (mkPtok 23 "uint64" 3 2 7) (mkPtok 40 "," 4 0 10)) None (mkMetaDecl (mkSpan (mkPtok 23 "uint64" 3 2 7) (mkPtok 40 "," 4 0 10)) (TyBasic (mkSpan (mkPtok 23 "uint64" 3 2 7) (mkPtok 23 "uint64" 3 2 7)) (mkBasicType (mkSpan (mkPtok 23 "uint64" 3 2 7) (mkPtok 23 "uint64" 3 2 7)) (mkPtok 23 "uint64" 3 2 7))) (mkPtok 42 "u" 3 10 8) None (mkPtok 40 "," 4 0 10)))); (mkFieldWithAttr (mkSpan (mkPtok 36 "repeat" 5 4 11) (mkPtok 40 "," 5 20 14)) [] (MetaField (mkSpan (mkPtok 36 "repeat" 5 4 11) (mkPtok 40 "," 5 20 14)) (Some (mkPtok 36 "repeat" 5 4 11)) (mkMetaDecl (mkSpan (mkPtok 19 "char" 5 11 12) (mkPtok 40 "," 5 20 14)) (TyBasic (mkSpan (mkPtok 19 "char" 5 11 12) (mkPtok 19 "char" 5 11 12)) (mkBasicType (mkSpan (mkPtok 19 "char" 5 11 12) (mkPtok 19 "char" 5 11 12)) (mkPtok 19 "char" 5 11 12))) (mkPtok 42 "Z9_" 5 16 13) None (mkPtok 40 "," 5 20 14)))); (mkFieldWithAttr (mkSpan (mkPtok 7 "@lengthOf(" 6 4 15) (mkPtok 40 "," 8 5 24)) [(FALengthOf (mkSpan (mkPtok 7 "@lengthOf(" 6 4 15) (mkPtok 6 ")" 6 18 17)) (mkLengthOf (mkSpan (mkPtok 7 "@lengthOf(" 6 4 15) (mkPtok 6 ")" 6 18 17)) (mkPtok 7 "@lengthOf(" 6 4 15) (mkPtok 42 "asx" 6 15 16) (mkPtok 6 ")" 6 18 17)))] (LengthField (mkSpan (mkPtok 24 "int8" 6 20 18) (mkPtok 40 "," 8 5 24)) (mkLengthFieldDecl (mkSpan (mkPtok 24 "int8" 6 20 18) (mkPtok 40 "," 8 5 24)) (Some (TyBasic (mkSpan (mkPtok 24 "int8" 6 20 18) (mkPtok 24 "int8" 6 20 18)) (mkBasicType (mkSpan (mkPtok 24 "int8" 6 20 18) (mkPtok 24 "int8" 6 20 18)) (mkPtok 24 "int8" 6 20 18)))) (mkPtok 42 "_x" 6 25 19) (mkLengthOf (mkSpan (mkPtok 7 "@lengthOf(" 6 28 20) (mkPtok 6 ")" 8 0 22)) (mkPtok 7 "@lengthOf(" 6 28 20) (mkPtok 42 "uint8x" 7 4 21) (mkPtok 6 ")" 8 0 22)) (Some (mkPtok 43 (string_of_bytes [96; 195; 169; 96]%N) 8 1 23)) (mkPtok 40 "," 8 5 24)))); (mkFieldWithAttr (mkSpan (mkPtok 32 "@rightPad" 8 7 25) (mkPtok 40 "," 11 14 33)) [(FAPadding (mkSpan (mkPtok 32 "@rightPad" 8 7 25) (mkPtok 6 ")" 11 0 30)) (mkPaddingAttr (mkSpan (mkPtok 32 "@rightPad" 8 7 25) (mkPtok 6 ")" 11 0 30)) (mkPtok 32 "@rightPad" 8 7 25) (mkPtok 8 "(" 9 4 26) (Some (mkPtok 33 "'\x00'" 10 0 28)) (mkPtok 6 ")" 11 0 30)))] (ObjectField (mkSpan (mkPtok 42 "options1" 11 2 31) (mkPtok 40 "," 11 14 33)) None (mkPtok 42 "options1" 11 2 31) (Some (mkPtok 42 "As" 11 11 32)) None (mkPtok 40 "," 11 14 33)))] (mkPtok 3 "}" 11 16 34))); (DPacket (mkPacketDef (mkSpan (mkPtok 35 "packet" 11 19 35) (mkPtok 3 "}" 28 15 90)) None (mkPtok 35 "packet" 11 19 35) (mkPtok 42 "x" 11 26 36) (mkPtok 2 "{" 12 0 38) [(mkFieldWithAttr (mkSpan (mkPtok 7 "@lengthOf(" 12 2 39) (mkPtok 40 "," 21 7 67)) [(FALengthOf (mkSpan (mkPtok 7 "@lengthOf(" 12 2 39) (mkPtok 6 ")" 13 4 42)) (mkLengthOf (mkSpan (mkPtok 7 "@lengthOf(" 12 2 39) (mkPtok 6 ")" 13 4 42)) (mkPtok 7 "@lengthOf(" 12 2 39) (mkPtok 42 "int" 13 0 41) (mkPtok 6 ")" 13 4 42)))] (InerObjectField (mkSpan (mkPtok 42 "string_" 14 0 43) (mkPtok 40 "," 21 7 67)) None (InerObjectDecl (mkSpan (mkPtok 42 "string_" 14 0 43) (mkPtok 3 "}" 21 5 66)) (mkPtok 42 "string_" 14 0 43) (mkPtok 2 "{" 14 7 44) [(InerObjectField (mkSpan (mkPtok 36 "repeat" 14 9 45) (mkPtok 40 "," 21 2 65)) (Some (mkPtok 36 "repeat" 14 9 45)) (InerObjectDecl (mkSpan (mkPtok 42 "Logon" 14 16 46) (mkPtok 3 "}" 21 0 64)) (mkPtok 42 "Logon" 14 16 46) (mkPtok 2 "{" 14 22 47) [(ObjectField (mkSpan (mkPtok 42 "rootA" 14 24 48) (mkPtok 40 "," 15 0 49)) None (mkPtok 42 "rootA" 14 24 48) None None (mkPtok 40 "," 15 0 49)); (InerObjectField (mkSpan (mkPtok 42 "i8i8" 15 1 50) (mkPtok 40 "," 20 4 63)) None (InerObjectDecl (mkSpan (mkPtok 42 "i8i8" 15 1 50) (mkPtok 3 "}" 20 2 62)) (mkPtok 42 "i8i8" 15 1 50) (mkPtok 2 "{" 15 5 51) [(MetaField (mkSpan (mkPtok 12 "char[" 15 7 52) (mkPtok 40 "," 17 0 56)) None (mkMetaDecl (mkSpan (mkPtok 12 "char[" 15 7 52) (mkPtok 40 "," 17 0 56)) (TyFixed (mkSpan (mkPtok 12 "char[" 15 7 52) (mkPtok 13 "]" 16 2 54)) (mkFixedString (mkSpan (mkPtok 12 "char[" 15 7 52) (mkPtok 13 "]" 16 2 54)) (mkPtok 12 "char[" 15 7 52) (mkPtok 30 "3" 16 0 53) (mkPtok 13 "]" 16 2 54))) (mkPtok 42 "i64_" 16 3 55) None (mkPtok 40 "," 17 0 56))); (ObjectField (mkSpan (mkPtok 42 "rootA" 17 1 57) (mkPtok 40 "," 20 0 61)) None (mkPtok 42 "rootA" 17 1 57) (Some (mkPtok 42 "falsey" 17 7 58)) None (mkPtok 40 "," 20 0 61))] (mkPtok 3 "}" 20 2 62)) (mkPtok 40 "," 20 4 63))] (mkPtok 3 "}" 21 0 64)) (mkPtok 40 "," 21 2 65))] (mkPtok 3 "}" 21 5 66)) (mkPtok 40 "," 21 7 67))); (mkFieldWithAttr (mkSpan (mkPtok 26 "i32" 21 8 68) (mkPtok 40 "," 21 16 70)) [] (MetaField (mkSpan (mkPtok 26 "i32" 21 8 68) (mkPtok 40 "," 21 16 70)) None (mkMetaDecl (mkSpan (mkPtok 26 "i32" 21 8 68) (mkPtok 40 "," 21 16 70)) (TyBasic (mkSpan (mkPtok 26 "i32" 21 8 68) (mkPtok 26 "i32" 21 8 68)) (mkBasicType (mkSpan (mkPtok 26 "i32" 21 8 68) (mkPtok 26 "i32" 21 8 68)) (mkPtok 26 "i32" 21 8 68))) (mkPtok 42 "crc" 21 12 69) None (mkPtok 40 "," 21 16 70)))); (mkFieldWithAttr (mkSpan (mkPtok 42 "int" 21 18 71) (mkPtok 40 "," 28 12 89)) [] (InerObjectField (mkSpan (mkPtok 42 "int" 21 18 71) (mkPtok 40 "," 28 12 89)) None (InerObjectDecl (mkSpan (mkPtok 42 "int" 21 18 71) (mkPtok 3 "}" 28 10 88)) (mkPtok 42 "int" 21 18 71) (mkPtok 2 "{" 22 0 72) [(MetaField (mkSpan (mkPtok 36 "repeat" 22 2 73) (mkPtok 40 "," 23 0 76)) (Some (mkPtok 36 "repeat" 22 2 73)) (mkMetaDecl (mkSpan (mkPtok 29 "f64" 22 9 74) (mkPtok 40 "," 23 0 76)) (TyBasic (mkSpan (mkPtok 29 "f64" 22 9 74) (mkPtok 29 "f64" 22 9 74)) (mkBasicType (mkSpan (mkPtok 29 "f64" 22 9 74) (mkPtok 29 "f64" 22 9 74)) (mkPtok 29 "f64" 22 9 74))) (mkPtok 42 "Packet" 22 13 75) None (mkPtok 40 "," 23 0 76))); (CheckSumField (mkSpan (mkPtok 42 "uint8x" 23 2 77) (mkPtok 40 "," 24 22 81)) (mkChecksumFieldDecl (mkSpan (mkPtok 42 "uint8x" 23 2 77) (mkPtok 40 "," 24 22 81)) None (mkPtok 42 "uint8x" 23 2 77) (mkCalculatedFrom (mkSpan (mkPtok 5 "@calculatedFrom(" 24 0 78) (mkPtok 6 ")" 24 20 80)) (mkPtok 5 "@calculatedFrom(" 24 0 78) (mkPtok 31 """1""" 24 17 79) (mkPtok 6 ")" 24 20 80)) None (mkPtok 40 "," 24 22 81))); (MetaField (mkSpan (mkPtok 15 "string" 24 24 82) (mkPtok 40 "," 28 8 87)) None (mkMetaDecl (mkSpan (mkPtok 15 "string" 24 24 82) (mkPtok 40 "," 28 8 87)) (TyDynamic (mkSpan (mkPtok 15 "string" 24 24 82) (mkPtok 15 "string" 24 24 82)) (mkDynamicString (mkSpan (mkPtok 15 "string" 24 24 82) (mkPtok 15 "string" 24 24 82)) (mkPtok 15 "string" 24 24 82))) (mkPtok 42 "x" 27 0 85) (Some (mkPtok 43 "`u8 x,`" 28 0 86)) (mkPtok 40 "," 28 8 87)))] (mkPtok 3 "}" 28 10 88)) (mkPtok 40 "," 28 12 89)))] (mkPtok 3 "}" 28 15 90)))])).
+Eval vm_compute in ("<<<M941>>>" ++ check (runes_of_ascii "  options
+    {
+// @lengthOf(
+//
+}
+")).
+Eval vm_compute in ("<<<M973>>>" ++ check (runes_of_ascii "options	{ i8i8	= """ ++ [128512]%N ++ runes_of_ascii """;A=
+    i16 } //")).
+Eval vm_compute in ("<<<M1005>>>" ++ check (runes_of_ascii "
+MetaData	roots
+    {uint8x trueish
+,//
+u32
+    len ,} // @lengthOf(")).
+Eval vm_compute in ("<<<M1037>>>" ++ check (runes_of_ascii "
+packet f32a {
+    @lengthOf( Header// trailing space 
+)
+packetx zchar `two words` // `tick` ""quote"" 'q'
+, @lengthOf( string_
+    ) char[]
+//
+// a // b
+_x `{ , }`,
+    repeatCount trueish
+    `crlf
+line` ,}")).
+Eval vm_compute in ("<<<M1069>>>" ++ check (runes_of_ascii "root // trailing space 
+packet leftPad { u64 Z9_ `doc`  ,// 50% %s
 }
 
 ")).
-Eval vm_compute in ("<<<M1869>>>" ++ check (runes_of_ascii "// packet A { u8 x, }
-root packet Z9_
+Eval vm_compute in ("<<<M1101>>>" ++ check (runes_of_ascii "options { // c
+Z9_= ' ' ;roots=true  ; x
+= true ; }
+options { }")).
+Eval vm_compute in ("<<<M1133>>>" ++ check (runes_of_ascii "packet i64_ {zchar[ //	t
+7
+] chars
+,  @rightPad
+    (
+    )pack
+,
+@lengthOf(//
+roots )// c
+@tag( 65535) Header zchar ,
+    } packet	matchKey
+    { @calculatedFrom(	""\n"" ) @lengthOf( x_y_z)
+@lengthOf( // 50% %s
+calculatedFrom)
+zchar[
+//
+/// triple
+0 ] MetaDataX , } options { options1 = // a // b
+' '
+;	Pad =
+char
+// @lengthOf(
+//
+} packet
+    /// triple
+    A { } //")).
+Eval vm_compute in ("<<<T1133>>>" ++ terms [mkTok 35 "packet" 1 0 false; mkTok 42 "i64_" 1 7 false; mkTok 2 "{" 1 12 false; mkTok 14 "zchar[" 1 13 false; mkTok 44 (string_of_bytes [47; 47; 9; 116]%N) 1 20 true; mkTok 30 "7" 2 0 false; mkTok 13 "]" 3 0 false; mkTok 42 "chars" 3 2 false; mkTok 40 "," 4 0 false; mkTok 32 "@rightPad" 4 3 false; mkTok 8 "(" 5 4 false; mkTok 6 ")" 6 4 false; mkTok 42 "pack" 6 5 false; mkTok 40 "," 7 0 false; mkTok 7 "@lengthOf(" 8 0 false; mkTok 44 "//" 8 10 true; mkTok 42 "roots" 9 0 false; mkTok 6 ")" 9 6 false; mkTok 44 "// c" 9 7 true; mkTok 9 "@tag(" 10 0 false; mkTok 30 "65535" 10 6 false; mkTok 6 ")" 10 11 false; mkTok 42 "Header" 10 13 false; mkTok 42 "zchar" 10 20 false; mkTok 40 "," 10 26 false; mkTok 3 "}" 11 4 false; mkTok 35 "packet" 11 6 false; mkTok 42 "matchKey" 11 13 false; mkTok 2 "{" 12 4 false; mkTok 5 "@calculatedFrom(" 12 6 false; mkTok 31 """\n""" 12 23 false; mkTok 6 ")" 12 28 false; mkTok 7 "@lengthOf(" 12 30 false; mkTok 42 "x_y_z" 12 41 false; mkTok 6 ")" 12 46 false; mkTok 7 "@lengthOf(" 13 0 false; mkTok 44 "// 50% %s" 13 11 true; mkTok 42 "calculatedFrom" 14 0 false; mkTok 6 ")" 14 14 false; mkTok 14 "zchar[" 15 0 false; mkTok 44 "//" 16 0 true; mkTok 44 "/// triple" 17 0 true; mkTok 30 "0" 18 0 false; mkTok 13 "]" 18 2 false; mkTok 42 "MetaDataX" 18 4 false; mkTok 40 "," 18 14 false; mkTok 3 "}" 18 16 false; mkTok 1 "options" 18 18 false; mkTok 2 "{" 18 26 false; mkTok 42 "options1" 18 28 false; mkTok 4 "=" 18 37 false; mkTok 44 "// a // b" 18 39 true; mkTok 33 "' '" 19 0 false; mkTok 41 ";" 20 0 false; mkTok 42 "Pad" 20 2 false; mkTok 4 "=" 20 6 false; mkTok 19 "char" 21 0 false; mkTok 44 "// @lengthOf(" 22 0 true; mkTok 44 "//" 23 0 true; mkTok 3 "}" 24 0 false; mkTok 35 "packet" 24 2 false; mkTok 44 "/// triple" 25 4 true; mkTok 42 "A" 26 4 false; mkTok 2 "{" 26 6 false; mkTok 3 "}" 26 8 false; mkTok 44 "//" 26 10 true; mkTok 0 "<EOF>" 26 12 false] (mkPacket (mkPtok 35 "packet" 1 0 0) (Some (mkPtok 3 "}" 26 8 64)) [(DPacket (mkPacketDef (mkSpan (mkPtok 35 "packet" 1 0 0) (mkPtok 3 "}" 11 4 25)) None (mkPtok 35 "packet" 1 0 0) (mkPtok 42 "i64_" 1 7 1) (mkPtok 2 "{" 1 12 2) [(mkFieldWithAttr (mkSpan (mkPtok 14 "zchar[" 1 13 3) (mkPtok 40 "," 4 0 8)) [] (MetaField (mkSpan (mkPtok 14 "zchar[" 1 13 3) (mkPtok 40 "," 4 0 8)) None (mkMetaDecl (mkSpan (mkPtok 14 "zchar[" 1 13 3) (mkPtok 40 "," 4 0 8)) (TyFixed (mkSpan (mkPtok 14 "zchar[" 1 13 3) (mkPtok 13 "]" 3 0 6)) (mkFixedString (mkSpan (mkPtok 14 "zchar[" 1 13 3) (mkPtok 13 "]" 3 0 6)) (mkPtok 14 "zchar[" 1 13 3) (mkPtok 30 "7" 2 0 5) (mkPtok 13 "]" 3 0 6))) (mkPtok 42 "chars" 3 2 7) None (mkPtok 40 "," 4 0 8)))); (mkFieldWithAttr (mkSpan (mkPtok 32 "@rightPad" 4 3 9) (mkPtok 40 "," 7 0 13)) [(FAPadding (mkSpan (mkPtok 32 "@rightPad" 4 3 9) (mkPtok 6 ")" 6 4 11)) (mkPaddingAttr (mkSpan (mkPtok 32 "@rightPad" 4 3 9) (mkPtok 6 ")" 6 4 11)) (mkPtok 32 "@rightPad" 4 3 9) (mkPtok 8 "(" 5 4 10) None (mkPtok 6 ")" 6 4 11)))] (ObjectField (mkSpan (mkPtok 42 "pack" 6 5 12) (mkPtok 40 "," 7 0 13)) None (mkPtok 42 "pack" 6 5 12) None None (mkPtok 40 "," 7 0 13))); (mkFieldWithAttr (mkSpan (mkPtok 7 "@lengthOf(" 8 0 14) (mkPtok 40 "," 10 26 24)) [(FALengthOf (mkSpan (mkPtok 7 "@lengthOf(" 8 0 14) (mkPtok 6 ")" 9 6 17)) (mkLengthOf (mkSpan (mkPtok 7 "@lengthOf(" 8 0 14) (mkPtok 6 ")" 9 6 17)) (mkPtok 7 "@lengthOf(" 8 0 14) (mkPtok 42 "roots" 9 0 16) (mkPtok 6 ")" 9 6 17))); (FATag (mkSpan (mkPtok 9 "@tag(" 10 0 19) (mkPtok 6 ")" 10 11 21)) (mkTagAttr (mkSpan (mkPtok 9 "@tag(" 10 0 19) (mkPtok 6 ")" 10 11 21)) (mkPtok 9 "@tag(" 10 0 19) (mkPtok 30 "65535" 10 6 20) (mkPtok 6 ")" 10 11 21)))] (ObjectField (mkSpan (mkPtok 42 "Header" 10 13 22) (mkPtok 40 "," 10 26 24)) None (mkPtok 42 "Header" 10 13 22) (Some (mkPtok 42 "zchar" 10 20 23)) None (mkPtok 40 "," 10 26 24)))] (mkPtok 3 "}" 11 4 25))); (DPacket (mkPacketDef (mkSpan (mkPtok 35 "packet" 11 6 26) (mkPtok 3 "}" 18 16 46)) None (mkPtok 35 "packet" 11 6 26) (mkPtok 42 "matchKey" 11 13 27) (mkPtok 2 "{" 12 4 28) [(mkFieldWithAttr (mkSpan (mkPtok 5 "@calculatedFrom(" 12 6 29) (mkPtok 40 "," 18 14 45)) [(FACalculatedFrom (mkSpan (mkPtok 5 "@calculatedFrom(" 12 6 29) (mkPtok 6 ")" 12 28 31)) (mkCalculatedFrom (mkSpan (mkPtok 5 "@calculatedFrom(" 12 6 29) (mkPtok 6 ")" 12 28 31)) (mkPtok 5 "@calculatedFrom(" 12 6 29) (mkPtok 31 """\n""" 12 23 30) (mkPtok 6 ")" 12 28 31))); (FALengthOf (mkSpan (mkPtok 7 "@lengthOf(" 12 30 32) (mkPtok 6 ")" 12 46 34)) (mkLengthOf (mkSpan (mkPtok 7 "@lengthOf(" 12 30 32) (mkPtok 6 ")" 12 46 34)) (mkPtok 7 "@lengthOf(" 12 30 32) (mkPtok 42 "x_y_z" 12 41 33) (mkPtok 6 ")" 12 46 34))); (FALengthOf (mkSpan (mkPtok 7 "@lengthOf(" 13 0 35) (mkPtok 6 ")" 14 14 38)) (mkLengthOf (mkSpan (mkPtok 7 "@lengthOf(" 13 0 35) (mkPtok 6 ")" 14 14 38)) (mkPtok 7 "@lengthOf(" 13 0 35) (mkPtok 42 "calculatedFrom" 14 0 37) (mkPtok 6 ")" 14 14 38)))] (MetaField (mkSpan (mkPtok 14 "zchar[" 15 0 39) (mkPtok 40 "," 18 14 45)) None (mkMetaDecl (mkSpan (mkPtok 14 "zchar[" 15 0 39) (mkPtok 40 "," 18 14 45)) (TyFixed (mkSpan (mkPtok 14 "zchar[" 15 0 39) (mkPtok 13 "]" 18 2 43)) (mkFixedString (mkSpan (mkPtok 14 "zchar[" 15 0 39) (mkPtok 13 "]" 18 2 43)) (mkPtok 14 "zchar[" 15 0 39) (mkPtok 30 "0" 18 0 42) (mkPtok 13 "]" 18 2 43))) (mkPtok 42 "MetaDataX" 18 4 44) None (mkPtok 40 "," 18 14 45))))] (mkPtok 3 "}" 18 16 46))); (DOption (mkOptionDef (mkSpan (mkPtok 1 "options" 18 18 47) (mkPtok 3 "}" 24 0 59)) (mkPtok 1 "options" 18 18 47) (mkPtok 2 "{" 18 26 48) [(mkOptionDecl (mkSpan (mkPtok 42 "options1" 18 28 49) (mkPtok 41 ";" 20 0 53)) (mkPtok 42 "options1" 18 28 49) (mkPtok 4 "=" 18 37 50) (VPaddingChar (mkSpan (mkPtok 33 "' '" 19 0 52) (mkPtok 33 "' '" 19 0 52)) (mkPtok 33 "' '" 19 0 52)) (Some (mkPtok 41 ";" 20 0 53))); (mkOptionDecl (mkSpan (mkPtok 42 "Pad" 20 2 54) (mkPtok 19 "char" 21 0 56)) (mkPtok 42 "Pad" 20 2 54) (mkPtok 4 "=" 20 6 55) (VType (mkSpan (mkPtok 19 "char" 21 0 56) (mkPtok 19 "char" 21 0 56)) (TyBasic (mkSpan (mkPtok 19 "char" 21 0 56) (mkPtok 19 "char" 21 0 56)) (mkBasicType (mkSpan (mkPtok 19 "char" 21 0 56) (mkPtok 19 "char" 21 0 56)) (mkPtok 19 "char" 21 0 56)))) None)] (mkPtok 3 "}" 24 0 59))); (DPacket (mkPacketDef (mkSpan (mkPtok 35 "packet" 24 2 60) (mkPtok 3 "}" 26 8 64)) None (mkPtok 35 "packet" 24 2 60) (mkPtok 42 "A" 26 4 62) (mkPtok 2 "{" 26 6 63) [] (mkPtok 3 "}" 26 8 64)))])).
+Eval vm_compute in ("<<<M1165>>>" ++ check (runes_of_ascii "packet
+Pad{
+match u as tag{
+    [ 00 /// triple
+, ""CRC32""] :u128  }	,
+}
+    root packet Pad {repeat Pad	,
+char
+a1@calculatedFrom( ""x y""
+//
+//
+) //x
+,repeat // @lengthOf(
+zchar[ 65535 ]
+    // a // b
+    x_y_z`
+`
+,falsey , char[]options1,// packet A { u8 x, }
+charz{ i8 roots@calculatedFrom(
+""CRC32"")  `
+`
+,	string_ `crlf
+line` ,
+// c
+// `tick` ""quote"" 'q'
+i64 u128
+    @lengthOf( crc ) ,
+// @lengthOf(
+// " ++ [27880; 37322]%N ++ runes_of_ascii "
+},	repeatCount
+    `say ""hi""` ,}
+")).
+Eval vm_compute in ("<<<M1197>>>" ++ check (runes_of_ascii "MetaData As {/// triple
+zchar[ 7 // trailing space 
+] As	``, }MetaData
+float{ } packet calculatedFrom{
+    a1
+string_// c
+, zchar[3 ]  f32a @calculatedFrom(
+""abc"")`100% of %d`
+,}")).
+Eval vm_compute in ("<<<M1229>>>" ++ check (runes_of_ascii "MetaData
+    Z9_ { u8x A , } MetaData As
+{ string zchar ,
+    trueish
+Pad  ,
+    uint16 o ,rootA
+// trailing space 
+// c
+falsey
+    ,
+    tag rootA,  } packet As{
+@lengthOf( string_)u8x
+    roots
+    `100% of %d`// `tick` ""quote"" 'q'
+,
+    }
+")).
+Eval vm_compute in ("<<<M1261>>>" ++ check (runes_of_ascii "packet leftPad {options1/// triple
+{ zchar[
+0123456789]roots `100% of %d`
+    , }
+, @calculatedFrom(
+""a\\"" ) match // 50% %s
+a1	as msg_type {
+[ 10 , ""packet""
+// @lengthOf(
+// " ++ [128512]%N ++ runes_of_ascii " emoji
+, ""x y""
+, ""a	b"" ,  ""packet""
+    ,
+42 ,
+""{,}""  , ""\n""
+    // @lengthOf(
+    ] :Logon
+,4294967296 :
+    options1	,3 : string_ , """ ++ [28040; 24687]%N ++ runes_of_ascii """:
+i64_ , """ ++ [233]%N ++ runes_of_ascii "t" ++ [233]%N ++ runes_of_ascii """: stringy// packet A { u8 x, }
+, 42
+: x_y_z} ,
+@lengthOf(As)char[] T , lengthOf {
+    uint64// " ++ [128512]%N ++ runes_of_ascii " emoji
+charz @lengthOf( falsey )`` ,match
+Pad as A  {  [4294967296 , //
+""a\""b""] : tag ""\" ++ [233]%N ++ runes_of_ascii """ : uint8x
+    // trailing space 
+    ""{,}"" : lengthOf , [ ""it's"" ,""a	b""
+    ] : i64_
+    , [  0
+    ]
+    :
+u128
+,
+}, }
+    ,
+msg_type i64_, repeat
+// @lengthOf(
+// @lengthOf(
+zchar[
+    4294967296 ]
+float , }
+")).
+Eval vm_compute in ("<<<M1293>>>" ++ check (runes_of_ascii "// `tick` ""quote"" 'q'
+root packet x_y_z	{
+repeat zchar[
+1
+] body	,
+    @calculatedFrom( ""a	b"" ) A {repeat i16
+Foo
+`tab	here`, _x @calculatedFrom(""" ++ [28040; 24687]%N ++ runes_of_ascii """ )// `tick` ""quote"" 'q'
+`it's` , } ,	match charz as charz
+    {
+10
+    :
+    leftPad , 10
+: leftPad
+0123456789
+:
+    float , },@calculatedFrom( """ ++ [233]%N ++ runes_of_ascii "t" ++ [233]%N ++ runes_of_ascii """
+    ) zchar[007 ] charz`it's` // packet A { u8 x, }
+, } options{} root /// triple
+packet
+falsey
 {
-int32 rootA
-    @calculatedFrom( // @lengthOf(
-""a\""b"" )  `two words`, @lengthOf(
+// trailing space 
+// trailing space 
+repeat char[ 42 ] len,
+}
+")).
+Eval vm_compute in ("<<<M1325>>>" ++ check (runes_of_ascii "  packet a1 {
+    u8 Packet `it's`  , @leftPad	(
+)
+    msg_type
+    , @lengthOf( crc)As repeatCount ,
+// 50% %s
+// c
+@calculatedFrom( ""a\\""	)@calculatedFrom(
+//x
+//x
+""" ++ [233]%N ++ runes_of_ascii "t" ++ [233]%N ++ runes_of_ascii """ // packet A { u8 x, }
+)@tag(00	)	i16	As , @lengthOf(	int ) matchKey {
+    len
+{
+zchar[
     //x
-    pack	)@leftPad( '\x00' ) msg_type  @lengthOf( As
+    255]crc
+//x
+//	t
+, repeat char[]	charz	,
+repeat
+i8 x_y_z `{ , }` , rootA
+@calculatedFrom(""" ++ [28040; 24687]%N ++ runes_of_ascii """) `
+`,  } // " ++ [128512]%N ++ runes_of_ascii " emoji
+, } ,}
+    // a // b
+    MetaData	metadata  { u16 x ,
+i8i8 crc
+    // packet A { u8 x, }
+    , f32 Packet , float64 chars , }
+
+")).
+Eval vm_compute in ("<<<M1357>>>" ++ check (runes_of_ascii "options
+{ A = f64
+; Z9_='\x00'
+// packet A { u8 x, }
+//
+Packet	=""{,}""; Header = ' ' ;
+rootA= i32
+    } packet Logon { }root packet x {
+    @lengthOf( Packet
+) @rightPad // c
+( '\x00'
+)@leftPad ( ' ' )// trailing space 
+repeat zchar[ 7 ]Pad `a\`
+,
+f32a  charz,
+    //	t
+    zchar[  65535
+    ] x @calculatedFrom( ""\n"") , // trailing space 
+zchar@lengthOf(
+x_y_z )
+    //
+    `` ,
+}packet x_y_z
+{
+int64	len ``//	t
+, @calculatedFrom( ""`tick`""	) string
+lengthOf `crlf
+line`// 50% %s
+, @rightPad(
+    ) match
+msg_type as
+BodyLength { [
+""// no comment""// @lengthOf(
+]: tag// " ++ [27880; 37322]%N ++ runes_of_ascii "
+,
+} ,
+//	t
+//
+@tag( // " ++ [27880; 37322]%N ++ runes_of_ascii "
+10 ) zchar[
+42 ] Z9_ ,zchar[
+65535 ]matchKey @calculatedFrom(
+""\" ++ [233]%N ++ runes_of_ascii """ ) `a\` , @lengthOf(tag
+//x
+// " ++ [128512]%N ++ runes_of_ascii " emoji
+)
+    // " ++ [128512]%N ++ runes_of_ascii " emoji
+    float `// not a comment`	,
+@leftPad
+    // packet A { u8 x, }
+    ( ' ' ) @tag(00) @tag(
+007
+) repeat char[]
+    asx
+`line1
+line2`
+    // 50% %s
+    , @lengthOf(
+rootA ) repeat repeatCount As ,
+    }
+    packet zchar{ @lengthOf(
+    As ) repeat
+i16 calculatedFrom ,@tag(1  )  uint16 len ,	}
+")).
+Eval vm_compute in ("<<<T1357>>>" ++ terms [mkTok 1 "options" 1 0 false; mkTok 2 "{" 2 0 false; mkTok 42 "A" 2 2 false; mkTok 4 "=" 2 4 false; mkTok 29 "f64" 2 6 false; mkTok 41 ";" 3 0 false; mkTok 42 "Z9_" 3 2 false; mkTok 4 "=" 3 5 false; mkTok 33 "'\x00'" 3 6 false; mkTok 44 "// packet A { u8 x, }" 4 0 true; mkTok 44 "//" 5 0 true; mkTok 42 "Packet" 6 0 false; mkTok 4 "=" 6 7 false; mkTok 31 """{,}""" 6 8 false; mkTok 41 ";" 6 13 false; mkTok 42 "Header" 6 15 false; mkTok 4 "=" 6 22 false; mkTok 33 "' '" 6 24 false; mkTok 41 ";" 6 28 false; mkTok 42 "rootA" 7 0 false; mkTok 4 "=" 7 5 false; mkTok 26 "i32" 7 7 false; mkTok 3 "}" 8 4 false; mkTok 35 "packet" 8 6 false; mkTok 42 "Logon" 8 13 false; mkTok 2 "{" 8 19 false; mkTok 3 "}" 8 21 false; mkTok 34 "root" 8 22 false; mkTok 35 "packet" 8 27 false; mkTok 42 "x" 8 34 false; mkTok 2 "{" 8 36 false; mkTok 7 "@lengthOf(" 9 4 false; mkTok 42 "Packet" 9 15 false; mkTok 6 ")" 10 0 false; mkTok 32 "@rightPad" 10 2 false; mkTok 44 "// c" 10 12 true; mkTok 8 "(" 11 0 false; mkTok 33 "'\x00'" 11 2 false; mkTok 6 ")" 12 0 false; mkTok 32 "@leftPad" 12 1 false; mkTok 8 "(" 12 10 false; mkTok 33 "' '" 12 12 false; mkTok 6 ")" 12 16 false; mkTok 44 "// trailing space " 12 17 true; mkTok 36 "repeat" 13 0 false; mkTok 14 "zchar[" 13 7 false; mkTok 30 "7" 13 14 false; mkTok 13 "]" 13 16 false; mkTok 42 "Pad" 13 17 false; mkTok 43 "`a\`" 13 21 false; mkTok 40 "," 14 0 false; mkTok 42 "f32a" 15 0 false; mkTok 42 "charz" 15 6 false; mkTok 40 "," 15 11 false; mkTok 44 (string_of_bytes [47; 47; 9; 116]%N) 16 4 true; mkTok 14 "zchar[" 17 4 false; mkTok 30 "65535" 17 12 false; mkTok 13 "]" 18 4 false; mkTok 42 "x" 18 6 false; mkTok 5 "@calculatedFrom(" 18 8 false; mkTok 31 """\n""" 18 25 false; mkTok 6 ")" 18 29 false; mkTok 40 "," 18 31 false; mkTok 44 "// trailing space " 18 33 true; mkTok 42 "zchar" 19 0 false; mkTok 7 "@lengthOf(" 19 5 false; mkTok 42 "x_y_z" 20 0 false; mkTok 6 ")" 20 6 false; mkTok 44 "//" 21 4 true; mkTok 43 "``" 22 4 false; mkTok 40 "," 22 7 false; mkTok 3 "}" 23 0 false; mkTok 35 "packet" 23 1 false; mkTok 42 "x_y_z" 23 8 false; mkTok 2 "{" 24 0 false; mkTok 27 "int64" 25 0 false; mkTok 42 "len" 25 6 false; mkTok 43 "``" 25 10 false; mkTok 44 (string_of_bytes [47; 47; 9; 116]%N) 25 12 true; mkTok 40 "," 26 0 false; mkTok 5 "@calculatedFrom(" 26 2 false; mkTok 31 """`tick`""" 26 19 false; mkTok 6 ")" 26 28 false; mkTok 15 "string" 26 30 false; mkTok 42 "lengthOf" 27 0 false; mkTok 43 (string_of_bytes [96; 99; 114; 108; 102; 13; 10; 108; 105; 110; 101; 96]%N) 27 9 false; mkTok 44 "// 50% %s" 28 5 true; mkTok 40 "," 29 0 false; mkTok 32 "@rightPad" 29 2 false; mkTok 8 "(" 29 11 false; mkTok 6 ")" 30 4 false; mkTok 38 "match" 30 6 false; mkTok 42 "msg_type" 31 0 false; mkTok 17 "as" 31 9 false; mkTok 42 "BodyLength" 32 0 false; mkTok 2 "{" 32 11 false; mkTok 18 "[" 32 13 false; mkTok 31 """// no comment""" 33 0 false; mkTok 44 "// @lengthOf(" 33 15 true; mkTok 13 "]" 34 0 false; mkTok 39 ":" 34 1 false; mkTok 42 "tag" 34 3 false; mkTok 44 (string_of_bytes [47; 47; 32; 230; 179; 168; 233; 135; 138]%N) 34 6 true; mkTok 40 "," 35 0 false; mkTok 3 "}" 36 0 false; mkTok 40 "," 36 2 false; mkTok 44 (string_of_bytes [47; 47; 9; 116]%N) 37 0 true; mkTok 44 "//" 38 0 true; mkTok 9 "@tag(" 39 0 false; mkTok 44 (string_of_bytes [47; 47; 32; 230; 179; 168; 233; 135; 138]%N) 39 6 true; mkTok 30 "10" 40 0 false; mkTok 6 ")" 40 3 false; mkTok 14 "zchar[" 40 5 false; mkTok 30 "42" 41 0 false; mkTok 13 "]" 41 3 false; mkTok 42 "Z9_" 41 5 false; mkTok 40 "," 41 9 false; mkTok 14 "zchar[" 41 10 false; mkTok 30 "65535" 42 0 false; mkTok 13 "]" 42 6 false; mkTok 42 "matchKey" 42 7 false; mkTok 5 "@calculatedFrom(" 42 16 false; mkTok 31 (string_of_bytes [34; 92; 195; 169; 34]%N) 43 0 false; mkTok 6 ")" 43 5 false; mkTok 43 "`a\`" 43 7 false; mkTok 40 "," 43 12 false; mkTok 7 "@lengthOf(" 43 14 false; mkTok 42 "tag" 43 24 false; mkTok 44 "//x" 44 0 true; mkTok 44 (string_of_bytes [47; 47; 32; 240; 159; 152; 128; 32; 101; 109; 111; 106; 105]%N) 45 0 true; mkTok 6 ")" 46 0 false; mkTok 44 (string_of_bytes [47; 47; 32; 240; 159; 152; 128; 32; 101; 109; 111; 106; 105]%N) 47 4 true; mkTok 42 "float" 48 4 false; mkTok 43 "`// not a comment`" 48 10 false; mkTok 40 "," 48 29 false; mkTok 32 "@leftPad" 49 0 false; mkTok 44 "// packet A { u8 x, }" 50 4 true; mkTok 8 "(" 51 4 false; mkTok 33 "' '" 51 6 false; mkTok 6 ")" 51 10 false; mkTok 9 "@tag(" 51 12 false; mkTok 30 "00" 51 17 false; mkTok 6 ")" 51 19 false; mkTok 9 "@tag(" 51 21 false; mkTok 30 "007" 52 0 false; mkTok 6 ")" 53 0 false; mkTok 36 "repeat" 53 2 false; mkTok 16 "char[]" 53 9 false; mkTok 42 "asx" 54 4 false; mkTok 43 (string_of_bytes [96; 108; 105; 110; 101; 49; 10; 108; 105; 110; 101; 50; 96]%N) 55 0 false; mkTok 44 "// 50% %s" 57 4 true; mkTok 40 "," 58 4 false; mkTok 7 "@lengthOf(" 58 6 false; mkTok 42 "rootA" 59 0 false; mkTok 6 ")" 59 6 false; mkTok 36 "repeat" 59 8 false; mkTok 42 "repeatCount" 59 15 false; mkTok 42 "As" 59 27 false; mkTok 40 "," 59 30 false; mkTok 3 "}" 60 4 false; mkTok 35 "packet" 61 4 false; mkTok 42 "zchar" 61 11 false; mkTok 2 "{" 61 16 false; mkTok 7 "@lengthOf(" 61 18 false; mkTok 42 "As" 62 4 false; mkTok 6 ")" 62 7 false; mkTok 36 "repeat" 62 9 false; mkTok 25 "i16" 63 0 false; mkTok 42 "calculatedFrom" 63 4 false; mkTok 40 "," 63 19 false; mkTok 9 "@tag(" 63 20 false; mkTok 30 "1" 63 25 false; mkTok 6 ")" 63 28 false; mkTok 21 "uint16" 63 31 false; mkTok 42 "len" 63 38 false; mkTok 40 "," 63 42 false; mkTok 3 "}" 63 44 false; mkTok 0 "<EOF>" 64 0 false] (mkPacket (mkPtok 1 "options" 1 0 0) (Some (mkPtok 3 "}" 63 44 176)) [(DOption (mkOptionDef (mkSpan (mkPtok 1 "options" 1 0 0) (mkPtok 3 "}" 8 4 22)) (mkPtok 1 "options" 1 0 0) (mkPtok 2 "{" 2 0 1) [(mkOptionDecl (mkSpan (mkPtok 42 "A" 2 2 2) (mkPtok 41 ";" 3 0 5)) (mkPtok 42 "A" 2 2 2) (mkPtok 4 "=" 2 4 3) (VType (mkSpan (mkPtok 29 "f64" 2 6 4) (mkPtok 29 "f64" 2 6 4)) (TyBasic (mkSpan (mkPtok 29 "f64" 2 6 4) (mkPtok 29 "f64" 2 6 4)) (mkBasicType (mkSpan (mkPtok 29 "f64" 2 6 4) (mkPtok 29 "f64" 2 6 4)) (mkPtok 29 "f64" 2 6 4)))) (Some (mkPtok 41 ";" 3 0 5))); (mkOptionDecl (mkSpan (mkPtok 42 "Z9_" 3 2 6) (mkPtok 33 "'\x00'" 3 6 8)) (mkPtok 42 "Z9_" 3 2 6) (mkPtok 4 "=" 3 5 7) (VPaddingChar (mkSpan (mkPtok 33 "'\x00'" 3 6 8) (mkPtok 33 "'\x00'" 3 6 8)) (mkPtok 33 "'\x00'" 3 6 8)) None); (mkOptionDecl (mkSpan (mkPtok 42 "Packet" 6 0 11) (mkPtok 41 ";" 6 13 14)) (mkPtok 42 "Packet" 6 0 11) (mkPtok 4 "=" 6 7 12) (VString (mkSpan (mkPtok 31 """{,}""" 6 8 13) (mkPtok 31 """{,}""" 6 8 13)) (mkPtok 31 """{,}""" 6 8 13)) (Some (mkPtok 41 ";" 6 13 14))); (mkOptionDecl (mkSpan (mkPtok 42 "Header" 6 15 15) (mkPtok 41 ";" 6 28 18)) (mkPtok 42 "Header" 6 15 15) (mkPtok 4 "=" 6 22 16) (VPaddingChar (mkSpan (mkPtok 33 "' '" 6 24 17) (mkPtok 33 "' '" 6 24 17)) (mkPtok 33 "' '" 6 24 17)) (Some (mkPtok 41 ";" 6 28 18))); (mkOptionDecl (mkSpan (mkPtok 42 "rootA" 7 0 19) (mkPtok 26 "i32" 7 7 21)) (mkPtok 42 "rootA" 7 0 19) (mkPtok 4 "=" 7 5 20) (VType (mkSpan (mkPtok 26 "i32" 7 7 21) (mkPtok 26 "i32" 7 7 21)) (TyBasic (mkSpan (mkPtok 26 "i32" 7 7 21) (mkPtok 26 "i32" 7 7 21)) (mkBasicType (mkSpan (mkPtok 26 "i32" 7 7 21) (mkPtok 26 "i32" 7 7 21)) (mkPtok 26 "i32" 7 7 21)))) None)] (mkPtok 3 "}" 8 4 22))); (DPacket (mkPacketDef (mkSpan (mkPtok 35 "packet" 8 6 23) (mkPtok 3 "}" 8 21 26)) None (mkPtok 35 "packet" 8 6 23) (mkPtok 42 "Logon" 8 13 24) (mkPtok 2 "{" 8 19 25) [] (mkPtok 3 "}" 8 21 26))); (DPacket (mkPacketDef (mkSpan (mkPtok 34 "root" 8 22 27) (mkPtok 3 "}" 23 0 71)) (Some (mkPtok 34 "root" 8 22 27)) (mkPtok 35 "packet" 8 27 28) (mkPtok 42 "x" 8 34 29) (mkPtok 2 "{" 8 36 30) [(mkFieldWithAttr (mkSpan (mkPtok 7 "@lengthOf(" 9 4 31) (mkPtok 40 "," 14 0 50)) [(FALengthOf (mkSpan (mkPtok 7 "@lengthOf(" 9 4 31) (mkPtok 6 ")" 10 0 33)) (mkLengthOf (mkSpan (mkPtok 7 "@lengthOf(" 9 4 31) (mkPtok 6 ")" 10 0 33)) (mkPtok 7 "@lengthOf(" 9 4 31) (mkPtok 42 "Packet" 9 15 32) (mkPtok 6 ")" 10 0 33))); (FAPadding (mkSpan (mkPtok 32 "@rightPad" 10 2 34) (mkPtok 6 ")" 12 0 38)) (mkPaddingAttr (mkSpan (mkPtok 32 "@rightPad" 10 2 34) (mkPtok 6 ")" 12 0 38)) (mkPtok 32 "@rightPad" 10 2 34) (mkPtok 8 "(" 11 0 36) (Some (mkPtok 33 "'\x00'" 11 2 37)) (mkPtok 6 ")" 12 0 38))); (FAPadding (mkSpan (mkPtok 32 "@leftPad" 12 1 39) (mkPtok 6 ")" 12 16 42)) (mkPaddingAttr (mkSpan (mkPtok 32 "@leftPad" 12 1 39) (mkPtok 6 ")" 12 16 42)) (mkPtok 32 "@leftPad" 12 1 39) (mkPtok 8 "(" 12 10 40) (Some (mkPtok 33 "' '" 12 12 41)) (mkPtok 6 ")" 12 16 42)))] (MetaField (mkSpan (mkPtok 36 "repeat" 13 0 44) (mkPtok 40 "," 14 0 50)) (Some (mkPtok 36 "repeat" 13 0 44)) (mkMetaDecl (mkSpan (mkPtok 14 "zchar[" 13 7 45) (mkPtok 40 "," 14 0 50)) (TyFixed (mkSpan (mkPtok 14 "zchar[" 13 7 45) (mkPtok 13 "]" 13 16 47)) (mkFixedString (mkSpan (mkPtok 14 "zchar[" 13 7 45) (mkPtok 13 "]" 13 16 47)) (mkPtok 14 "zchar[" 13 7 45) (mkPtok 30 "7" 13 14 46) (mkPtok 13 "]" 13 16 47))) (mkPtok 42 "Pad" 13 17 48) (Some (mkPtok 43 "`a\`" 13 21 49)) (mkPtok 40 "," 14 0 50)))); (mkFieldWithAttr (mkSpan (mkPtok 42 "f32a" 15 0 51) (mkPtok 40 "," 15 11 53)) [] (ObjectField (mkSpan (mkPtok 42 "f32a" 15 0 51) (mkPtok 40 "," 15 11 53)) None (mkPtok 42 "f32a" 15 0 51) (Some (mkPtok 42 "charz" 15 6 52)) None (mkPtok 40 "," 15 11 53))); (mkFieldWithAttr (mkSpan (mkPtok 14 "zchar[" 17 4 55) (mkPtok 40 "," 18 31 62)) [] (CheckSumField (mkSpan (mkPtok 14 "zchar[" 17 4 55) (mkPtok 40 "," 18 31 62)) (mkChecksumFieldDecl (mkSpan (mkPtok 14 "zchar[" 17 4 55) (mkPtok 40 "," 18 31 62)) (Some (TyFixed (mkSpan (mkPtok 14 "zchar[" 17 4 55) (mkPtok 13 "]" 18 4 57)) (mkFixedString (mkSpan (mkPtok 14 "zchar[" 17 4 55) (mkPtok 13 "]" 18 4 57)) (mkPtok 14 "zchar[" 17 4 55) (mkPtok 30 "65535" 17 12 56) (mkPtok 13 "]" 18 4 57)))) (mkPtok 42 "x" 18 6 58) (mkCalculatedFrom (mkSpan (mkPtok 5 "@calculatedFrom(" 18 8 59) (mkPtok 6 ")" 18 29 61)) (mkPtok 5 "@calculatedFrom(" 18 8 59) (mkPtok 31 """\n""" 18 25 60) (mkPtok 6 ")" 18 29 61)) None (mkPtok 40 "," 18 31 62)))); (mkFieldWithAttr (mkSpan (mkPtok 42 "zchar" 19 0 64) (mkPtok 40 "," 22 7 70)) [] (LengthField (mkSpan (mkPtok 42 "zchar" 19 0 64) (mkPtok 40 "," 22 7 70)) (mkLengthFieldDecl (mkSpan (mkPtok 42 "zchar" 19 0 64) (mkPtok 40 "," 22 7 70)) None (mkPtok 42 "zchar" 19 0 64) (mkLengthOf (mkSpan (mkPtok 7 "@lengthOf(" 19 5 65) (mkPtok 6 ")" 20 6 67)) (mkPtok 7 "@lengthOf(" 19 5 65) (mkPtok 42 "x_y_z" 20 0 66) (mkPtok 6 ")" 20 6 67)) (Some (mkPtok 43 "``" 22 4 69)) (mkPtok 40 "," 22 7 70))))] (mkPtok 3 "}" 23 0 71))); (DPacket (mkPacketDef (mkSpan (mkPtok 35 "packet" 23 1 72) (mkPtok 3 "}" 60 4 159)) None (mkPtok 35 "packet" 23 1 72) (mkPtok 42 "x_y_z" 23 8 73) (mkPtok 2 "{" 24 0 74) [(mkFieldWithAttr (mkSpan (mkPtok 27 "int64" 25 0 75) (mkPtok 40 "," 26 0 79)) [] (MetaField (mkSpan (mkPtok 27 "int64" 25 0 75) (mkPtok 40 "," 26 0 79)) None (mkMetaDecl (mkSpan (mkPtok 27 "int64" 25 0 75) (mkPtok 40 "," 26 0 79)) (TyBasic (mkSpan (mkPtok 27 "int64" 25 0 75) (mkPtok 27 "int64" 25 0 75)) (mkBasicType (mkSpan (mkPtok 27 "int64" 25 0 75) (mkPtok 27 "int64" 25 0 75)) (mkPtok 27 "int64" 25 0 75))) (mkPtok 42 "len" 25 6 76) (Some (mkPtok 43 "``" 25 10 77)) (mkPtok 40 "," 26 0 79)))); (mkFieldWithAttr (mkSpan (mkPtok 5 "@calculatedFrom(" 26 2 80) (mkPtok 40 "," 29 0 87)) [(FACalculatedFrom (mkSpan (mkPtok 5 "@calculatedFrom(" 26 2 80) (mkPtok 6 ")" 26 28 82)) (mkCalculatedFrom (mkSpan (mkPtok 5 "@calculatedFrom(" 26 2 80) (mkPtok 6 ")" 26 28 82)) (mkPtok 5 "@calculatedFrom(" 26 2 80) (mkPtok 31 """`tick`""" 26 19 81) (mkPtok 6 ")" 26 28 82)))] (MetaField (mkSpan (mkPtok 15 "string" 26 30 83) (mkPtok 40 "," 29 0 87)) None (mkMetaDecl (mkSpan (mkPtok 15 "string" 26 30 83) (mkPtok 40 "," 29 0 87)) (TyDynamic (mkSpan (mkPtok 15 "string" 26 30 83) (mkPtok 15 "string" 26 30 83)) (mkDynamicString (mkSpan (mkPtok 15 "string" 26 30 83) (mkPtok 15 "string" 26 30 83)) (mkPtok 15 "string" 26 30 83))) (mkPtok 42 "lengthOf" 27 0 84) (Some (mkPtok 43 (string_of_bytes [96; 99; 114; 108; 102; 13; 10; 108; 105; 110; 101; 96]%N) 27 9 85)) (mkPtok 40 "," 29 0 87)))); (mkFieldWithAttr (mkSpan (mkPtok 32 "@rightPad" 29 2 88) (mkPtok 40 "," 36 2 105)) [(FAPadding (mkSpan (mkPtok 32 "@rightPad" 29 2 88) (mkPtok 6 ")" 30 4 90)) (mkPaddingAttr (mkSpan (mkPtok 32 "@rightPad" 29 2 88) (mkPtok 6 ")" 30 4 90)) (mkPtok 32 "@rightPad" 29 2 88) (mkPtok 8 "(" 29 11 89) None (mkPtok 6 ")" 30 4 90)))] (MatchField (mkSpan (mkPtok 38 "match" 30 6 91) (mkPtok 40 "," 36 2 105)) (mkMatchFieldDecl (mkSpan (mkPtok 38 "match" 30 6 91) (mkPtok 3 "}" 36 0 104)) (mkPtok 38 "match" 30 6 91) (mkPtok 42 "msg_type" 31 0 92) (mkPtok 17 "as" 31 9 93) (mkPtok 42 "BodyLength" 32 0 94) (mkPtok 2 "{" 32 11 95) [(mkMatchPair (mkSpan (mkPtok 18 "[" 32 13 96) (mkPtok 40 "," 35 0 103)) (MKList (mkKeyList (mkSpan (mkPtok 18 "[" 32 13 96) (mkPtok 13 "]" 34 0 99)) (mkPtok 18 "[" 32 13 96) (mkPtok 31 """// no comment""" 33 0 97) [] (mkPtok 13 "]" 34 0 99))) (mkPtok 39 ":" 34 1 100) (mkPtok 42 "tag" 34 3 101) (Some (mkPtok 40 "," 35 0 103)))] (mkPtok 3 "}" 36 0 104)) (mkPtok 40 "," 36 2 105))); (mkFieldWithAttr (mkSpan (mkPtok 9 "@tag(" 39 0 108) (mkPtok 40 "," 41 9 116)) [(FATag (mkSpan (mkPtok 9 "@tag(" 39 0 108) (mkPtok 6 ")" 40 3 111)) (mkTagAttr (mkSpan (mkPtok 9 "@tag(" 39 0 108) (mkPtok 6 ")" 40 3 111)) (mkPtok 9 "@tag(" 39 0 108) (mkPtok 30 "10" 40 0 110) (mkPtok 6 ")" 40 3 111)))] (MetaField (mkSpan (mkPtok 14 "zchar[" 40 5 112) (mkPtok 40 "," 41 9 116)) None (mkMetaDecl (mkSpan (mkPtok 14 "zchar[" 40 5 112) (mkPtok 40 "," 41 9 116)) (TyFixed (mkSpan (mkPtok 14 "zchar[" 40 5 112) (mkPtok 13 "]" 41 3 114)) (mkFixedString (mkSpan (mkPtok 14 "zchar[" 40 5 112) (mkPtok 13 "]" 41 3 114)) (mkPtok 14 "zchar[" 40 5 112) (mkPtok 30 "42" 41 0 113) (mkPtok 13 "]" 41 3 114))) (mkPtok 42 "Z9_" 41 5 115) None (mkPtok 40 "," 41 9 116)))); (mkFieldWithAttr (mkSpan (mkPtok 14 "zchar[" 41 10 117) (mkPtok 40 "," 43 12 125)) [] (CheckSumField (mkSpan (mkPtok 14 "zchar[" 41 10 117) (mkPtok 40 "," 43 12 125)) (mkChecksumFieldDecl (mkSpan (mkPtok 14 "zchar[" 41 10 117) (mkPtok 40 "," 43 12 125)) (Some (TyFixed (mkSpan (mkPtok 14 "zchar[" 41 10 117) (mkPtok 13 "]" 42 6 119)) (mkFixedString (mkSpan (mkPtok 14 "zchar[" 41 10 117) (mkPtok 13 "]" 42 6 119)) (mkPtok 14 "zchar[" 41 10 117) (mkPtok 30 "65535" 42 0 118) (mkPtok 13 "]" 42 6 119)))) (mkPtok 42 "matchKey" 42 7 120) (mkCalculatedFrom (mkSpan (mkPtok 5 "@calculatedFrom(" 42 16 121) (mkPtok 6 ")" 43 5 123)) (mkPtok 5 "@calculatedFrom(" 42 16 121) (mkPtok 31 (string_of_bytes [34; 92; 195; 169; 34]%N) 43 0 122) (mkPtok 6 ")" 43 5 123)) (Some (mkPtok 43 "`a\`" 43 7 124)) (mkPtok 40 "," 43 12 125)))); (mkFieldWithAttr (mkSpan (mkPtok 7 "@lengthOf(" 43 14 126) (mkPtok 40 "," 48 29 134)) [(FALengthOf (mkSpan (mkPtok 7 "@lengthOf(" 43 14 126) (mkPtok 6 ")" 46 0 130)) (mkLengthOf (mkSpan (mkPtok 7 "@lengthOf(" 43 14 126) (mkPtok 6 ")" 46 0 130)) (mkPtok 7 "@lengthOf(" 43 14 126) (mkPtok 42 "tag" 43 24 127) (mkPtok 6 ")" 46 0 130)))] (ObjectField (mkSpan (mkPtok 42 "float" 48 4 132) (mkPtok 40 "," 48 29 134)) None (mkPtok 42 "float" 48 4 132) None (Some (mkPtok 43 "`// not a comment`" 48 10 133)) (mkPtok 40 "," 48 29 134))); (mkFieldWithAttr (mkSpan (mkPtok 32 "@leftPad" 49 0 135) (mkPtok 40 "," 58 4 151)) [(FAPadding (mkSpan (mkPtok 32 "@leftPad" 49 0 135) (mkPtok 6 ")" 51 10 139)) (mkPaddingAttr (mkSpan (mkPtok 32 "@leftPad" 49 0 135) (mkPtok 6 ")" 51 10 139)) (mkPtok 32 "@leftPad" 49 0 135) (mkPtok 8 "(" 51 4 137) (Some (mkPtok 33 "' '" 51 6 138)) (mkPtok 6 ")" 51 10 139))); (FATag (mkSpan (mkPtok 9 "@tag(" 51 12 140) (mkPtok 6 ")" 51 19 142)) (mkTagAttr (mkSpan (mkPtok 9 "@tag(" 51 12 140) (mkPtok 6 ")" 51 19 142)) (mkPtok 9 "@tag(" 51 12 140) (mkPtok 30 "00" 51 17 141) (mkPtok 6 ")" 51 19 142))); (FATag (mkSpan (mkPtok 9 "@tag(" 51 21 143) (mkPtok 6 ")" 53 0 145)) (mkTagAttr (mkSpan (mkPtok 9 "@tag(" 51 21 143) (mkPtok 6 ")" 53 0 145)) (mkPtok 9 "@tag(" 51 21 143) (mkPtok 30 "007" 52 0 144) (mkPtok 6 ")" 53 0 145)))] (MetaField (mkSpan (mkPtok 36 "repeat" 53 2 146) (mkPtok 40 "," 58 4 151)) (Some (mkPtok 36 "repeat" 53 2 146)) (mkMetaDecl (mkSpan (mkPtok 16 "char[]" 53 9 147) (mkPtok 40 "," 58 4 151)) (TyDynamic (mkSpan (mkPtok 16 "char[]" 53 9 147) (mkPtok 16 "char[]" 53 9 147)) (mkDynamicString (mkSpan (mkPtok 16 "char[]" 53 9 147) (mkPtok 16 "char[]" 53 9 147)) (mkPtok 16 "char[]" 53 9 147))) (mkPtok 42 "asx" 54 4 148) (Some (mkPtok 43 (string_of_bytes [96; 108; 105; 110; 101; 49; 10; 108; 105; 110; 101; 50; 96]%N) 55 0 149)) (mkPtok 40 "," 58 4 151)))); (mkFieldWithAttr (mkSpan (mkPtok 7 "@lengthOf(" 58 6 152) (mkPtok 40 "," 59 30 158)) [(FALengthOf (mkSpan (mkPtok 7 "@lengthOf(" 58 6 152) (mkPtok 6 ")" 59 6 154)) (mkLengthOf (mkSpan (mkPtok 7 "@lengthOf(" 58 6 152) (mkPtok 6 ")" 59 6 154)) (mkPtok 7 "@lengthOf(" 58 6 152) (mkPtok 42 "rootA" 59 0 153) (mkPtok 6 ")" 59 6 154)))] (ObjectField (mkSpan (mkPtok 36 "repeat" 59 8 155) (mkPtok 40 "," 59 30 158)) (Some (mkPtok 36 "repeat" 59 8 155)) (mkPtok 42 "repeatCount" 59 15 156) (Some (mkPtok 42 "As" 59 27 157)) None (mkPtok 40 "," 59 30 158)))] (mkPtok 3 "}" 60 4 159))); (DPacket (mkPacketDef (mkSpan (mkPtok 35 "packet" 61 4 160) (mkPtok 3 "}" 63 44 176)) None (mkPtok 35 "packet" 61 4 160) (mkPtok 42 "zchar" 61 11 161) (mkPtok 2 "{" 61 16 162) [(mkFieldWithAttr (mkSpan (mkPtok 7 "@lengthOf(" 61 18 163) (mkPtok 40 "," 63 19 169)) [(FALengthOf (mkSpan (mkPtok 7 "@lengthOf(" 61 18 163) (mkPtok 6 ")" 62 7 165)) (mkLengthOf (mkSpan (mkPtok 7 "@lengthOf(" 61 18 163) (mkPtok 6 ")" 62 7 165)) (mkPtok 7 "@lengthOf(" 61 18 163) (mkPtok 42 "As" 62 4 164) (mkPtok 6 ")" 62 7 165)))] (MetaField (mkSpan (mkPtok 36 "repeat" 62 9 166) (mkPtok 40 "," 63 19 169)) (Some (mkPtok 36 "repeat" 62 9 166)) (mkMetaDecl (mkSpan (mkPtok 25 "i16" 63 0 167) (mkPtok 40 "," 63 19 169)) (TyBasic (mkSpan (mkPtok 25 "i16" 63 0 167) (mkPtok 25 "i16" 63 0 167)) (mkBasicType (mkSpan (mkPtok 25 "i16" 63 0 167) (mkPtok 25 "i16" 63 0 167)) (mkPtok 25 "i16" 63 0 167))) (mkPtok 42 "calculatedFrom" 63 4 168) None (mkPtok 40 "," 63 19 169)))); (mkFieldWithAttr (mkSpan (mkPtok 9 "@tag(" 63 20 170) (mkPtok 40 "," 63 42 175)) [(FATag (mkSpan (mkPtok 9 "@tag(" 63 20 170) (mkPtok 6 ")" 63 28 172)) (mkTagAttr (mkSpan (mkPtok 9 "@tag(" 63 20 170) (mkPtok 6 ")" 63 28 172)) (mkPtok 9 "@tag(" 63 20 170) (mkPtok 30 "1" 63 25 171) (mkPtok 6 ")" 63 28 172)))] (MetaField (mkSpan (mkPtok 21 "uint16" 63 31 173) (mkPtok 40 "," 63 42 175)) None (mkMetaDecl (mkSpan (mkPtok 21 "uint16" 63 31 173) (mkPtok 40 "," 63 42 175)) (TyBasic (mkSpan (mkPtok 21 "uint16" 63 31 173) (mkPtok 21 "uint16" 63 31 173)) (mkBasicType (mkSpan (mkPtok 21 "uint16" 63 31 173) (mkPtok 21 "uint16" 63 31 173)) (mkPtok 21 "uint16" 63 31 173))) (mkPtok 42 "len" 63 38 174) None (mkPtok 40 "," 63 42 175))))] (mkPtok 3 "}" 63 44 176)))])).
+Eval vm_compute in ("<<<M1389>>>" ++ check (runes_of_ascii "root
+    //x
+    packet matchKey {
+    @tag(	00
     )
-, tag  , } /// triple")).
-Eval vm_compute in ("<<<M1901>>>" ++ check (runes_of_ascii "// trailing space 
-options{ float= '0' i8i8 //
-=	""" ++ [128512]%N ++ runes_of_ascii """;
-    int// a // b
-=	00
-    ;A
-=char[ 65535 ] }")).
-Eval vm_compute in ("<<<M1933>>>" ++ check (runes_of_ascii "packet
-zchar{
+    // a // b
+    int
+    @calculatedFrom(""" ++ [128512]%N ++ runes_of_ascii """ ),  rootA // @lengthOf(
+A , @lengthOf( MetaDataX	) match chars // trailing space 
+as // packet A { u8 x, }
+Pad /// triple
+{
+// @lengthOf(
+// @lengthOf(
+0 :msg_type , """": u}, } root
+    //x
+    packet u8x  {
+int64 calculatedFrom
+// @lengthOf(
+/// triple
+@lengthOf( Packet
+) ,	@calculatedFrom( ""\n""// c
+)	a1
+// `tick` ""quote"" 'q'
+//x
+lengthOf, } options { roots
+// trailing space 
+//
+=""CRC32"" //	t
+;  Packet=char[ 0123456789 ]; float = u32
+    ; Packet = '0' // " ++ [128512]%N ++ runes_of_ascii " emoji
+; metadata = true;
+    }
+")).
+Eval vm_compute in ("<<<M1421>>>" ++ check (runes_of_ascii "
+")).
+Eval vm_compute in ("<<<M1453>>>" ++ check (runes_of_ascii "
+packet Packet { @calculatedFrom( ""\" ++ [233]%N ++ runes_of_ascii """) @tag( 42
+)@calculatedFrom(	""\n"" ) a1`{ , }` ,
+    }
+")).
+Eval vm_compute in ("<<<M1485>>>" ++ check (runes_of_ascii "packet Header{
+    // c
     char[
-    10 ]
-stringy,
-char[ 65535
-] lengthOf
-    `// not a comment`, int8 BodyLength //	t
+//x
+// trailing space 
+4294967296]
+trueish @lengthOf( x_y_z )
+    `a\`
+    ,@tag( 1 ) i32// a // b
+uint8x
+`tab	here` ,
+    @tag(3 )
+repeat u8 A
+    `it's`,
+    char[]f32a, }")).
+Eval vm_compute in ("<<<M1517>>>" ++ check (runes_of_ascii "MetaData tag
+{  }packet metadata{ asx
+@calculatedFrom( ""{,}"" ) `" ++ [28040; 24687; 31867; 22411]%N ++ runes_of_ascii "`,
+@calculatedFrom( ""{,}"")@calculatedFrom( // " ++ [27880; 37322]%N ++ runes_of_ascii "
+""\n""
+)// a // b
+@calculatedFrom(
+    """ ++ [128512]%N ++ runes_of_ascii """ )
+repeatCount	, char[ 3 ]Z9_ `100% of %d` ,
+} options {	int = ""x y""
+; T= ""// no comment"" ; }")).
+Eval vm_compute in ("<<<M1549>>>" ++ check (runes_of_ascii "
+options { }
+MetaData packetx { char[]	chars //x
+`" ++ [28040; 24687; 31867; 22411]%N ++ runes_of_ascii "`
+, u64 asx
+    `doc`
+    ,
+    } // packet A { u8 x, }
+packet Z9_{ @calculatedFrom( ""abc"" ) match//x
+roots
+as Header	{ [ // c
+""\n"" , 7 ,""// no comment"" ]
+:
+msg_type ,} ,i32 a1,
+@calculatedFrom( ""packet"" )
+match a1 as a1
+    { 0123456789 : msg_type [ 7 , ""{,}""// @lengthOf(
+,
+    ""a\\"" ] : MetaDataX	7
+    : _x
+""{,}"" :
+u8x , } ,char[ 42 ]
+i64_  ,
+@calculatedFrom( """ ++ [233]%N ++ runes_of_ascii "t" ++ [233]%N ++ runes_of_ascii """
+) char[ 0]	_x , // packet A { u8 x, }
+repeat  trueish `a\` ,	}
+    MetaData  metadata // a // b
+{ metadata //	t
+i8i8 `a\`
+    , } // trailing space 
+packet BodyLength
+{ @calculatedFrom( ""1""
+    )
+    u8x { match calculatedFrom
+    as stringy { // " ++ [27880; 37322]%N ++ runes_of_ascii "
+[ 0, ""\n"" ,
+    1
+    ,
+    ""CRC32"" , 7
+    , 255 , """ ++ [233]%N ++ runes_of_ascii "t" ++ [233]%N ++ runes_of_ascii """] : metadata
+, 4294967296 :
+Logon ,
+    }
+    , } , char
+u128	`crlf
+line` , @lengthOf( string_) int @lengthOf(
+    /// triple
+    x)	,// " ++ [128512]%N ++ runes_of_ascii " emoji
+match Z9_	as
+_x { 3
+// trailing space 
+//	t
+: _x	,} , @tag( 007 ) string_ , @lengthOf(f32a// trailing space 
+) match crc  as
+// trailing space 
+// c
+i64_ { 1 :repeatCount
+// `tick` ""quote"" 'q'
+// c
+65535
+: Foo
+    , 4294967296
+: Foo ,""it's"" :
+    x ,  [
+    007 , 00]	: calculatedFrom 1
+:  options1 ,
+} ,}
+")).
+Eval vm_compute in ("<<<M1581>>>" ++ check (runes_of_ascii "packet options1
+    {	@leftPad ( '0' )char[] // 50% %s
+lengthOf `crlf
+line`,repeat metadata options1
+    ,
+} root packet Pad {@rightPad
+    (
+'\x00'// 50% %s
+) u8 len
+    ,
+    }	MetaData calculatedFrom { }
+")).
+Eval vm_compute in ("<<<T1581>>>" ++ terms [mkTok 35 "packet" 1 0 false; mkTok 42 "options1" 1 7 false; mkTok 2 "{" 2 4 false; mkTok 32 "@leftPad" 2 6 false; mkTok 8 "(" 2 15 false; mkTok 33 "'0'" 2 17 false; mkTok 6 ")" 2 21 false; mkTok 16 "char[]" 2 22 false; mkTok 44 "// 50% %s" 2 29 true; mkTok 42 "lengthOf" 3 0 false; mkTok 43 (string_of_bytes [96; 99; 114; 108; 102; 13; 10; 108; 105; 110; 101; 96]%N) 3 9 false; mkTok 40 "," 4 5 false; mkTok 36 "repeat" 4 6 false; mkTok 42 "metadata" 4 13 false; mkTok 42 "options1" 4 22 false; mkTok 40 "," 5 4 false; mkTok 3 "}" 6 0 false; mkTok 34 "root" 6 2 false; mkTok 35 "packet" 6 7 false; mkTok 42 "Pad" 6 14 false; mkTok 2 "{" 6 18 false; mkTok 32 "@rightPad" 6 19 false; mkTok 8 "(" 7 4 false; mkTok 33 "'\x00'" 8 0 false; mkTok 44 "// 50% %s" 8 6 true; mkTok 6 ")" 9 0 false; mkTok 20 "u8" 9 2 false; mkTok 42 "len" 9 5 false; mkTok 40 "," 10 4 false; mkTok 3 "}" 11 4 false; mkTok 37 "MetaData" 11 6 false; mkTok 42 "calculatedFrom" 11 15 false; mkTok 2 "{" 11 30 false; mkTok 3 "}" 11 32 false; mkTok 0 "<EOF>" 12 0 false] (mkPacket (mkPtok 35 "packet" 1 0 0) (Some (mkPtok 3 "}" 11 32 33)) [(DPacket (mkPacketDef (mkSpan (mkPtok 35 "packet" 1 0 0) (mkPtok 3 "}" 6 0 16)) None (mkPtok 35 "packet" 1 0 0) (mkPtok 42 "options1" 1 7 1) (mkPtok 2 "{" 2 4 2) [(mkFieldWithAttr (mkSpan (mkPtok 32 "@leftPad" 2 6 3) (mkPtok 40 "," 4 5 11)) [(FAPadding (mkSpan (mkPtok 32 "@leftPad" 2 6 3) (mkPtok 6 ")" 2 21 6)) (mkPaddingAttr (mkSpan (mkPtok 32 "@leftPad" 2 6 3) (mkPtok 6 ")" 2 21 6)) (mkPtok 32 "@leftPad" 2 6 3) (mkPtok 8 "(" 2 15 4) (Some (mkPtok 33 "'0'" 2 17 5)) (mkPtok 6 ")" 2 21 6)))] (MetaField (mkSpan (mkPtok 16 "char[]" 2 22 7) (mkPtok 40 "," 4 5 11)) None (mkMetaDecl (mkSpan (mkPtok 16 "char[]" 2 22 7) (mkPtok 40 "," 4 5 11)) (TyDynamic (mkSpan (mkPtok 16 "char[]" 2 22 7) (mkPtok 16 "char[]" 2 22 7)) (mkDynamicString (mkSpan (mkPtok 16 "char[]" 2 22 7) (mkPtok 16 "char[]" 2 22 7)) (mkPtok 16 "char[]" 2 22 7))) (mkPtok 42 "lengthOf" 3 0 9) (Some (mkPtok 43 (string_of_bytes [96; 99; 114; 108; 102; 13; 10; 108; 105; 110; 101; 96]%N) 3 9 10)) (mkPtok 40 "," 4 5 11)))); (mkFieldWithAttr (mkSpan (mkPtok 36 "repeat" 4 6 12) (mkPtok 40 "," 5 4 15)) [] (ObjectField (mkSpan (mkPtok 36 "repeat" 4 6 12) (mkPtok 40 "," 5 4 15)) (Some (mkPtok 36 "repeat" 4 6 12)) (mkPtok 42 "metadata" 4 13 13) (Some (mkPtok 42 "options1" 4 22 14)) None (mkPtok 40 "," 5 4 15)))] (mkPtok 3 "}" 6 0 16))); (DPacket (mkPacketDef (mkSpan (mkPtok 34 "root" 6 2 17) (mkPtok 3 "}" 11 4 29)) (Some (mkPtok 34 "root" 6 2 17)) (mkPtok 35 "packet" 6 7 18) (mkPtok 42 "Pad" 6 14 19) (mkPtok 2 "{" 6 18 20) [(mkFieldWithAttr (mkSpan (mkPtok 32 "@rightPad" 6 19 21) (mkPtok 40 "," 10 4 28)) [(FAPadding (mkSpan (mkPtok 32 "@rightPad" 6 19 21) (mkPtok 6 ")" 9 0 25)) (mkPaddingAttr (mkSpan (mkPtok 32 "@rightPad" 6 19 21) (mkPtok 6 ")" 9 0 25)) (mkPtok 32 "@rightPad" 6 19 21) (mkPtok 8 "(" 7 4 22) (Some (mkPtok 33 "'\x00'" 8 0 23)) (mkPtok 6 ")" 9 0 25)))] (MetaField (mkSpan (mkPtok 20 "u8" 9 2 26) (mkPtok 40 "," 10 4 28)) None (mkMetaDecl (mkSpan (mkPtok 20 "u8" 9 2 26) (mkPtok 40 "," 10 4 28)) (TyBasic (mkSpan (mkPtok 20 "u8" 9 2 26) (mkPtok 20 "u8" 9 2 26)) (mkBasicType (mkSpan (mkPtok 20 "u8" 9 2 26) (mkPtok 20 "u8" 9 2 26)) (mkPtok 20 "u8" 9 2 26))) (mkPtok 42 "len" 9 5 27) None (mkPtok 40 "," 10 4 28))))] (mkPtok 3 "}" 11 4 29))); (DMeta (mkMetaDef (mkSpan (mkPtok 37 "MetaData" 11 6 30) (mkPtok 3 "}" 11 32 33)) (mkPtok 37 "MetaData" 11 6 30) (mkPtok 42 "calculatedFrom" 11 15 31) (mkPtok 2 "{" 11 30 32) [] (mkPtok 3 "}" 11 32 33)))])).
+Eval vm_compute in ("<<<M1613>>>" ++ check (runes_of_ascii "MetaData
+    u {
+}
+packet Header {
+    i64_
+`// not a comment`
+, } options{ leftPad=""" ++ [28040; 24687]%N ++ runes_of_ascii """ ;
+falsey
+    = ""1"" ;matchKey
+    =
+int32 string_ = 42 } MetaData	calculatedFrom	{ } MetaData body
+{
+string uint8x	`" ++ [28040; 24687; 31867; 22411]%N ++ runes_of_ascii "`
+,
+int32 charz ,	char[] zchar
+    ,}
+")).
+Eval vm_compute in ("<<<M1645>>>" ++ check (runes_of_ascii "//
+")).
+Eval vm_compute in ("<<<M1677>>>" ++ check (runes_of_ascii "root packet
+trueish {
+@tag(7
+    //
+    )@tag( 0123456789 // 50% %s
+) @tag( 007
+)  repeat
+u8x options1
+,
+    @rightPad ( '0' )
+metadata
+    /// triple
+    @calculatedFrom(
+    // " ++ [27880; 37322]%N ++ runes_of_ascii "
+    ""1"" )//
+,
+    //x
+    string u , match u as charz{ 4294967296 :	f32a 42 :leftPad ,255/// triple
+:
+u8x	, 42
+    // packet A { u8 x, }
+    : _x	}, } root packet tag{ MetaDataX @calculatedFrom( ""\" ++ [233]%N ++ runes_of_ascii """ ) `it's`
+, } options{ rootA
+=
+    // `tick` ""quote"" 'q'
+    char[] ; float = u8 ; }")).
+Eval vm_compute in ("<<<M1709>>>" ++ check (runes_of_ascii "MetaData Foo { u T,
+    int16 // `tick` ""quote"" 'q'
+leftPad , string chars`tab	here`,i16
+    As
+, }root  packet uint8x
+    {
+    @tag( 0
+    ) @lengthOf( //
+charz )
+f64
+// `tick` ""quote"" 'q'
+// `tick` ""quote"" 'q'
+A , repeat string int , // packet A { u8 x, }
+u16
+float @calculatedFrom( ""a	b""
+    ) ,
+    @rightPad  (
+'\x00' )	roots crc , uint64 packetx
+``
+,
+char[
+    3	]
+    metadata, string x_y_z
+    @lengthOf( string_ ) , }
+MetaData
+o{zchar x `// not a comment` , asx len , float32
+    trueish
+    // trailing space 
+    ,
+repeatCount rootA
+// `tick` ""quote"" 'q'
+// @lengthOf(
+,}
+root
+    packet x_y_z	{ @calculatedFrom( """ ++ [28040; 24687]%N ++ runes_of_ascii """// 50% %s
+)
+Z9_
+    `doc` ,match len as
+    x_y_z{
+    ""1""
+:
+A[
+007 , """ ++ [233]%N ++ runes_of_ascii "t" ++ [233]%N ++ runes_of_ascii """ , ""\n"", """ ++ [128512]%N ++ runes_of_ascii """  , // " ++ [128512]%N ++ runes_of_ascii " emoji
+""a	b"", 4294967296 ] : Packet,
+//x
+//
+[ """ ++ [128512]%N ++ runes_of_ascii """	] : x //
+,
+    } ,
+    @calculatedFrom(	""\n"" ) u32	Foo``,	repeat o {	i64_
+{  o
+,  uint32	A	,
+} ,} // " ++ [128512]%N ++ runes_of_ascii " emoji
+,
+//x
+// " ++ [27880; 37322]%N ++ runes_of_ascii "
+}	root
+    // " ++ [128512]%N ++ runes_of_ascii " emoji
+    packet asx
+    {
+    @rightPad
+    ('0'
+)
+    repeat char[
+    3 ]
+lengthOf ,
+}
+")).
+Eval vm_compute in ("<<<M1741>>>" ++ check (runes_of_ascii "options {
+    // @lengthOf(
+    BodyLength ='\x00' }
+")).
+Eval vm_compute in ("<<<M1773>>>" ++ check (runes_of_ascii "options {
+    } MetaData u8x {}")).
+Eval vm_compute in ("<<<M1805>>>" ++ check (runes_of_ascii "MetaData float {char[7 ]
+int`crlf
+line`
+, f64 leftPad
+    `line1
+line2`	,} root packet //	t
+zchar
+{
+@tag( 007)
+repeat lengthOf
+    charz
+,
+    // trailing space 
+    char[] options1// 50% %s
+`// not a comment` ,@rightPad
+    ('\x00'
+) match x_y_z
+as Pad { 3: trueish
+// @lengthOf(
+// packet A { u8 x, }
+, 1 :roots, 42 :
+u128
+[ """" ]
+: stringy ,
+    } // 50% %s
+,
+@leftPad ()
+    @calculatedFrom( ""it's"" ) match As
+as packetx{ [ """ ++ [128512]%N ++ runes_of_ascii """,
+    //x
+    255,
+//
+// c
+""" ++ [128512]%N ++ runes_of_ascii """
+]:
+u  , """ ++ [128512]%N ++ runes_of_ascii """
+: // trailing space 
+roots	,}
+, }packet u { repeat char[] int ,  float64
+float
+,
+char[ 4294967296 // c
+] chars
+,	float64 MetaDataX
+@calculatedFrom(""\" ++ [233]%N ++ runes_of_ascii """
+    // 50% %s
+    ) `{ , }`
+,
+    }
+options
+    {
+    zchar
+//x
+/// triple
+=""abc""
+// " ++ [27880; 37322]%N ++ runes_of_ascii "
+// " ++ [27880; 37322]%N ++ runes_of_ascii "
+;
+//
+//	t
+} packet
+MetaDataX {@calculatedFrom( ""a\\""	)
+repeat
+    As	, repeat tag { repeat uint16 //	t
+u128 `// not a comment` ,
+}
+, match
+float as Logon { [""// no comment""] : u8x 65535
+:
+// @lengthOf(
+//
+crc , 10:  zchar 255:Header
+    ,  [// c
+3 ,
+""x y"" ] :Z9_, 1 : options1
+    // 50% %s
+    , }
+//	t
+// trailing space 
+, zchar[7
+] metadata `line1
+line2` // packet A { u8 x, }
+,
+    @tag( 0123456789
+) match
+    MetaDataX as x{
+    [7 , 00 ,
+0
+,
+65535] // " ++ [27880; 37322]%N ++ runes_of_ascii "
+: metadata ,
+""a	b"" // 50% %s
+: Z9_ // trailing space 
+, [10 ]  : MetaDataX ,[ 0123456789 ] : rootA ,	[// `tick` ""quote"" 'q'
+255//x
+] : tag
+,
+} ,
+u8x,}
+")).
+Eval vm_compute in ("<<<T1805>>>" ++ terms [mkTok 37 "MetaData" 1 0 false; mkTok 42 "float" 1 9 false; mkTok 2 "{" 1 15 false; mkTok 12 "char[" 1 16 false; mkTok 30 "7" 1 21 false; mkTok 13 "]" 1 23 false; mkTok 42 "int" 2 0 false; mkTok 43 (string_of_bytes [96; 99; 114; 108; 102; 13; 10; 108; 105; 110; 101; 96]%N) 2 3 false; mkTok 40 "," 4 0 false; mkTok 29 "f64" 4 2 false; mkTok 42 "leftPad" 4 6 false; mkTok 43 (string_of_bytes [96; 108; 105; 110; 101; 49; 10; 108; 105; 110; 101; 50; 96]%N) 5 4 false; mkTok 40 "," 6 7 false; mkTok 3 "}" 6 8 false; mkTok 34 "root" 6 10 false; mkTok 35 "packet" 6 15 false; mkTok 44 (string_of_bytes [47; 47; 9; 116]%N) 6 22 true; mkTok 42 "zchar" 7 0 false; mkTok 2 "{" 8 0 false; mkTok 9 "@tag(" 9 0 false; mkTok 30 "007" 9 6 false; mkTok 6 ")" 9 9 false; mkTok 36 "repeat" 10 0 false; mkTok 42 "lengthOf" 10 7 false; mkTok 42 "charz" 11 4 false; mkTok 40 "," 12 0 false; mkTok 44 "// trailing space " 13 4 true; mkTok 16 "char[]" 14 4 false; mkTok 42 "options1" 14 11 false; mkTok 44 "// 50% %s" 14 19 true; mkTok 43 "`// not a comment`" 15 0 false; mkTok 40 "," 15 19 false; mkTok 32 "@rightPad" 15 20 false; mkTok 8 "(" 16 4 false; mkTok 33 "'\x00'" 16 5 false; mkTok 6 ")" 17 0 false; mkTok 38 "match" 17 2 false; mkTok 42 "x_y_z" 17 8 false; mkTok 17 "as" 18 0 false; mkTok 42 "Pad" 18 3 false; mkTok 2 "{" 18 7 false; mkTok 30 "3" 18 9 false; mkTok 39 ":" 18 10 false; mkTok 42 "trueish" 18 12 false; mkTok 44 "// @lengthOf(" 19 0 true; mkTok 44 "// packet A { u8 x, }" 20 0 true; mkTok 40 "," 21 0 false; mkTok 30 "1" 21 2 false; mkTok 39 ":" 21 4 false; mkTok 42 "roots" 21 5 false; mkTok 40 "," 21 10 false; mkTok 30 "42" 21 12 false; mkTok 39 ":" 21 15 false; mkTok 42 "u128" 22 0 false; mkTok 18 "[" 23 0 false; mkTok 31 """""" 23 2 false; mkTok 13 "]" 23 5 false; mkTok 39 ":" 24 0 false; mkTok 42 "stringy" 24 2 false; mkTok 40 "," 24 10 false; mkTok 3 "}" 25 4 false; mkTok 44 "// 50% %s" 25 6 true; mkTok 40 "," 26 0 false; mkTok 32 "@leftPad" 27 0 false; mkTok 8 "(" 27 9 false; mkTok 6 ")" 27 10 false; mkTok 5 "@calculatedFrom(" 28 4 false; mkTok 31 """it's""" 28 21 false; mkTok 6 ")" 28 28 false; mkTok 38 "match" 28 30 false; mkTok 42 "As" 28 36 false; mkTok 17 "as" 29 0 false; mkTok 42 "packetx" 29 3 false; mkTok 2 "{" 29 10 false; mkTok 18 "[" 29 12 false; mkTok 31 (string_of_bytes [34; 240; 159; 152; 128; 34]%N) 29 14 false; mkTok 40 "," 29 17 false; mkTok 44 "//x" 30 4 true; mkTok 30 "255" 31 4 false; mkTok 40 "," 31 7 false; mkTok 44 "//" 32 0 true; mkTok 44 "// c" 33 0 true; mkTok 31 (string_of_bytes [34; 240; 159; 152; 128; 34]%N) 34 0 false; mkTok 13 "]" 35 0 false; mkTok 39 ":" 35 1 false; mkTok 42 "u" 36 0 false; mkTok 40 "," 36 3 false; mkTok 31 (string_of_bytes [34; 240; 159; 152; 128; 34]%N) 36 5 false; mkTok 39 ":" 37 0 false; mkTok 44 "// trailing space " 37 2 true; mkTok 42 "roots" 38 0 false; mkTok 40 "," 38 6 false; mkTok 3 "}" 38 7 false; mkTok 40 "," 39 0 false; mkTok 3 "}" 39 2 false; mkTok 35 "packet" 39 3 false; mkTok 42 "u" 39 10 false; mkTok 2 "{" 39 12 false; mkTok 36 "repeat" 39 14 false; mkTok 16 "char[]" 39 21 false; mkTok 42 "int" 39 28 false; mkTok 40 "," 39 32 false; mkTok 29 "float64" 39 35 false; mkTok 42 "float" 40 0 false; mkTok 40 "," 41 0 false; mkTok 12 "char[" 42 0 false; mkTok 30 "4294967296" 42 6 false; mkTok 44 "// c" 42 17 true; mkTok 13 "]" 43 0 false; mkTok 42 "chars" 43 2 false; mkTok 40 "," 44 0 false; mkTok 29 "float64" 44 2 false; mkTok 42 "MetaDataX" 44 10 false; mkTok 5 "@calculatedFrom(" 45 0 false; mkTok 31 (string_of_bytes [34; 92; 195; 169; 34]%N) 45 16 false; mkTok 44 "// 50% %s" 46 4 true; mkTok 6 ")" 47 4 false; mkTok 43 "`{ , }`" 47 6 false; mkTok 40 "," 48 0 false; mkTok 3 "}" 49 4 false; mkTok 1 "options" 50 0 false; mkTok 2 "{" 51 4 false; mkTok 42 "zchar" 52 4 false; mkTok 44 "//x" 53 0 true; mkTok 44 "/// triple" 54 0 true; mkTok 4 "=" 55 0 false; mkTok 31 """abc""" 55 1 false; mkTok 44 (string_of_bytes [47; 47; 32; 230; 179; 168; 233; 135; 138]%N) 56 0 true; mkTok 44 (string_of_bytes [47; 47; 32; 230; 179; 168; 233; 135; 138]%N) 57 0 true; mkTok 41 ";" 58 0 false; mkTok 44 "//" 59 0 true; mkTok 44 (string_of_bytes [47; 47; 9; 116]%N) 60 0 true; mkTok 3 "}" 61 0 false; mkTok 35 "packet" 61 2 false; mkTok 42 "MetaDataX" 62 0 false; mkTok 2 "{" 62 10 false; mkTok 5 "@calculatedFrom(" 62 11 false; mkTok 31 """a\\""" 62 28 false; mkTok 6 ")" 62 34 false; mkTok 36 "repeat" 63 0 false; mkTok 42 "As" 64 4 false; mkTok 40 "," 64 7 false; mkTok 36 "repeat" 64 9 false; mkTok 42 "tag" 64 16 false; mkTok 2 "{" 64 20 false; mkTok 36 "repeat" 64 22 false; mkTok 21 "uint16" 64 29 false; mkTok 44 (string_of_bytes [47; 47; 9; 116]%N) 64 36 true; mkTok 42 "u128" 65 0 false; mkTok 43 "`// not a comment`" 65 5 false; mkTok 40 "," 65 24 false; mkTok 3 "}" 66 0 false; mkTok 40 "," 67 0 false; mkTok 38 "match" 67 2 false; mkTok 42 "float" 68 0 false; mkTok 17 "as" 68 6 false; mkTok 42 "Logon" 68 9 false; mkTok 2 "{" 68 15 false; mkTok 18 "[" 68 17 false; mkTok 31 """// no comment""" 68 18 false; mkTok 13 "]" 68 33 false; mkTok 39 ":" 68 35 false; mkTok 42 "u8x" 68 37 false; mkTok 30 "65535" 68 41 false; mkTok 39 ":" 69 0 false; mkTok 44 "// @lengthOf(" 70 0 true; mkTok 44 "//" 71 0 true; mkTok 42 "crc" 72 0 false; mkTok 40 "," 72 4 false; mkTok 30 "10" 72 6 false; mkTok 39 ":" 72 8 false; mkTok 42 "zchar" 72 11 false; mkTok 30 "255" 72 17 false; mkTok 39 ":" 72 20 false; mkTok 42 "Header" 72 21 false; mkTok 40 "," 73 4 false; mkTok 18 "[" 73 7 false; mkTok 44 "// c" 73 8 true; mkTok 30 "3" 74 0 false; mkTok 40 "," 74 2 false; mkTok 31 """x y""" 75 0 false; mkTok 13 "]" 75 6 false; mkTok 39 ":" 75 8 false; mkTok 42 "Z9_" 75 9 false; mkTok 40 "," 75 12 false; mkTok 30 "1" 75 14 false; mkTok 39 ":" 75 16 false; mkTok 42 "options1" 75 18 false; mkTok 44 "// 50% %s" 76 4 true; mkTok 40 "," 77 4 false; mkTok 3 "}" 77 6 false; mkTok 44 (string_of_bytes [47; 47; 9; 116]%N) 78 0 true; mkTok 44 "// trailing space " 79 0 true; mkTok 40 "," 80 0 false; mkTok 14 "zchar[" 80 2 false; mkTok 30 "7" 80 8 false; mkTok 13 "]" 81 0 false; mkTok 42 "metadata" 81 2 false; mkTok 43 (string_of_bytes [96; 108; 105; 110; 101; 49; 10; 108; 105; 110; 101; 50; 96]%N) 81 11 false; mkTok 44 "// packet A { u8 x, }" 82 7 true; mkTok 40 "," 83 0 false; mkTok 9 "@tag(" 84 4 false; mkTok 30 "0123456789" 84 10 false; mkTok 6 ")" 85 0 false; mkTok 38 "match" 85 2 false; mkTok 42 "MetaDataX" 86 4 false; mkTok 17 "as" 86 14 false; mkTok 42 "x" 86 17 false; mkTok 2 "{" 86 18 false; mkTok 18 "[" 87 4 false; mkTok 30 "7" 87 5 false; mkTok 40 "," 87 7 false; mkTok 30 "00" 87 9 false; mkTok 40 "," 87 12 false; mkTok 30 "0" 88 0 false; mkTok 40 "," 89 0 false; mkTok 30 "65535" 90 0 false; mkTok 13 "]" 90 5 false; mkTok 44 (string_of_bytes [47; 47; 32; 230; 179; 168; 233; 135; 138]%N) 90 7 true; mkTok 39 ":" 91 0 false; mkTok 42 "metadata" 91 2 false; mkTok 40 "," 91 11 false; mkTok 31 (string_of_bytes [34; 97; 9; 98; 34]%N) 92 0 false; mkTok 44 "// 50% %s" 92 6 true; mkTok 39 ":" 93 0 false; mkTok 42 "Z9_" 93 2 false; mkTok 44 "// trailing space " 93 6 true; mkTok 40 "," 94 0 false; mkTok 18 "[" 94 2 false; mkTok 30 "10" 94 3 false; mkTok 13 "]" 94 6 false; mkTok 39 ":" 94 9 false; mkTok 42 "MetaDataX" 94 11 false; mkTok 40 "," 94 21 false; mkTok 18 "[" 94 22 false; mkTok 30 "0123456789" 94 24 false; mkTok 13 "]" 94 35 false; mkTok 39 ":" 94 37 false; mkTok 42 "rootA" 94 39 false; mkTok 40 "," 94 45 false; mkTok 18 "[" 94 47 false; mkTok 44 "// `tick` ""quote"" 'q'" 94 48 true; mkTok 30 "255" 95 0 false; mkTok 44 "//x" 95 3 true; mkTok 13 "]" 96 0 false; mkTok 39 ":" 96 2 false; mkTok 42 "tag" 96 4 false; mkTok 40 "," 97 0 false; mkTok 3 "}" 98 0 false; mkTok 40 "," 98 2 false; mkTok 42 "u8x" 99 0 false; mkTok 40 "," 99 3 false; mkTok 3 "}" 99 4 false; mkTok 0 "<EOF>" 100 0 false] (mkPacket (mkPtok 37 "MetaData" 1 0 0) (Some (mkPtok 3 "}" 99 4 252)) [(DMeta (mkMetaDef (mkSpan (mkPtok 37 "MetaData" 1 0 0) (mkPtok 3 "}" 6 8 13)) (mkPtok 37 "MetaData" 1 0 0) (mkPtok 42 "float" 1 9 1) (mkPtok 2 "{" 1 15 2) [(MIDecl (mkMetaDecl (mkSpan (mkPtok 12 "char[" 1 16 3) (mkPtok 40 "," 4 0 8)) (TyFixed (mkSpan (mkPtok 12 "char[" 1 16 3) (mkPtok 13 "]" 1 23 5)) (mkFixedString (mkSpan (mkPtok 12 "char[" 1 16 3) (mkPtok 13 "]" 1 23 5)) (mkPtok 12 "char[" 1 16 3) (mkPtok 30 "7" 1 21 4) (mkPtok 13 "]" 1 23 5))) (mkPtok 42 "int" 2 0 6) (Some (mkPtok 43 (string_of_bytes [96; 99; 114; 108; 102; 13; 10; 108; 105; 110; 101; 96]%N) 2 3 7)) (mkPtok 40 "," 4 0 8))); (MIDecl (mkMetaDecl (mkSpan (mkPtok 29 "f64" 4 2 9) (mkPtok 40 "," 6 7 12)) (TyBasic (mkSpan (mkPtok 29 "f64" 4 2 9) (mkPtok 29 "f64" 4 2 9)) (mkBasicType (mkSpan (mkPtok 29 "f64" 4 2 9) (mkPtok 29 "f64" 4 2 9)) (mkPtok 29 "f64" 4 2 9))) (mkPtok 42 "leftPad" 4 6 10) (Some (mkPtok 43 (string_of_bytes [96; 108; 105; 110; 101; 49; 10; 108; 105; 110; 101; 50; 96]%N) 5 4 11)) (mkPtok 40 "," 6 7 12)))] (mkPtok 3 "}" 6 8 13))); (DPacket (mkPacketDef (mkSpan (mkPtok 34 "root" 6 10 14) (mkPtok 3 "}" 39 2 94)) (Some (mkPtok 34 "root" 6 10 14)) (mkPtok 35 "packet" 6 15 15) (mkPtok 42 "zchar" 7 0 17) (mkPtok 2 "{" 8 0 18) [(mkFieldWithAttr (mkSpan (mkPtok 9 "@tag(" 9 0 19) (mkPtok 40 "," 12 0 25)) [(FATag (mkSpan (mkPtok 9 "@tag(" 9 0 19) (mkPtok 6 ")" 9 9 21)) (mkTagAttr (mkSpan (mkPtok 9 "@tag(" 9 0 19) (mkPtok 6 ")" 9 9 21)) (mkPtok 9 "@tag(" 9 0 19) (mkPtok 30 "007" 9 6 20) (mkPtok 6 ")" 9 9 21)))] (ObjectField (mkSpan (mkPtok 36 "repeat" 10 0 22) (mkPtok 40 "," 12 0 25)) (Some (mkPtok 36 "repeat" 10 0 22)) (mkPtok 42 "lengthOf" 10 7 23) (Some (mkPtok 42 "charz" 11 4 24)) None (mkPtok 40 "," 12 0 25))); (mkFieldWithAttr (mkSpan (mkPtok 16 "char[]" 14 4 27) (mkPtok 40 "," 15 19 31)) [] (MetaField (mkSpan (mkPtok 16 "char[]" 14 4 27) (mkPtok 40 "," 15 19 31)) None (mkMetaDecl (mkSpan (mkPtok 16 "char[]" 14 4 27) (mkPtok 40 "," 15 19 31)) (TyDynamic (mkSpan (mkPtok 16 "char[]" 14 4 27) (mkPtok 16 "char[]" 14 4 27)) (mkDynamicString (mkSpan (mkPtok 16 "char[]" 14 4 27) (mkPtok 16 "char[]" 14 4 27)) (mkPtok 16 "char[]" 14 4 27))) (mkPtok 42 "options1" 14 11 28) (Some (mkPtok 43 "`// not a comment`" 15 0 30)) (mkPtok 40 "," 15 19 31)))); (mkFieldWithAttr (mkSpan (mkPtok 32 "@rightPad" 15 20 32) (mkPtok 40 "," 26 0 62)) [(FAPadding (mkSpan (mkPtok 32 "@rightPad" 15 20 32) (mkPtok 6 ")" 17 0 35)) (mkPaddingAttr (mkSpan (mkPtok 32 "@rightPad" 15 20 32) (mkPtok 6 ")" 17 0 35)) (mkPtok 32 "@rightPad" 15 20 32) (mkPtok 8 "(" 16 4 33) (Some (mkPtok 33 "'\x00'" 16 5 34)) (mkPtok 6 ")" 17 0 35)))] (MatchField (mkSpan (mkPtok 38 "match" 17 2 36) (mkPtok 40 "," 26 0 62)) (mkMatchFieldDecl (mkSpan (mkPtok 38 "match" 17 2 36) (mkPtok 3 "}" 25 4 60)) (mkPtok 38 "match" 17 2 36) (mkPtok 42 "x_y_z" 17 8 37) (mkPtok 17 "as" 18 0 38) (mkPtok 42 "Pad" 18 3 39) (mkPtok 2 "{" 18 7 40) [(mkMatchPair (mkSpan (mkPtok 30 "3" 18 9 41) (mkPtok 40 "," 21 0 46)) (MKDigits (mkPtok 30 "3" 18 9 41)) (mkPtok 39 ":" 18 10 42) (mkPtok 42 "trueish" 18 12 43) (Some (mkPtok 40 "," 21 0 46))); (mkMatchPair (mkSpan (mkPtok 30 "1" 21 2 47) (mkPtok 40 "," 21 10 50)) (MKDigits (mkPtok 30 "1" 21 2 47)) (mkPtok 39 ":" 21 4 48) (mkPtok 42 "roots" 21 5 49) (Some (mkPtok 40 "," 21 10 50))); (mkMatchPair (mkSpan (mkPtok 30 "42" 21 12 51) (mkPtok 42 "u128" 22 0 53)) (MKDigits (mkPtok 30 "42" 21 12 51)) (mkPtok 39 ":" 21 15 52) (mkPtok 42 "u128" 22 0 53) None); (mkMatchPair (mkSpan (mkPtok 18 "[" 23 0 54) (mkPtok 40 "," 24 10 59)) (MKList (mkKeyList (mkSpan (mkPtok 18 "[" 23 0 54) (mkPtok 13 "]" 23 5 56)) (mkPtok 18 "[" 23 0 54) (mkPtok 31 """""" 23 2 55) [] (mkPtok 13 "]" 23 5 56))) (mkPtok 39 ":" 24 0 57) (mkPtok 42 "stringy" 24 2 58) (Some (mkPtok 40 "," 24 10 59)))] (mkPtok 3 "}" 25 4 60)) (mkPtok 40 "," 26 0 62))); (mkFieldWithAttr (mkSpan (mkPtok 32 "@leftPad" 27 0 63) (mkPtok 40 "," 39 0 93)) [(FAPadding (mkSpan (mkPtok 32 "@leftPad" 27 0 63) (mkPtok 6 ")" 27 10 65)) (mkPaddingAttr (mkSpan (mkPtok 32 "@leftPad" 27 0 63) (mkPtok 6 ")" 27 10 65)) (mkPtok 32 "@leftPad" 27 0 63) (mkPtok 8 "(" 27 9 64) None (mkPtok 6 ")" 27 10 65))); (FACalculatedFrom (mkSpan (mkPtok 5 "@calculatedFrom(" 28 4 66) (mkPtok 6 ")" 28 28 68)) (mkCalculatedFrom (mkSpan (mkPtok 5 "@calculatedFrom(" 28 4 66) (mkPtok 6 ")" 28 28 68)) (mkPtok 5 "@calculatedFrom(" 28 4 66) (mkPtok 31 """it's""" 28 21 67) (mkPtok 6 ")" 28 28 68)))] (MatchField (mkSpan (mkPtok 38 "match" 28 30 69) (mkPtok 40 "," 39 0 93)) (mkMatchFieldDecl (mkSpan (mkPtok 38 "match" 28 30 69) (mkPtok 3 "}" 38 7 92)) (mkPtok 38 "match" 28 30 69) (mkPtok 42 "As" 28 36 70) (mkPtok 17 "as" 29 0 71) (mkPtok 42 "packetx" 29 3 72) (mkPtok 2 "{" 29 10 73) [(mkMatchPair (mkSpan (mkPtok 18 "[" 29 12 74) (mkPtok 40 "," 36 3 86)) (MKList (mkKeyList (mkSpan (mkPtok 18 "[" 29 12 74) (mkPtok 13 "]" 35 0 83)) (mkPtok 18 "[" 29 12 74) (mkPtok 31 (string_of_bytes [34; 240; 159; 152; 128; 34]%N) 29 14 75) [((mkPtok 40 "," 29 17 76), (mkPtok 30 "255" 31 4 78)); ((mkPtok 40 "," 31 7 79), (mkPtok 31 (string_of_bytes [34; 240; 159; 152; 128; 34]%N) 34 0 82))] (mkPtok 13 "]" 35 0 83))) (mkPtok 39 ":" 35 1 84) (mkPtok 42 "u" 36 0 85) (Some (mkPtok 40 "," 36 3 86))); (mkMatchPair (mkSpan (mkPtok 31 (string_of_bytes [34; 240; 159; 152; 128; 34]%N) 36 5 87) (mkPtok 40 "," 38 6 91)) (MKString (mkPtok 31 (string_of_bytes [34; 240; 159; 152; 128; 34]%N) 36 5 87)) (mkPtok 39 ":" 37 0 88) (mkPtok 42 "roots" 38 0 90) (Some (mkPtok 40 "," 38 6 91)))] (mkPtok 3 "}" 38 7 92)) (mkPtok 40 "," 39 0 93)))] (mkPtok 3 "}" 39 2 94))); (DPacket (mkPacketDef (mkSpan (mkPtok 35 "packet" 39 3 95) (mkPtok 3 "}" 49 4 119)) None (mkPtok 35 "packet" 39 3 95) (mkPtok 42 "u" 39 10 96) (mkPtok 2 "{" 39 12 97) [(mkFieldWithAttr (mkSpan (mkPtok 36 "repeat" 39 14 98) (mkPtok 40 "," 39 32 101)) [] (MetaField (mkSpan (mkPtok 36 "repeat" 39 14 98) (mkPtok 40 "," 39 32 101)) (Some (mkPtok 36 "repeat" 39 14 98)) (mkMetaDecl (mkSpan (mkPtok 16 "char[]" 39 21 99) (mkPtok 40 "," 39 32 101)) (TyDynamic (mkSpan (mkPtok 16 "char[]" 39 21 99) (mkPtok 16 "char[]" 39 21 99)) (mkDynamicString (mkSpan (mkPtok 16 "char[]" 39 21 99) (mkPtok 16 "char[]" 39 21 99)) (mkPtok 16 "char[]" 39 21 99))) (mkPtok 42 "int" 39 28 100) None (mkPtok 40 "," 39 32 101)))); (mkFieldWithAttr (mkSpan (mkPtok 29 "float64" 39 35 102) (mkPtok 40 "," 41 0 104)) [] (MetaField (mkSpan (mkPtok 29 "float64" 39 35 102) (mkPtok 40 "," 41 0 104)) None (mkMetaDecl (mkSpan (mkPtok 29 "float64" 39 35 102) (mkPtok 40 "," 41 0 104)) (TyBasic (mkSpan (mkPtok 29 "float64" 39 35 102) (mkPtok 29 "float64" 39 35 102)) (mkBasicType (mkSpan (mkPtok 29 "float64" 39 35 102) (mkPtok 29 "float64" 39 35 102)) (mkPtok 29 "float64" 39 35 102))) (mkPtok 42 "float" 40 0 103) None (mkPtok 40 "," 41 0 104)))); (mkFieldWithAttr (mkSpan (mkPtok 12 "char[" 42 0 105) (mkPtok 40 "," 44 0 110)) [] (MetaField (mkSpan (mkPtok 12 "char[" 42 0 105) (mkPtok 40 "," 44 0 110)) None (mkMetaDecl (mkSpan (mkPtok 12 "char[" 42 0 105) (mkPtok 40 "," 44 0 110)) (TyFixed (mkSpan (mkPtok 12 "char[" 42 0 105) (mkPtok 13 "]" 43 0 108)) (mkFixedString (mkSpan (mkPtok 12 "char[" 42 0 105) (mkPtok 13 "]" 43 0 108)) (mkPtok 12 "char[" 42 0 105) (mkPtok 30 "4294967296" 42 6 106) (mkPtok 13 "]" 43 0 108))) (mkPtok 42 "chars" 43 2 109) None (mkPtok 40 "," 44 0 110)))); (mkFieldWithAttr (mkSpan (mkPtok 29 "float64" 44 2 111) (mkPtok 40 "," 48 0 118)) [] (CheckSumField (mkSpan (mkPtok 29 "float64" 44 2 111) (mkPtok 40 "," 48 0 118)) (mkChecksumFieldDecl (mkSpan (mkPtok 29 "float64" 44 2 111) (mkPtok 40 "," 48 0 118)) (Some (TyBasic (mkSpan (mkPtok 29 "float64" 44 2 111) (mkPtok 29 "float64" 44 2 111)) (mkBasicType (mkSpan (mkPtok 29 "float64" 44 2 111) (mkPtok 29 "float64" 44 2 111)) (mkPtok 29 "float64" 44 2 111)))) (mkPtok 42 "MetaDataX" 44 10 112) (mkCalculatedFrom (mkSpan (mkPtok 5 "@calculatedFrom(" 45 0 113) (mkPtok 6 ")" 47 4 116)) (mkPtok 5 "@calculatedFrom(" 45 0 113) (mkPtok 31 (string_of_bytes [34; 92; 195; 169; 34]%N) 45 16 114) (mkPtok 6 ")" 47 4 116)) (Some (mkPtok 43 "`{ , }`" 47 6 117)) (mkPtok 40 "," 48 0 118))))] (mkPtok 3 "}" 49 4 119))); (DOption (mkOptionDef (mkSpan (mkPtok 1 "options" 50 0 120) (mkPtok 3 "}" 61 0 132)) (mkPtok 1 "options" 50 0 120) (mkPtok 2 "{" 51 4 121) [(mkOptionDecl (mkSpan (mkPtok 42 "zchar" 52 4 122) (mkPtok 41 ";" 58 0 129)) (mkPtok 42 "zchar" 52 4 122) (mkPtok 4 "=" 55 0 125) (VString (mkSpan (mkPtok 31 """abc""" 55 1 126) (mkPtok 31 """abc""" 55 1 126)) (mkPtok 31 """abc""" 55 1 126)) (Some (mkPtok 41 ";" 58 0 129)))] (mkPtok 3 "}" 61 0 132))); (DPacket (mkPacketDef (mkSpan (mkPtok 35 "packet" 61 2 133) (mkPtok 3 "}" 99 4 252)) None (mkPtok 35 "packet" 61 2 133) (mkPtok 42 "MetaDataX" 62 0 134) (mkPtok 2 "{" 62 10 135) [(mkFieldWithAttr (mkSpan (mkPtok 5 "@calculatedFrom(" 62 11 136) (mkPtok 40 "," 64 7 141)) [(FACalculatedFrom (mkSpan (mkPtok 5 "@calculatedFrom(" 62 11 136) (mkPtok 6 ")" 62 34 138)) (mkCalculatedFrom (mkSpan (mkPtok 5 "@calculatedFrom(" 62 11 136) (mkPtok 6 ")" 62 34 138)) (mkPtok 5 "@calculatedFrom(" 62 11 136) (mkPtok 31 """a\\""" 62 28 137) (mkPtok 6 ")" 62 34 138)))] (ObjectField (mkSpan (mkPtok 36 "repeat" 63 0 139) (mkPtok 40 "," 64 7 141)) (Some (mkPtok 36 "repeat" 63 0 139)) (mkPtok 42 "As" 64 4 140) None None (mkPtok 40 "," 64 7 141))); (mkFieldWithAttr (mkSpan (mkPtok 36 "repeat" 64 9 142) (mkPtok 40 "," 67 0 152)) [] (InerObjectField (mkSpan (mkPtok 36 "repeat" 64 9 142) (mkPtok 40 "," 67 0 152)) (Some (mkPtok 36 "repeat" 64 9 142)) (InerObjectDecl (mkSpan (mkPtok 42 "tag" 64 16 143) (mkPtok 3 "}" 66 0 151)) (mkPtok 42 "tag" 64 16 143) (mkPtok 2 "{" 64 20 144) [(MetaField (mkSpan (mkPtok 36 "repeat" 64 22 145) (mkPtok 40 "," 65 24 150)) (Some (mkPtok 36 "repeat" 64 22 145)) (mkMetaDecl (mkSpan (mkPtok 21 "uint16" 64 29 146) (mkPtok 40 "," 65 24 150)) (TyBasic (mkSpan (mkPtok 21 "uint16" 64 29 146) (mkPtok 21 "uint16" 64 29 146)) (mkBasicType (mkSpan (mkPtok 21 "uint16" 64 29 146) (mkPtok 21 "uint16" 64 29 146)) (mkPtok 21 "uint16" 64 29 146))) (mkPtok 42 "u128" 65 0 148) (Some (mkPtok 43 "`// not a comment`" 65 5 149)) (mkPtok 40 "," 65 24 150)))] (mkPtok 3 "}" 66 0 151)) (mkPtok 40 "," 67 0 152))); (mkFieldWithAttr (mkSpan (mkPtok 38 "match" 67 2 153) (mkPtok 40 "," 80 0 193)) [] (MatchField (mkSpan (mkPtok 38 "match" 67 2 153) (mkPtok 40 "," 80 0 193)) (mkMatchFieldDecl (mkSpan (mkPtok 38 "match" 67 2 153) (mkPtok 3 "}" 77 6 190)) (mkPtok 38 "match" 67 2 153) (mkPtok 42 "float" 68 0 154) (mkPtok 17 "as" 68 6 155) (mkPtok 42 "Logon" 68 9 156) (mkPtok 2 "{" 68 15 157) [(mkMatchPair (mkSpan (mkPtok 18 "[" 68 17 158) (mkPtok 42 "u8x" 68 37 162)) (MKList (mkKeyList (mkSpan (mkPtok 18 "[" 68 17 158) (mkPtok 13 "]" 68 33 160)) (mkPtok 18 "[" 68 17 158) (mkPtok 31 """// no comment""" 68 18 159) [] (mkPtok 13 "]" 68 33 160))) (mkPtok 39 ":" 68 35 161) (mkPtok 42 "u8x" 68 37 162) None); (mkMatchPair (mkSpan (mkPtok 30 "65535" 68 41 163) (mkPtok 40 "," 72 4 168)) (MKDigits (mkPtok 30 "65535" 68 41 163)) (mkPtok 39 ":" 69 0 164) (mkPtok 42 "crc" 72 0 167) (Some (mkPtok 40 "," 72 4 168))); (mkMatchPair (mkSpan (mkPtok 30 "10" 72 6 169) (mkPtok 42 "zchar" 72 11 171)) (MKDigits (mkPtok 30 "10" 72 6 169)) (mkPtok 39 ":" 72 8 170) (mkPtok 42 "zchar" 72 11 171) None); (mkMatchPair (mkSpan (mkPtok 30 "255" 72 17 172) (mkPtok 40 "," 73 4 175)) (MKDigits (mkPtok 30 "255" 72 17 172)) (mkPtok 39 ":" 72 20 173) (mkPtok 42 "Header" 72 21 174) (Some (mkPtok 40 "," 73 4 175))); (mkMatchPair (mkSpan (mkPtok 18 "[" 73 7 176) (mkPtok 40 "," 75 12 184)) (MKList (mkKeyList (mkSpan (mkPtok 18 "[" 73 7 176) (mkPtok 13 "]" 75 6 181)) (mkPtok 18 "[" 73 7 176) (mkPtok 30 "3" 74 0 178) [((mkPtok 40 "," 74 2 179), (mkPtok 31 """x y""" 75 0 180))] (mkPtok 13 "]" 75 6 181))) (mkPtok 39 ":" 75 8 182) (mkPtok 42 "Z9_" 75 9 183) (Some (mkPtok 40 "," 75 12 184))); (mkMatchPair (mkSpan (mkPtok 30 "1" 75 14 185) (mkPtok 40 "," 77 4 189)) (MKDigits (mkPtok 30 "1" 75 14 185)) (mkPtok 39 ":" 75 16 186) (mkPtok 42 "options1" 75 18 187) (Some (mkPtok 40 "," 77 4 189)))] (mkPtok 3 "}" 77 6 190)) (mkPtok 40 "," 80 0 193))); (mkFieldWithAttr (mkSpan (mkPtok 14 "zchar[" 80 2 194) (mkPtok 40 "," 83 0 200)) [] (MetaField (mkSpan (mkPtok 14 "zchar[" 80 2 194) (mkPtok 40 "," 83 0 200)) None (mkMetaDecl (mkSpan (mkPtok 14 "zchar[" 80 2 194) (mkPtok 40 "," 83 0 200)) (TyFixed (mkSpan (mkPtok 14 "zchar[" 80 2 194) (mkPtok 13 "]" 81 0 196)) (mkFixedString (mkSpan (mkPtok 14 "zchar[" 80 2 194) (mkPtok 13 "]" 81 0 196)) (mkPtok 14 "zchar[" 80 2 194) (mkPtok 30 "7" 80 8 195) (mkPtok 13 "]" 81 0 196))) (mkPtok 42 "metadata" 81 2 197) (Some (mkPtok 43 (string_of_bytes [96; 108; 105; 110; 101; 49; 10; 108; 105; 110; 101; 50; 96]%N) 81 11 198)) (mkPtok 40 "," 83 0 200)))); (mkFieldWithAttr (mkSpan (mkPtok 9 "@tag(" 84 4 201) (mkPtok 40 "," 98 2 249)) [(FATag (mkSpan (mkPtok 9 "@tag(" 84 4 201) (mkPtok 6 ")" 85 0 203)) (mkTagAttr (mkSpan (mkPtok 9 "@tag(" 84 4 201) (mkPtok 6 ")" 85 0 203)) (mkPtok 9 "@tag(" 84 4 201) (mkPtok 30 "0123456789" 84 10 202) (mkPtok 6 ")" 85 0 203)))] (MatchField (mkSpan (mkPtok 38 "match" 85 2 204) (mkPtok 40 "," 98 2 249)) (mkMatchFieldDecl (mkSpan (mkPtok 38 "match" 85 2 204) (mkPtok 3 "}" 98 0 248)) (mkPtok 38 "match" 85 2 204) (mkPtok 42 "MetaDataX" 86 4 205) (mkPtok 17 "as" 86 14 206) (mkPtok 42 "x" 86 17 207) (mkPtok 2 "{" 86 18 208) [(mkMatchPair (mkSpan (mkPtok 18 "[" 87 4 209) (mkPtok 40 "," 91 11 221)) (MKList (mkKeyList (mkSpan (mkPtok 18 "[" 87 4 209) (mkPtok 13 "]" 90 5 217)) (mkPtok 18 "[" 87 4 209) (mkPtok 30 "7" 87 5 210) [((mkPtok 40 "," 87 7 211), (mkPtok 30 "00" 87 9 212)); ((mkPtok 40 "," 87 12 213), (mkPtok 30 "0" 88 0 214)); ((mkPtok 40 "," 89 0 215), (mkPtok 30 "65535" 90 0 216))] (mkPtok 13 "]" 90 5 217))) (mkPtok 39 ":" 91 0 219) (mkPtok 42 "metadata" 91 2 220) (Some (mkPtok 40 "," 91 11 221))); (mkMatchPair (mkSpan (mkPtok 31 (string_of_bytes [34; 97; 9; 98; 34]%N) 92 0 222) (mkPtok 40 "," 94 0 227)) (MKString (mkPtok 31 (string_of_bytes [34; 97; 9; 98; 34]%N) 92 0 222)) (mkPtok 39 ":" 93 0 224) (mkPtok 42 "Z9_" 93 2 225) (Some (mkPtok 40 "," 94 0 227))); (mkMatchPair (mkSpan (mkPtok 18 "[" 94 2 228) (mkPtok 40 "," 94 21 233)) (MKList (mkKeyList (mkSpan (mkPtok 18 "[" 94 2 228) (mkPtok 13 "]" 94 6 230)) (mkPtok 18 "[" 94 2 228) (mkPtok 30 "10" 94 3 229) [] (mkPtok 13 "]" 94 6 230))) (mkPtok 39 ":" 94 9 231) (mkPtok 42 "MetaDataX" 94 11 232) (Some (mkPtok 40 "," 94 21 233))); (mkMatchPair (mkSpan (mkPtok 18 "[" 94 22 234) (mkPtok 40 "," 94 45 239)) (MKList (mkKeyList (mkSpan (mkPtok 18 "[" 94 22 234) (mkPtok 13 "]" 94 35 236)) (mkPtok 18 "[" 94 22 234) (mkPtok 30 "0123456789" 94 24 235) [] (mkPtok 13 "]" 94 35 236))) (mkPtok 39 ":" 94 37 237) (mkPtok 42 "rootA" 94 39 238) (Some (mkPtok 40 "," 94 45 239))); (mkMatchPair (mkSpan (mkPtok 18 "[" 94 47 240) (mkPtok 40 "," 97 0 247)) (MKList (mkKeyList (mkSpan (mkPtok 18 "[" 94 47 240) (mkPtok 13 "]" 96 0 244)) (mkPtok 18 "[" 94 47 240) (mkPtok 30 "255" 95 0 242) [] (mkPtok 13 "]" 96 0 244))) (mkPtok 39 ":" 96 2 245) (mkPtok 42 "tag" 96 4 246) (Some (mkPtok 40 "," 97 0 247)))] (mkPtok 3 "}" 98 0 248)) (mkPtok 40 "," 98 2 249))); (mkFieldWithAttr (mkSpan (mkPtok 42 "u8x" 99 0 250) (mkPtok 40 "," 99 3 251)) [] (ObjectField (mkSpan (mkPtok 42 "u8x" 99 0 250) (mkPtok 40 "," 99 3 251)) None (mkPtok 42 "u8x" 99 0 250) None None (mkPtok 40 "," 99 3 251)))] (mkPtok 3 "}" 99 4 252)))])).
+Eval vm_compute in ("<<<M1837>>>" ++ check (runes_of_ascii "root packet trueish { uint64 chars `doc`
+, repeat i16 lengthOf // @lengthOf(
+`100% of %d` // c
+,  @lengthOf(
+int )  @rightPad ( '0'
+    // 50% %s
+    )	@calculatedFrom(  """" ) repeat metadata,f32 u128 @lengthOf(	asx  )
+    `two words`,
+_x  { Z9_ calculatedFrom //	t
+`100% of %d` , repeat  repeatCount
+{
+    match // @lengthOf(
+options1
+    as charz { ""packet"" :Packet
+    , [ 3
+, 65535
+    ]// `tick` ""quote"" 'q'
+: Foo , /// triple
+""1"" :
+    body	, }, }
+,
+zchar[ 65535 ] x ,//x
+}
+,
 @lengthOf(
-Z9_
-), } 	 ")).
-Eval vm_compute in ("<<<M1965>>>" ++ check (runes_of_ascii "options{
-int = char[] Packet= false; matchKey=
-""packet"" //
-; metadata	= true ; }
-    MetaData o{ char[	1 ]
-    len,uint16 i64_ // " ++ [128512]%N ++ runes_of_ascii " emoji
-`say ""hi""` , u16
-Header
-, //	t
-int16
-    x
-, asx
-_x, }
+rootA )
+u //	t
+@lengthOf(
+    matchKey ) `{ , }`
+    ,
+    uint8
+repeatCount @lengthOf(
+    // " ++ [27880; 37322]%N ++ runes_of_ascii "
+    repeatCount )`crlf
+line`
+,  repeat packetx body	`say ""hi""` ,
+// `tick` ""quote"" 'q'
+// packet A { u8 x, }
+int8 Z9_	`a\` , } packet i64_{
+@lengthOf(Z9_) repeat
+zchar[
+// packet A { u8 x, }
+// a // b
+0 ]T
+// " ++ [128512]%N ++ runes_of_ascii " emoji
+// @lengthOf(
+,
+    // 50% %s
+    Header _x, /// triple
+repeat Z9_ { metadata
+, u8x Z9_
+,
+    float32 packetx `" ++ [233]%N ++ runes_of_ascii "`
+,} , }root packet trueish// " ++ [128512]%N ++ runes_of_ascii " emoji
+{ T Foo ,uint64
+falsey  @calculatedFrom( ""abc"" ) ,
+    }	packet	asx
+{ }")).
+Eval vm_compute in ("<<<M1869>>>" ++ check (runes_of_ascii "
+packet charz{
+// a // b
+// a // b
+char[
+7 //	t
+] asx @lengthOf( trueish )
+    , /// triple
+@leftPad ( ) @tag(0 ) @calculatedFrom( ""a\\"") repeat zchar[ 4294967296 ]Logon , @leftPad // " ++ [128512]%N ++ runes_of_ascii " emoji
+( '\x00' ) match	u as u { 42 : // `tick` ""quote"" 'q'
+pack , } , } packet MetaDataX {i8i8, @calculatedFrom(
+    ""`tick`""
+) match o
+    as options1 { 255
+    : A	, //
+[1
+    , 0, """" // " ++ [27880; 37322]%N ++ runes_of_ascii "
+,
+    ""packet""
+,
+""abc"" ]: zchar, 3 :
+    u	, """"
+:T
+    ,	}	,
+    // `tick` ""quote"" 'q'
+    u8x	{// " ++ [128512]%N ++ runes_of_ascii " emoji
+string_`{ , }` ,
+} , }
 // c
 ")).
-Eval vm_compute in ("<<<M1997>>>" ++ check (runes_of_ascii "
-root packet tag // trailing space 
-{
-    }
-")).
-Eval vm_compute in ("<<<M2029>>>" ++ check (runes_of_ascii "options{ i64_ =  ; trueish =
-    '\x00'
-    leftPad = ""a\\"" /// triple
-; crc
-    = 255; uint8x
-=
-""abc""
-    ;}")).
-Eval vm_compute in ("<<<M2061>>>" ++ check (runes_of_ascii "options{ i64_ = string ; trueish =
-    '\x00'
-    leftPad ""a\\"" = /// triple
-; crc
-    = 255; uint8x
-=
-""abc""
-    ;}")).
-Eval vm_compute in ("<<<M2093>>>" ++ check (runes_of_ascii "options{ i64_ = string ; trueish =
-    '\x00'
-    leftPad = ""a\\"" /// triple
-; crc
-    = 255")).
-Eval vm_compute in ("<<<M2125>>>" ++ check (runes_of_ascii "options{ i64_ = string ; trueish =
-    '\x00'
-    leftPad = ""a\\"" /// triple
-; crc
-    = 255; uint8x
-'1'=
-""abc""
-    ;}")).
-Eval vm_compute in ("<<<M2157>>>" ++ check (runes_of_ascii "  packet
-asx
-{
-/// triple
-// @lengthOf(
-stringy u32
-`" ++ [28040; 24687; 31867; 22411]%N ++ runes_of_ascii "` ,} MetaData
-    A {string  _x, zchar Header `a\`
-// @lengthOf(
-// packet A { u8 x, }
-, char[] MetaDataX
-,zchar[ 1 ]
-    matchKey
-    , char[] //
-u,	char[0123456789 ]
-    matchKey
-    `{ , }`, }
-")).
-Eval vm_compute in ("<<<M2189>>>" ++ check (runes_of_ascii "  packet
-asx
-{
-/// triple
-// @lengthOf(
-u32 stringy
-`" ++ [28040; 24687; 31867; 22411]%N ++ runes_of_ascii "` ,} MetaData")).
-Eval vm_compute in ("<<<M2221>>>" ++ check (runes_of_ascii "  packet
-asx
-{
-/// triple
-// @lengthOf(
-u32 stringy
-`" ++ [28040; 24687; 31867; 22411]%N ++ runes_of_ascii "` ,} MetaData
-    A {string  _x, zchar Header `a\` `a\`
-// @lengthOf(
-// packet A { u8 x, }
-, char[] MetaDataX
-,zchar[ 1 ]
-    matchKey
-    , char[] //
-u,	char[0123456789 ]
-    matchKey
-    `{ , }`, }
-")).
-Eval vm_compute in ("<<<M2253>>>" ++ check (runes_of_ascii "  packet
-asx
-{
-/// triple
-// @lengthOf(
-u32 stringy
-`" ++ [28040; 24687; 31867; 22411]%N ++ runes_of_ascii "` ,} MetaData
-    A {string  _x, zchar Header `a\`
-// @lengthOf(
-// packet A { u8 x, }
-, char[] MetaDataX
-,zchar[ [ ]
-    matchKey
-    , char[] //
-u,	char[0123456789 ]
-    matchKey
-    `{ , }`, }
-")).
-Eval vm_compute in ("<<<M2285>>>" ++ check (runes_of_ascii "  packet
-asx
-{
-/// triple
-// @lengthOf(
-u32 stringy
-`" ++ [28040; 24687; 31867; 22411]%N ++ runes_of_ascii "` ,} MetaData
-    A {string  _x, zchar Header `a\`
-// @lengthOf(
-// packet A { u8 x, }
-, char[] MetaDataX
-,zchar[ 1 ]
-    matchKey
-    , char[] //
-u,	0123456789 ]
-    matchKey
-    `{ , }`, }
-")).
-Eval vm_compute in ("<<<M2317>>>" ++ check (runes_of_ascii "  packet
-asx
-{
-/// triple
-// @lengthOf(
-u32 stringy
-`" ++ [28040; 24687; 31867; 22411]%N ++ runes_of_ascii "` ,} MetaData
-    A {string  _x, zchar Header `a\`
-// @lengthOf(
-// packet A { u8 x, }
-, char[] MetaDataX
-,zchar[ 1 ]
-    matchKey
-    , char[] //
-u,	char[0123456789 ]
-    matchKey
-    `{ , }`, root
-")).
-Eval vm_compute in ("<<<M2349>>>" ++ check (runes_of_ascii "root
-    i64
-Packet
-{ // trailing space 
-matchKey `tab	here` ,}")).
-Eval vm_compute in ("<<<M2381>>>" ++ check (runes_of_ascii "root
-    packet
-Packet
-{ // trailing space 
-m")).
-Eval vm_compute in ("<<<M2413>>>" ++ check (runes_of_ascii "options{ falsey falsey // a // b
-=
-    '0' } options { repeatCount =
-true ; string_// a // b
-=
+Eval vm_compute in ("<<<M1901>>>" ++ check (@nil rune)).
+Eval vm_compute in ("<<<M1933>>>" ++ check (runes_of_ascii "MetaData u128{	i8
 // c
-// " ++ [27880; 37322]%N ++ runes_of_ascii "
-int64
-// trailing space 
-/// triple
-; } // @lengthOf(")).
-Eval vm_compute in ("<<<M2445>>>" ++ check (runes_of_ascii "options{ falsey // a // b
-=
-    '0' } options { '0' =
-true ; string_// a // b
-=
-// c
-// " ++ [27880; 37322]%N ++ runes_of_ascii "
-int64
-// trailing space 
-/// triple
-; } // @lengthOf(")).
-Eval vm_compute in ("<<<M2477>>>" ++ check (runes_of_ascii "options{ falsey // a // b
-=
-    '0' } options { repeatCount =
-true ; string_// a // b
-=
-// c
-// " ++ [27880; 37322]%N ++ runes_of_ascii "
-int64
-// trailing space 
-/// triple
- } // @lengthOf(")).
-Eval vm_compute in ("<<<M2509>>>" ++ check (runes_of_ascii "options options{}root packet
-metadata {
-@lengthOf(x ) float32
-body ``, }
-    MetaData
-Z9_
-    {
-    string string_ , Logon x
-,
-uint32
-    // packet A { u8 x, }
-    Z9_,asx
-_x
-    `tab	here` , }
-")).
-Eval vm_compute in ("<<<M2541>>>" ++ check (runes_of_ascii "options{}root packet
-metadata char
-@lengthOf(x ) float32
-body ``, }
-    MetaData
-Z9_
-    {
-    string string_ , Logon x
-,
-uint32
-    // packet A { u8 x, }
-    Z9_,asx
-_x
-    `tab	here` , }
-")).
-Eval vm_compute in ("<<<M2573>>>" ++ check (runes_of_ascii "options{}root packet
-metadata {
-@lengthOf(x ) float32
-body `` }
-    MetaData
-Z9_
-    {
-    string string_ , Logon x
-,
-uint32
-    // packet A { u8 x, }
-    Z9_,asx
-_x
-    `tab	here` , }
-")).
-Eval vm_compute in ("<<<M2605>>>" ++ check (runes_of_ascii "options{}root packet
-metadata {
-@lengthOf(x ) float32
-body ``, }
-    MetaData
-Z9_
-    {
-    string , string_ Logon x
-,
-uint32
-    // packet A { u8 x, }
-    Z9_,asx
-_x
-    `tab	here` , }
-")).
-Eval vm_compute in ("<<<M2637>>>" ++ check (runes_of_ascii "options{}root packet
-metadata {
-@lengthOf(x ) float32
-body ``, }
-    MetaData
-Z9_
-    {
-    string string_ , Logon x
-,
-uint32")).
-Eval vm_compute in ("<<<M2669>>>" ++ check (runes_of_ascii "optio")).
-Eval vm_compute in ("<<<M2701>>>" ++ check (runes_of_ascii "options {
-    =falsey
-""a\\"" ; }")).
-Eval vm_compute in ("<<<M2733>>>" ++ check (runes_of_ascii "options {
-    falsey=
-""a\\"" ;` }")).
-Eval vm_compute in ("<<<M2765>>>" ++ check (runes_of_ascii "MetaData f32a
+// " ++ [128512]%N ++ runes_of_ascii " emoji
+roots
+`doc` , } MetaData string_{ } root
+packet // trailing space 
+a1
+    { }	root
+    packet  u128 { @lengthOf(
+    u8x )repeat char[
+10 ]  _x `a\`
+, } packet	Pad {} // " ++ [27880; 37322]%N)).
+Eval vm_compute in ("<<<M1965>>>" ++ check (runes_of_ascii "
+packet tag{ // " ++ [27880; 37322]%N ++ runes_of_ascii "
+} root
+    packet x { }  packet zchar { @tag(255
+    )options1 // a // b
+Packet, char[]
+roots `it's` , @leftPad //x
+( '\x00'
+) char stringy @calculatedFrom(""\n""
+), }")).
+Eval vm_compute in ("<<<M1997>>>" ++ check (runes_of_ascii "packet tag /// triple
 {
-    //	t
-    }
-    packet tag  {
+@rightPad( '\x00' ) char[] options1 @calculatedFrom(
+    // trailing space 
+    ""packet"" )
+    ,char[ 1  ]
+u128
+    , u16 string_ `line1
+line2` , uint64
+    //x
+    packetx
+@calculatedFrom( ""\n"" )
+//	t
+// packet A { u8 x, }
+,
+// c
+// a // b
 }
-")).
-Eval vm_compute in ("<<<M2797>>>" ++ check (runes_of_ascii "M<etaData f32a
-{
-    //	t
-    }root
-    packet tag  {
-}
-")).
-Eval vm_compute in ("<<<M2829>>>" ++ check (runes_of_ascii "
-options
-    {msg_type u8
-    float32  }root
-packet Z9_{ char /// triple
-crc @lengthOf(
-options1 ) //
-,} MetaData a1{}
-")).
-Eval vm_compute in ("<<<M2861>>>" ++ check (runes_of_ascii "
-options
-    {msg_type =
-    float32  }root
-packet Z9_{  /// triple
-crc @lengthOf(
-options1 ) //
-,} MetaData a1{}
-")).
-Eval vm_compute in ("<<<M2893>>>" ++ check (runes_of_ascii "
-options
-    {msg_type =
-    float32  }root
-packet Z9_{ char /// triple
-crc @lengthOf(
-options1 ) //
-,MetaData } a1{}
-")).
-Eval vm_compute in ("<<<M2925>>>" ++ check (runes_of_ascii "
-options
-    {msg_type =
-    float32  }root$
-packet Z9_{ char /// triple
-crc @lengthOf(
-options1 ) //
-,} MetaData a1{}
-")).
-Eval vm_compute in ("<<<M2957>>>" ++ check (runes_of_ascii "packet crc{ // " ++ [128512]%N ++ runes_of_ascii " emoji
-repeat  i8i8
-`a\`, }
-")).
-Eval vm_compute in ("<<<M2989>>>" ++ check (runes_of_ascii "packe%t crc{ // " ++ [128512]%N ++ runes_of_ascii " emoji
-repeat string i8i8
-`a\`, }
-")).
-Eval vm_compute in ("<<<M3021>>>" ++ check (runes_of_ascii "packet BodyLength {f64 MetaData zchar{ zchar[// @lengthOf(
-42 ]
-    pack , string_
-A , char[]crc , _x trueish ,
-// " ++ [27880; 37322]%N ++ runes_of_ascii "
-// " ++ [128512]%N ++ runes_of_ascii " emoji
-zchar[
-    3 ]	T // trailing space 
-, } packet body
+packet charz// packet A { u8 x, }
 {
     }
+MetaData // a // b
+A	{ charz string_`say ""hi""`
+, chars
+int ,}
 ")).
-Eval vm_compute in ("<<<M3053>>>" ++ check (runes_of_ascii "packet BodyLength {} MetaData zchar{ zchar[// @lengthOf(
-42 ]
-     , string_
-A , char[]crc , _x trueish ,
-// " ++ [27880; 37322]%N ++ runes_of_ascii "
-// " ++ [128512]%N ++ runes_of_ascii " emoji
-zchar[
-    3 ]	T // trailing space 
-, } packet body
-{
-    }
+Eval vm_compute in ("<<<M2029>>>" ++ check (runes_of_ascii "MetaData repeatCount { float64 ,
+} root packet  metadata {
+char _x @lengthOf( trueish ), @leftPad
+( ' '// " ++ [27880; 37322]%N ++ runes_of_ascii "
+)/// triple
+char[] len`doc` , // packet A { u8 x, }
+repeatCount , }
 ")).
-Eval vm_compute in ("<<<M3085>>>" ++ check (runes_of_ascii "packet BodyLength {} MetaData zchar{ zchar[// @lengthOf(
-42 ]
-    pack , string_
-A , char[], crc _x trueish ,
-// " ++ [27880; 37322]%N ++ runes_of_ascii "
-// " ++ [128512]%N ++ runes_of_ascii " emoji
-zchar[
-    3 ]	T // trailing space 
-, } packet body
-{
-    }
+Eval vm_compute in ("<<<M2061>>>" ++ check (runes_of_ascii "MetaData repeatCount { float64 packetx,
+} root packet  metadata char
+{ _x @lengthOf( trueish ), @leftPad
+( ' '// " ++ [27880; 37322]%N ++ runes_of_ascii "
+)/// triple
+char[] len`doc` , // packet A { u8 x, }
+repeatCount , }
 ")).
-Eval vm_compute in ("<<<M3117>>>" ++ check (runes_of_ascii "packet BodyLength {} MetaData zchar{ zchar[// @lengthOf(
-42 ]
-    pack , string_
-A , char[]crc , _x trueish ,
-// " ++ [27880; 37322]%N ++ runes_of_ascii "
-// " ++ [128512]%N ++ runes_of_ascii " emoji
-zchar[")).
-Eval vm_compute in ("<<<M3149>>>" ++ check (runes_of_ascii "packet BodyLength {} MetaData zchar{ zchar[// @lengthOf(
-42 ]
-    pack , string_
-A , char[]crc , _x trueish ,
-// " ++ [27880; 37322]%N ++ runes_of_ascii "
-// " ++ [128512]%N ++ runes_of_ascii " emoji
-zchar[
-    3 ]	T // trailing space 
-, } packet body
-{ {
-    }
+Eval vm_compute in ("<<<M2093>>>" ++ check (runes_of_ascii "MetaData repeatCount { float64 packetx,
+} root packet  metadata {
+char _x @lengthOf( trueish )")).
+Eval vm_compute in ("<<<M2125>>>" ++ check (runes_of_ascii "MetaData repeatCount { float64 packetx,
+} root packet  metadata {
+char _x @lengthOf( trueish ), @leftPad
+( ' '// " ++ [27880; 37322]%N ++ runes_of_ascii "
+)/// triple
+char[] len`doc` `doc` , // packet A { u8 x, }
+repeatCount , }
 ")).
-Eval vm_compute in ("<<<M3181>>>" ++ check (runes_of_ascii "string_
-packet {@lengthOf( int ) match packetx as f32a {
-    1 :	calculatedFrom , }  ,
-    } packet len
-    //	t
-    { @calculatedFrom( """ ++ [233]%N ++ runes_of_ascii "t" ++ [233]%N ++ runes_of_ascii """ ) body Header , char[] lengthOf  `two words` ,chars{repeat string_ matchKey ,
-    } ,
-    }
+Eval vm_compute in ("<<<M2157>>>" ++ check (runes_of_ascii "MetaData repeatCount { float64 packetx,
+} root /packet  metadata {
+char _x @lengthOf( trueish ), @leftPad
+( ' '// " ++ [27880; 37322]%N ++ runes_of_ascii "
+)/// triple
+char[] len`doc` , // packet A { u8 x, }
+repeatCount , }
 ")).
-Eval vm_compute in ("<<<M3213>>>" ++ check (runes_of_ascii "packet
-string_ {@lengthOf( int )")).
-Eval vm_compute in ("<<<M3245>>>" ++ check (runes_of_ascii "packet
-string_ {@lengthOf( int ) match packetx as f32a {
-    1 :	calculatedFrom calculatedFrom , }  ,
-    } packet len
-    //	t
-    { @calculatedFrom( """ ++ [233]%N ++ runes_of_ascii "t" ++ [233]%N ++ runes_of_ascii """ ) body Header , char[] lengthOf  `two words` ,chars{repeat string_ matchKey ,
-    } ,
-    }
+Eval vm_compute in ("<<<M2189>>>" ++ check (runes_of_ascii "options{
+leftPad")).
+Eval vm_compute in ("<<<M2221>>>" ++ check (runes_of_ascii "options{
+leftPad
+    =65535
+;
+a1 = true ; packetx packetx=  '\x00' ; packetx
+=  """ ++ [28040; 24687]%N ++ runes_of_ascii """MetaDataX= // " ++ [27880; 37322]%N ++ runes_of_ascii "
+false }root // c
+packet // packet A { u8 x, }
+Pad { repeat
+u8 Header
+// packet A { u8 x, }
+//	t
+`{ , }`
+// a // b
+//x
+, }
 ")).
-Eval vm_compute in ("<<<M3277>>>" ++ check (runes_of_ascii "packet
-string_ {@lengthOf( int ) match packetx as f32a {
-    1 :	calculatedFrom , }  ,
-    } packet @lengthOf(
-    //	t
-    { @calculatedFrom( """ ++ [233]%N ++ runes_of_ascii "t" ++ [233]%N ++ runes_of_ascii """ ) body Header , char[] lengthOf  `two words` ,chars{repeat string_ matchKey ,
-    } ,
-    }
+Eval vm_compute in ("<<<M2253>>>" ++ check (runes_of_ascii "options{
+leftPad
+    =65535
+;
+a1 = true ; packetx=  '\x00' ; packetx
+=  options MetaDataX= // " ++ [27880; 37322]%N ++ runes_of_ascii "
+false }root // c
+packet // packet A { u8 x, }
+Pad { repeat
+u8 Header
+// packet A { u8 x, }
+//	t
+`{ , }`
+// a // b
+//x
+, }
 ")).
-Eval vm_compute in ("<<<M3309>>>" ++ check (runes_of_ascii "packet
-string_ {@lengthOf( int ) match packetx as f32a {
-    1 :	calculatedFrom , }  ,
-    } packet len
-    //	t
-    { @calculatedFrom( """ ++ [233]%N ++ runes_of_ascii "t" ++ [233]%N ++ runes_of_ascii """ ) body Header  char[] lengthOf  `two words` ,chars{repeat string_ matchKey ,
-    } ,
-    }
+Eval vm_compute in ("<<<M2285>>>" ++ check (runes_of_ascii "options{
+leftPad
+    =65535
+;
+a1 = true ; packetx=  '\x00' ; packetx
+=  """ ++ [28040; 24687]%N ++ runes_of_ascii """MetaDataX= // " ++ [27880; 37322]%N ++ runes_of_ascii "
+false }root // c
+packet // packet A { u8 x, }
+ { repeat
+u8 Header
+// packet A { u8 x, }
+//	t
+`{ , }`
+// a // b
+//x
+, }
 ")).
-Eval vm_compute in ("<<<M3341>>>" ++ check (runes_of_ascii "packet
-string_ {@lengthOf( int ) match packetx as f32a {
-    1 :	calculatedFrom , }  ,
-    } packet len
-    //	t
-    { @calculatedFrom( """ ++ [233]%N ++ runes_of_ascii "t" ++ [233]%N ++ runes_of_ascii """ ) body Header , char[] lengthOf  `two words` ,chars repeat{ string_ matchKey ,
-    } ,
-    }
+Eval vm_compute in ("<<<M2317>>>" ++ check (runes_of_ascii "options{
+leftPad
+    =65535
+;
+a1 = true ; packetx=  '\x00' ; packetx
+=  """ ++ [28040; 24687]%N ++ runes_of_ascii """MetaDataX= // " ++ [27880; 37322]%N ++ runes_of_ascii "
+false }root // c
+packet // packet A { u8 x, }
+Pad { repeat
+u8 Header
+// packet A { u8 x, }
+//	t
+`{ , }`
+// a // b
+//x
+} ,
 ")).
-Eval vm_compute in ("<<<M3373>>>" ++ check (runes_of_ascii "packet
-string_ {@lengthOf( int ) match packetx as f32a {
-    1 :	calculatedFrom , }  ,
-    } packet len
-    //	t
-    { @calculatedFrom( """ ++ [233]%N ++ runes_of_ascii "t" ++ [233]%N ++ runes_of_ascii """ ) body Header , char[] lengthOf  `two words` ,chars{repeat string_ matchKey ,
+Eval vm_compute in ("<<<M2349>>>" ++ check (runes_of_ascii "
+`// not a comment` float
+{	@calculatedFrom( """ ++ [233]%N ++ runes_of_ascii "t" ++ [233]%N ++ runes_of_ascii """ )
+@rightPad ( '\x00' )
+    @calculatedFrom( ""x y"" ) string chars  ,
+    // a // b
+    char[0 ]
+    u	@lengthOf( i8i8 ) `{ , }` ,repeat char[] o //x
+`// not a comment`, } // c")).
+Eval vm_compute in ("<<<M2381>>>" ++ check (runes_of_ascii "
+packet float
+{	@calculatedFrom( """ ++ [233]%N ++ runes_of_ascii "t" ++ [233]%N ++ runes_of_ascii """ )
+@rightPad  '\x00' )
+    @calculatedFrom( ""x y"" ) string chars  ,
+    // a // b
+    char[0 ]
+    u	@lengthOf( i8i8 ) `{ , }` ,repeat char[] o //x
+`// not a comment`, } // c")).
+Eval vm_compute in ("<<<M2413>>>" ++ check (runes_of_ascii "
+packet float
+{	@calculatedFrom( """ ++ [233]%N ++ runes_of_ascii "t" ++ [233]%N ++ runes_of_ascii """ )
+@rightPad ( '\x00' )
+    @calculatedFrom( ""x y"" ) chars string  ,
+    // a // b
+    char[0 ]
+    u	@lengthOf( i8i8 ) `{ , }` ,repeat char[] o //x
+`// not a comment`, } // c")).
+Eval vm_compute in ("<<<M2445>>>" ++ check (runes_of_ascii "
+packet float
+{	@calculatedFrom( """ ++ [233]%N ++ runes_of_ascii "t" ++ [233]%N ++ runes_of_ascii """ )
+@rightPad ( '\x00' )
+    @calculatedFrom( ""x y"" ) string chars  ,
+    // a // b
+    char[0 ]")).
+Eval vm_compute in ("<<<M2477>>>" ++ check (runes_of_ascii "
+packet float
+{	@calculatedFrom( """ ++ [233]%N ++ runes_of_ascii "t" ++ [233]%N ++ runes_of_ascii """ )
+@rightPad ( '\x00' )
+    @calculatedFrom( ""x y"" ) string chars  ,
+    // a // b
+    char[0 ]
+    u	@lengthOf( i8i8 ) `{ , }` ,repeat char[] char[] o //x
+`// not a comment`, } // c")).
+Eval vm_compute in ("<<<M2509>>>" ++ check (runes_of_ascii "
+packet float
+{	@calculatedFrom( """ ++ [233]%N ++ runes_of_ascii "t" ++ [233]%N ++ runes_of_ascii """ )
+@rightPad ( '\x00' )
+    @calculatedFrom( ""x y"" ) string chars  `,
+    // a // b
+    char[0 ]
+    u	@lengthOf( i8i8 ) `{ , }` ,repeat char[] o //x
+`// not a comment`, } // c")).
+Eval vm_compute in ("<<<M2541>>>" ++ check (runes_of_ascii "root packet u128")).
+Eval vm_compute in ("<<<M2573>>>" ++ check (runes_of_ascii "root packet u128{
+    repeat
+    zchar[ 65535 ] u `" ++ [28040; 24687; 31867; 22411]%N ++ runes_of_ascii "` , ,// `tick` ""quote"" 'q'
+} packet i64_ {repeatCount
+    `
+` ,	} // " ++ [128512]%N ++ runes_of_ascii " emoji")).
+Eval vm_compute in ("<<<M2605>>>" ++ check (runes_of_ascii "root packet u128{
+    repeat
+    zchar[ 65535 ] u `" ++ [28040; 24687; 31867; 22411]%N ++ runes_of_ascii "` ,// `tick` ""quote"" 'q'
+} packet i64_ {repeatCount
+    zchar[ ,	} // " ++ [128512]%N ++ runes_of_ascii " emoji")).
+Eval vm_compute in ("<<<M2637>>>" ++ check (runes_of_ascii "root packet na" ++ [239]%N ++ runes_of_ascii "ve{
+    repeat
+    zchar[ 65535 ] u `" ++ [28040; 24687; 31867; 22411]%N ++ runes_of_ascii "` ,// `tick` ""quote"" 'q'
+} packet i64_ {repeatCount
+    `
+` ,	} // " ++ [128512]%N ++ runes_of_ascii " emoji")).
+Eval vm_compute in ("<<<M2669>>>" ++ check (runes_of_ascii "
+MetaData
+roots { int8
+    BodyLength ,//	t
+} }
+")).
+Eval vm_compute in ("<<<M2701>>>" ++ check (runes_of_ascii "options Packet{ = ""CRC32""i8i8 = false; leftPad =
+    '\x00'
+    // `tick` ""quote"" 'q'
+    ; o=255  ;
+    // packet A { u8 x, }
     }")).
-Eval vm_compute in ("<<<M3405>>>" ++ check (runes_of_ascii "/// triple
-root
-packet // packet A { u8 x, }
-chars { @lengthOf(charz )
-true,  @tag(  0 ) // a // b
-asx
-    As
-,
-// trailing space 
-// trailing space 
-x_y_z {
-repeat i16 charz , } ,	int16  crc ,}
+Eval vm_compute in ("<<<M2733>>>" ++ check (runes_of_ascii "options {Packet = ""CRC32""i8i8 =")).
+Eval vm_compute in ("<<<M2765>>>" ++ check (runes_of_ascii "options {Packet = ""CRC32""i8i8 = false; leftPad =
+    '\x00'
+    // `tick` ""quote"" 'q'
+    ; o= =255  ;
+    // packet A { u8 x, }
+    }")).
+Eval vm_compute in ("<<<M2797>>>" ++ check (runes_of_ascii "options {Packet = ""C%RC32""i8i8 = false; leftPad =
+    '\x00'
+    // `tick` ""quote"" 'q'
+    ; o=255  ;
+    // packet A { u8 x, }
+    }")).
+Eval vm_compute in ("<<<T2797>>>" ++ terms [mkTok 1 "options" 1 0 false; mkTok 2 "{" 1 8 false; mkTok 42 "Packet" 1 9 false; mkTok 4 "=" 1 16 false; mkTok 31 """C%RC32""" 1 18 false; mkTok 42 "i8i8" 1 26 false; mkTok 4 "=" 1 31 false; mkTok 11 "false" 1 33 false; mkTok 41 ";" 1 38 false; mkTok 42 "leftPad" 1 40 false; mkTok 4 "=" 1 48 false; mkTok 33 "'\x00'" 2 4 false; mkTok 44 "// `tick` ""quote"" 'q'" 3 4 true; mkTok 41 ";" 4 4 false; mkTok 42 "o" 4 6 false; mkTok 4 "=" 4 7 false; mkTok 30 "255" 4 8 false; mkTok 41 ";" 4 13 false; mkTok 44 "// packet A { u8 x, }" 5 4 true; mkTok 3 "}" 6 4 false; mkTok 0 "<EOF>" 6 5 false] (mkPacket (mkPtok 1 "options" 1 0 0) (Some (mkPtok 3 "}" 6 4 19)) [(DOption (mkOptionDef (mkSpan (mkPtok 1 "options" 1 0 0) (mkPtok 3 "}" 6 4 19)) (mkPtok 1 "options" 1 0 0) (mkPtok 2 "{" 1 8 1) [(mkOptionDecl (mkSpan (mkPtok 42 "Packet" 1 9 2) (mkPtok 31 """C%RC32""" 1 18 4)) (mkPtok 42 "Packet" 1 9 2) (mkPtok 4 "=" 1 16 3) (VString (mkSpan (mkPtok 31 """C%RC32""" 1 18 4) (mkPtok 31 """C%RC32""" 1 18 4)) (mkPtok 31 """C%RC32""" 1 18 4)) None); (mkOptionDecl (mkSpan (mkPtok 42 "i8i8" 1 26 5) (mkPtok 41 ";" 1 38 8)) (mkPtok 42 "i8i8" 1 26 5) (mkPtok 4 "=" 1 31 6) (VFalse (mkSpan (mkPtok 11 "false" 1 33 7) (mkPtok 11 "false" 1 33 7)) (mkPtok 11 "false" 1 33 7)) (Some (mkPtok 41 ";" 1 38 8))); (mkOptionDecl (mkSpan (mkPtok 42 "leftPad" 1 40 9) (mkPtok 41 ";" 4 4 13)) (mkPtok 42 "leftPad" 1 40 9) (mkPtok 4 "=" 1 48 10) (VPaddingChar (mkSpan (mkPtok 33 "'\x00'" 2 4 11) (mkPtok 33 "'\x00'" 2 4 11)) (mkPtok 33 "'\x00'" 2 4 11)) (Some (mkPtok 41 ";" 4 4 13))); (mkOptionDecl (mkSpan (mkPtok 42 "o" 4 6 14) (mkPtok 41 ";" 4 13 17)) (mkPtok 42 "o" 4 6 14) (mkPtok 4 "=" 4 7 15) (VDigits (mkSpan (mkPtok 30 "255" 4 8 16) (mkPtok 30 "255" 4 8 16)) (mkPtok 30 "255" 4 8 16)) (Some (mkPtok 41 ";" 4 13 17)))] (mkPtok 3 "}" 6 4 19)))])).
+Eval vm_compute in ("<<<M2829>>>" ++ check (runes_of_ascii "
+packet metadata { @rightPad")).
+Eval vm_compute in ("<<<M2861>>>" ++ check (runes_of_ascii "
+packet metadata { @rightPad (
+    // packet A { u8 x, }
+    ' ' ) repeat u32	A
+,matchKey matchKey ,
+    @lengthOf( string_ ) @lengthOf( body )
+    // a // b
+    @lengthOf(float  )	repeat
+int32 u8x
+    // c
+    `tab	here`
+, } // a // b")).
+Eval vm_compute in ("<<<M2893>>>" ++ check (runes_of_ascii "
+packet metadata { @rightPad (
+    // packet A { u8 x, }
+    ' ' ) repeat u32	A
+,matchKey ,
+    @lengthOf( string_ ) @lengthOf( @lengthOf( )
+    // a // b
+    @lengthOf(float  )	repeat
+int32 u8x
+    // c
+    `tab	here`
+, } // a // b")).
+Eval vm_compute in ("<<<M2925>>>" ++ check (runes_of_ascii "
+packet metadata { @rightPad (
+    // packet A { u8 x, }
+    ' ' ) repeat u32	A
+,matchKey ,
+    @lengthOf( string_ ) @lengthOf( body )
+    // a // b
+    @lengthOf(float  )	repeat
+int32 
+    // c
+    `tab	here`
+, } // a // b")).
+Eval vm_compute in ("<<<M2957>>>" ++ check (runes_of_ascii "
+packet metadata { @rightPad ?(
+    // packet A { u8 x, }
+    ' ' ) repeat u32	A
+,matchKey ,
+    @lengthOf( string_ ) @lengthOf( body )
+    // a // b
+    @lengthOf(float  )	repeat
+int32 u8x
+    // c
+    `tab	here`
+, } // a // b")).
+Eval vm_compute in ("<<<M2989>>>" ++ check (runes_of_ascii "packet x{
+string
+] , //	t
+}
 ")).
-Eval vm_compute in ("<<<M3437>>>" ++ check (runes_of_ascii "/// triple
-root
-packet // packet A { u8 x, }
-chars { @lengthOf(charz )
-stringy@tag(  ,  0 ) // a // b
-asx
-    As
-,
-// trailing space 
-// trailing space 
-x_y_z {
-repeat i16 charz , } ,	int16  crc ,}
+Eval vm_compute in ("<<<M3021>>>" ++ check (runes_of_ascii "packet x{
+string
+caf" ++ [233]%N ++ runes_of_ascii "_1 , //	t
+}
 ")).
-Eval vm_compute in ("<<<M3469>>>" ++ check (runes_of_ascii "/// triple
-root
-packet // packet A { u8 x, }
-chars { @lengthOf(charz )
-stringy,")).
+Eval vm_compute in ("<<<M3053>>>" ++ check (runes_of_ascii "
+MetaData Logon
+{ // c
+}root packet
+    Pad Pad {
+    } options
+{
+u
+    =
+    ""CRC32""
+    // " ++ [128512]%N ++ runes_of_ascii " emoji
+    i64_ = u16;
+T =65535 x = ' '
+    ; u128
+= true ; }")).
+Eval vm_compute in ("<<<M3085>>>" ++ check (runes_of_ascii "
+MetaData Logon
+{ // c
+}root packet
+    Pad {
+    } options
+{
+u
+    MetaData
+    ""CRC32""
+    // " ++ [128512]%N ++ runes_of_ascii " emoji
+    i64_ = u16;
+T =65535 x = ' '
+    ; u128
+= true ; }")).
+Eval vm_compute in ("<<<M3117>>>" ++ check (runes_of_ascii "
+MetaData Logon
+{ // c
+}root packet
+    Pad {
+    } options
+{
+u
+    =
+    ""CRC32""
+    // " ++ [128512]%N ++ runes_of_ascii " emoji
+    i64_ = u16;
+T 65535 x = ' '
+    ; u128
+= true ; }")).
+Eval vm_compute in ("<<<M3149>>>" ++ check (runes_of_ascii "
+MetaData Logon
+{ // c
+}root packet
+    Pad {
+    } options
+{
+u
+    =
+    ""CRC32""
+    // " ++ [128512]%N ++ runes_of_ascii " emoji
+    i64_ = u16;
+T =65535 x = ' '
+    ; =
+u128 true ; }")).
+Eval vm_compute in ("<<<M3181>>>" ++ check (runes_of_ascii "
+MetaData Logon
+{ // c
+}root packet
+    Pad {
+    } options
+{
+u
+    =
+    ""CRC32""
+    /@/ " ++ [128512]%N ++ runes_of_ascii " emoji
+    i64_ = u16;
+T =65535 x = ' '
+    ; u128
+= true ; }")).
+Eval vm_compute in ("<<<M3213>>>" ++ check (runes_of_ascii "MetaData body{}
+	Packet { x_y_z @calculatedFrom(  ""a\\"")// `tick` ""quote"" 'q'
+, }
+")).
+Eval vm_compute in ("<<<M3245>>>" ++ check (runes_of_ascii "MetaData body{}
+packet	Packet { x_y_z @calculatedFrom(  ""a\\"",// `tick` ""quote"" 'q'
+) }
+")).
+Eval vm_compute in ("<<<M3277>>>" ++ check (runes_of_ascii "MetaData " ++ [21517; 23383]%N ++ runes_of_ascii "{}
+packet	Packet { x_y_z @calculatedFrom(  ""a\\"")// `tick` ""quote"" 'q'
+, }
+")).
+Eval vm_compute in ("<<<M3309>>>" ++ check (runes_of_ascii "packet f32a {} root packet  {repeat u // " ++ [128512]%N ++ runes_of_ascii " emoji
+`{ , }` , }
+")).
+Eval vm_compute in ("<<<M3341>>>" ++ check (runes_of_ascii "packet f32a {} root packet len {repeat u // " ++ [128512]%N ++ runes_of_ascii " emoji
+`{ , }` , char
+")).
+Eval vm_compute in ("<<<M3373>>>" ++ check (runes_of_ascii "options{ _x=""\" ++ [233]%N ++ runes_of_ascii """
+    Logon = 10	; Foo= 7;
+i64_= char[]} options {
+matchKey = ""// no comment"" // a // b
+falsey = string
+; trueish =
+    4294967296
+options1=
+    ""it's"" string_	= true } options {
+    /// triple
+    }")).
+Eval vm_compute in ("<<<M3405>>>" ++ check (runes_of_ascii "options{ _x=""\" ++ [233]%N ++ runes_of_ascii """;
+    Logon = 10	; Foo= 7;
+i64_= char[]} options {
+matchKey = ""// no comment"" // a // b
+falsey = string
+; trueish =
+    4294967296
+options1
+    ""it's"" string_	= true } options {
+    /// triple
+    }")).
+Eval vm_compute in ("<<<M3437>>>" ++ check (runes_of_ascii "options{ _x=""\" ++ [233]%N ++ runes_of_ascii """;
+    Logon = 10	; Foo= 7;
+i64_= char[]} options {
+matchKey = ""// no comment"" // a // b
+falsey = string
+; trueish =
+    4294967296
+options1=
+    ""it's"" string_	= true } } options {
+    /// triple
+    }")).
+Eval vm_compute in ("<<<M3469>>>" ++ check (runes_of_ascii "options{ _x=""\" ++ [233]%N ++ runes_of_ascii """;
+    Logon = 10	; Foo= 7;
+i64_= char[]} int16 {
+matchKey = ""// no comment"" // a // b
+falsey = string
+; trueish =
+    4294967296
+options1=
+    ""it's"" string_	= true } options {
+    /// triple
+    }")).
 Eval vm_compute in ("<<<M3501>>>" ++ check (runes_of_ascii "u8x")).
 Eval vm_compute in ("<<<M3533>>>" ++ check (runes_of_ascii "match")).
 Eval vm_compute in ("<<<M3565>>>" ++ check (runes_of_ascii "/ /")).
@@ -2020,10 +1704,10 @@ Eval vm_compute in ("<<<M3661>>>" ++ check (runes_of_ascii "packet A { x @leftPa
 Eval vm_compute in ("<<<M3693>>>" ++ check (runes_of_ascii "packet A { @rightPad(' ') @lengthOf(b) @calculatedFrom(""c"") @tag(007) match k as n { 1 : B }, }")).
 Eval vm_compute in ("<<<M3725>>>" ++ check (runes_of_ascii "options { a = 1 }")).
 Eval vm_compute in ("<<<M3757>>>" ++ check (runes_of_ascii "//")).
-Eval vm_compute in ("<<<M3789>>>" ++ check (runes_of_ascii ">;[F3O[>-bU2x/'7qe+ed9_ks5gtvz]0HxB5m05")).
-Eval vm_compute in ("<<<M3821>>>" ++ check (runes_of_ascii "Lo_ykz+9Xu;""4|qSO]{1*j;}C!@L<UI|")).
-Eval vm_compute in ("<<<M3853>>>" ++ check (runes_of_ascii """^mnk%>I")).
-Eval vm_compute in ("<<<M3885>>>" ++ check (runes_of_ascii ")$Z0zf1J-HkGp0jL+Y]p.:$m)3^YLJ8c&")).
-Eval vm_compute in ("<<<M3917>>>" ++ check (runes_of_ascii "0pn%8M-rBvt|5 \C[hT@!;4*$%")).
-Eval vm_compute in ("<<<M3949>>>" ++ check (runes_of_ascii "I6.v$")).
-Eval vm_compute in ("<<<M3981>>>" ++ check (runes_of_ascii "1#c%.")).
+Eval vm_compute in ("<<<M3789>>>" ++ check (runes_of_ascii "~q]X'0(=FBx%aI1lJv[{'xjMf_i@?f@")).
+Eval vm_compute in ("<<<M3821>>>" ++ check (runes_of_ascii "s02+iUY_M""km`K+);`h{x")).
+Eval vm_compute in ("<<<M3853>>>" ++ check (runes_of_ascii "t6\:8Tg{6ty")).
+Eval vm_compute in ("<<<M3885>>>" ++ check (runes_of_ascii "Gs\s Qe^EB#3""gO5)%hO#""3x")).
+Eval vm_compute in ("<<<M3917>>>" ++ check (runes_of_ascii "4j@j5,Ns;71&l_4PNC.zvaw(PJW?CR+EN*HnnA")).
+Eval vm_compute in ("<<<M3949>>>" ++ check (runes_of_ascii "6""bw""vvN>c2,/jZ|[lY]V0##BQyj  q9_uV.6")).
+Eval vm_compute in ("<<<M3981>>>" ++ check (runes_of_ascii "H|&mh]QYP[0X5Q^tisaspc)Q,[C")).
